@@ -136,78 +136,42 @@ mod verif_c01_step_map {
             let w_pr = hw_walk(&pool, probe);
             let f_post = pool.rd(fk, fs);
 
-            // ---- the documented outcome for this state (C02) and what the call reports (C01, C11)
-            match &res {
-                Ok(token) => {
-                    kani::assert(m.outcome == OK, ob!("C02", $sz, $shape, "documented_outcome: Ok only where the documentation dictates success"));
-                    kani::assert(token.page() == page, ob!("C11", $sz, $shape, "token_names_page"));
-                }
-                Err(MapToError::FrameAllocationFailed) => {
-                    kani::assert(m.outcome == ERR_ALLOC, ob!("C02", $sz, $shape, "documented_outcome: FrameAllocationFailed iff a needed frame was refused"));
-                }
-                Err(MapToError::ParentEntryHugePage) => {
-                    kani::assert(m.outcome == ERR_HUGE, ob!("C02", $sz, $shape, "documented_outcome: ParentEntryHugePage iff the page lies inside a larger huge page"));
-                }
-                Err(MapToError::PageAlreadyMapped(f)) => {
-                    kani::assert(m.outcome == ERR_ALREADY, ob!("C02", $sz, $shape, "documented_outcome: PageAlreadyMapped iff the leaf slot is occupied"));
-                    kani::assert(*f == frame, ob!("C01", $sz, $shape, "result_reports_frame: PageAlreadyMapped carries the frame argument"));
-                }
-            }
-
-            if res.is_ok() {
-                // ---- C01: the new mapping is exactly the dictated one
-                kani::assert(
-                    w_in.kind == MAPPED && w_in.size == <$S as Sz>::BYTES && w_in.phys == frame.start_address().as_u64() + (inside & (<$S as Sz>::BYTES - 1)),
-                    ob!("C01", $sz, $shape, "target_translates_to_frame: every address of the page walks to frame + offset at this page size"),
-                );
-                kani::assert(
-                    w_in.leaf == flags.bits() | <$S as Sz>::LEAF_EXTRA,
-                    ob!("C01", $sz, $shape, "target_leaf_flags: leaf flags == flags (plus PS for a huge page)"),
-                );
-                kani::assert(
-                    (pf.bits() & RW == 0 || w_in.pw) && (pf.bits() & US == 0 || w_in.pu),
-                    ob!("C01", $sz, $shape, "parent_rights_include_requested: writable/user requested for the parents hold along the walk"),
-                );
-                kani::assert(
-                    probe_in_page || (same_mapping(&w_pr_pre, &w_pr) && rights_only_added(&w_pr_pre, &w_pr, pf.bits())),
-                    ob!("C01", $sz, $shape, "other_addresses_unchanged: an address outside the page keeps frame, size, leaf flags; parent rights only gain requested bits"),
-                );
-            } else {
-                // ---- C02: a failed call changes no mapping and creates none
-                kani::assert(
-                    same_mapping(&w_in_pre, &w_in) && same_mapping(&w_pr_pre, &w_pr),
-                    ob!("C02", $sz, $shape, "error_leaves_every_mapping: frame, size and leaf flags of the target and of an arbitrary address as before"),
-                );
-                kani::assert(
-                    rights_only_added(&w_in_pre, &w_in, pf.bits()) && rights_only_added(&w_pr_pre, &w_pr, pf.bits()),
-                    ob!("C02", $sz, $shape, "error_adds_at_most_parent_flags: rights along every walk changed at most by the requested parent flags"),
-                );
+            // ---- every clause is evaluated first, then each is checked on its own path (each!)
+            let ok = res.is_ok();
+            let outcome_ok = match &res {
+                Ok(_) => m.outcome == OK,
+                Err(MapToError::FrameAllocationFailed) => m.outcome == ERR_ALLOC,
+                Err(MapToError::ParentEntryHugePage) => m.outcome == ERR_HUGE,
+                Err(MapToError::PageAlreadyMapped(_)) => m.outcome == ERR_ALREADY,
+            };
+            let token_ok = match &res {
+                Ok(token) => token.page() == page,
+                _ => true,
+            };
+            let payload_ok = match &res {
+                Err(MapToError::PageAlreadyMapped(f)) => *f == frame,
+                _ => true,
+            };
+            let bytes = <$S as Sz>::BYTES;
+            let c_target = !ok || (w_in.kind == MAPPED && w_in.size == bytes && w_in.phys == frame.start_address().as_u64() + (inside & (bytes - 1)));
+            let c_leaf = !ok || w_in.leaf == flags.bits() | <$S as Sz>::LEAF_EXTRA;
+            let c_rights = !ok || ((pf.bits() & RW == 0 || w_in.pw) && (pf.bits() & US == 0 || w_in.pu));
+            let c_other = !ok || probe_in_page || (same_mapping(&w_pr_pre, &w_pr) && rights_only_added(&w_pr_pre, &w_pr, pf.bits()));
+            let c_err_same = ok || (same_mapping(&w_in_pre, &w_in) && same_mapping(&w_pr_pre, &w_pr));
+            let c_err_rights = ok || (rights_only_added(&w_in_pre, &w_in, pf.bits()) && rights_only_added(&w_pr_pre, &w_pr, pf.bits()));
+            if !ok {
                 relax_for_error(&mut m.dict, &pre, sh, pf.bits());
-                if m.huge_k != NONE {
-                    let huge_post = pool.rd(m.huge_k, m.huge_s);
-                    kani::assert(
-                        huge_post == pre.e[sh.d],
-                        ob!("C02", $sz, $shape, "huge_leaf_unchanged_on_error: the leaf entry of the enclosing huge page is bit-identical after ParentEntryHugePage"),
-                    );
-                }
             }
-            kani::assert(w_in.kind != MALFORMED && w_pr.kind != MALFORMED, ob!("C09", $sz, $shape, "no_dangling_table_pointer: every present non-leaf entry still points to a page table"));
-
-            // ---- C01 read side in the post-state: translate agrees with the walker
+            let c_huge = ok || m.huge_k == NONE || pool.rd(m.huge_k, m.huge_s) == pre.e[sh.d];
+            let c_wf = w_in.kind != MALFORMED && w_pr.kind != MALFORMED;
+            // C01 read side in the post-state
             let tr = mapper.translate(VirtAddr::new(probe));
-            kani::assert(translate_agrees(&tr, &w_pr, probe), ob!("C01", $sz, $shape, "translate_agrees_after: translate(probe) == hardware walk in the post-state"));
-
-            // ---- C09: frame condition over all 7 x 512 words, allocator and zero() discipline
+            let c_tr = translate_agrees(&tr, &w_pr, probe);
+            // C09: frame condition over all 7 x 512 words, allocator and zero() discipline
             let on_huge_slot = m.huge_k != NONE && fk == m.huge_k && fs == m.huge_s;
-            kani::assert(
-                on_huge_slot || m.dict.agrees(fk, fs, f_pre, f_post),
-                ob!("C09", $sz, $shape, "only_dictated_slots_change: every word of every table is unchanged, zeroed (fresh table) or holds the dictated value"),
-            );
+            let c_frame = on_huge_slot || m.dict.agrees(fk, fs, f_pre, f_post);
             let missing = if sh.d < <$S as Sz>::L { <$S as Sz>::L - sh.d } else { 0 };
-            kani::assert(
-                alloc.calls == m.requests && alloc.calls <= missing,
-                ob!("C09", $sz, $shape, "allocator_requests: one request per missing table, none when the tables exist, never more than 3 / 2 / 1"),
-            );
+            let c_alloc = alloc.calls == m.requests && alloc.calls <= missing;
             let g = ghost();
             let z_ok = |n: usize| -> bool {
                 if n < m.created {
@@ -216,10 +180,27 @@ mod verif_c01_step_map {
                     g.zero_calls[4 + n] == 0
                 }
             };
-            kani::assert(
-                z_ok(0) && z_ok(1) && z_ok(2) && g.zero_calls[0] == 0 && g.zero_calls[1] == 0 && g.zero_calls[2] == 0 && g.zero_calls[3] == 0 && g.zero_elsewhere == 0,
-                ob!("C09", $sz, $shape, "new_tables_zeroed_before_use: zero() runs exactly once on each frame obtained, after the request and before the next one, and on nothing else"),
-            );
+            let c_zero = z_ok(0) && z_ok(1) && z_ok(2) && g.zero_calls[0] == 0 && g.zero_calls[1] == 0 && g.zero_calls[2] == 0 && g.zero_calls[3] == 0 && g.zero_elsewhere == 0;
+            let c_outside = g.outside == 0;
+            each! {
+                outcome_ok => ob!("C02", $sz, $shape, "documented_outcome: Ok / FrameAllocationFailed / ParentEntryHugePage / PageAlreadyMapped exactly in the state the documentation names"),
+                token_ok => ob!("C11", $sz, $shape, "token_names_page"),
+                token_ok => ob!("C01", $sz, $shape, "result_reports_page: a successful map reports the page it acted on"),
+                payload_ok => ob!("C01", $sz, $shape, "result_reports_frame: PageAlreadyMapped carries the frame argument"),
+                c_target => ob!("C01", $sz, $shape, "target_translates_to_frame: every address of the page walks to frame + offset at this page size"),
+                c_leaf => ob!("C01", $sz, $shape, "target_leaf_flags: leaf flags == flags (plus PS for a huge page)"),
+                c_rights => ob!("C01", $sz, $shape, "parent_rights_include_requested: writable/user requested for the parents hold along the walk"),
+                c_other => ob!("C01", $sz, $shape, "other_addresses_unchanged: an address outside the page keeps frame, size, leaf flags; parent rights only gain requested bits"),
+                c_err_same => ob!("C02", $sz, $shape, "error_leaves_every_mapping: frame, size and leaf flags of the target and of an arbitrary address as before"),
+                c_err_rights => ob!("C02", $sz, $shape, "error_adds_at_most_parent_flags: rights along every walk changed at most by the requested parent flags"),
+                c_huge => ob!("C02", $sz, $shape, "huge_leaf_unchanged_on_error: the leaf entry of the enclosing huge page is bit-identical after ParentEntryHugePage"),
+                c_wf => ob!("C09", $sz, $shape, "no_dangling_table_pointer: every present non-leaf entry still points to a page table"),
+                c_tr => ob!("C01", $sz, $shape, "translate_agrees_after: translate(probe) == hardware walk in the post-state"),
+                c_frame => ob!("C09", $sz, $shape, "only_dictated_slots_change: every word of every table is unchanged, zeroed (fresh table) or holds the dictated value"),
+                c_alloc => ob!("C09", $sz, $shape, "allocator_requests: one request per missing table, none when the tables exist, never more than 3 / 2 / 1"),
+                c_zero => ob!("C09", $sz, $shape, "new_tables_zeroed_before_use: zero() runs exactly once on each frame obtained, after the request and before the next one, and on nothing else"),
+                c_outside => ob!("C09", $sz, $shape, "no_access_outside_page_tables: no pointer was requested for a frame that is not a page table of the hierarchy"),
+            }
             kani::cover(m.outcome == OK, concat!("map_to_", $sz, " ", $shape, ": Ok"));
             kani::cover(m.outcome == ERR_ALLOC, concat!("map_to_", $sz, " ", $shape, ": FrameAllocationFailed"));
             kani::cover(m.outcome == ERR_HUGE, concat!("map_to_", $sz, " ", $shape, ": ParentEntryHugePage"));
@@ -227,19 +208,21 @@ mod verif_c01_step_map {
         }};
     }
 
-    //@ obligation C01 C01.map_to_4kib.shape_p4_absent.target_translates_to_frame tier=thorough bounded="pool of 7 tables (4 path + 3 allocatable); tree-shaped sparse pre-state (target path, one neighbour word per path table, garbage in allocatable frames); page-table indices (0,0,0,0)"
-    //@ obligation C01 C01.map_to_4kib.shape_p4_absent.target_leaf_flags tier=thorough bounded="pool of 7 tables (4 path + 3 allocatable); tree-shaped sparse pre-state (target path, one neighbour word per path table, garbage in allocatable frames); page-table indices (0,0,0,0)"
-    //@ obligation C01 C01.map_to_4kib.shape_p4_absent.parent_rights_include_requested tier=thorough bounded="pool of 7 tables (4 path + 3 allocatable); tree-shaped sparse pre-state (target path, one neighbour word per path table, garbage in allocatable frames); page-table indices (0,0,0,0)"
-    //@ obligation C01 C01.map_to_4kib.shape_p4_absent.other_addresses_unchanged tier=thorough bounded="pool of 7 tables (4 path + 3 allocatable); tree-shaped sparse pre-state (target path, one neighbour word per path table, garbage in allocatable frames); page-table indices (0,0,0,0)"
-    //@ obligation C11 C11.map_to_4kib.shape_p4_absent.token_names_page tier=thorough bounded="pool of 7 tables (4 path + 3 allocatable); tree-shaped sparse pre-state (target path, one neighbour word per path table, garbage in allocatable frames); page-table indices (0,0,0,0)"
-    //@ obligation C02 C02.map_to_4kib.shape_p4_absent.error_leaves_every_mapping tier=thorough bounded="pool of 7 tables (4 path + 3 allocatable); tree-shaped sparse pre-state (target path, one neighbour word per path table, garbage in allocatable frames); page-table indices (0,0,0,0)"
-    //@ obligation C02 C02.map_to_4kib.shape_p4_absent.error_adds_at_most_parent_flags tier=thorough bounded="pool of 7 tables (4 path + 3 allocatable); tree-shaped sparse pre-state (target path, one neighbour word per path table, garbage in allocatable frames); page-table indices (0,0,0,0)"
-    //@ obligation C02 C02.map_to_4kib.shape_p4_absent.documented_outcome tier=thorough bounded="pool of 7 tables (4 path + 3 allocatable); tree-shaped sparse pre-state (target path, one neighbour word per path table, garbage in allocatable frames); page-table indices (0,0,0,0)"
-    //@ obligation C01 C01.map_to_4kib.shape_p4_absent.translate_agrees_after tier=thorough bounded="pool of 7 tables (4 path + 3 allocatable); tree-shaped sparse pre-state (target path, one neighbour word per path table, garbage in allocatable frames); page-table indices (0,0,0,0)"
-    //@ obligation C09 C09.map_to_4kib.shape_p4_absent.only_dictated_slots_change tier=thorough bounded="pool of 7 tables (4 path + 3 allocatable); tree-shaped sparse pre-state (target path, one neighbour word per path table, garbage in allocatable frames); page-table indices (0,0,0,0)"
-    //@ obligation C09 C09.map_to_4kib.shape_p4_absent.allocator_requests tier=thorough bounded="pool of 7 tables (4 path + 3 allocatable); tree-shaped sparse pre-state (target path, one neighbour word per path table, garbage in allocatable frames); page-table indices (0,0,0,0)"
-    //@ obligation C09 C09.map_to_4kib.shape_p4_absent.new_tables_zeroed_before_use tier=thorough bounded="pool of 7 tables (4 path + 3 allocatable); tree-shaped sparse pre-state (target path, one neighbour word per path table, garbage in allocatable frames); page-table indices (0,0,0,0)"
-    //@ obligation C09 C09.map_to_4kib.shape_p4_absent.no_dangling_table_pointer tier=thorough bounded="pool of 7 tables (4 path + 3 allocatable); tree-shaped sparse pre-state (target path, one neighbour word per path table, garbage in allocatable frames); page-table indices (0,0,0,0)"
+    //@ obligation C01 C01.map_to_4kib.shape_p4_absent.target_translates_to_frame tier=thorough bounded="pool of 7 tables (4 path + 3 allocatable); tree-shaped sparse pre-state (target path, one neighbour word per path table, garbage in allocatable frames); page-table indices (0,1,511,2)"
+    //@ obligation C01 C01.map_to_4kib.shape_p4_absent.target_leaf_flags tier=thorough bounded="pool of 7 tables (4 path + 3 allocatable); tree-shaped sparse pre-state (target path, one neighbour word per path table, garbage in allocatable frames); page-table indices (0,1,511,2)"
+    //@ obligation C01 C01.map_to_4kib.shape_p4_absent.parent_rights_include_requested tier=thorough bounded="pool of 7 tables (4 path + 3 allocatable); tree-shaped sparse pre-state (target path, one neighbour word per path table, garbage in allocatable frames); page-table indices (0,1,511,2)"
+    //@ obligation C01 C01.map_to_4kib.shape_p4_absent.other_addresses_unchanged tier=thorough bounded="pool of 7 tables (4 path + 3 allocatable); tree-shaped sparse pre-state (target path, one neighbour word per path table, garbage in allocatable frames); page-table indices (0,1,511,2)"
+    //@ obligation C01 C01.map_to_4kib.shape_p4_absent.result_reports_page tier=thorough bounded="pool of 7 tables (4 path + 3 allocatable); tree-shaped sparse pre-state (target path, one neighbour word per path table, garbage in allocatable frames); page-table indices (0,1,511,2)"
+    //@ obligation C11 C11.map_to_4kib.shape_p4_absent.token_names_page tier=thorough bounded="pool of 7 tables (4 path + 3 allocatable); tree-shaped sparse pre-state (target path, one neighbour word per path table, garbage in allocatable frames); page-table indices (0,1,511,2)"
+    //@ obligation C02 C02.map_to_4kib.shape_p4_absent.error_leaves_every_mapping tier=thorough bounded="pool of 7 tables (4 path + 3 allocatable); tree-shaped sparse pre-state (target path, one neighbour word per path table, garbage in allocatable frames); page-table indices (0,1,511,2)"
+    //@ obligation C02 C02.map_to_4kib.shape_p4_absent.error_adds_at_most_parent_flags tier=thorough bounded="pool of 7 tables (4 path + 3 allocatable); tree-shaped sparse pre-state (target path, one neighbour word per path table, garbage in allocatable frames); page-table indices (0,1,511,2)"
+    //@ obligation C02 C02.map_to_4kib.shape_p4_absent.documented_outcome tier=thorough bounded="pool of 7 tables (4 path + 3 allocatable); tree-shaped sparse pre-state (target path, one neighbour word per path table, garbage in allocatable frames); page-table indices (0,1,511,2)"
+    //@ obligation C01 C01.map_to_4kib.shape_p4_absent.translate_agrees_after tier=thorough bounded="pool of 7 tables (4 path + 3 allocatable); tree-shaped sparse pre-state (target path, one neighbour word per path table, garbage in allocatable frames); page-table indices (0,1,511,2)"
+    //@ obligation C09 C09.map_to_4kib.shape_p4_absent.only_dictated_slots_change tier=thorough bounded="pool of 7 tables (4 path + 3 allocatable); tree-shaped sparse pre-state (target path, one neighbour word per path table, garbage in allocatable frames); page-table indices (0,1,511,2)"
+    //@ obligation C09 C09.map_to_4kib.shape_p4_absent.allocator_requests tier=thorough bounded="pool of 7 tables (4 path + 3 allocatable); tree-shaped sparse pre-state (target path, one neighbour word per path table, garbage in allocatable frames); page-table indices (0,1,511,2)"
+    //@ obligation C09 C09.map_to_4kib.shape_p4_absent.new_tables_zeroed_before_use tier=thorough bounded="pool of 7 tables (4 path + 3 allocatable); tree-shaped sparse pre-state (target path, one neighbour word per path table, garbage in allocatable frames); page-table indices (0,1,511,2)"
+    //@ obligation C09 C09.map_to_4kib.shape_p4_absent.no_dangling_table_pointer tier=thorough bounded="pool of 7 tables (4 path + 3 allocatable); tree-shaped sparse pre-state (target path, one neighbour word per path table, garbage in allocatable frames); page-table indices (0,1,511,2)"
+    //@ obligation C09 C09.map_to_4kib.shape_p4_absent.no_access_outside_page_tables tier=thorough bounded="pool of 7 tables (4 path + 3 allocatable); tree-shaped sparse pre-state (target path, one neighbour word per path table, garbage in allocatable frames); page-table indices (0,1,511,2)"
     #[kani::proof]
     #[kani::stub(PageTable::zero, zero_stub)]
     fn c01_map_to_4kib_p4_absent_lo() {
@@ -247,19 +230,21 @@ mod verif_c01_step_map {
         kani::cover!(true, "c01_map_to_4kib_p4_absent_lo: reachable");
     }
 
-    //@ obligation C01 C01.map_to_4kib.shape_p4_absent.target_translates_to_frame tier=thorough bounded="pool of 7 tables (4 path + 3 allocatable); tree-shaped sparse pre-state (target path, one neighbour word per path table, garbage in allocatable frames); page-table indices (511,511,511,511)"
-    //@ obligation C01 C01.map_to_4kib.shape_p4_absent.target_leaf_flags tier=thorough bounded="pool of 7 tables (4 path + 3 allocatable); tree-shaped sparse pre-state (target path, one neighbour word per path table, garbage in allocatable frames); page-table indices (511,511,511,511)"
-    //@ obligation C01 C01.map_to_4kib.shape_p4_absent.parent_rights_include_requested tier=thorough bounded="pool of 7 tables (4 path + 3 allocatable); tree-shaped sparse pre-state (target path, one neighbour word per path table, garbage in allocatable frames); page-table indices (511,511,511,511)"
-    //@ obligation C01 C01.map_to_4kib.shape_p4_absent.other_addresses_unchanged tier=thorough bounded="pool of 7 tables (4 path + 3 allocatable); tree-shaped sparse pre-state (target path, one neighbour word per path table, garbage in allocatable frames); page-table indices (511,511,511,511)"
-    //@ obligation C11 C11.map_to_4kib.shape_p4_absent.token_names_page tier=thorough bounded="pool of 7 tables (4 path + 3 allocatable); tree-shaped sparse pre-state (target path, one neighbour word per path table, garbage in allocatable frames); page-table indices (511,511,511,511)"
-    //@ obligation C02 C02.map_to_4kib.shape_p4_absent.error_leaves_every_mapping tier=thorough bounded="pool of 7 tables (4 path + 3 allocatable); tree-shaped sparse pre-state (target path, one neighbour word per path table, garbage in allocatable frames); page-table indices (511,511,511,511)"
-    //@ obligation C02 C02.map_to_4kib.shape_p4_absent.error_adds_at_most_parent_flags tier=thorough bounded="pool of 7 tables (4 path + 3 allocatable); tree-shaped sparse pre-state (target path, one neighbour word per path table, garbage in allocatable frames); page-table indices (511,511,511,511)"
-    //@ obligation C02 C02.map_to_4kib.shape_p4_absent.documented_outcome tier=thorough bounded="pool of 7 tables (4 path + 3 allocatable); tree-shaped sparse pre-state (target path, one neighbour word per path table, garbage in allocatable frames); page-table indices (511,511,511,511)"
-    //@ obligation C01 C01.map_to_4kib.shape_p4_absent.translate_agrees_after tier=thorough bounded="pool of 7 tables (4 path + 3 allocatable); tree-shaped sparse pre-state (target path, one neighbour word per path table, garbage in allocatable frames); page-table indices (511,511,511,511)"
-    //@ obligation C09 C09.map_to_4kib.shape_p4_absent.only_dictated_slots_change tier=thorough bounded="pool of 7 tables (4 path + 3 allocatable); tree-shaped sparse pre-state (target path, one neighbour word per path table, garbage in allocatable frames); page-table indices (511,511,511,511)"
-    //@ obligation C09 C09.map_to_4kib.shape_p4_absent.allocator_requests tier=thorough bounded="pool of 7 tables (4 path + 3 allocatable); tree-shaped sparse pre-state (target path, one neighbour word per path table, garbage in allocatable frames); page-table indices (511,511,511,511)"
-    //@ obligation C09 C09.map_to_4kib.shape_p4_absent.new_tables_zeroed_before_use tier=thorough bounded="pool of 7 tables (4 path + 3 allocatable); tree-shaped sparse pre-state (target path, one neighbour word per path table, garbage in allocatable frames); page-table indices (511,511,511,511)"
-    //@ obligation C09 C09.map_to_4kib.shape_p4_absent.no_dangling_table_pointer tier=thorough bounded="pool of 7 tables (4 path + 3 allocatable); tree-shaped sparse pre-state (target path, one neighbour word per path table, garbage in allocatable frames); page-table indices (511,511,511,511)"
+    //@ obligation C01 C01.map_to_4kib.shape_p4_absent.target_translates_to_frame tier=thorough bounded="pool of 7 tables (4 path + 3 allocatable); tree-shaped sparse pre-state (target path, one neighbour word per path table, garbage in allocatable frames); page-table indices (511,510,1,0)"
+    //@ obligation C01 C01.map_to_4kib.shape_p4_absent.target_leaf_flags tier=thorough bounded="pool of 7 tables (4 path + 3 allocatable); tree-shaped sparse pre-state (target path, one neighbour word per path table, garbage in allocatable frames); page-table indices (511,510,1,0)"
+    //@ obligation C01 C01.map_to_4kib.shape_p4_absent.parent_rights_include_requested tier=thorough bounded="pool of 7 tables (4 path + 3 allocatable); tree-shaped sparse pre-state (target path, one neighbour word per path table, garbage in allocatable frames); page-table indices (511,510,1,0)"
+    //@ obligation C01 C01.map_to_4kib.shape_p4_absent.other_addresses_unchanged tier=thorough bounded="pool of 7 tables (4 path + 3 allocatable); tree-shaped sparse pre-state (target path, one neighbour word per path table, garbage in allocatable frames); page-table indices (511,510,1,0)"
+    //@ obligation C01 C01.map_to_4kib.shape_p4_absent.result_reports_page tier=thorough bounded="pool of 7 tables (4 path + 3 allocatable); tree-shaped sparse pre-state (target path, one neighbour word per path table, garbage in allocatable frames); page-table indices (511,510,1,0)"
+    //@ obligation C11 C11.map_to_4kib.shape_p4_absent.token_names_page tier=thorough bounded="pool of 7 tables (4 path + 3 allocatable); tree-shaped sparse pre-state (target path, one neighbour word per path table, garbage in allocatable frames); page-table indices (511,510,1,0)"
+    //@ obligation C02 C02.map_to_4kib.shape_p4_absent.error_leaves_every_mapping tier=thorough bounded="pool of 7 tables (4 path + 3 allocatable); tree-shaped sparse pre-state (target path, one neighbour word per path table, garbage in allocatable frames); page-table indices (511,510,1,0)"
+    //@ obligation C02 C02.map_to_4kib.shape_p4_absent.error_adds_at_most_parent_flags tier=thorough bounded="pool of 7 tables (4 path + 3 allocatable); tree-shaped sparse pre-state (target path, one neighbour word per path table, garbage in allocatable frames); page-table indices (511,510,1,0)"
+    //@ obligation C02 C02.map_to_4kib.shape_p4_absent.documented_outcome tier=thorough bounded="pool of 7 tables (4 path + 3 allocatable); tree-shaped sparse pre-state (target path, one neighbour word per path table, garbage in allocatable frames); page-table indices (511,510,1,0)"
+    //@ obligation C01 C01.map_to_4kib.shape_p4_absent.translate_agrees_after tier=thorough bounded="pool of 7 tables (4 path + 3 allocatable); tree-shaped sparse pre-state (target path, one neighbour word per path table, garbage in allocatable frames); page-table indices (511,510,1,0)"
+    //@ obligation C09 C09.map_to_4kib.shape_p4_absent.only_dictated_slots_change tier=thorough bounded="pool of 7 tables (4 path + 3 allocatable); tree-shaped sparse pre-state (target path, one neighbour word per path table, garbage in allocatable frames); page-table indices (511,510,1,0)"
+    //@ obligation C09 C09.map_to_4kib.shape_p4_absent.allocator_requests tier=thorough bounded="pool of 7 tables (4 path + 3 allocatable); tree-shaped sparse pre-state (target path, one neighbour word per path table, garbage in allocatable frames); page-table indices (511,510,1,0)"
+    //@ obligation C09 C09.map_to_4kib.shape_p4_absent.new_tables_zeroed_before_use tier=thorough bounded="pool of 7 tables (4 path + 3 allocatable); tree-shaped sparse pre-state (target path, one neighbour word per path table, garbage in allocatable frames); page-table indices (511,510,1,0)"
+    //@ obligation C09 C09.map_to_4kib.shape_p4_absent.no_dangling_table_pointer tier=thorough bounded="pool of 7 tables (4 path + 3 allocatable); tree-shaped sparse pre-state (target path, one neighbour word per path table, garbage in allocatable frames); page-table indices (511,510,1,0)"
+    //@ obligation C09 C09.map_to_4kib.shape_p4_absent.no_access_outside_page_tables tier=thorough bounded="pool of 7 tables (4 path + 3 allocatable); tree-shaped sparse pre-state (target path, one neighbour word per path table, garbage in allocatable frames); page-table indices (511,510,1,0)"
     #[kani::proof]
     #[kani::stub(PageTable::zero, zero_stub)]
     fn c01_map_to_4kib_p4_absent_hi() {
@@ -267,19 +252,21 @@ mod verif_c01_step_map {
         kani::cover!(true, "c01_map_to_4kib_p4_absent_hi: reachable");
     }
 
-    //@ obligation C01 C01.map_to_4kib.shape_p4_absent.target_translates_to_frame bounded="pool of 7 tables (4 path + 3 allocatable); tree-shaped sparse pre-state (target path, one neighbour word per path table, garbage in allocatable frames); page-table indices (255,511,0,1)"
-    //@ obligation C01 C01.map_to_4kib.shape_p4_absent.target_leaf_flags bounded="pool of 7 tables (4 path + 3 allocatable); tree-shaped sparse pre-state (target path, one neighbour word per path table, garbage in allocatable frames); page-table indices (255,511,0,1)"
-    //@ obligation C01 C01.map_to_4kib.shape_p4_absent.parent_rights_include_requested bounded="pool of 7 tables (4 path + 3 allocatable); tree-shaped sparse pre-state (target path, one neighbour word per path table, garbage in allocatable frames); page-table indices (255,511,0,1)"
-    //@ obligation C01 C01.map_to_4kib.shape_p4_absent.other_addresses_unchanged bounded="pool of 7 tables (4 path + 3 allocatable); tree-shaped sparse pre-state (target path, one neighbour word per path table, garbage in allocatable frames); page-table indices (255,511,0,1)"
-    //@ obligation C11 C11.map_to_4kib.shape_p4_absent.token_names_page bounded="pool of 7 tables (4 path + 3 allocatable); tree-shaped sparse pre-state (target path, one neighbour word per path table, garbage in allocatable frames); page-table indices (255,511,0,1)"
-    //@ obligation C02 C02.map_to_4kib.shape_p4_absent.error_leaves_every_mapping bounded="pool of 7 tables (4 path + 3 allocatable); tree-shaped sparse pre-state (target path, one neighbour word per path table, garbage in allocatable frames); page-table indices (255,511,0,1)"
-    //@ obligation C02 C02.map_to_4kib.shape_p4_absent.error_adds_at_most_parent_flags bounded="pool of 7 tables (4 path + 3 allocatable); tree-shaped sparse pre-state (target path, one neighbour word per path table, garbage in allocatable frames); page-table indices (255,511,0,1)"
-    //@ obligation C02 C02.map_to_4kib.shape_p4_absent.documented_outcome bounded="pool of 7 tables (4 path + 3 allocatable); tree-shaped sparse pre-state (target path, one neighbour word per path table, garbage in allocatable frames); page-table indices (255,511,0,1)"
-    //@ obligation C01 C01.map_to_4kib.shape_p4_absent.translate_agrees_after bounded="pool of 7 tables (4 path + 3 allocatable); tree-shaped sparse pre-state (target path, one neighbour word per path table, garbage in allocatable frames); page-table indices (255,511,0,1)"
-    //@ obligation C09 C09.map_to_4kib.shape_p4_absent.only_dictated_slots_change bounded="pool of 7 tables (4 path + 3 allocatable); tree-shaped sparse pre-state (target path, one neighbour word per path table, garbage in allocatable frames); page-table indices (255,511,0,1)"
-    //@ obligation C09 C09.map_to_4kib.shape_p4_absent.allocator_requests bounded="pool of 7 tables (4 path + 3 allocatable); tree-shaped sparse pre-state (target path, one neighbour word per path table, garbage in allocatable frames); page-table indices (255,511,0,1)"
-    //@ obligation C09 C09.map_to_4kib.shape_p4_absent.new_tables_zeroed_before_use bounded="pool of 7 tables (4 path + 3 allocatable); tree-shaped sparse pre-state (target path, one neighbour word per path table, garbage in allocatable frames); page-table indices (255,511,0,1)"
-    //@ obligation C09 C09.map_to_4kib.shape_p4_absent.no_dangling_table_pointer bounded="pool of 7 tables (4 path + 3 allocatable); tree-shaped sparse pre-state (target path, one neighbour word per path table, garbage in allocatable frames); page-table indices (255,511,0,1)"
+    //@ obligation C01 C01.map_to_4kib.shape_p4_absent.target_translates_to_frame bounded="pool of 7 tables (4 path + 3 allocatable); tree-shaped sparse pre-state (target path, one neighbour word per path table, garbage in allocatable frames); page-table indices (255,511,0,256)"
+    //@ obligation C01 C01.map_to_4kib.shape_p4_absent.target_leaf_flags bounded="pool of 7 tables (4 path + 3 allocatable); tree-shaped sparse pre-state (target path, one neighbour word per path table, garbage in allocatable frames); page-table indices (255,511,0,256)"
+    //@ obligation C01 C01.map_to_4kib.shape_p4_absent.parent_rights_include_requested bounded="pool of 7 tables (4 path + 3 allocatable); tree-shaped sparse pre-state (target path, one neighbour word per path table, garbage in allocatable frames); page-table indices (255,511,0,256)"
+    //@ obligation C01 C01.map_to_4kib.shape_p4_absent.other_addresses_unchanged bounded="pool of 7 tables (4 path + 3 allocatable); tree-shaped sparse pre-state (target path, one neighbour word per path table, garbage in allocatable frames); page-table indices (255,511,0,256)"
+    //@ obligation C01 C01.map_to_4kib.shape_p4_absent.result_reports_page bounded="pool of 7 tables (4 path + 3 allocatable); tree-shaped sparse pre-state (target path, one neighbour word per path table, garbage in allocatable frames); page-table indices (255,511,0,256)"
+    //@ obligation C11 C11.map_to_4kib.shape_p4_absent.token_names_page bounded="pool of 7 tables (4 path + 3 allocatable); tree-shaped sparse pre-state (target path, one neighbour word per path table, garbage in allocatable frames); page-table indices (255,511,0,256)"
+    //@ obligation C02 C02.map_to_4kib.shape_p4_absent.error_leaves_every_mapping bounded="pool of 7 tables (4 path + 3 allocatable); tree-shaped sparse pre-state (target path, one neighbour word per path table, garbage in allocatable frames); page-table indices (255,511,0,256)"
+    //@ obligation C02 C02.map_to_4kib.shape_p4_absent.error_adds_at_most_parent_flags bounded="pool of 7 tables (4 path + 3 allocatable); tree-shaped sparse pre-state (target path, one neighbour word per path table, garbage in allocatable frames); page-table indices (255,511,0,256)"
+    //@ obligation C02 C02.map_to_4kib.shape_p4_absent.documented_outcome bounded="pool of 7 tables (4 path + 3 allocatable); tree-shaped sparse pre-state (target path, one neighbour word per path table, garbage in allocatable frames); page-table indices (255,511,0,256)"
+    //@ obligation C01 C01.map_to_4kib.shape_p4_absent.translate_agrees_after bounded="pool of 7 tables (4 path + 3 allocatable); tree-shaped sparse pre-state (target path, one neighbour word per path table, garbage in allocatable frames); page-table indices (255,511,0,256)"
+    //@ obligation C09 C09.map_to_4kib.shape_p4_absent.only_dictated_slots_change bounded="pool of 7 tables (4 path + 3 allocatable); tree-shaped sparse pre-state (target path, one neighbour word per path table, garbage in allocatable frames); page-table indices (255,511,0,256)"
+    //@ obligation C09 C09.map_to_4kib.shape_p4_absent.allocator_requests bounded="pool of 7 tables (4 path + 3 allocatable); tree-shaped sparse pre-state (target path, one neighbour word per path table, garbage in allocatable frames); page-table indices (255,511,0,256)"
+    //@ obligation C09 C09.map_to_4kib.shape_p4_absent.new_tables_zeroed_before_use bounded="pool of 7 tables (4 path + 3 allocatable); tree-shaped sparse pre-state (target path, one neighbour word per path table, garbage in allocatable frames); page-table indices (255,511,0,256)"
+    //@ obligation C09 C09.map_to_4kib.shape_p4_absent.no_dangling_table_pointer bounded="pool of 7 tables (4 path + 3 allocatable); tree-shaped sparse pre-state (target path, one neighbour word per path table, garbage in allocatable frames); page-table indices (255,511,0,256)"
+    //@ obligation C09 C09.map_to_4kib.shape_p4_absent.no_access_outside_page_tables bounded="pool of 7 tables (4 path + 3 allocatable); tree-shaped sparse pre-state (target path, one neighbour word per path table, garbage in allocatable frames); page-table indices (255,511,0,256)"
     #[kani::proof]
     #[kani::stub(PageTable::zero, zero_stub)]
     fn c01_map_to_4kib_p4_absent_mid() {
@@ -287,19 +274,21 @@ mod verif_c01_step_map {
         kani::cover!(true, "c01_map_to_4kib_p4_absent_mid: reachable");
     }
 
-    //@ obligation C01 C01.map_to_4kib.shape_p4_absent.target_translates_to_frame tier=thorough bounded="pool of 7 tables (4 path + 3 allocatable); tree-shaped sparse pre-state (target path, one neighbour word per path table, garbage in allocatable frames); page-table indices (256,1,510,255)"
-    //@ obligation C01 C01.map_to_4kib.shape_p4_absent.target_leaf_flags tier=thorough bounded="pool of 7 tables (4 path + 3 allocatable); tree-shaped sparse pre-state (target path, one neighbour word per path table, garbage in allocatable frames); page-table indices (256,1,510,255)"
-    //@ obligation C01 C01.map_to_4kib.shape_p4_absent.parent_rights_include_requested tier=thorough bounded="pool of 7 tables (4 path + 3 allocatable); tree-shaped sparse pre-state (target path, one neighbour word per path table, garbage in allocatable frames); page-table indices (256,1,510,255)"
-    //@ obligation C01 C01.map_to_4kib.shape_p4_absent.other_addresses_unchanged tier=thorough bounded="pool of 7 tables (4 path + 3 allocatable); tree-shaped sparse pre-state (target path, one neighbour word per path table, garbage in allocatable frames); page-table indices (256,1,510,255)"
-    //@ obligation C11 C11.map_to_4kib.shape_p4_absent.token_names_page tier=thorough bounded="pool of 7 tables (4 path + 3 allocatable); tree-shaped sparse pre-state (target path, one neighbour word per path table, garbage in allocatable frames); page-table indices (256,1,510,255)"
-    //@ obligation C02 C02.map_to_4kib.shape_p4_absent.error_leaves_every_mapping tier=thorough bounded="pool of 7 tables (4 path + 3 allocatable); tree-shaped sparse pre-state (target path, one neighbour word per path table, garbage in allocatable frames); page-table indices (256,1,510,255)"
-    //@ obligation C02 C02.map_to_4kib.shape_p4_absent.error_adds_at_most_parent_flags tier=thorough bounded="pool of 7 tables (4 path + 3 allocatable); tree-shaped sparse pre-state (target path, one neighbour word per path table, garbage in allocatable frames); page-table indices (256,1,510,255)"
-    //@ obligation C02 C02.map_to_4kib.shape_p4_absent.documented_outcome tier=thorough bounded="pool of 7 tables (4 path + 3 allocatable); tree-shaped sparse pre-state (target path, one neighbour word per path table, garbage in allocatable frames); page-table indices (256,1,510,255)"
-    //@ obligation C01 C01.map_to_4kib.shape_p4_absent.translate_agrees_after tier=thorough bounded="pool of 7 tables (4 path + 3 allocatable); tree-shaped sparse pre-state (target path, one neighbour word per path table, garbage in allocatable frames); page-table indices (256,1,510,255)"
-    //@ obligation C09 C09.map_to_4kib.shape_p4_absent.only_dictated_slots_change tier=thorough bounded="pool of 7 tables (4 path + 3 allocatable); tree-shaped sparse pre-state (target path, one neighbour word per path table, garbage in allocatable frames); page-table indices (256,1,510,255)"
-    //@ obligation C09 C09.map_to_4kib.shape_p4_absent.allocator_requests tier=thorough bounded="pool of 7 tables (4 path + 3 allocatable); tree-shaped sparse pre-state (target path, one neighbour word per path table, garbage in allocatable frames); page-table indices (256,1,510,255)"
-    //@ obligation C09 C09.map_to_4kib.shape_p4_absent.new_tables_zeroed_before_use tier=thorough bounded="pool of 7 tables (4 path + 3 allocatable); tree-shaped sparse pre-state (target path, one neighbour word per path table, garbage in allocatable frames); page-table indices (256,1,510,255)"
-    //@ obligation C09 C09.map_to_4kib.shape_p4_absent.no_dangling_table_pointer tier=thorough bounded="pool of 7 tables (4 path + 3 allocatable); tree-shaped sparse pre-state (target path, one neighbour word per path table, garbage in allocatable frames); page-table indices (256,1,510,255)"
+    //@ obligation C01 C01.map_to_4kib.shape_p4_absent.target_translates_to_frame tier=thorough bounded="pool of 7 tables (4 path + 3 allocatable); tree-shaped sparse pre-state (target path, one neighbour word per path table, garbage in allocatable frames); page-table indices (256,0,510,511)"
+    //@ obligation C01 C01.map_to_4kib.shape_p4_absent.target_leaf_flags tier=thorough bounded="pool of 7 tables (4 path + 3 allocatable); tree-shaped sparse pre-state (target path, one neighbour word per path table, garbage in allocatable frames); page-table indices (256,0,510,511)"
+    //@ obligation C01 C01.map_to_4kib.shape_p4_absent.parent_rights_include_requested tier=thorough bounded="pool of 7 tables (4 path + 3 allocatable); tree-shaped sparse pre-state (target path, one neighbour word per path table, garbage in allocatable frames); page-table indices (256,0,510,511)"
+    //@ obligation C01 C01.map_to_4kib.shape_p4_absent.other_addresses_unchanged tier=thorough bounded="pool of 7 tables (4 path + 3 allocatable); tree-shaped sparse pre-state (target path, one neighbour word per path table, garbage in allocatable frames); page-table indices (256,0,510,511)"
+    //@ obligation C01 C01.map_to_4kib.shape_p4_absent.result_reports_page tier=thorough bounded="pool of 7 tables (4 path + 3 allocatable); tree-shaped sparse pre-state (target path, one neighbour word per path table, garbage in allocatable frames); page-table indices (256,0,510,511)"
+    //@ obligation C11 C11.map_to_4kib.shape_p4_absent.token_names_page tier=thorough bounded="pool of 7 tables (4 path + 3 allocatable); tree-shaped sparse pre-state (target path, one neighbour word per path table, garbage in allocatable frames); page-table indices (256,0,510,511)"
+    //@ obligation C02 C02.map_to_4kib.shape_p4_absent.error_leaves_every_mapping tier=thorough bounded="pool of 7 tables (4 path + 3 allocatable); tree-shaped sparse pre-state (target path, one neighbour word per path table, garbage in allocatable frames); page-table indices (256,0,510,511)"
+    //@ obligation C02 C02.map_to_4kib.shape_p4_absent.error_adds_at_most_parent_flags tier=thorough bounded="pool of 7 tables (4 path + 3 allocatable); tree-shaped sparse pre-state (target path, one neighbour word per path table, garbage in allocatable frames); page-table indices (256,0,510,511)"
+    //@ obligation C02 C02.map_to_4kib.shape_p4_absent.documented_outcome tier=thorough bounded="pool of 7 tables (4 path + 3 allocatable); tree-shaped sparse pre-state (target path, one neighbour word per path table, garbage in allocatable frames); page-table indices (256,0,510,511)"
+    //@ obligation C01 C01.map_to_4kib.shape_p4_absent.translate_agrees_after tier=thorough bounded="pool of 7 tables (4 path + 3 allocatable); tree-shaped sparse pre-state (target path, one neighbour word per path table, garbage in allocatable frames); page-table indices (256,0,510,511)"
+    //@ obligation C09 C09.map_to_4kib.shape_p4_absent.only_dictated_slots_change tier=thorough bounded="pool of 7 tables (4 path + 3 allocatable); tree-shaped sparse pre-state (target path, one neighbour word per path table, garbage in allocatable frames); page-table indices (256,0,510,511)"
+    //@ obligation C09 C09.map_to_4kib.shape_p4_absent.allocator_requests tier=thorough bounded="pool of 7 tables (4 path + 3 allocatable); tree-shaped sparse pre-state (target path, one neighbour word per path table, garbage in allocatable frames); page-table indices (256,0,510,511)"
+    //@ obligation C09 C09.map_to_4kib.shape_p4_absent.new_tables_zeroed_before_use tier=thorough bounded="pool of 7 tables (4 path + 3 allocatable); tree-shaped sparse pre-state (target path, one neighbour word per path table, garbage in allocatable frames); page-table indices (256,0,510,511)"
+    //@ obligation C09 C09.map_to_4kib.shape_p4_absent.no_dangling_table_pointer tier=thorough bounded="pool of 7 tables (4 path + 3 allocatable); tree-shaped sparse pre-state (target path, one neighbour word per path table, garbage in allocatable frames); page-table indices (256,0,510,511)"
+    //@ obligation C09 C09.map_to_4kib.shape_p4_absent.no_access_outside_page_tables tier=thorough bounded="pool of 7 tables (4 path + 3 allocatable); tree-shaped sparse pre-state (target path, one neighbour word per path table, garbage in allocatable frames); page-table indices (256,0,510,511)"
     #[kani::proof]
     #[kani::stub(PageTable::zero, zero_stub)]
     fn c01_map_to_4kib_p4_absent_up() {
@@ -307,19 +296,21 @@ mod verif_c01_step_map {
         kani::cover!(true, "c01_map_to_4kib_p4_absent_up: reachable");
     }
 
-    //@ obligation C01 C01.map_to_4kib.shape_p3_absent.target_translates_to_frame tier=thorough bounded="pool of 7 tables (4 path + 3 allocatable); tree-shaped sparse pre-state (target path, one neighbour word per path table, garbage in allocatable frames); page-table indices (0,0,0,0)"
-    //@ obligation C01 C01.map_to_4kib.shape_p3_absent.target_leaf_flags tier=thorough bounded="pool of 7 tables (4 path + 3 allocatable); tree-shaped sparse pre-state (target path, one neighbour word per path table, garbage in allocatable frames); page-table indices (0,0,0,0)"
-    //@ obligation C01 C01.map_to_4kib.shape_p3_absent.parent_rights_include_requested tier=thorough bounded="pool of 7 tables (4 path + 3 allocatable); tree-shaped sparse pre-state (target path, one neighbour word per path table, garbage in allocatable frames); page-table indices (0,0,0,0)"
-    //@ obligation C01 C01.map_to_4kib.shape_p3_absent.other_addresses_unchanged tier=thorough bounded="pool of 7 tables (4 path + 3 allocatable); tree-shaped sparse pre-state (target path, one neighbour word per path table, garbage in allocatable frames); page-table indices (0,0,0,0)"
-    //@ obligation C11 C11.map_to_4kib.shape_p3_absent.token_names_page tier=thorough bounded="pool of 7 tables (4 path + 3 allocatable); tree-shaped sparse pre-state (target path, one neighbour word per path table, garbage in allocatable frames); page-table indices (0,0,0,0)"
-    //@ obligation C02 C02.map_to_4kib.shape_p3_absent.error_leaves_every_mapping tier=thorough bounded="pool of 7 tables (4 path + 3 allocatable); tree-shaped sparse pre-state (target path, one neighbour word per path table, garbage in allocatable frames); page-table indices (0,0,0,0)"
-    //@ obligation C02 C02.map_to_4kib.shape_p3_absent.error_adds_at_most_parent_flags tier=thorough bounded="pool of 7 tables (4 path + 3 allocatable); tree-shaped sparse pre-state (target path, one neighbour word per path table, garbage in allocatable frames); page-table indices (0,0,0,0)"
-    //@ obligation C02 C02.map_to_4kib.shape_p3_absent.documented_outcome tier=thorough bounded="pool of 7 tables (4 path + 3 allocatable); tree-shaped sparse pre-state (target path, one neighbour word per path table, garbage in allocatable frames); page-table indices (0,0,0,0)"
-    //@ obligation C01 C01.map_to_4kib.shape_p3_absent.translate_agrees_after tier=thorough bounded="pool of 7 tables (4 path + 3 allocatable); tree-shaped sparse pre-state (target path, one neighbour word per path table, garbage in allocatable frames); page-table indices (0,0,0,0)"
-    //@ obligation C09 C09.map_to_4kib.shape_p3_absent.only_dictated_slots_change tier=thorough bounded="pool of 7 tables (4 path + 3 allocatable); tree-shaped sparse pre-state (target path, one neighbour word per path table, garbage in allocatable frames); page-table indices (0,0,0,0)"
-    //@ obligation C09 C09.map_to_4kib.shape_p3_absent.allocator_requests tier=thorough bounded="pool of 7 tables (4 path + 3 allocatable); tree-shaped sparse pre-state (target path, one neighbour word per path table, garbage in allocatable frames); page-table indices (0,0,0,0)"
-    //@ obligation C09 C09.map_to_4kib.shape_p3_absent.new_tables_zeroed_before_use tier=thorough bounded="pool of 7 tables (4 path + 3 allocatable); tree-shaped sparse pre-state (target path, one neighbour word per path table, garbage in allocatable frames); page-table indices (0,0,0,0)"
-    //@ obligation C09 C09.map_to_4kib.shape_p3_absent.no_dangling_table_pointer tier=thorough bounded="pool of 7 tables (4 path + 3 allocatable); tree-shaped sparse pre-state (target path, one neighbour word per path table, garbage in allocatable frames); page-table indices (0,0,0,0)"
+    //@ obligation C01 C01.map_to_4kib.shape_p3_absent.target_translates_to_frame tier=thorough bounded="pool of 7 tables (4 path + 3 allocatable); tree-shaped sparse pre-state (target path, one neighbour word per path table, garbage in allocatable frames); page-table indices (0,1,511,2)"
+    //@ obligation C01 C01.map_to_4kib.shape_p3_absent.target_leaf_flags tier=thorough bounded="pool of 7 tables (4 path + 3 allocatable); tree-shaped sparse pre-state (target path, one neighbour word per path table, garbage in allocatable frames); page-table indices (0,1,511,2)"
+    //@ obligation C01 C01.map_to_4kib.shape_p3_absent.parent_rights_include_requested tier=thorough bounded="pool of 7 tables (4 path + 3 allocatable); tree-shaped sparse pre-state (target path, one neighbour word per path table, garbage in allocatable frames); page-table indices (0,1,511,2)"
+    //@ obligation C01 C01.map_to_4kib.shape_p3_absent.other_addresses_unchanged tier=thorough bounded="pool of 7 tables (4 path + 3 allocatable); tree-shaped sparse pre-state (target path, one neighbour word per path table, garbage in allocatable frames); page-table indices (0,1,511,2)"
+    //@ obligation C01 C01.map_to_4kib.shape_p3_absent.result_reports_page tier=thorough bounded="pool of 7 tables (4 path + 3 allocatable); tree-shaped sparse pre-state (target path, one neighbour word per path table, garbage in allocatable frames); page-table indices (0,1,511,2)"
+    //@ obligation C11 C11.map_to_4kib.shape_p3_absent.token_names_page tier=thorough bounded="pool of 7 tables (4 path + 3 allocatable); tree-shaped sparse pre-state (target path, one neighbour word per path table, garbage in allocatable frames); page-table indices (0,1,511,2)"
+    //@ obligation C02 C02.map_to_4kib.shape_p3_absent.error_leaves_every_mapping tier=thorough bounded="pool of 7 tables (4 path + 3 allocatable); tree-shaped sparse pre-state (target path, one neighbour word per path table, garbage in allocatable frames); page-table indices (0,1,511,2)"
+    //@ obligation C02 C02.map_to_4kib.shape_p3_absent.error_adds_at_most_parent_flags tier=thorough bounded="pool of 7 tables (4 path + 3 allocatable); tree-shaped sparse pre-state (target path, one neighbour word per path table, garbage in allocatable frames); page-table indices (0,1,511,2)"
+    //@ obligation C02 C02.map_to_4kib.shape_p3_absent.documented_outcome tier=thorough bounded="pool of 7 tables (4 path + 3 allocatable); tree-shaped sparse pre-state (target path, one neighbour word per path table, garbage in allocatable frames); page-table indices (0,1,511,2)"
+    //@ obligation C01 C01.map_to_4kib.shape_p3_absent.translate_agrees_after tier=thorough bounded="pool of 7 tables (4 path + 3 allocatable); tree-shaped sparse pre-state (target path, one neighbour word per path table, garbage in allocatable frames); page-table indices (0,1,511,2)"
+    //@ obligation C09 C09.map_to_4kib.shape_p3_absent.only_dictated_slots_change tier=thorough bounded="pool of 7 tables (4 path + 3 allocatable); tree-shaped sparse pre-state (target path, one neighbour word per path table, garbage in allocatable frames); page-table indices (0,1,511,2)"
+    //@ obligation C09 C09.map_to_4kib.shape_p3_absent.allocator_requests tier=thorough bounded="pool of 7 tables (4 path + 3 allocatable); tree-shaped sparse pre-state (target path, one neighbour word per path table, garbage in allocatable frames); page-table indices (0,1,511,2)"
+    //@ obligation C09 C09.map_to_4kib.shape_p3_absent.new_tables_zeroed_before_use tier=thorough bounded="pool of 7 tables (4 path + 3 allocatable); tree-shaped sparse pre-state (target path, one neighbour word per path table, garbage in allocatable frames); page-table indices (0,1,511,2)"
+    //@ obligation C09 C09.map_to_4kib.shape_p3_absent.no_dangling_table_pointer tier=thorough bounded="pool of 7 tables (4 path + 3 allocatable); tree-shaped sparse pre-state (target path, one neighbour word per path table, garbage in allocatable frames); page-table indices (0,1,511,2)"
+    //@ obligation C09 C09.map_to_4kib.shape_p3_absent.no_access_outside_page_tables tier=thorough bounded="pool of 7 tables (4 path + 3 allocatable); tree-shaped sparse pre-state (target path, one neighbour word per path table, garbage in allocatable frames); page-table indices (0,1,511,2)"
     #[kani::proof]
     #[kani::stub(PageTable::zero, zero_stub)]
     fn c01_map_to_4kib_p3_absent_lo() {
@@ -327,19 +318,21 @@ mod verif_c01_step_map {
         kani::cover!(true, "c01_map_to_4kib_p3_absent_lo: reachable");
     }
 
-    //@ obligation C01 C01.map_to_4kib.shape_p3_absent.target_translates_to_frame tier=thorough bounded="pool of 7 tables (4 path + 3 allocatable); tree-shaped sparse pre-state (target path, one neighbour word per path table, garbage in allocatable frames); page-table indices (511,511,511,511)"
-    //@ obligation C01 C01.map_to_4kib.shape_p3_absent.target_leaf_flags tier=thorough bounded="pool of 7 tables (4 path + 3 allocatable); tree-shaped sparse pre-state (target path, one neighbour word per path table, garbage in allocatable frames); page-table indices (511,511,511,511)"
-    //@ obligation C01 C01.map_to_4kib.shape_p3_absent.parent_rights_include_requested tier=thorough bounded="pool of 7 tables (4 path + 3 allocatable); tree-shaped sparse pre-state (target path, one neighbour word per path table, garbage in allocatable frames); page-table indices (511,511,511,511)"
-    //@ obligation C01 C01.map_to_4kib.shape_p3_absent.other_addresses_unchanged tier=thorough bounded="pool of 7 tables (4 path + 3 allocatable); tree-shaped sparse pre-state (target path, one neighbour word per path table, garbage in allocatable frames); page-table indices (511,511,511,511)"
-    //@ obligation C11 C11.map_to_4kib.shape_p3_absent.token_names_page tier=thorough bounded="pool of 7 tables (4 path + 3 allocatable); tree-shaped sparse pre-state (target path, one neighbour word per path table, garbage in allocatable frames); page-table indices (511,511,511,511)"
-    //@ obligation C02 C02.map_to_4kib.shape_p3_absent.error_leaves_every_mapping tier=thorough bounded="pool of 7 tables (4 path + 3 allocatable); tree-shaped sparse pre-state (target path, one neighbour word per path table, garbage in allocatable frames); page-table indices (511,511,511,511)"
-    //@ obligation C02 C02.map_to_4kib.shape_p3_absent.error_adds_at_most_parent_flags tier=thorough bounded="pool of 7 tables (4 path + 3 allocatable); tree-shaped sparse pre-state (target path, one neighbour word per path table, garbage in allocatable frames); page-table indices (511,511,511,511)"
-    //@ obligation C02 C02.map_to_4kib.shape_p3_absent.documented_outcome tier=thorough bounded="pool of 7 tables (4 path + 3 allocatable); tree-shaped sparse pre-state (target path, one neighbour word per path table, garbage in allocatable frames); page-table indices (511,511,511,511)"
-    //@ obligation C01 C01.map_to_4kib.shape_p3_absent.translate_agrees_after tier=thorough bounded="pool of 7 tables (4 path + 3 allocatable); tree-shaped sparse pre-state (target path, one neighbour word per path table, garbage in allocatable frames); page-table indices (511,511,511,511)"
-    //@ obligation C09 C09.map_to_4kib.shape_p3_absent.only_dictated_slots_change tier=thorough bounded="pool of 7 tables (4 path + 3 allocatable); tree-shaped sparse pre-state (target path, one neighbour word per path table, garbage in allocatable frames); page-table indices (511,511,511,511)"
-    //@ obligation C09 C09.map_to_4kib.shape_p3_absent.allocator_requests tier=thorough bounded="pool of 7 tables (4 path + 3 allocatable); tree-shaped sparse pre-state (target path, one neighbour word per path table, garbage in allocatable frames); page-table indices (511,511,511,511)"
-    //@ obligation C09 C09.map_to_4kib.shape_p3_absent.new_tables_zeroed_before_use tier=thorough bounded="pool of 7 tables (4 path + 3 allocatable); tree-shaped sparse pre-state (target path, one neighbour word per path table, garbage in allocatable frames); page-table indices (511,511,511,511)"
-    //@ obligation C09 C09.map_to_4kib.shape_p3_absent.no_dangling_table_pointer tier=thorough bounded="pool of 7 tables (4 path + 3 allocatable); tree-shaped sparse pre-state (target path, one neighbour word per path table, garbage in allocatable frames); page-table indices (511,511,511,511)"
+    //@ obligation C01 C01.map_to_4kib.shape_p3_absent.target_translates_to_frame tier=thorough bounded="pool of 7 tables (4 path + 3 allocatable); tree-shaped sparse pre-state (target path, one neighbour word per path table, garbage in allocatable frames); page-table indices (511,510,1,0)"
+    //@ obligation C01 C01.map_to_4kib.shape_p3_absent.target_leaf_flags tier=thorough bounded="pool of 7 tables (4 path + 3 allocatable); tree-shaped sparse pre-state (target path, one neighbour word per path table, garbage in allocatable frames); page-table indices (511,510,1,0)"
+    //@ obligation C01 C01.map_to_4kib.shape_p3_absent.parent_rights_include_requested tier=thorough bounded="pool of 7 tables (4 path + 3 allocatable); tree-shaped sparse pre-state (target path, one neighbour word per path table, garbage in allocatable frames); page-table indices (511,510,1,0)"
+    //@ obligation C01 C01.map_to_4kib.shape_p3_absent.other_addresses_unchanged tier=thorough bounded="pool of 7 tables (4 path + 3 allocatable); tree-shaped sparse pre-state (target path, one neighbour word per path table, garbage in allocatable frames); page-table indices (511,510,1,0)"
+    //@ obligation C01 C01.map_to_4kib.shape_p3_absent.result_reports_page tier=thorough bounded="pool of 7 tables (4 path + 3 allocatable); tree-shaped sparse pre-state (target path, one neighbour word per path table, garbage in allocatable frames); page-table indices (511,510,1,0)"
+    //@ obligation C11 C11.map_to_4kib.shape_p3_absent.token_names_page tier=thorough bounded="pool of 7 tables (4 path + 3 allocatable); tree-shaped sparse pre-state (target path, one neighbour word per path table, garbage in allocatable frames); page-table indices (511,510,1,0)"
+    //@ obligation C02 C02.map_to_4kib.shape_p3_absent.error_leaves_every_mapping tier=thorough bounded="pool of 7 tables (4 path + 3 allocatable); tree-shaped sparse pre-state (target path, one neighbour word per path table, garbage in allocatable frames); page-table indices (511,510,1,0)"
+    //@ obligation C02 C02.map_to_4kib.shape_p3_absent.error_adds_at_most_parent_flags tier=thorough bounded="pool of 7 tables (4 path + 3 allocatable); tree-shaped sparse pre-state (target path, one neighbour word per path table, garbage in allocatable frames); page-table indices (511,510,1,0)"
+    //@ obligation C02 C02.map_to_4kib.shape_p3_absent.documented_outcome tier=thorough bounded="pool of 7 tables (4 path + 3 allocatable); tree-shaped sparse pre-state (target path, one neighbour word per path table, garbage in allocatable frames); page-table indices (511,510,1,0)"
+    //@ obligation C01 C01.map_to_4kib.shape_p3_absent.translate_agrees_after tier=thorough bounded="pool of 7 tables (4 path + 3 allocatable); tree-shaped sparse pre-state (target path, one neighbour word per path table, garbage in allocatable frames); page-table indices (511,510,1,0)"
+    //@ obligation C09 C09.map_to_4kib.shape_p3_absent.only_dictated_slots_change tier=thorough bounded="pool of 7 tables (4 path + 3 allocatable); tree-shaped sparse pre-state (target path, one neighbour word per path table, garbage in allocatable frames); page-table indices (511,510,1,0)"
+    //@ obligation C09 C09.map_to_4kib.shape_p3_absent.allocator_requests tier=thorough bounded="pool of 7 tables (4 path + 3 allocatable); tree-shaped sparse pre-state (target path, one neighbour word per path table, garbage in allocatable frames); page-table indices (511,510,1,0)"
+    //@ obligation C09 C09.map_to_4kib.shape_p3_absent.new_tables_zeroed_before_use tier=thorough bounded="pool of 7 tables (4 path + 3 allocatable); tree-shaped sparse pre-state (target path, one neighbour word per path table, garbage in allocatable frames); page-table indices (511,510,1,0)"
+    //@ obligation C09 C09.map_to_4kib.shape_p3_absent.no_dangling_table_pointer tier=thorough bounded="pool of 7 tables (4 path + 3 allocatable); tree-shaped sparse pre-state (target path, one neighbour word per path table, garbage in allocatable frames); page-table indices (511,510,1,0)"
+    //@ obligation C09 C09.map_to_4kib.shape_p3_absent.no_access_outside_page_tables tier=thorough bounded="pool of 7 tables (4 path + 3 allocatable); tree-shaped sparse pre-state (target path, one neighbour word per path table, garbage in allocatable frames); page-table indices (511,510,1,0)"
     #[kani::proof]
     #[kani::stub(PageTable::zero, zero_stub)]
     fn c01_map_to_4kib_p3_absent_hi() {
@@ -347,19 +340,21 @@ mod verif_c01_step_map {
         kani::cover!(true, "c01_map_to_4kib_p3_absent_hi: reachable");
     }
 
-    //@ obligation C01 C01.map_to_4kib.shape_p3_absent.target_translates_to_frame tier=thorough bounded="pool of 7 tables (4 path + 3 allocatable); tree-shaped sparse pre-state (target path, one neighbour word per path table, garbage in allocatable frames); page-table indices (255,511,0,1)"
-    //@ obligation C01 C01.map_to_4kib.shape_p3_absent.target_leaf_flags tier=thorough bounded="pool of 7 tables (4 path + 3 allocatable); tree-shaped sparse pre-state (target path, one neighbour word per path table, garbage in allocatable frames); page-table indices (255,511,0,1)"
-    //@ obligation C01 C01.map_to_4kib.shape_p3_absent.parent_rights_include_requested tier=thorough bounded="pool of 7 tables (4 path + 3 allocatable); tree-shaped sparse pre-state (target path, one neighbour word per path table, garbage in allocatable frames); page-table indices (255,511,0,1)"
-    //@ obligation C01 C01.map_to_4kib.shape_p3_absent.other_addresses_unchanged tier=thorough bounded="pool of 7 tables (4 path + 3 allocatable); tree-shaped sparse pre-state (target path, one neighbour word per path table, garbage in allocatable frames); page-table indices (255,511,0,1)"
-    //@ obligation C11 C11.map_to_4kib.shape_p3_absent.token_names_page tier=thorough bounded="pool of 7 tables (4 path + 3 allocatable); tree-shaped sparse pre-state (target path, one neighbour word per path table, garbage in allocatable frames); page-table indices (255,511,0,1)"
-    //@ obligation C02 C02.map_to_4kib.shape_p3_absent.error_leaves_every_mapping tier=thorough bounded="pool of 7 tables (4 path + 3 allocatable); tree-shaped sparse pre-state (target path, one neighbour word per path table, garbage in allocatable frames); page-table indices (255,511,0,1)"
-    //@ obligation C02 C02.map_to_4kib.shape_p3_absent.error_adds_at_most_parent_flags tier=thorough bounded="pool of 7 tables (4 path + 3 allocatable); tree-shaped sparse pre-state (target path, one neighbour word per path table, garbage in allocatable frames); page-table indices (255,511,0,1)"
-    //@ obligation C02 C02.map_to_4kib.shape_p3_absent.documented_outcome tier=thorough bounded="pool of 7 tables (4 path + 3 allocatable); tree-shaped sparse pre-state (target path, one neighbour word per path table, garbage in allocatable frames); page-table indices (255,511,0,1)"
-    //@ obligation C01 C01.map_to_4kib.shape_p3_absent.translate_agrees_after tier=thorough bounded="pool of 7 tables (4 path + 3 allocatable); tree-shaped sparse pre-state (target path, one neighbour word per path table, garbage in allocatable frames); page-table indices (255,511,0,1)"
-    //@ obligation C09 C09.map_to_4kib.shape_p3_absent.only_dictated_slots_change tier=thorough bounded="pool of 7 tables (4 path + 3 allocatable); tree-shaped sparse pre-state (target path, one neighbour word per path table, garbage in allocatable frames); page-table indices (255,511,0,1)"
-    //@ obligation C09 C09.map_to_4kib.shape_p3_absent.allocator_requests tier=thorough bounded="pool of 7 tables (4 path + 3 allocatable); tree-shaped sparse pre-state (target path, one neighbour word per path table, garbage in allocatable frames); page-table indices (255,511,0,1)"
-    //@ obligation C09 C09.map_to_4kib.shape_p3_absent.new_tables_zeroed_before_use tier=thorough bounded="pool of 7 tables (4 path + 3 allocatable); tree-shaped sparse pre-state (target path, one neighbour word per path table, garbage in allocatable frames); page-table indices (255,511,0,1)"
-    //@ obligation C09 C09.map_to_4kib.shape_p3_absent.no_dangling_table_pointer tier=thorough bounded="pool of 7 tables (4 path + 3 allocatable); tree-shaped sparse pre-state (target path, one neighbour word per path table, garbage in allocatable frames); page-table indices (255,511,0,1)"
+    //@ obligation C01 C01.map_to_4kib.shape_p3_absent.target_translates_to_frame tier=thorough bounded="pool of 7 tables (4 path + 3 allocatable); tree-shaped sparse pre-state (target path, one neighbour word per path table, garbage in allocatable frames); page-table indices (255,511,0,256)"
+    //@ obligation C01 C01.map_to_4kib.shape_p3_absent.target_leaf_flags tier=thorough bounded="pool of 7 tables (4 path + 3 allocatable); tree-shaped sparse pre-state (target path, one neighbour word per path table, garbage in allocatable frames); page-table indices (255,511,0,256)"
+    //@ obligation C01 C01.map_to_4kib.shape_p3_absent.parent_rights_include_requested tier=thorough bounded="pool of 7 tables (4 path + 3 allocatable); tree-shaped sparse pre-state (target path, one neighbour word per path table, garbage in allocatable frames); page-table indices (255,511,0,256)"
+    //@ obligation C01 C01.map_to_4kib.shape_p3_absent.other_addresses_unchanged tier=thorough bounded="pool of 7 tables (4 path + 3 allocatable); tree-shaped sparse pre-state (target path, one neighbour word per path table, garbage in allocatable frames); page-table indices (255,511,0,256)"
+    //@ obligation C01 C01.map_to_4kib.shape_p3_absent.result_reports_page tier=thorough bounded="pool of 7 tables (4 path + 3 allocatable); tree-shaped sparse pre-state (target path, one neighbour word per path table, garbage in allocatable frames); page-table indices (255,511,0,256)"
+    //@ obligation C11 C11.map_to_4kib.shape_p3_absent.token_names_page tier=thorough bounded="pool of 7 tables (4 path + 3 allocatable); tree-shaped sparse pre-state (target path, one neighbour word per path table, garbage in allocatable frames); page-table indices (255,511,0,256)"
+    //@ obligation C02 C02.map_to_4kib.shape_p3_absent.error_leaves_every_mapping tier=thorough bounded="pool of 7 tables (4 path + 3 allocatable); tree-shaped sparse pre-state (target path, one neighbour word per path table, garbage in allocatable frames); page-table indices (255,511,0,256)"
+    //@ obligation C02 C02.map_to_4kib.shape_p3_absent.error_adds_at_most_parent_flags tier=thorough bounded="pool of 7 tables (4 path + 3 allocatable); tree-shaped sparse pre-state (target path, one neighbour word per path table, garbage in allocatable frames); page-table indices (255,511,0,256)"
+    //@ obligation C02 C02.map_to_4kib.shape_p3_absent.documented_outcome tier=thorough bounded="pool of 7 tables (4 path + 3 allocatable); tree-shaped sparse pre-state (target path, one neighbour word per path table, garbage in allocatable frames); page-table indices (255,511,0,256)"
+    //@ obligation C01 C01.map_to_4kib.shape_p3_absent.translate_agrees_after tier=thorough bounded="pool of 7 tables (4 path + 3 allocatable); tree-shaped sparse pre-state (target path, one neighbour word per path table, garbage in allocatable frames); page-table indices (255,511,0,256)"
+    //@ obligation C09 C09.map_to_4kib.shape_p3_absent.only_dictated_slots_change tier=thorough bounded="pool of 7 tables (4 path + 3 allocatable); tree-shaped sparse pre-state (target path, one neighbour word per path table, garbage in allocatable frames); page-table indices (255,511,0,256)"
+    //@ obligation C09 C09.map_to_4kib.shape_p3_absent.allocator_requests tier=thorough bounded="pool of 7 tables (4 path + 3 allocatable); tree-shaped sparse pre-state (target path, one neighbour word per path table, garbage in allocatable frames); page-table indices (255,511,0,256)"
+    //@ obligation C09 C09.map_to_4kib.shape_p3_absent.new_tables_zeroed_before_use tier=thorough bounded="pool of 7 tables (4 path + 3 allocatable); tree-shaped sparse pre-state (target path, one neighbour word per path table, garbage in allocatable frames); page-table indices (255,511,0,256)"
+    //@ obligation C09 C09.map_to_4kib.shape_p3_absent.no_dangling_table_pointer tier=thorough bounded="pool of 7 tables (4 path + 3 allocatable); tree-shaped sparse pre-state (target path, one neighbour word per path table, garbage in allocatable frames); page-table indices (255,511,0,256)"
+    //@ obligation C09 C09.map_to_4kib.shape_p3_absent.no_access_outside_page_tables tier=thorough bounded="pool of 7 tables (4 path + 3 allocatable); tree-shaped sparse pre-state (target path, one neighbour word per path table, garbage in allocatable frames); page-table indices (255,511,0,256)"
     #[kani::proof]
     #[kani::stub(PageTable::zero, zero_stub)]
     fn c01_map_to_4kib_p3_absent_mid() {
@@ -367,19 +362,21 @@ mod verif_c01_step_map {
         kani::cover!(true, "c01_map_to_4kib_p3_absent_mid: reachable");
     }
 
-    //@ obligation C01 C01.map_to_4kib.shape_p3_absent.target_translates_to_frame tier=thorough bounded="pool of 7 tables (4 path + 3 allocatable); tree-shaped sparse pre-state (target path, one neighbour word per path table, garbage in allocatable frames); page-table indices (256,1,510,255)"
-    //@ obligation C01 C01.map_to_4kib.shape_p3_absent.target_leaf_flags tier=thorough bounded="pool of 7 tables (4 path + 3 allocatable); tree-shaped sparse pre-state (target path, one neighbour word per path table, garbage in allocatable frames); page-table indices (256,1,510,255)"
-    //@ obligation C01 C01.map_to_4kib.shape_p3_absent.parent_rights_include_requested tier=thorough bounded="pool of 7 tables (4 path + 3 allocatable); tree-shaped sparse pre-state (target path, one neighbour word per path table, garbage in allocatable frames); page-table indices (256,1,510,255)"
-    //@ obligation C01 C01.map_to_4kib.shape_p3_absent.other_addresses_unchanged tier=thorough bounded="pool of 7 tables (4 path + 3 allocatable); tree-shaped sparse pre-state (target path, one neighbour word per path table, garbage in allocatable frames); page-table indices (256,1,510,255)"
-    //@ obligation C11 C11.map_to_4kib.shape_p3_absent.token_names_page tier=thorough bounded="pool of 7 tables (4 path + 3 allocatable); tree-shaped sparse pre-state (target path, one neighbour word per path table, garbage in allocatable frames); page-table indices (256,1,510,255)"
-    //@ obligation C02 C02.map_to_4kib.shape_p3_absent.error_leaves_every_mapping tier=thorough bounded="pool of 7 tables (4 path + 3 allocatable); tree-shaped sparse pre-state (target path, one neighbour word per path table, garbage in allocatable frames); page-table indices (256,1,510,255)"
-    //@ obligation C02 C02.map_to_4kib.shape_p3_absent.error_adds_at_most_parent_flags tier=thorough bounded="pool of 7 tables (4 path + 3 allocatable); tree-shaped sparse pre-state (target path, one neighbour word per path table, garbage in allocatable frames); page-table indices (256,1,510,255)"
-    //@ obligation C02 C02.map_to_4kib.shape_p3_absent.documented_outcome tier=thorough bounded="pool of 7 tables (4 path + 3 allocatable); tree-shaped sparse pre-state (target path, one neighbour word per path table, garbage in allocatable frames); page-table indices (256,1,510,255)"
-    //@ obligation C01 C01.map_to_4kib.shape_p3_absent.translate_agrees_after tier=thorough bounded="pool of 7 tables (4 path + 3 allocatable); tree-shaped sparse pre-state (target path, one neighbour word per path table, garbage in allocatable frames); page-table indices (256,1,510,255)"
-    //@ obligation C09 C09.map_to_4kib.shape_p3_absent.only_dictated_slots_change tier=thorough bounded="pool of 7 tables (4 path + 3 allocatable); tree-shaped sparse pre-state (target path, one neighbour word per path table, garbage in allocatable frames); page-table indices (256,1,510,255)"
-    //@ obligation C09 C09.map_to_4kib.shape_p3_absent.allocator_requests tier=thorough bounded="pool of 7 tables (4 path + 3 allocatable); tree-shaped sparse pre-state (target path, one neighbour word per path table, garbage in allocatable frames); page-table indices (256,1,510,255)"
-    //@ obligation C09 C09.map_to_4kib.shape_p3_absent.new_tables_zeroed_before_use tier=thorough bounded="pool of 7 tables (4 path + 3 allocatable); tree-shaped sparse pre-state (target path, one neighbour word per path table, garbage in allocatable frames); page-table indices (256,1,510,255)"
-    //@ obligation C09 C09.map_to_4kib.shape_p3_absent.no_dangling_table_pointer tier=thorough bounded="pool of 7 tables (4 path + 3 allocatable); tree-shaped sparse pre-state (target path, one neighbour word per path table, garbage in allocatable frames); page-table indices (256,1,510,255)"
+    //@ obligation C01 C01.map_to_4kib.shape_p3_absent.target_translates_to_frame tier=thorough bounded="pool of 7 tables (4 path + 3 allocatable); tree-shaped sparse pre-state (target path, one neighbour word per path table, garbage in allocatable frames); page-table indices (256,0,510,511)"
+    //@ obligation C01 C01.map_to_4kib.shape_p3_absent.target_leaf_flags tier=thorough bounded="pool of 7 tables (4 path + 3 allocatable); tree-shaped sparse pre-state (target path, one neighbour word per path table, garbage in allocatable frames); page-table indices (256,0,510,511)"
+    //@ obligation C01 C01.map_to_4kib.shape_p3_absent.parent_rights_include_requested tier=thorough bounded="pool of 7 tables (4 path + 3 allocatable); tree-shaped sparse pre-state (target path, one neighbour word per path table, garbage in allocatable frames); page-table indices (256,0,510,511)"
+    //@ obligation C01 C01.map_to_4kib.shape_p3_absent.other_addresses_unchanged tier=thorough bounded="pool of 7 tables (4 path + 3 allocatable); tree-shaped sparse pre-state (target path, one neighbour word per path table, garbage in allocatable frames); page-table indices (256,0,510,511)"
+    //@ obligation C01 C01.map_to_4kib.shape_p3_absent.result_reports_page tier=thorough bounded="pool of 7 tables (4 path + 3 allocatable); tree-shaped sparse pre-state (target path, one neighbour word per path table, garbage in allocatable frames); page-table indices (256,0,510,511)"
+    //@ obligation C11 C11.map_to_4kib.shape_p3_absent.token_names_page tier=thorough bounded="pool of 7 tables (4 path + 3 allocatable); tree-shaped sparse pre-state (target path, one neighbour word per path table, garbage in allocatable frames); page-table indices (256,0,510,511)"
+    //@ obligation C02 C02.map_to_4kib.shape_p3_absent.error_leaves_every_mapping tier=thorough bounded="pool of 7 tables (4 path + 3 allocatable); tree-shaped sparse pre-state (target path, one neighbour word per path table, garbage in allocatable frames); page-table indices (256,0,510,511)"
+    //@ obligation C02 C02.map_to_4kib.shape_p3_absent.error_adds_at_most_parent_flags tier=thorough bounded="pool of 7 tables (4 path + 3 allocatable); tree-shaped sparse pre-state (target path, one neighbour word per path table, garbage in allocatable frames); page-table indices (256,0,510,511)"
+    //@ obligation C02 C02.map_to_4kib.shape_p3_absent.documented_outcome tier=thorough bounded="pool of 7 tables (4 path + 3 allocatable); tree-shaped sparse pre-state (target path, one neighbour word per path table, garbage in allocatable frames); page-table indices (256,0,510,511)"
+    //@ obligation C01 C01.map_to_4kib.shape_p3_absent.translate_agrees_after tier=thorough bounded="pool of 7 tables (4 path + 3 allocatable); tree-shaped sparse pre-state (target path, one neighbour word per path table, garbage in allocatable frames); page-table indices (256,0,510,511)"
+    //@ obligation C09 C09.map_to_4kib.shape_p3_absent.only_dictated_slots_change tier=thorough bounded="pool of 7 tables (4 path + 3 allocatable); tree-shaped sparse pre-state (target path, one neighbour word per path table, garbage in allocatable frames); page-table indices (256,0,510,511)"
+    //@ obligation C09 C09.map_to_4kib.shape_p3_absent.allocator_requests tier=thorough bounded="pool of 7 tables (4 path + 3 allocatable); tree-shaped sparse pre-state (target path, one neighbour word per path table, garbage in allocatable frames); page-table indices (256,0,510,511)"
+    //@ obligation C09 C09.map_to_4kib.shape_p3_absent.new_tables_zeroed_before_use tier=thorough bounded="pool of 7 tables (4 path + 3 allocatable); tree-shaped sparse pre-state (target path, one neighbour word per path table, garbage in allocatable frames); page-table indices (256,0,510,511)"
+    //@ obligation C09 C09.map_to_4kib.shape_p3_absent.no_dangling_table_pointer tier=thorough bounded="pool of 7 tables (4 path + 3 allocatable); tree-shaped sparse pre-state (target path, one neighbour word per path table, garbage in allocatable frames); page-table indices (256,0,510,511)"
+    //@ obligation C09 C09.map_to_4kib.shape_p3_absent.no_access_outside_page_tables tier=thorough bounded="pool of 7 tables (4 path + 3 allocatable); tree-shaped sparse pre-state (target path, one neighbour word per path table, garbage in allocatable frames); page-table indices (256,0,510,511)"
     #[kani::proof]
     #[kani::stub(PageTable::zero, zero_stub)]
     fn c01_map_to_4kib_p3_absent_up() {
@@ -387,19 +384,21 @@ mod verif_c01_step_map {
         kani::cover!(true, "c01_map_to_4kib_p3_absent_up: reachable");
     }
 
-    //@ obligation C01 C01.map_to_4kib.shape_p2_absent.target_translates_to_frame tier=thorough bounded="pool of 7 tables (4 path + 3 allocatable); tree-shaped sparse pre-state (target path, one neighbour word per path table, garbage in allocatable frames); page-table indices (0,0,0,0)"
-    //@ obligation C01 C01.map_to_4kib.shape_p2_absent.target_leaf_flags tier=thorough bounded="pool of 7 tables (4 path + 3 allocatable); tree-shaped sparse pre-state (target path, one neighbour word per path table, garbage in allocatable frames); page-table indices (0,0,0,0)"
-    //@ obligation C01 C01.map_to_4kib.shape_p2_absent.parent_rights_include_requested tier=thorough bounded="pool of 7 tables (4 path + 3 allocatable); tree-shaped sparse pre-state (target path, one neighbour word per path table, garbage in allocatable frames); page-table indices (0,0,0,0)"
-    //@ obligation C01 C01.map_to_4kib.shape_p2_absent.other_addresses_unchanged tier=thorough bounded="pool of 7 tables (4 path + 3 allocatable); tree-shaped sparse pre-state (target path, one neighbour word per path table, garbage in allocatable frames); page-table indices (0,0,0,0)"
-    //@ obligation C11 C11.map_to_4kib.shape_p2_absent.token_names_page tier=thorough bounded="pool of 7 tables (4 path + 3 allocatable); tree-shaped sparse pre-state (target path, one neighbour word per path table, garbage in allocatable frames); page-table indices (0,0,0,0)"
-    //@ obligation C02 C02.map_to_4kib.shape_p2_absent.error_leaves_every_mapping tier=thorough bounded="pool of 7 tables (4 path + 3 allocatable); tree-shaped sparse pre-state (target path, one neighbour word per path table, garbage in allocatable frames); page-table indices (0,0,0,0)"
-    //@ obligation C02 C02.map_to_4kib.shape_p2_absent.error_adds_at_most_parent_flags tier=thorough bounded="pool of 7 tables (4 path + 3 allocatable); tree-shaped sparse pre-state (target path, one neighbour word per path table, garbage in allocatable frames); page-table indices (0,0,0,0)"
-    //@ obligation C02 C02.map_to_4kib.shape_p2_absent.documented_outcome tier=thorough bounded="pool of 7 tables (4 path + 3 allocatable); tree-shaped sparse pre-state (target path, one neighbour word per path table, garbage in allocatable frames); page-table indices (0,0,0,0)"
-    //@ obligation C01 C01.map_to_4kib.shape_p2_absent.translate_agrees_after tier=thorough bounded="pool of 7 tables (4 path + 3 allocatable); tree-shaped sparse pre-state (target path, one neighbour word per path table, garbage in allocatable frames); page-table indices (0,0,0,0)"
-    //@ obligation C09 C09.map_to_4kib.shape_p2_absent.only_dictated_slots_change tier=thorough bounded="pool of 7 tables (4 path + 3 allocatable); tree-shaped sparse pre-state (target path, one neighbour word per path table, garbage in allocatable frames); page-table indices (0,0,0,0)"
-    //@ obligation C09 C09.map_to_4kib.shape_p2_absent.allocator_requests tier=thorough bounded="pool of 7 tables (4 path + 3 allocatable); tree-shaped sparse pre-state (target path, one neighbour word per path table, garbage in allocatable frames); page-table indices (0,0,0,0)"
-    //@ obligation C09 C09.map_to_4kib.shape_p2_absent.new_tables_zeroed_before_use tier=thorough bounded="pool of 7 tables (4 path + 3 allocatable); tree-shaped sparse pre-state (target path, one neighbour word per path table, garbage in allocatable frames); page-table indices (0,0,0,0)"
-    //@ obligation C09 C09.map_to_4kib.shape_p2_absent.no_dangling_table_pointer tier=thorough bounded="pool of 7 tables (4 path + 3 allocatable); tree-shaped sparse pre-state (target path, one neighbour word per path table, garbage in allocatable frames); page-table indices (0,0,0,0)"
+    //@ obligation C01 C01.map_to_4kib.shape_p2_absent.target_translates_to_frame tier=thorough bounded="pool of 7 tables (4 path + 3 allocatable); tree-shaped sparse pre-state (target path, one neighbour word per path table, garbage in allocatable frames); page-table indices (0,1,511,2)"
+    //@ obligation C01 C01.map_to_4kib.shape_p2_absent.target_leaf_flags tier=thorough bounded="pool of 7 tables (4 path + 3 allocatable); tree-shaped sparse pre-state (target path, one neighbour word per path table, garbage in allocatable frames); page-table indices (0,1,511,2)"
+    //@ obligation C01 C01.map_to_4kib.shape_p2_absent.parent_rights_include_requested tier=thorough bounded="pool of 7 tables (4 path + 3 allocatable); tree-shaped sparse pre-state (target path, one neighbour word per path table, garbage in allocatable frames); page-table indices (0,1,511,2)"
+    //@ obligation C01 C01.map_to_4kib.shape_p2_absent.other_addresses_unchanged tier=thorough bounded="pool of 7 tables (4 path + 3 allocatable); tree-shaped sparse pre-state (target path, one neighbour word per path table, garbage in allocatable frames); page-table indices (0,1,511,2)"
+    //@ obligation C01 C01.map_to_4kib.shape_p2_absent.result_reports_page tier=thorough bounded="pool of 7 tables (4 path + 3 allocatable); tree-shaped sparse pre-state (target path, one neighbour word per path table, garbage in allocatable frames); page-table indices (0,1,511,2)"
+    //@ obligation C11 C11.map_to_4kib.shape_p2_absent.token_names_page tier=thorough bounded="pool of 7 tables (4 path + 3 allocatable); tree-shaped sparse pre-state (target path, one neighbour word per path table, garbage in allocatable frames); page-table indices (0,1,511,2)"
+    //@ obligation C02 C02.map_to_4kib.shape_p2_absent.error_leaves_every_mapping tier=thorough bounded="pool of 7 tables (4 path + 3 allocatable); tree-shaped sparse pre-state (target path, one neighbour word per path table, garbage in allocatable frames); page-table indices (0,1,511,2)"
+    //@ obligation C02 C02.map_to_4kib.shape_p2_absent.error_adds_at_most_parent_flags tier=thorough bounded="pool of 7 tables (4 path + 3 allocatable); tree-shaped sparse pre-state (target path, one neighbour word per path table, garbage in allocatable frames); page-table indices (0,1,511,2)"
+    //@ obligation C02 C02.map_to_4kib.shape_p2_absent.documented_outcome tier=thorough bounded="pool of 7 tables (4 path + 3 allocatable); tree-shaped sparse pre-state (target path, one neighbour word per path table, garbage in allocatable frames); page-table indices (0,1,511,2)"
+    //@ obligation C01 C01.map_to_4kib.shape_p2_absent.translate_agrees_after tier=thorough bounded="pool of 7 tables (4 path + 3 allocatable); tree-shaped sparse pre-state (target path, one neighbour word per path table, garbage in allocatable frames); page-table indices (0,1,511,2)"
+    //@ obligation C09 C09.map_to_4kib.shape_p2_absent.only_dictated_slots_change tier=thorough bounded="pool of 7 tables (4 path + 3 allocatable); tree-shaped sparse pre-state (target path, one neighbour word per path table, garbage in allocatable frames); page-table indices (0,1,511,2)"
+    //@ obligation C09 C09.map_to_4kib.shape_p2_absent.allocator_requests tier=thorough bounded="pool of 7 tables (4 path + 3 allocatable); tree-shaped sparse pre-state (target path, one neighbour word per path table, garbage in allocatable frames); page-table indices (0,1,511,2)"
+    //@ obligation C09 C09.map_to_4kib.shape_p2_absent.new_tables_zeroed_before_use tier=thorough bounded="pool of 7 tables (4 path + 3 allocatable); tree-shaped sparse pre-state (target path, one neighbour word per path table, garbage in allocatable frames); page-table indices (0,1,511,2)"
+    //@ obligation C09 C09.map_to_4kib.shape_p2_absent.no_dangling_table_pointer tier=thorough bounded="pool of 7 tables (4 path + 3 allocatable); tree-shaped sparse pre-state (target path, one neighbour word per path table, garbage in allocatable frames); page-table indices (0,1,511,2)"
+    //@ obligation C09 C09.map_to_4kib.shape_p2_absent.no_access_outside_page_tables tier=thorough bounded="pool of 7 tables (4 path + 3 allocatable); tree-shaped sparse pre-state (target path, one neighbour word per path table, garbage in allocatable frames); page-table indices (0,1,511,2)"
     #[kani::proof]
     #[kani::stub(PageTable::zero, zero_stub)]
     fn c01_map_to_4kib_p2_absent_lo() {
@@ -407,19 +406,21 @@ mod verif_c01_step_map {
         kani::cover!(true, "c01_map_to_4kib_p2_absent_lo: reachable");
     }
 
-    //@ obligation C01 C01.map_to_4kib.shape_p2_absent.target_translates_to_frame tier=thorough bounded="pool of 7 tables (4 path + 3 allocatable); tree-shaped sparse pre-state (target path, one neighbour word per path table, garbage in allocatable frames); page-table indices (511,511,511,511)"
-    //@ obligation C01 C01.map_to_4kib.shape_p2_absent.target_leaf_flags tier=thorough bounded="pool of 7 tables (4 path + 3 allocatable); tree-shaped sparse pre-state (target path, one neighbour word per path table, garbage in allocatable frames); page-table indices (511,511,511,511)"
-    //@ obligation C01 C01.map_to_4kib.shape_p2_absent.parent_rights_include_requested tier=thorough bounded="pool of 7 tables (4 path + 3 allocatable); tree-shaped sparse pre-state (target path, one neighbour word per path table, garbage in allocatable frames); page-table indices (511,511,511,511)"
-    //@ obligation C01 C01.map_to_4kib.shape_p2_absent.other_addresses_unchanged tier=thorough bounded="pool of 7 tables (4 path + 3 allocatable); tree-shaped sparse pre-state (target path, one neighbour word per path table, garbage in allocatable frames); page-table indices (511,511,511,511)"
-    //@ obligation C11 C11.map_to_4kib.shape_p2_absent.token_names_page tier=thorough bounded="pool of 7 tables (4 path + 3 allocatable); tree-shaped sparse pre-state (target path, one neighbour word per path table, garbage in allocatable frames); page-table indices (511,511,511,511)"
-    //@ obligation C02 C02.map_to_4kib.shape_p2_absent.error_leaves_every_mapping tier=thorough bounded="pool of 7 tables (4 path + 3 allocatable); tree-shaped sparse pre-state (target path, one neighbour word per path table, garbage in allocatable frames); page-table indices (511,511,511,511)"
-    //@ obligation C02 C02.map_to_4kib.shape_p2_absent.error_adds_at_most_parent_flags tier=thorough bounded="pool of 7 tables (4 path + 3 allocatable); tree-shaped sparse pre-state (target path, one neighbour word per path table, garbage in allocatable frames); page-table indices (511,511,511,511)"
-    //@ obligation C02 C02.map_to_4kib.shape_p2_absent.documented_outcome tier=thorough bounded="pool of 7 tables (4 path + 3 allocatable); tree-shaped sparse pre-state (target path, one neighbour word per path table, garbage in allocatable frames); page-table indices (511,511,511,511)"
-    //@ obligation C01 C01.map_to_4kib.shape_p2_absent.translate_agrees_after tier=thorough bounded="pool of 7 tables (4 path + 3 allocatable); tree-shaped sparse pre-state (target path, one neighbour word per path table, garbage in allocatable frames); page-table indices (511,511,511,511)"
-    //@ obligation C09 C09.map_to_4kib.shape_p2_absent.only_dictated_slots_change tier=thorough bounded="pool of 7 tables (4 path + 3 allocatable); tree-shaped sparse pre-state (target path, one neighbour word per path table, garbage in allocatable frames); page-table indices (511,511,511,511)"
-    //@ obligation C09 C09.map_to_4kib.shape_p2_absent.allocator_requests tier=thorough bounded="pool of 7 tables (4 path + 3 allocatable); tree-shaped sparse pre-state (target path, one neighbour word per path table, garbage in allocatable frames); page-table indices (511,511,511,511)"
-    //@ obligation C09 C09.map_to_4kib.shape_p2_absent.new_tables_zeroed_before_use tier=thorough bounded="pool of 7 tables (4 path + 3 allocatable); tree-shaped sparse pre-state (target path, one neighbour word per path table, garbage in allocatable frames); page-table indices (511,511,511,511)"
-    //@ obligation C09 C09.map_to_4kib.shape_p2_absent.no_dangling_table_pointer tier=thorough bounded="pool of 7 tables (4 path + 3 allocatable); tree-shaped sparse pre-state (target path, one neighbour word per path table, garbage in allocatable frames); page-table indices (511,511,511,511)"
+    //@ obligation C01 C01.map_to_4kib.shape_p2_absent.target_translates_to_frame tier=thorough bounded="pool of 7 tables (4 path + 3 allocatable); tree-shaped sparse pre-state (target path, one neighbour word per path table, garbage in allocatable frames); page-table indices (511,510,1,0)"
+    //@ obligation C01 C01.map_to_4kib.shape_p2_absent.target_leaf_flags tier=thorough bounded="pool of 7 tables (4 path + 3 allocatable); tree-shaped sparse pre-state (target path, one neighbour word per path table, garbage in allocatable frames); page-table indices (511,510,1,0)"
+    //@ obligation C01 C01.map_to_4kib.shape_p2_absent.parent_rights_include_requested tier=thorough bounded="pool of 7 tables (4 path + 3 allocatable); tree-shaped sparse pre-state (target path, one neighbour word per path table, garbage in allocatable frames); page-table indices (511,510,1,0)"
+    //@ obligation C01 C01.map_to_4kib.shape_p2_absent.other_addresses_unchanged tier=thorough bounded="pool of 7 tables (4 path + 3 allocatable); tree-shaped sparse pre-state (target path, one neighbour word per path table, garbage in allocatable frames); page-table indices (511,510,1,0)"
+    //@ obligation C01 C01.map_to_4kib.shape_p2_absent.result_reports_page tier=thorough bounded="pool of 7 tables (4 path + 3 allocatable); tree-shaped sparse pre-state (target path, one neighbour word per path table, garbage in allocatable frames); page-table indices (511,510,1,0)"
+    //@ obligation C11 C11.map_to_4kib.shape_p2_absent.token_names_page tier=thorough bounded="pool of 7 tables (4 path + 3 allocatable); tree-shaped sparse pre-state (target path, one neighbour word per path table, garbage in allocatable frames); page-table indices (511,510,1,0)"
+    //@ obligation C02 C02.map_to_4kib.shape_p2_absent.error_leaves_every_mapping tier=thorough bounded="pool of 7 tables (4 path + 3 allocatable); tree-shaped sparse pre-state (target path, one neighbour word per path table, garbage in allocatable frames); page-table indices (511,510,1,0)"
+    //@ obligation C02 C02.map_to_4kib.shape_p2_absent.error_adds_at_most_parent_flags tier=thorough bounded="pool of 7 tables (4 path + 3 allocatable); tree-shaped sparse pre-state (target path, one neighbour word per path table, garbage in allocatable frames); page-table indices (511,510,1,0)"
+    //@ obligation C02 C02.map_to_4kib.shape_p2_absent.documented_outcome tier=thorough bounded="pool of 7 tables (4 path + 3 allocatable); tree-shaped sparse pre-state (target path, one neighbour word per path table, garbage in allocatable frames); page-table indices (511,510,1,0)"
+    //@ obligation C01 C01.map_to_4kib.shape_p2_absent.translate_agrees_after tier=thorough bounded="pool of 7 tables (4 path + 3 allocatable); tree-shaped sparse pre-state (target path, one neighbour word per path table, garbage in allocatable frames); page-table indices (511,510,1,0)"
+    //@ obligation C09 C09.map_to_4kib.shape_p2_absent.only_dictated_slots_change tier=thorough bounded="pool of 7 tables (4 path + 3 allocatable); tree-shaped sparse pre-state (target path, one neighbour word per path table, garbage in allocatable frames); page-table indices (511,510,1,0)"
+    //@ obligation C09 C09.map_to_4kib.shape_p2_absent.allocator_requests tier=thorough bounded="pool of 7 tables (4 path + 3 allocatable); tree-shaped sparse pre-state (target path, one neighbour word per path table, garbage in allocatable frames); page-table indices (511,510,1,0)"
+    //@ obligation C09 C09.map_to_4kib.shape_p2_absent.new_tables_zeroed_before_use tier=thorough bounded="pool of 7 tables (4 path + 3 allocatable); tree-shaped sparse pre-state (target path, one neighbour word per path table, garbage in allocatable frames); page-table indices (511,510,1,0)"
+    //@ obligation C09 C09.map_to_4kib.shape_p2_absent.no_dangling_table_pointer tier=thorough bounded="pool of 7 tables (4 path + 3 allocatable); tree-shaped sparse pre-state (target path, one neighbour word per path table, garbage in allocatable frames); page-table indices (511,510,1,0)"
+    //@ obligation C09 C09.map_to_4kib.shape_p2_absent.no_access_outside_page_tables tier=thorough bounded="pool of 7 tables (4 path + 3 allocatable); tree-shaped sparse pre-state (target path, one neighbour word per path table, garbage in allocatable frames); page-table indices (511,510,1,0)"
     #[kani::proof]
     #[kani::stub(PageTable::zero, zero_stub)]
     fn c01_map_to_4kib_p2_absent_hi() {
@@ -427,19 +428,21 @@ mod verif_c01_step_map {
         kani::cover!(true, "c01_map_to_4kib_p2_absent_hi: reachable");
     }
 
-    //@ obligation C01 C01.map_to_4kib.shape_p2_absent.target_translates_to_frame tier=thorough bounded="pool of 7 tables (4 path + 3 allocatable); tree-shaped sparse pre-state (target path, one neighbour word per path table, garbage in allocatable frames); page-table indices (255,511,0,1)"
-    //@ obligation C01 C01.map_to_4kib.shape_p2_absent.target_leaf_flags tier=thorough bounded="pool of 7 tables (4 path + 3 allocatable); tree-shaped sparse pre-state (target path, one neighbour word per path table, garbage in allocatable frames); page-table indices (255,511,0,1)"
-    //@ obligation C01 C01.map_to_4kib.shape_p2_absent.parent_rights_include_requested tier=thorough bounded="pool of 7 tables (4 path + 3 allocatable); tree-shaped sparse pre-state (target path, one neighbour word per path table, garbage in allocatable frames); page-table indices (255,511,0,1)"
-    //@ obligation C01 C01.map_to_4kib.shape_p2_absent.other_addresses_unchanged tier=thorough bounded="pool of 7 tables (4 path + 3 allocatable); tree-shaped sparse pre-state (target path, one neighbour word per path table, garbage in allocatable frames); page-table indices (255,511,0,1)"
-    //@ obligation C11 C11.map_to_4kib.shape_p2_absent.token_names_page tier=thorough bounded="pool of 7 tables (4 path + 3 allocatable); tree-shaped sparse pre-state (target path, one neighbour word per path table, garbage in allocatable frames); page-table indices (255,511,0,1)"
-    //@ obligation C02 C02.map_to_4kib.shape_p2_absent.error_leaves_every_mapping tier=thorough bounded="pool of 7 tables (4 path + 3 allocatable); tree-shaped sparse pre-state (target path, one neighbour word per path table, garbage in allocatable frames); page-table indices (255,511,0,1)"
-    //@ obligation C02 C02.map_to_4kib.shape_p2_absent.error_adds_at_most_parent_flags tier=thorough bounded="pool of 7 tables (4 path + 3 allocatable); tree-shaped sparse pre-state (target path, one neighbour word per path table, garbage in allocatable frames); page-table indices (255,511,0,1)"
-    //@ obligation C02 C02.map_to_4kib.shape_p2_absent.documented_outcome tier=thorough bounded="pool of 7 tables (4 path + 3 allocatable); tree-shaped sparse pre-state (target path, one neighbour word per path table, garbage in allocatable frames); page-table indices (255,511,0,1)"
-    //@ obligation C01 C01.map_to_4kib.shape_p2_absent.translate_agrees_after tier=thorough bounded="pool of 7 tables (4 path + 3 allocatable); tree-shaped sparse pre-state (target path, one neighbour word per path table, garbage in allocatable frames); page-table indices (255,511,0,1)"
-    //@ obligation C09 C09.map_to_4kib.shape_p2_absent.only_dictated_slots_change tier=thorough bounded="pool of 7 tables (4 path + 3 allocatable); tree-shaped sparse pre-state (target path, one neighbour word per path table, garbage in allocatable frames); page-table indices (255,511,0,1)"
-    //@ obligation C09 C09.map_to_4kib.shape_p2_absent.allocator_requests tier=thorough bounded="pool of 7 tables (4 path + 3 allocatable); tree-shaped sparse pre-state (target path, one neighbour word per path table, garbage in allocatable frames); page-table indices (255,511,0,1)"
-    //@ obligation C09 C09.map_to_4kib.shape_p2_absent.new_tables_zeroed_before_use tier=thorough bounded="pool of 7 tables (4 path + 3 allocatable); tree-shaped sparse pre-state (target path, one neighbour word per path table, garbage in allocatable frames); page-table indices (255,511,0,1)"
-    //@ obligation C09 C09.map_to_4kib.shape_p2_absent.no_dangling_table_pointer tier=thorough bounded="pool of 7 tables (4 path + 3 allocatable); tree-shaped sparse pre-state (target path, one neighbour word per path table, garbage in allocatable frames); page-table indices (255,511,0,1)"
+    //@ obligation C01 C01.map_to_4kib.shape_p2_absent.target_translates_to_frame tier=thorough bounded="pool of 7 tables (4 path + 3 allocatable); tree-shaped sparse pre-state (target path, one neighbour word per path table, garbage in allocatable frames); page-table indices (255,511,0,256)"
+    //@ obligation C01 C01.map_to_4kib.shape_p2_absent.target_leaf_flags tier=thorough bounded="pool of 7 tables (4 path + 3 allocatable); tree-shaped sparse pre-state (target path, one neighbour word per path table, garbage in allocatable frames); page-table indices (255,511,0,256)"
+    //@ obligation C01 C01.map_to_4kib.shape_p2_absent.parent_rights_include_requested tier=thorough bounded="pool of 7 tables (4 path + 3 allocatable); tree-shaped sparse pre-state (target path, one neighbour word per path table, garbage in allocatable frames); page-table indices (255,511,0,256)"
+    //@ obligation C01 C01.map_to_4kib.shape_p2_absent.other_addresses_unchanged tier=thorough bounded="pool of 7 tables (4 path + 3 allocatable); tree-shaped sparse pre-state (target path, one neighbour word per path table, garbage in allocatable frames); page-table indices (255,511,0,256)"
+    //@ obligation C01 C01.map_to_4kib.shape_p2_absent.result_reports_page tier=thorough bounded="pool of 7 tables (4 path + 3 allocatable); tree-shaped sparse pre-state (target path, one neighbour word per path table, garbage in allocatable frames); page-table indices (255,511,0,256)"
+    //@ obligation C11 C11.map_to_4kib.shape_p2_absent.token_names_page tier=thorough bounded="pool of 7 tables (4 path + 3 allocatable); tree-shaped sparse pre-state (target path, one neighbour word per path table, garbage in allocatable frames); page-table indices (255,511,0,256)"
+    //@ obligation C02 C02.map_to_4kib.shape_p2_absent.error_leaves_every_mapping tier=thorough bounded="pool of 7 tables (4 path + 3 allocatable); tree-shaped sparse pre-state (target path, one neighbour word per path table, garbage in allocatable frames); page-table indices (255,511,0,256)"
+    //@ obligation C02 C02.map_to_4kib.shape_p2_absent.error_adds_at_most_parent_flags tier=thorough bounded="pool of 7 tables (4 path + 3 allocatable); tree-shaped sparse pre-state (target path, one neighbour word per path table, garbage in allocatable frames); page-table indices (255,511,0,256)"
+    //@ obligation C02 C02.map_to_4kib.shape_p2_absent.documented_outcome tier=thorough bounded="pool of 7 tables (4 path + 3 allocatable); tree-shaped sparse pre-state (target path, one neighbour word per path table, garbage in allocatable frames); page-table indices (255,511,0,256)"
+    //@ obligation C01 C01.map_to_4kib.shape_p2_absent.translate_agrees_after tier=thorough bounded="pool of 7 tables (4 path + 3 allocatable); tree-shaped sparse pre-state (target path, one neighbour word per path table, garbage in allocatable frames); page-table indices (255,511,0,256)"
+    //@ obligation C09 C09.map_to_4kib.shape_p2_absent.only_dictated_slots_change tier=thorough bounded="pool of 7 tables (4 path + 3 allocatable); tree-shaped sparse pre-state (target path, one neighbour word per path table, garbage in allocatable frames); page-table indices (255,511,0,256)"
+    //@ obligation C09 C09.map_to_4kib.shape_p2_absent.allocator_requests tier=thorough bounded="pool of 7 tables (4 path + 3 allocatable); tree-shaped sparse pre-state (target path, one neighbour word per path table, garbage in allocatable frames); page-table indices (255,511,0,256)"
+    //@ obligation C09 C09.map_to_4kib.shape_p2_absent.new_tables_zeroed_before_use tier=thorough bounded="pool of 7 tables (4 path + 3 allocatable); tree-shaped sparse pre-state (target path, one neighbour word per path table, garbage in allocatable frames); page-table indices (255,511,0,256)"
+    //@ obligation C09 C09.map_to_4kib.shape_p2_absent.no_dangling_table_pointer tier=thorough bounded="pool of 7 tables (4 path + 3 allocatable); tree-shaped sparse pre-state (target path, one neighbour word per path table, garbage in allocatable frames); page-table indices (255,511,0,256)"
+    //@ obligation C09 C09.map_to_4kib.shape_p2_absent.no_access_outside_page_tables tier=thorough bounded="pool of 7 tables (4 path + 3 allocatable); tree-shaped sparse pre-state (target path, one neighbour word per path table, garbage in allocatable frames); page-table indices (255,511,0,256)"
     #[kani::proof]
     #[kani::stub(PageTable::zero, zero_stub)]
     fn c01_map_to_4kib_p2_absent_mid() {
@@ -447,19 +450,21 @@ mod verif_c01_step_map {
         kani::cover!(true, "c01_map_to_4kib_p2_absent_mid: reachable");
     }
 
-    //@ obligation C01 C01.map_to_4kib.shape_p2_absent.target_translates_to_frame tier=thorough bounded="pool of 7 tables (4 path + 3 allocatable); tree-shaped sparse pre-state (target path, one neighbour word per path table, garbage in allocatable frames); page-table indices (256,1,510,255)"
-    //@ obligation C01 C01.map_to_4kib.shape_p2_absent.target_leaf_flags tier=thorough bounded="pool of 7 tables (4 path + 3 allocatable); tree-shaped sparse pre-state (target path, one neighbour word per path table, garbage in allocatable frames); page-table indices (256,1,510,255)"
-    //@ obligation C01 C01.map_to_4kib.shape_p2_absent.parent_rights_include_requested tier=thorough bounded="pool of 7 tables (4 path + 3 allocatable); tree-shaped sparse pre-state (target path, one neighbour word per path table, garbage in allocatable frames); page-table indices (256,1,510,255)"
-    //@ obligation C01 C01.map_to_4kib.shape_p2_absent.other_addresses_unchanged tier=thorough bounded="pool of 7 tables (4 path + 3 allocatable); tree-shaped sparse pre-state (target path, one neighbour word per path table, garbage in allocatable frames); page-table indices (256,1,510,255)"
-    //@ obligation C11 C11.map_to_4kib.shape_p2_absent.token_names_page tier=thorough bounded="pool of 7 tables (4 path + 3 allocatable); tree-shaped sparse pre-state (target path, one neighbour word per path table, garbage in allocatable frames); page-table indices (256,1,510,255)"
-    //@ obligation C02 C02.map_to_4kib.shape_p2_absent.error_leaves_every_mapping tier=thorough bounded="pool of 7 tables (4 path + 3 allocatable); tree-shaped sparse pre-state (target path, one neighbour word per path table, garbage in allocatable frames); page-table indices (256,1,510,255)"
-    //@ obligation C02 C02.map_to_4kib.shape_p2_absent.error_adds_at_most_parent_flags tier=thorough bounded="pool of 7 tables (4 path + 3 allocatable); tree-shaped sparse pre-state (target path, one neighbour word per path table, garbage in allocatable frames); page-table indices (256,1,510,255)"
-    //@ obligation C02 C02.map_to_4kib.shape_p2_absent.documented_outcome tier=thorough bounded="pool of 7 tables (4 path + 3 allocatable); tree-shaped sparse pre-state (target path, one neighbour word per path table, garbage in allocatable frames); page-table indices (256,1,510,255)"
-    //@ obligation C01 C01.map_to_4kib.shape_p2_absent.translate_agrees_after tier=thorough bounded="pool of 7 tables (4 path + 3 allocatable); tree-shaped sparse pre-state (target path, one neighbour word per path table, garbage in allocatable frames); page-table indices (256,1,510,255)"
-    //@ obligation C09 C09.map_to_4kib.shape_p2_absent.only_dictated_slots_change tier=thorough bounded="pool of 7 tables (4 path + 3 allocatable); tree-shaped sparse pre-state (target path, one neighbour word per path table, garbage in allocatable frames); page-table indices (256,1,510,255)"
-    //@ obligation C09 C09.map_to_4kib.shape_p2_absent.allocator_requests tier=thorough bounded="pool of 7 tables (4 path + 3 allocatable); tree-shaped sparse pre-state (target path, one neighbour word per path table, garbage in allocatable frames); page-table indices (256,1,510,255)"
-    //@ obligation C09 C09.map_to_4kib.shape_p2_absent.new_tables_zeroed_before_use tier=thorough bounded="pool of 7 tables (4 path + 3 allocatable); tree-shaped sparse pre-state (target path, one neighbour word per path table, garbage in allocatable frames); page-table indices (256,1,510,255)"
-    //@ obligation C09 C09.map_to_4kib.shape_p2_absent.no_dangling_table_pointer tier=thorough bounded="pool of 7 tables (4 path + 3 allocatable); tree-shaped sparse pre-state (target path, one neighbour word per path table, garbage in allocatable frames); page-table indices (256,1,510,255)"
+    //@ obligation C01 C01.map_to_4kib.shape_p2_absent.target_translates_to_frame tier=thorough bounded="pool of 7 tables (4 path + 3 allocatable); tree-shaped sparse pre-state (target path, one neighbour word per path table, garbage in allocatable frames); page-table indices (256,0,510,511)"
+    //@ obligation C01 C01.map_to_4kib.shape_p2_absent.target_leaf_flags tier=thorough bounded="pool of 7 tables (4 path + 3 allocatable); tree-shaped sparse pre-state (target path, one neighbour word per path table, garbage in allocatable frames); page-table indices (256,0,510,511)"
+    //@ obligation C01 C01.map_to_4kib.shape_p2_absent.parent_rights_include_requested tier=thorough bounded="pool of 7 tables (4 path + 3 allocatable); tree-shaped sparse pre-state (target path, one neighbour word per path table, garbage in allocatable frames); page-table indices (256,0,510,511)"
+    //@ obligation C01 C01.map_to_4kib.shape_p2_absent.other_addresses_unchanged tier=thorough bounded="pool of 7 tables (4 path + 3 allocatable); tree-shaped sparse pre-state (target path, one neighbour word per path table, garbage in allocatable frames); page-table indices (256,0,510,511)"
+    //@ obligation C01 C01.map_to_4kib.shape_p2_absent.result_reports_page tier=thorough bounded="pool of 7 tables (4 path + 3 allocatable); tree-shaped sparse pre-state (target path, one neighbour word per path table, garbage in allocatable frames); page-table indices (256,0,510,511)"
+    //@ obligation C11 C11.map_to_4kib.shape_p2_absent.token_names_page tier=thorough bounded="pool of 7 tables (4 path + 3 allocatable); tree-shaped sparse pre-state (target path, one neighbour word per path table, garbage in allocatable frames); page-table indices (256,0,510,511)"
+    //@ obligation C02 C02.map_to_4kib.shape_p2_absent.error_leaves_every_mapping tier=thorough bounded="pool of 7 tables (4 path + 3 allocatable); tree-shaped sparse pre-state (target path, one neighbour word per path table, garbage in allocatable frames); page-table indices (256,0,510,511)"
+    //@ obligation C02 C02.map_to_4kib.shape_p2_absent.error_adds_at_most_parent_flags tier=thorough bounded="pool of 7 tables (4 path + 3 allocatable); tree-shaped sparse pre-state (target path, one neighbour word per path table, garbage in allocatable frames); page-table indices (256,0,510,511)"
+    //@ obligation C02 C02.map_to_4kib.shape_p2_absent.documented_outcome tier=thorough bounded="pool of 7 tables (4 path + 3 allocatable); tree-shaped sparse pre-state (target path, one neighbour word per path table, garbage in allocatable frames); page-table indices (256,0,510,511)"
+    //@ obligation C01 C01.map_to_4kib.shape_p2_absent.translate_agrees_after tier=thorough bounded="pool of 7 tables (4 path + 3 allocatable); tree-shaped sparse pre-state (target path, one neighbour word per path table, garbage in allocatable frames); page-table indices (256,0,510,511)"
+    //@ obligation C09 C09.map_to_4kib.shape_p2_absent.only_dictated_slots_change tier=thorough bounded="pool of 7 tables (4 path + 3 allocatable); tree-shaped sparse pre-state (target path, one neighbour word per path table, garbage in allocatable frames); page-table indices (256,0,510,511)"
+    //@ obligation C09 C09.map_to_4kib.shape_p2_absent.allocator_requests tier=thorough bounded="pool of 7 tables (4 path + 3 allocatable); tree-shaped sparse pre-state (target path, one neighbour word per path table, garbage in allocatable frames); page-table indices (256,0,510,511)"
+    //@ obligation C09 C09.map_to_4kib.shape_p2_absent.new_tables_zeroed_before_use tier=thorough bounded="pool of 7 tables (4 path + 3 allocatable); tree-shaped sparse pre-state (target path, one neighbour word per path table, garbage in allocatable frames); page-table indices (256,0,510,511)"
+    //@ obligation C09 C09.map_to_4kib.shape_p2_absent.no_dangling_table_pointer tier=thorough bounded="pool of 7 tables (4 path + 3 allocatable); tree-shaped sparse pre-state (target path, one neighbour word per path table, garbage in allocatable frames); page-table indices (256,0,510,511)"
+    //@ obligation C09 C09.map_to_4kib.shape_p2_absent.no_access_outside_page_tables tier=thorough bounded="pool of 7 tables (4 path + 3 allocatable); tree-shaped sparse pre-state (target path, one neighbour word per path table, garbage in allocatable frames); page-table indices (256,0,510,511)"
     #[kani::proof]
     #[kani::stub(PageTable::zero, zero_stub)]
     fn c01_map_to_4kib_p2_absent_up() {
@@ -467,17 +472,19 @@ mod verif_c01_step_map {
         kani::cover!(true, "c01_map_to_4kib_p2_absent_up: reachable");
     }
 
-    //@ obligation C01 C01.map_to_4kib.shape_p1_absent.target_translates_to_frame tier=thorough bounded="pool of 7 tables (4 path + 3 allocatable); tree-shaped sparse pre-state (target path, one neighbour word per path table, garbage in allocatable frames); page-table indices (0,0,0,0)"
-    //@ obligation C01 C01.map_to_4kib.shape_p1_absent.target_leaf_flags tier=thorough bounded="pool of 7 tables (4 path + 3 allocatable); tree-shaped sparse pre-state (target path, one neighbour word per path table, garbage in allocatable frames); page-table indices (0,0,0,0)"
-    //@ obligation C01 C01.map_to_4kib.shape_p1_absent.parent_rights_include_requested tier=thorough bounded="pool of 7 tables (4 path + 3 allocatable); tree-shaped sparse pre-state (target path, one neighbour word per path table, garbage in allocatable frames); page-table indices (0,0,0,0)"
-    //@ obligation C01 C01.map_to_4kib.shape_p1_absent.other_addresses_unchanged tier=thorough bounded="pool of 7 tables (4 path + 3 allocatable); tree-shaped sparse pre-state (target path, one neighbour word per path table, garbage in allocatable frames); page-table indices (0,0,0,0)"
-    //@ obligation C11 C11.map_to_4kib.shape_p1_absent.token_names_page tier=thorough bounded="pool of 7 tables (4 path + 3 allocatable); tree-shaped sparse pre-state (target path, one neighbour word per path table, garbage in allocatable frames); page-table indices (0,0,0,0)"
-    //@ obligation C02 C02.map_to_4kib.shape_p1_absent.documented_outcome tier=thorough bounded="pool of 7 tables (4 path + 3 allocatable); tree-shaped sparse pre-state (target path, one neighbour word per path table, garbage in allocatable frames); page-table indices (0,0,0,0)"
-    //@ obligation C01 C01.map_to_4kib.shape_p1_absent.translate_agrees_after tier=thorough bounded="pool of 7 tables (4 path + 3 allocatable); tree-shaped sparse pre-state (target path, one neighbour word per path table, garbage in allocatable frames); page-table indices (0,0,0,0)"
-    //@ obligation C09 C09.map_to_4kib.shape_p1_absent.only_dictated_slots_change tier=thorough bounded="pool of 7 tables (4 path + 3 allocatable); tree-shaped sparse pre-state (target path, one neighbour word per path table, garbage in allocatable frames); page-table indices (0,0,0,0)"
-    //@ obligation C09 C09.map_to_4kib.shape_p1_absent.allocator_requests tier=thorough bounded="pool of 7 tables (4 path + 3 allocatable); tree-shaped sparse pre-state (target path, one neighbour word per path table, garbage in allocatable frames); page-table indices (0,0,0,0)"
-    //@ obligation C09 C09.map_to_4kib.shape_p1_absent.new_tables_zeroed_before_use tier=thorough bounded="pool of 7 tables (4 path + 3 allocatable); tree-shaped sparse pre-state (target path, one neighbour word per path table, garbage in allocatable frames); page-table indices (0,0,0,0)"
-    //@ obligation C09 C09.map_to_4kib.shape_p1_absent.no_dangling_table_pointer tier=thorough bounded="pool of 7 tables (4 path + 3 allocatable); tree-shaped sparse pre-state (target path, one neighbour word per path table, garbage in allocatable frames); page-table indices (0,0,0,0)"
+    //@ obligation C01 C01.map_to_4kib.shape_p1_absent.target_translates_to_frame tier=thorough bounded="pool of 7 tables (4 path + 3 allocatable); tree-shaped sparse pre-state (target path, one neighbour word per path table, garbage in allocatable frames); page-table indices (0,1,511,2)"
+    //@ obligation C01 C01.map_to_4kib.shape_p1_absent.target_leaf_flags tier=thorough bounded="pool of 7 tables (4 path + 3 allocatable); tree-shaped sparse pre-state (target path, one neighbour word per path table, garbage in allocatable frames); page-table indices (0,1,511,2)"
+    //@ obligation C01 C01.map_to_4kib.shape_p1_absent.parent_rights_include_requested tier=thorough bounded="pool of 7 tables (4 path + 3 allocatable); tree-shaped sparse pre-state (target path, one neighbour word per path table, garbage in allocatable frames); page-table indices (0,1,511,2)"
+    //@ obligation C01 C01.map_to_4kib.shape_p1_absent.other_addresses_unchanged tier=thorough bounded="pool of 7 tables (4 path + 3 allocatable); tree-shaped sparse pre-state (target path, one neighbour word per path table, garbage in allocatable frames); page-table indices (0,1,511,2)"
+    //@ obligation C01 C01.map_to_4kib.shape_p1_absent.result_reports_page tier=thorough bounded="pool of 7 tables (4 path + 3 allocatable); tree-shaped sparse pre-state (target path, one neighbour word per path table, garbage in allocatable frames); page-table indices (0,1,511,2)"
+    //@ obligation C11 C11.map_to_4kib.shape_p1_absent.token_names_page tier=thorough bounded="pool of 7 tables (4 path + 3 allocatable); tree-shaped sparse pre-state (target path, one neighbour word per path table, garbage in allocatable frames); page-table indices (0,1,511,2)"
+    //@ obligation C02 C02.map_to_4kib.shape_p1_absent.documented_outcome tier=thorough bounded="pool of 7 tables (4 path + 3 allocatable); tree-shaped sparse pre-state (target path, one neighbour word per path table, garbage in allocatable frames); page-table indices (0,1,511,2)"
+    //@ obligation C01 C01.map_to_4kib.shape_p1_absent.translate_agrees_after tier=thorough bounded="pool of 7 tables (4 path + 3 allocatable); tree-shaped sparse pre-state (target path, one neighbour word per path table, garbage in allocatable frames); page-table indices (0,1,511,2)"
+    //@ obligation C09 C09.map_to_4kib.shape_p1_absent.only_dictated_slots_change tier=thorough bounded="pool of 7 tables (4 path + 3 allocatable); tree-shaped sparse pre-state (target path, one neighbour word per path table, garbage in allocatable frames); page-table indices (0,1,511,2)"
+    //@ obligation C09 C09.map_to_4kib.shape_p1_absent.allocator_requests tier=thorough bounded="pool of 7 tables (4 path + 3 allocatable); tree-shaped sparse pre-state (target path, one neighbour word per path table, garbage in allocatable frames); page-table indices (0,1,511,2)"
+    //@ obligation C09 C09.map_to_4kib.shape_p1_absent.new_tables_zeroed_before_use tier=thorough bounded="pool of 7 tables (4 path + 3 allocatable); tree-shaped sparse pre-state (target path, one neighbour word per path table, garbage in allocatable frames); page-table indices (0,1,511,2)"
+    //@ obligation C09 C09.map_to_4kib.shape_p1_absent.no_dangling_table_pointer tier=thorough bounded="pool of 7 tables (4 path + 3 allocatable); tree-shaped sparse pre-state (target path, one neighbour word per path table, garbage in allocatable frames); page-table indices (0,1,511,2)"
+    //@ obligation C09 C09.map_to_4kib.shape_p1_absent.no_access_outside_page_tables tier=thorough bounded="pool of 7 tables (4 path + 3 allocatable); tree-shaped sparse pre-state (target path, one neighbour word per path table, garbage in allocatable frames); page-table indices (0,1,511,2)"
     #[kani::proof]
     #[kani::stub(PageTable::zero, zero_stub)]
     fn c01_map_to_4kib_p1_absent_lo() {
@@ -485,17 +492,19 @@ mod verif_c01_step_map {
         kani::cover!(true, "c01_map_to_4kib_p1_absent_lo: reachable");
     }
 
-    //@ obligation C01 C01.map_to_4kib.shape_p1_absent.target_translates_to_frame tier=thorough bounded="pool of 7 tables (4 path + 3 allocatable); tree-shaped sparse pre-state (target path, one neighbour word per path table, garbage in allocatable frames); page-table indices (511,511,511,511)"
-    //@ obligation C01 C01.map_to_4kib.shape_p1_absent.target_leaf_flags tier=thorough bounded="pool of 7 tables (4 path + 3 allocatable); tree-shaped sparse pre-state (target path, one neighbour word per path table, garbage in allocatable frames); page-table indices (511,511,511,511)"
-    //@ obligation C01 C01.map_to_4kib.shape_p1_absent.parent_rights_include_requested tier=thorough bounded="pool of 7 tables (4 path + 3 allocatable); tree-shaped sparse pre-state (target path, one neighbour word per path table, garbage in allocatable frames); page-table indices (511,511,511,511)"
-    //@ obligation C01 C01.map_to_4kib.shape_p1_absent.other_addresses_unchanged tier=thorough bounded="pool of 7 tables (4 path + 3 allocatable); tree-shaped sparse pre-state (target path, one neighbour word per path table, garbage in allocatable frames); page-table indices (511,511,511,511)"
-    //@ obligation C11 C11.map_to_4kib.shape_p1_absent.token_names_page tier=thorough bounded="pool of 7 tables (4 path + 3 allocatable); tree-shaped sparse pre-state (target path, one neighbour word per path table, garbage in allocatable frames); page-table indices (511,511,511,511)"
-    //@ obligation C02 C02.map_to_4kib.shape_p1_absent.documented_outcome tier=thorough bounded="pool of 7 tables (4 path + 3 allocatable); tree-shaped sparse pre-state (target path, one neighbour word per path table, garbage in allocatable frames); page-table indices (511,511,511,511)"
-    //@ obligation C01 C01.map_to_4kib.shape_p1_absent.translate_agrees_after tier=thorough bounded="pool of 7 tables (4 path + 3 allocatable); tree-shaped sparse pre-state (target path, one neighbour word per path table, garbage in allocatable frames); page-table indices (511,511,511,511)"
-    //@ obligation C09 C09.map_to_4kib.shape_p1_absent.only_dictated_slots_change tier=thorough bounded="pool of 7 tables (4 path + 3 allocatable); tree-shaped sparse pre-state (target path, one neighbour word per path table, garbage in allocatable frames); page-table indices (511,511,511,511)"
-    //@ obligation C09 C09.map_to_4kib.shape_p1_absent.allocator_requests tier=thorough bounded="pool of 7 tables (4 path + 3 allocatable); tree-shaped sparse pre-state (target path, one neighbour word per path table, garbage in allocatable frames); page-table indices (511,511,511,511)"
-    //@ obligation C09 C09.map_to_4kib.shape_p1_absent.new_tables_zeroed_before_use tier=thorough bounded="pool of 7 tables (4 path + 3 allocatable); tree-shaped sparse pre-state (target path, one neighbour word per path table, garbage in allocatable frames); page-table indices (511,511,511,511)"
-    //@ obligation C09 C09.map_to_4kib.shape_p1_absent.no_dangling_table_pointer tier=thorough bounded="pool of 7 tables (4 path + 3 allocatable); tree-shaped sparse pre-state (target path, one neighbour word per path table, garbage in allocatable frames); page-table indices (511,511,511,511)"
+    //@ obligation C01 C01.map_to_4kib.shape_p1_absent.target_translates_to_frame tier=thorough bounded="pool of 7 tables (4 path + 3 allocatable); tree-shaped sparse pre-state (target path, one neighbour word per path table, garbage in allocatable frames); page-table indices (511,510,1,0)"
+    //@ obligation C01 C01.map_to_4kib.shape_p1_absent.target_leaf_flags tier=thorough bounded="pool of 7 tables (4 path + 3 allocatable); tree-shaped sparse pre-state (target path, one neighbour word per path table, garbage in allocatable frames); page-table indices (511,510,1,0)"
+    //@ obligation C01 C01.map_to_4kib.shape_p1_absent.parent_rights_include_requested tier=thorough bounded="pool of 7 tables (4 path + 3 allocatable); tree-shaped sparse pre-state (target path, one neighbour word per path table, garbage in allocatable frames); page-table indices (511,510,1,0)"
+    //@ obligation C01 C01.map_to_4kib.shape_p1_absent.other_addresses_unchanged tier=thorough bounded="pool of 7 tables (4 path + 3 allocatable); tree-shaped sparse pre-state (target path, one neighbour word per path table, garbage in allocatable frames); page-table indices (511,510,1,0)"
+    //@ obligation C01 C01.map_to_4kib.shape_p1_absent.result_reports_page tier=thorough bounded="pool of 7 tables (4 path + 3 allocatable); tree-shaped sparse pre-state (target path, one neighbour word per path table, garbage in allocatable frames); page-table indices (511,510,1,0)"
+    //@ obligation C11 C11.map_to_4kib.shape_p1_absent.token_names_page tier=thorough bounded="pool of 7 tables (4 path + 3 allocatable); tree-shaped sparse pre-state (target path, one neighbour word per path table, garbage in allocatable frames); page-table indices (511,510,1,0)"
+    //@ obligation C02 C02.map_to_4kib.shape_p1_absent.documented_outcome tier=thorough bounded="pool of 7 tables (4 path + 3 allocatable); tree-shaped sparse pre-state (target path, one neighbour word per path table, garbage in allocatable frames); page-table indices (511,510,1,0)"
+    //@ obligation C01 C01.map_to_4kib.shape_p1_absent.translate_agrees_after tier=thorough bounded="pool of 7 tables (4 path + 3 allocatable); tree-shaped sparse pre-state (target path, one neighbour word per path table, garbage in allocatable frames); page-table indices (511,510,1,0)"
+    //@ obligation C09 C09.map_to_4kib.shape_p1_absent.only_dictated_slots_change tier=thorough bounded="pool of 7 tables (4 path + 3 allocatable); tree-shaped sparse pre-state (target path, one neighbour word per path table, garbage in allocatable frames); page-table indices (511,510,1,0)"
+    //@ obligation C09 C09.map_to_4kib.shape_p1_absent.allocator_requests tier=thorough bounded="pool of 7 tables (4 path + 3 allocatable); tree-shaped sparse pre-state (target path, one neighbour word per path table, garbage in allocatable frames); page-table indices (511,510,1,0)"
+    //@ obligation C09 C09.map_to_4kib.shape_p1_absent.new_tables_zeroed_before_use tier=thorough bounded="pool of 7 tables (4 path + 3 allocatable); tree-shaped sparse pre-state (target path, one neighbour word per path table, garbage in allocatable frames); page-table indices (511,510,1,0)"
+    //@ obligation C09 C09.map_to_4kib.shape_p1_absent.no_dangling_table_pointer tier=thorough bounded="pool of 7 tables (4 path + 3 allocatable); tree-shaped sparse pre-state (target path, one neighbour word per path table, garbage in allocatable frames); page-table indices (511,510,1,0)"
+    //@ obligation C09 C09.map_to_4kib.shape_p1_absent.no_access_outside_page_tables tier=thorough bounded="pool of 7 tables (4 path + 3 allocatable); tree-shaped sparse pre-state (target path, one neighbour word per path table, garbage in allocatable frames); page-table indices (511,510,1,0)"
     #[kani::proof]
     #[kani::stub(PageTable::zero, zero_stub)]
     fn c01_map_to_4kib_p1_absent_hi() {
@@ -503,17 +512,19 @@ mod verif_c01_step_map {
         kani::cover!(true, "c01_map_to_4kib_p1_absent_hi: reachable");
     }
 
-    //@ obligation C01 C01.map_to_4kib.shape_p1_absent.target_translates_to_frame tier=thorough bounded="pool of 7 tables (4 path + 3 allocatable); tree-shaped sparse pre-state (target path, one neighbour word per path table, garbage in allocatable frames); page-table indices (255,511,0,1)"
-    //@ obligation C01 C01.map_to_4kib.shape_p1_absent.target_leaf_flags tier=thorough bounded="pool of 7 tables (4 path + 3 allocatable); tree-shaped sparse pre-state (target path, one neighbour word per path table, garbage in allocatable frames); page-table indices (255,511,0,1)"
-    //@ obligation C01 C01.map_to_4kib.shape_p1_absent.parent_rights_include_requested tier=thorough bounded="pool of 7 tables (4 path + 3 allocatable); tree-shaped sparse pre-state (target path, one neighbour word per path table, garbage in allocatable frames); page-table indices (255,511,0,1)"
-    //@ obligation C01 C01.map_to_4kib.shape_p1_absent.other_addresses_unchanged tier=thorough bounded="pool of 7 tables (4 path + 3 allocatable); tree-shaped sparse pre-state (target path, one neighbour word per path table, garbage in allocatable frames); page-table indices (255,511,0,1)"
-    //@ obligation C11 C11.map_to_4kib.shape_p1_absent.token_names_page tier=thorough bounded="pool of 7 tables (4 path + 3 allocatable); tree-shaped sparse pre-state (target path, one neighbour word per path table, garbage in allocatable frames); page-table indices (255,511,0,1)"
-    //@ obligation C02 C02.map_to_4kib.shape_p1_absent.documented_outcome tier=thorough bounded="pool of 7 tables (4 path + 3 allocatable); tree-shaped sparse pre-state (target path, one neighbour word per path table, garbage in allocatable frames); page-table indices (255,511,0,1)"
-    //@ obligation C01 C01.map_to_4kib.shape_p1_absent.translate_agrees_after tier=thorough bounded="pool of 7 tables (4 path + 3 allocatable); tree-shaped sparse pre-state (target path, one neighbour word per path table, garbage in allocatable frames); page-table indices (255,511,0,1)"
-    //@ obligation C09 C09.map_to_4kib.shape_p1_absent.only_dictated_slots_change tier=thorough bounded="pool of 7 tables (4 path + 3 allocatable); tree-shaped sparse pre-state (target path, one neighbour word per path table, garbage in allocatable frames); page-table indices (255,511,0,1)"
-    //@ obligation C09 C09.map_to_4kib.shape_p1_absent.allocator_requests tier=thorough bounded="pool of 7 tables (4 path + 3 allocatable); tree-shaped sparse pre-state (target path, one neighbour word per path table, garbage in allocatable frames); page-table indices (255,511,0,1)"
-    //@ obligation C09 C09.map_to_4kib.shape_p1_absent.new_tables_zeroed_before_use tier=thorough bounded="pool of 7 tables (4 path + 3 allocatable); tree-shaped sparse pre-state (target path, one neighbour word per path table, garbage in allocatable frames); page-table indices (255,511,0,1)"
-    //@ obligation C09 C09.map_to_4kib.shape_p1_absent.no_dangling_table_pointer tier=thorough bounded="pool of 7 tables (4 path + 3 allocatable); tree-shaped sparse pre-state (target path, one neighbour word per path table, garbage in allocatable frames); page-table indices (255,511,0,1)"
+    //@ obligation C01 C01.map_to_4kib.shape_p1_absent.target_translates_to_frame tier=thorough bounded="pool of 7 tables (4 path + 3 allocatable); tree-shaped sparse pre-state (target path, one neighbour word per path table, garbage in allocatable frames); page-table indices (255,511,0,256)"
+    //@ obligation C01 C01.map_to_4kib.shape_p1_absent.target_leaf_flags tier=thorough bounded="pool of 7 tables (4 path + 3 allocatable); tree-shaped sparse pre-state (target path, one neighbour word per path table, garbage in allocatable frames); page-table indices (255,511,0,256)"
+    //@ obligation C01 C01.map_to_4kib.shape_p1_absent.parent_rights_include_requested tier=thorough bounded="pool of 7 tables (4 path + 3 allocatable); tree-shaped sparse pre-state (target path, one neighbour word per path table, garbage in allocatable frames); page-table indices (255,511,0,256)"
+    //@ obligation C01 C01.map_to_4kib.shape_p1_absent.other_addresses_unchanged tier=thorough bounded="pool of 7 tables (4 path + 3 allocatable); tree-shaped sparse pre-state (target path, one neighbour word per path table, garbage in allocatable frames); page-table indices (255,511,0,256)"
+    //@ obligation C01 C01.map_to_4kib.shape_p1_absent.result_reports_page tier=thorough bounded="pool of 7 tables (4 path + 3 allocatable); tree-shaped sparse pre-state (target path, one neighbour word per path table, garbage in allocatable frames); page-table indices (255,511,0,256)"
+    //@ obligation C11 C11.map_to_4kib.shape_p1_absent.token_names_page tier=thorough bounded="pool of 7 tables (4 path + 3 allocatable); tree-shaped sparse pre-state (target path, one neighbour word per path table, garbage in allocatable frames); page-table indices (255,511,0,256)"
+    //@ obligation C02 C02.map_to_4kib.shape_p1_absent.documented_outcome tier=thorough bounded="pool of 7 tables (4 path + 3 allocatable); tree-shaped sparse pre-state (target path, one neighbour word per path table, garbage in allocatable frames); page-table indices (255,511,0,256)"
+    //@ obligation C01 C01.map_to_4kib.shape_p1_absent.translate_agrees_after tier=thorough bounded="pool of 7 tables (4 path + 3 allocatable); tree-shaped sparse pre-state (target path, one neighbour word per path table, garbage in allocatable frames); page-table indices (255,511,0,256)"
+    //@ obligation C09 C09.map_to_4kib.shape_p1_absent.only_dictated_slots_change tier=thorough bounded="pool of 7 tables (4 path + 3 allocatable); tree-shaped sparse pre-state (target path, one neighbour word per path table, garbage in allocatable frames); page-table indices (255,511,0,256)"
+    //@ obligation C09 C09.map_to_4kib.shape_p1_absent.allocator_requests tier=thorough bounded="pool of 7 tables (4 path + 3 allocatable); tree-shaped sparse pre-state (target path, one neighbour word per path table, garbage in allocatable frames); page-table indices (255,511,0,256)"
+    //@ obligation C09 C09.map_to_4kib.shape_p1_absent.new_tables_zeroed_before_use tier=thorough bounded="pool of 7 tables (4 path + 3 allocatable); tree-shaped sparse pre-state (target path, one neighbour word per path table, garbage in allocatable frames); page-table indices (255,511,0,256)"
+    //@ obligation C09 C09.map_to_4kib.shape_p1_absent.no_dangling_table_pointer tier=thorough bounded="pool of 7 tables (4 path + 3 allocatable); tree-shaped sparse pre-state (target path, one neighbour word per path table, garbage in allocatable frames); page-table indices (255,511,0,256)"
+    //@ obligation C09 C09.map_to_4kib.shape_p1_absent.no_access_outside_page_tables tier=thorough bounded="pool of 7 tables (4 path + 3 allocatable); tree-shaped sparse pre-state (target path, one neighbour word per path table, garbage in allocatable frames); page-table indices (255,511,0,256)"
     #[kani::proof]
     #[kani::stub(PageTable::zero, zero_stub)]
     fn c01_map_to_4kib_p1_absent_mid() {
@@ -521,17 +532,19 @@ mod verif_c01_step_map {
         kani::cover!(true, "c01_map_to_4kib_p1_absent_mid: reachable");
     }
 
-    //@ obligation C01 C01.map_to_4kib.shape_p1_absent.target_translates_to_frame tier=thorough bounded="pool of 7 tables (4 path + 3 allocatable); tree-shaped sparse pre-state (target path, one neighbour word per path table, garbage in allocatable frames); page-table indices (256,1,510,255)"
-    //@ obligation C01 C01.map_to_4kib.shape_p1_absent.target_leaf_flags tier=thorough bounded="pool of 7 tables (4 path + 3 allocatable); tree-shaped sparse pre-state (target path, one neighbour word per path table, garbage in allocatable frames); page-table indices (256,1,510,255)"
-    //@ obligation C01 C01.map_to_4kib.shape_p1_absent.parent_rights_include_requested tier=thorough bounded="pool of 7 tables (4 path + 3 allocatable); tree-shaped sparse pre-state (target path, one neighbour word per path table, garbage in allocatable frames); page-table indices (256,1,510,255)"
-    //@ obligation C01 C01.map_to_4kib.shape_p1_absent.other_addresses_unchanged tier=thorough bounded="pool of 7 tables (4 path + 3 allocatable); tree-shaped sparse pre-state (target path, one neighbour word per path table, garbage in allocatable frames); page-table indices (256,1,510,255)"
-    //@ obligation C11 C11.map_to_4kib.shape_p1_absent.token_names_page tier=thorough bounded="pool of 7 tables (4 path + 3 allocatable); tree-shaped sparse pre-state (target path, one neighbour word per path table, garbage in allocatable frames); page-table indices (256,1,510,255)"
-    //@ obligation C02 C02.map_to_4kib.shape_p1_absent.documented_outcome tier=thorough bounded="pool of 7 tables (4 path + 3 allocatable); tree-shaped sparse pre-state (target path, one neighbour word per path table, garbage in allocatable frames); page-table indices (256,1,510,255)"
-    //@ obligation C01 C01.map_to_4kib.shape_p1_absent.translate_agrees_after tier=thorough bounded="pool of 7 tables (4 path + 3 allocatable); tree-shaped sparse pre-state (target path, one neighbour word per path table, garbage in allocatable frames); page-table indices (256,1,510,255)"
-    //@ obligation C09 C09.map_to_4kib.shape_p1_absent.only_dictated_slots_change tier=thorough bounded="pool of 7 tables (4 path + 3 allocatable); tree-shaped sparse pre-state (target path, one neighbour word per path table, garbage in allocatable frames); page-table indices (256,1,510,255)"
-    //@ obligation C09 C09.map_to_4kib.shape_p1_absent.allocator_requests tier=thorough bounded="pool of 7 tables (4 path + 3 allocatable); tree-shaped sparse pre-state (target path, one neighbour word per path table, garbage in allocatable frames); page-table indices (256,1,510,255)"
-    //@ obligation C09 C09.map_to_4kib.shape_p1_absent.new_tables_zeroed_before_use tier=thorough bounded="pool of 7 tables (4 path + 3 allocatable); tree-shaped sparse pre-state (target path, one neighbour word per path table, garbage in allocatable frames); page-table indices (256,1,510,255)"
-    //@ obligation C09 C09.map_to_4kib.shape_p1_absent.no_dangling_table_pointer tier=thorough bounded="pool of 7 tables (4 path + 3 allocatable); tree-shaped sparse pre-state (target path, one neighbour word per path table, garbage in allocatable frames); page-table indices (256,1,510,255)"
+    //@ obligation C01 C01.map_to_4kib.shape_p1_absent.target_translates_to_frame tier=thorough bounded="pool of 7 tables (4 path + 3 allocatable); tree-shaped sparse pre-state (target path, one neighbour word per path table, garbage in allocatable frames); page-table indices (256,0,510,511)"
+    //@ obligation C01 C01.map_to_4kib.shape_p1_absent.target_leaf_flags tier=thorough bounded="pool of 7 tables (4 path + 3 allocatable); tree-shaped sparse pre-state (target path, one neighbour word per path table, garbage in allocatable frames); page-table indices (256,0,510,511)"
+    //@ obligation C01 C01.map_to_4kib.shape_p1_absent.parent_rights_include_requested tier=thorough bounded="pool of 7 tables (4 path + 3 allocatable); tree-shaped sparse pre-state (target path, one neighbour word per path table, garbage in allocatable frames); page-table indices (256,0,510,511)"
+    //@ obligation C01 C01.map_to_4kib.shape_p1_absent.other_addresses_unchanged tier=thorough bounded="pool of 7 tables (4 path + 3 allocatable); tree-shaped sparse pre-state (target path, one neighbour word per path table, garbage in allocatable frames); page-table indices (256,0,510,511)"
+    //@ obligation C01 C01.map_to_4kib.shape_p1_absent.result_reports_page tier=thorough bounded="pool of 7 tables (4 path + 3 allocatable); tree-shaped sparse pre-state (target path, one neighbour word per path table, garbage in allocatable frames); page-table indices (256,0,510,511)"
+    //@ obligation C11 C11.map_to_4kib.shape_p1_absent.token_names_page tier=thorough bounded="pool of 7 tables (4 path + 3 allocatable); tree-shaped sparse pre-state (target path, one neighbour word per path table, garbage in allocatable frames); page-table indices (256,0,510,511)"
+    //@ obligation C02 C02.map_to_4kib.shape_p1_absent.documented_outcome tier=thorough bounded="pool of 7 tables (4 path + 3 allocatable); tree-shaped sparse pre-state (target path, one neighbour word per path table, garbage in allocatable frames); page-table indices (256,0,510,511)"
+    //@ obligation C01 C01.map_to_4kib.shape_p1_absent.translate_agrees_after tier=thorough bounded="pool of 7 tables (4 path + 3 allocatable); tree-shaped sparse pre-state (target path, one neighbour word per path table, garbage in allocatable frames); page-table indices (256,0,510,511)"
+    //@ obligation C09 C09.map_to_4kib.shape_p1_absent.only_dictated_slots_change tier=thorough bounded="pool of 7 tables (4 path + 3 allocatable); tree-shaped sparse pre-state (target path, one neighbour word per path table, garbage in allocatable frames); page-table indices (256,0,510,511)"
+    //@ obligation C09 C09.map_to_4kib.shape_p1_absent.allocator_requests tier=thorough bounded="pool of 7 tables (4 path + 3 allocatable); tree-shaped sparse pre-state (target path, one neighbour word per path table, garbage in allocatable frames); page-table indices (256,0,510,511)"
+    //@ obligation C09 C09.map_to_4kib.shape_p1_absent.new_tables_zeroed_before_use tier=thorough bounded="pool of 7 tables (4 path + 3 allocatable); tree-shaped sparse pre-state (target path, one neighbour word per path table, garbage in allocatable frames); page-table indices (256,0,510,511)"
+    //@ obligation C09 C09.map_to_4kib.shape_p1_absent.no_dangling_table_pointer tier=thorough bounded="pool of 7 tables (4 path + 3 allocatable); tree-shaped sparse pre-state (target path, one neighbour word per path table, garbage in allocatable frames); page-table indices (256,0,510,511)"
+    //@ obligation C09 C09.map_to_4kib.shape_p1_absent.no_access_outside_page_tables tier=thorough bounded="pool of 7 tables (4 path + 3 allocatable); tree-shaped sparse pre-state (target path, one neighbour word per path table, garbage in allocatable frames); page-table indices (256,0,510,511)"
     #[kani::proof]
     #[kani::stub(PageTable::zero, zero_stub)]
     fn c01_map_to_4kib_p1_absent_up() {
@@ -539,15 +552,16 @@ mod verif_c01_step_map {
         kani::cover!(true, "c01_map_to_4kib_p1_absent_up: reachable");
     }
 
-    //@ obligation C02 C02.map_to_4kib.shape_p3_huge.error_leaves_every_mapping tier=thorough bounded="pool of 7 tables (4 path + 3 allocatable); tree-shaped sparse pre-state (target path, one neighbour word per path table, garbage in allocatable frames); page-table indices (0,0,0,0)"
-    //@ obligation C02 C02.map_to_4kib.shape_p3_huge.error_adds_at_most_parent_flags tier=thorough bounded="pool of 7 tables (4 path + 3 allocatable); tree-shaped sparse pre-state (target path, one neighbour word per path table, garbage in allocatable frames); page-table indices (0,0,0,0)"
-    //@ obligation C02 C02.map_to_4kib.shape_p3_huge.huge_leaf_unchanged_on_error tier=thorough bounded="pool of 7 tables (4 path + 3 allocatable); tree-shaped sparse pre-state (target path, one neighbour word per path table, garbage in allocatable frames); page-table indices (0,0,0,0)"
-    //@ obligation C02 C02.map_to_4kib.shape_p3_huge.documented_outcome tier=thorough bounded="pool of 7 tables (4 path + 3 allocatable); tree-shaped sparse pre-state (target path, one neighbour word per path table, garbage in allocatable frames); page-table indices (0,0,0,0)"
-    //@ obligation C01 C01.map_to_4kib.shape_p3_huge.translate_agrees_after tier=thorough bounded="pool of 7 tables (4 path + 3 allocatable); tree-shaped sparse pre-state (target path, one neighbour word per path table, garbage in allocatable frames); page-table indices (0,0,0,0)"
-    //@ obligation C09 C09.map_to_4kib.shape_p3_huge.only_dictated_slots_change tier=thorough bounded="pool of 7 tables (4 path + 3 allocatable); tree-shaped sparse pre-state (target path, one neighbour word per path table, garbage in allocatable frames); page-table indices (0,0,0,0)"
-    //@ obligation C09 C09.map_to_4kib.shape_p3_huge.allocator_requests tier=thorough bounded="pool of 7 tables (4 path + 3 allocatable); tree-shaped sparse pre-state (target path, one neighbour word per path table, garbage in allocatable frames); page-table indices (0,0,0,0)"
-    //@ obligation C09 C09.map_to_4kib.shape_p3_huge.new_tables_zeroed_before_use tier=thorough bounded="pool of 7 tables (4 path + 3 allocatable); tree-shaped sparse pre-state (target path, one neighbour word per path table, garbage in allocatable frames); page-table indices (0,0,0,0)"
-    //@ obligation C09 C09.map_to_4kib.shape_p3_huge.no_dangling_table_pointer tier=thorough bounded="pool of 7 tables (4 path + 3 allocatable); tree-shaped sparse pre-state (target path, one neighbour word per path table, garbage in allocatable frames); page-table indices (0,0,0,0)"
+    //@ obligation C02 C02.map_to_4kib.shape_p3_huge.error_leaves_every_mapping tier=thorough bounded="pool of 7 tables (4 path + 3 allocatable); tree-shaped sparse pre-state (target path, one neighbour word per path table, garbage in allocatable frames); page-table indices (0,1,511,2)"
+    //@ obligation C02 C02.map_to_4kib.shape_p3_huge.error_adds_at_most_parent_flags tier=thorough bounded="pool of 7 tables (4 path + 3 allocatable); tree-shaped sparse pre-state (target path, one neighbour word per path table, garbage in allocatable frames); page-table indices (0,1,511,2)"
+    //@ obligation C02 C02.map_to_4kib.shape_p3_huge.huge_leaf_unchanged_on_error tier=thorough bounded="pool of 7 tables (4 path + 3 allocatable); tree-shaped sparse pre-state (target path, one neighbour word per path table, garbage in allocatable frames); page-table indices (0,1,511,2)"
+    //@ obligation C02 C02.map_to_4kib.shape_p3_huge.documented_outcome tier=thorough bounded="pool of 7 tables (4 path + 3 allocatable); tree-shaped sparse pre-state (target path, one neighbour word per path table, garbage in allocatable frames); page-table indices (0,1,511,2)"
+    //@ obligation C01 C01.map_to_4kib.shape_p3_huge.translate_agrees_after tier=thorough bounded="pool of 7 tables (4 path + 3 allocatable); tree-shaped sparse pre-state (target path, one neighbour word per path table, garbage in allocatable frames); page-table indices (0,1,511,2)"
+    //@ obligation C09 C09.map_to_4kib.shape_p3_huge.only_dictated_slots_change tier=thorough bounded="pool of 7 tables (4 path + 3 allocatable); tree-shaped sparse pre-state (target path, one neighbour word per path table, garbage in allocatable frames); page-table indices (0,1,511,2)"
+    //@ obligation C09 C09.map_to_4kib.shape_p3_huge.allocator_requests tier=thorough bounded="pool of 7 tables (4 path + 3 allocatable); tree-shaped sparse pre-state (target path, one neighbour word per path table, garbage in allocatable frames); page-table indices (0,1,511,2)"
+    //@ obligation C09 C09.map_to_4kib.shape_p3_huge.new_tables_zeroed_before_use tier=thorough bounded="pool of 7 tables (4 path + 3 allocatable); tree-shaped sparse pre-state (target path, one neighbour word per path table, garbage in allocatable frames); page-table indices (0,1,511,2)"
+    //@ obligation C09 C09.map_to_4kib.shape_p3_huge.no_dangling_table_pointer tier=thorough bounded="pool of 7 tables (4 path + 3 allocatable); tree-shaped sparse pre-state (target path, one neighbour word per path table, garbage in allocatable frames); page-table indices (0,1,511,2)"
+    //@ obligation C09 C09.map_to_4kib.shape_p3_huge.no_access_outside_page_tables tier=thorough bounded="pool of 7 tables (4 path + 3 allocatable); tree-shaped sparse pre-state (target path, one neighbour word per path table, garbage in allocatable frames); page-table indices (0,1,511,2)"
     #[kani::proof]
     #[kani::stub(PageTable::zero, zero_stub)]
     fn c01_map_to_4kib_p3_huge_lo() {
@@ -555,15 +569,16 @@ mod verif_c01_step_map {
         kani::cover!(true, "c01_map_to_4kib_p3_huge_lo: reachable");
     }
 
-    //@ obligation C02 C02.map_to_4kib.shape_p3_huge.error_leaves_every_mapping tier=thorough bounded="pool of 7 tables (4 path + 3 allocatable); tree-shaped sparse pre-state (target path, one neighbour word per path table, garbage in allocatable frames); page-table indices (511,511,511,511)"
-    //@ obligation C02 C02.map_to_4kib.shape_p3_huge.error_adds_at_most_parent_flags tier=thorough bounded="pool of 7 tables (4 path + 3 allocatable); tree-shaped sparse pre-state (target path, one neighbour word per path table, garbage in allocatable frames); page-table indices (511,511,511,511)"
-    //@ obligation C02 C02.map_to_4kib.shape_p3_huge.huge_leaf_unchanged_on_error tier=thorough bounded="pool of 7 tables (4 path + 3 allocatable); tree-shaped sparse pre-state (target path, one neighbour word per path table, garbage in allocatable frames); page-table indices (511,511,511,511)"
-    //@ obligation C02 C02.map_to_4kib.shape_p3_huge.documented_outcome tier=thorough bounded="pool of 7 tables (4 path + 3 allocatable); tree-shaped sparse pre-state (target path, one neighbour word per path table, garbage in allocatable frames); page-table indices (511,511,511,511)"
-    //@ obligation C01 C01.map_to_4kib.shape_p3_huge.translate_agrees_after tier=thorough bounded="pool of 7 tables (4 path + 3 allocatable); tree-shaped sparse pre-state (target path, one neighbour word per path table, garbage in allocatable frames); page-table indices (511,511,511,511)"
-    //@ obligation C09 C09.map_to_4kib.shape_p3_huge.only_dictated_slots_change tier=thorough bounded="pool of 7 tables (4 path + 3 allocatable); tree-shaped sparse pre-state (target path, one neighbour word per path table, garbage in allocatable frames); page-table indices (511,511,511,511)"
-    //@ obligation C09 C09.map_to_4kib.shape_p3_huge.allocator_requests tier=thorough bounded="pool of 7 tables (4 path + 3 allocatable); tree-shaped sparse pre-state (target path, one neighbour word per path table, garbage in allocatable frames); page-table indices (511,511,511,511)"
-    //@ obligation C09 C09.map_to_4kib.shape_p3_huge.new_tables_zeroed_before_use tier=thorough bounded="pool of 7 tables (4 path + 3 allocatable); tree-shaped sparse pre-state (target path, one neighbour word per path table, garbage in allocatable frames); page-table indices (511,511,511,511)"
-    //@ obligation C09 C09.map_to_4kib.shape_p3_huge.no_dangling_table_pointer tier=thorough bounded="pool of 7 tables (4 path + 3 allocatable); tree-shaped sparse pre-state (target path, one neighbour word per path table, garbage in allocatable frames); page-table indices (511,511,511,511)"
+    //@ obligation C02 C02.map_to_4kib.shape_p3_huge.error_leaves_every_mapping tier=thorough bounded="pool of 7 tables (4 path + 3 allocatable); tree-shaped sparse pre-state (target path, one neighbour word per path table, garbage in allocatable frames); page-table indices (511,510,1,0)"
+    //@ obligation C02 C02.map_to_4kib.shape_p3_huge.error_adds_at_most_parent_flags tier=thorough bounded="pool of 7 tables (4 path + 3 allocatable); tree-shaped sparse pre-state (target path, one neighbour word per path table, garbage in allocatable frames); page-table indices (511,510,1,0)"
+    //@ obligation C02 C02.map_to_4kib.shape_p3_huge.huge_leaf_unchanged_on_error tier=thorough bounded="pool of 7 tables (4 path + 3 allocatable); tree-shaped sparse pre-state (target path, one neighbour word per path table, garbage in allocatable frames); page-table indices (511,510,1,0)"
+    //@ obligation C02 C02.map_to_4kib.shape_p3_huge.documented_outcome tier=thorough bounded="pool of 7 tables (4 path + 3 allocatable); tree-shaped sparse pre-state (target path, one neighbour word per path table, garbage in allocatable frames); page-table indices (511,510,1,0)"
+    //@ obligation C01 C01.map_to_4kib.shape_p3_huge.translate_agrees_after tier=thorough bounded="pool of 7 tables (4 path + 3 allocatable); tree-shaped sparse pre-state (target path, one neighbour word per path table, garbage in allocatable frames); page-table indices (511,510,1,0)"
+    //@ obligation C09 C09.map_to_4kib.shape_p3_huge.only_dictated_slots_change tier=thorough bounded="pool of 7 tables (4 path + 3 allocatable); tree-shaped sparse pre-state (target path, one neighbour word per path table, garbage in allocatable frames); page-table indices (511,510,1,0)"
+    //@ obligation C09 C09.map_to_4kib.shape_p3_huge.allocator_requests tier=thorough bounded="pool of 7 tables (4 path + 3 allocatable); tree-shaped sparse pre-state (target path, one neighbour word per path table, garbage in allocatable frames); page-table indices (511,510,1,0)"
+    //@ obligation C09 C09.map_to_4kib.shape_p3_huge.new_tables_zeroed_before_use tier=thorough bounded="pool of 7 tables (4 path + 3 allocatable); tree-shaped sparse pre-state (target path, one neighbour word per path table, garbage in allocatable frames); page-table indices (511,510,1,0)"
+    //@ obligation C09 C09.map_to_4kib.shape_p3_huge.no_dangling_table_pointer tier=thorough bounded="pool of 7 tables (4 path + 3 allocatable); tree-shaped sparse pre-state (target path, one neighbour word per path table, garbage in allocatable frames); page-table indices (511,510,1,0)"
+    //@ obligation C09 C09.map_to_4kib.shape_p3_huge.no_access_outside_page_tables tier=thorough bounded="pool of 7 tables (4 path + 3 allocatable); tree-shaped sparse pre-state (target path, one neighbour word per path table, garbage in allocatable frames); page-table indices (511,510,1,0)"
     #[kani::proof]
     #[kani::stub(PageTable::zero, zero_stub)]
     fn c01_map_to_4kib_p3_huge_hi() {
@@ -571,15 +586,16 @@ mod verif_c01_step_map {
         kani::cover!(true, "c01_map_to_4kib_p3_huge_hi: reachable");
     }
 
-    //@ obligation C02 C02.map_to_4kib.shape_p3_huge.error_leaves_every_mapping tier=thorough bounded="pool of 7 tables (4 path + 3 allocatable); tree-shaped sparse pre-state (target path, one neighbour word per path table, garbage in allocatable frames); page-table indices (255,511,0,1)"
-    //@ obligation C02 C02.map_to_4kib.shape_p3_huge.error_adds_at_most_parent_flags tier=thorough bounded="pool of 7 tables (4 path + 3 allocatable); tree-shaped sparse pre-state (target path, one neighbour word per path table, garbage in allocatable frames); page-table indices (255,511,0,1)"
-    //@ obligation C02 C02.map_to_4kib.shape_p3_huge.huge_leaf_unchanged_on_error tier=thorough bounded="pool of 7 tables (4 path + 3 allocatable); tree-shaped sparse pre-state (target path, one neighbour word per path table, garbage in allocatable frames); page-table indices (255,511,0,1)"
-    //@ obligation C02 C02.map_to_4kib.shape_p3_huge.documented_outcome tier=thorough bounded="pool of 7 tables (4 path + 3 allocatable); tree-shaped sparse pre-state (target path, one neighbour word per path table, garbage in allocatable frames); page-table indices (255,511,0,1)"
-    //@ obligation C01 C01.map_to_4kib.shape_p3_huge.translate_agrees_after tier=thorough bounded="pool of 7 tables (4 path + 3 allocatable); tree-shaped sparse pre-state (target path, one neighbour word per path table, garbage in allocatable frames); page-table indices (255,511,0,1)"
-    //@ obligation C09 C09.map_to_4kib.shape_p3_huge.only_dictated_slots_change tier=thorough bounded="pool of 7 tables (4 path + 3 allocatable); tree-shaped sparse pre-state (target path, one neighbour word per path table, garbage in allocatable frames); page-table indices (255,511,0,1)"
-    //@ obligation C09 C09.map_to_4kib.shape_p3_huge.allocator_requests tier=thorough bounded="pool of 7 tables (4 path + 3 allocatable); tree-shaped sparse pre-state (target path, one neighbour word per path table, garbage in allocatable frames); page-table indices (255,511,0,1)"
-    //@ obligation C09 C09.map_to_4kib.shape_p3_huge.new_tables_zeroed_before_use tier=thorough bounded="pool of 7 tables (4 path + 3 allocatable); tree-shaped sparse pre-state (target path, one neighbour word per path table, garbage in allocatable frames); page-table indices (255,511,0,1)"
-    //@ obligation C09 C09.map_to_4kib.shape_p3_huge.no_dangling_table_pointer tier=thorough bounded="pool of 7 tables (4 path + 3 allocatable); tree-shaped sparse pre-state (target path, one neighbour word per path table, garbage in allocatable frames); page-table indices (255,511,0,1)"
+    //@ obligation C02 C02.map_to_4kib.shape_p3_huge.error_leaves_every_mapping tier=thorough bounded="pool of 7 tables (4 path + 3 allocatable); tree-shaped sparse pre-state (target path, one neighbour word per path table, garbage in allocatable frames); page-table indices (255,511,0,256)"
+    //@ obligation C02 C02.map_to_4kib.shape_p3_huge.error_adds_at_most_parent_flags tier=thorough bounded="pool of 7 tables (4 path + 3 allocatable); tree-shaped sparse pre-state (target path, one neighbour word per path table, garbage in allocatable frames); page-table indices (255,511,0,256)"
+    //@ obligation C02 C02.map_to_4kib.shape_p3_huge.huge_leaf_unchanged_on_error tier=thorough bounded="pool of 7 tables (4 path + 3 allocatable); tree-shaped sparse pre-state (target path, one neighbour word per path table, garbage in allocatable frames); page-table indices (255,511,0,256)"
+    //@ obligation C02 C02.map_to_4kib.shape_p3_huge.documented_outcome tier=thorough bounded="pool of 7 tables (4 path + 3 allocatable); tree-shaped sparse pre-state (target path, one neighbour word per path table, garbage in allocatable frames); page-table indices (255,511,0,256)"
+    //@ obligation C01 C01.map_to_4kib.shape_p3_huge.translate_agrees_after tier=thorough bounded="pool of 7 tables (4 path + 3 allocatable); tree-shaped sparse pre-state (target path, one neighbour word per path table, garbage in allocatable frames); page-table indices (255,511,0,256)"
+    //@ obligation C09 C09.map_to_4kib.shape_p3_huge.only_dictated_slots_change tier=thorough bounded="pool of 7 tables (4 path + 3 allocatable); tree-shaped sparse pre-state (target path, one neighbour word per path table, garbage in allocatable frames); page-table indices (255,511,0,256)"
+    //@ obligation C09 C09.map_to_4kib.shape_p3_huge.allocator_requests tier=thorough bounded="pool of 7 tables (4 path + 3 allocatable); tree-shaped sparse pre-state (target path, one neighbour word per path table, garbage in allocatable frames); page-table indices (255,511,0,256)"
+    //@ obligation C09 C09.map_to_4kib.shape_p3_huge.new_tables_zeroed_before_use tier=thorough bounded="pool of 7 tables (4 path + 3 allocatable); tree-shaped sparse pre-state (target path, one neighbour word per path table, garbage in allocatable frames); page-table indices (255,511,0,256)"
+    //@ obligation C09 C09.map_to_4kib.shape_p3_huge.no_dangling_table_pointer tier=thorough bounded="pool of 7 tables (4 path + 3 allocatable); tree-shaped sparse pre-state (target path, one neighbour word per path table, garbage in allocatable frames); page-table indices (255,511,0,256)"
+    //@ obligation C09 C09.map_to_4kib.shape_p3_huge.no_access_outside_page_tables tier=thorough bounded="pool of 7 tables (4 path + 3 allocatable); tree-shaped sparse pre-state (target path, one neighbour word per path table, garbage in allocatable frames); page-table indices (255,511,0,256)"
     #[kani::proof]
     #[kani::stub(PageTable::zero, zero_stub)]
     fn c01_map_to_4kib_p3_huge_mid() {
@@ -587,15 +603,16 @@ mod verif_c01_step_map {
         kani::cover!(true, "c01_map_to_4kib_p3_huge_mid: reachable");
     }
 
-    //@ obligation C02 C02.map_to_4kib.shape_p3_huge.error_leaves_every_mapping tier=thorough bounded="pool of 7 tables (4 path + 3 allocatable); tree-shaped sparse pre-state (target path, one neighbour word per path table, garbage in allocatable frames); page-table indices (256,1,510,255)"
-    //@ obligation C02 C02.map_to_4kib.shape_p3_huge.error_adds_at_most_parent_flags tier=thorough bounded="pool of 7 tables (4 path + 3 allocatable); tree-shaped sparse pre-state (target path, one neighbour word per path table, garbage in allocatable frames); page-table indices (256,1,510,255)"
-    //@ obligation C02 C02.map_to_4kib.shape_p3_huge.huge_leaf_unchanged_on_error tier=thorough bounded="pool of 7 tables (4 path + 3 allocatable); tree-shaped sparse pre-state (target path, one neighbour word per path table, garbage in allocatable frames); page-table indices (256,1,510,255)"
-    //@ obligation C02 C02.map_to_4kib.shape_p3_huge.documented_outcome tier=thorough bounded="pool of 7 tables (4 path + 3 allocatable); tree-shaped sparse pre-state (target path, one neighbour word per path table, garbage in allocatable frames); page-table indices (256,1,510,255)"
-    //@ obligation C01 C01.map_to_4kib.shape_p3_huge.translate_agrees_after tier=thorough bounded="pool of 7 tables (4 path + 3 allocatable); tree-shaped sparse pre-state (target path, one neighbour word per path table, garbage in allocatable frames); page-table indices (256,1,510,255)"
-    //@ obligation C09 C09.map_to_4kib.shape_p3_huge.only_dictated_slots_change tier=thorough bounded="pool of 7 tables (4 path + 3 allocatable); tree-shaped sparse pre-state (target path, one neighbour word per path table, garbage in allocatable frames); page-table indices (256,1,510,255)"
-    //@ obligation C09 C09.map_to_4kib.shape_p3_huge.allocator_requests tier=thorough bounded="pool of 7 tables (4 path + 3 allocatable); tree-shaped sparse pre-state (target path, one neighbour word per path table, garbage in allocatable frames); page-table indices (256,1,510,255)"
-    //@ obligation C09 C09.map_to_4kib.shape_p3_huge.new_tables_zeroed_before_use tier=thorough bounded="pool of 7 tables (4 path + 3 allocatable); tree-shaped sparse pre-state (target path, one neighbour word per path table, garbage in allocatable frames); page-table indices (256,1,510,255)"
-    //@ obligation C09 C09.map_to_4kib.shape_p3_huge.no_dangling_table_pointer tier=thorough bounded="pool of 7 tables (4 path + 3 allocatable); tree-shaped sparse pre-state (target path, one neighbour word per path table, garbage in allocatable frames); page-table indices (256,1,510,255)"
+    //@ obligation C02 C02.map_to_4kib.shape_p3_huge.error_leaves_every_mapping tier=thorough bounded="pool of 7 tables (4 path + 3 allocatable); tree-shaped sparse pre-state (target path, one neighbour word per path table, garbage in allocatable frames); page-table indices (256,0,510,511)"
+    //@ obligation C02 C02.map_to_4kib.shape_p3_huge.error_adds_at_most_parent_flags tier=thorough bounded="pool of 7 tables (4 path + 3 allocatable); tree-shaped sparse pre-state (target path, one neighbour word per path table, garbage in allocatable frames); page-table indices (256,0,510,511)"
+    //@ obligation C02 C02.map_to_4kib.shape_p3_huge.huge_leaf_unchanged_on_error tier=thorough bounded="pool of 7 tables (4 path + 3 allocatable); tree-shaped sparse pre-state (target path, one neighbour word per path table, garbage in allocatable frames); page-table indices (256,0,510,511)"
+    //@ obligation C02 C02.map_to_4kib.shape_p3_huge.documented_outcome tier=thorough bounded="pool of 7 tables (4 path + 3 allocatable); tree-shaped sparse pre-state (target path, one neighbour word per path table, garbage in allocatable frames); page-table indices (256,0,510,511)"
+    //@ obligation C01 C01.map_to_4kib.shape_p3_huge.translate_agrees_after tier=thorough bounded="pool of 7 tables (4 path + 3 allocatable); tree-shaped sparse pre-state (target path, one neighbour word per path table, garbage in allocatable frames); page-table indices (256,0,510,511)"
+    //@ obligation C09 C09.map_to_4kib.shape_p3_huge.only_dictated_slots_change tier=thorough bounded="pool of 7 tables (4 path + 3 allocatable); tree-shaped sparse pre-state (target path, one neighbour word per path table, garbage in allocatable frames); page-table indices (256,0,510,511)"
+    //@ obligation C09 C09.map_to_4kib.shape_p3_huge.allocator_requests tier=thorough bounded="pool of 7 tables (4 path + 3 allocatable); tree-shaped sparse pre-state (target path, one neighbour word per path table, garbage in allocatable frames); page-table indices (256,0,510,511)"
+    //@ obligation C09 C09.map_to_4kib.shape_p3_huge.new_tables_zeroed_before_use tier=thorough bounded="pool of 7 tables (4 path + 3 allocatable); tree-shaped sparse pre-state (target path, one neighbour word per path table, garbage in allocatable frames); page-table indices (256,0,510,511)"
+    //@ obligation C09 C09.map_to_4kib.shape_p3_huge.no_dangling_table_pointer tier=thorough bounded="pool of 7 tables (4 path + 3 allocatable); tree-shaped sparse pre-state (target path, one neighbour word per path table, garbage in allocatable frames); page-table indices (256,0,510,511)"
+    //@ obligation C09 C09.map_to_4kib.shape_p3_huge.no_access_outside_page_tables tier=thorough bounded="pool of 7 tables (4 path + 3 allocatable); tree-shaped sparse pre-state (target path, one neighbour word per path table, garbage in allocatable frames); page-table indices (256,0,510,511)"
     #[kani::proof]
     #[kani::stub(PageTable::zero, zero_stub)]
     fn c01_map_to_4kib_p3_huge_up() {
@@ -603,15 +620,16 @@ mod verif_c01_step_map {
         kani::cover!(true, "c01_map_to_4kib_p3_huge_up: reachable");
     }
 
-    //@ obligation C02 C02.map_to_4kib.shape_p2_huge.error_leaves_every_mapping tier=thorough bounded="pool of 7 tables (4 path + 3 allocatable); tree-shaped sparse pre-state (target path, one neighbour word per path table, garbage in allocatable frames); page-table indices (0,0,0,0)"
-    //@ obligation C02 C02.map_to_4kib.shape_p2_huge.error_adds_at_most_parent_flags tier=thorough bounded="pool of 7 tables (4 path + 3 allocatable); tree-shaped sparse pre-state (target path, one neighbour word per path table, garbage in allocatable frames); page-table indices (0,0,0,0)"
-    //@ obligation C02 C02.map_to_4kib.shape_p2_huge.huge_leaf_unchanged_on_error tier=thorough bounded="pool of 7 tables (4 path + 3 allocatable); tree-shaped sparse pre-state (target path, one neighbour word per path table, garbage in allocatable frames); page-table indices (0,0,0,0)"
-    //@ obligation C02 C02.map_to_4kib.shape_p2_huge.documented_outcome tier=thorough bounded="pool of 7 tables (4 path + 3 allocatable); tree-shaped sparse pre-state (target path, one neighbour word per path table, garbage in allocatable frames); page-table indices (0,0,0,0)"
-    //@ obligation C01 C01.map_to_4kib.shape_p2_huge.translate_agrees_after tier=thorough bounded="pool of 7 tables (4 path + 3 allocatable); tree-shaped sparse pre-state (target path, one neighbour word per path table, garbage in allocatable frames); page-table indices (0,0,0,0)"
-    //@ obligation C09 C09.map_to_4kib.shape_p2_huge.only_dictated_slots_change tier=thorough bounded="pool of 7 tables (4 path + 3 allocatable); tree-shaped sparse pre-state (target path, one neighbour word per path table, garbage in allocatable frames); page-table indices (0,0,0,0)"
-    //@ obligation C09 C09.map_to_4kib.shape_p2_huge.allocator_requests tier=thorough bounded="pool of 7 tables (4 path + 3 allocatable); tree-shaped sparse pre-state (target path, one neighbour word per path table, garbage in allocatable frames); page-table indices (0,0,0,0)"
-    //@ obligation C09 C09.map_to_4kib.shape_p2_huge.new_tables_zeroed_before_use tier=thorough bounded="pool of 7 tables (4 path + 3 allocatable); tree-shaped sparse pre-state (target path, one neighbour word per path table, garbage in allocatable frames); page-table indices (0,0,0,0)"
-    //@ obligation C09 C09.map_to_4kib.shape_p2_huge.no_dangling_table_pointer tier=thorough bounded="pool of 7 tables (4 path + 3 allocatable); tree-shaped sparse pre-state (target path, one neighbour word per path table, garbage in allocatable frames); page-table indices (0,0,0,0)"
+    //@ obligation C02 C02.map_to_4kib.shape_p2_huge.error_leaves_every_mapping tier=thorough bounded="pool of 7 tables (4 path + 3 allocatable); tree-shaped sparse pre-state (target path, one neighbour word per path table, garbage in allocatable frames); page-table indices (0,1,511,2)"
+    //@ obligation C02 C02.map_to_4kib.shape_p2_huge.error_adds_at_most_parent_flags tier=thorough bounded="pool of 7 tables (4 path + 3 allocatable); tree-shaped sparse pre-state (target path, one neighbour word per path table, garbage in allocatable frames); page-table indices (0,1,511,2)"
+    //@ obligation C02 C02.map_to_4kib.shape_p2_huge.huge_leaf_unchanged_on_error tier=thorough bounded="pool of 7 tables (4 path + 3 allocatable); tree-shaped sparse pre-state (target path, one neighbour word per path table, garbage in allocatable frames); page-table indices (0,1,511,2)"
+    //@ obligation C02 C02.map_to_4kib.shape_p2_huge.documented_outcome tier=thorough bounded="pool of 7 tables (4 path + 3 allocatable); tree-shaped sparse pre-state (target path, one neighbour word per path table, garbage in allocatable frames); page-table indices (0,1,511,2)"
+    //@ obligation C01 C01.map_to_4kib.shape_p2_huge.translate_agrees_after tier=thorough bounded="pool of 7 tables (4 path + 3 allocatable); tree-shaped sparse pre-state (target path, one neighbour word per path table, garbage in allocatable frames); page-table indices (0,1,511,2)"
+    //@ obligation C09 C09.map_to_4kib.shape_p2_huge.only_dictated_slots_change tier=thorough bounded="pool of 7 tables (4 path + 3 allocatable); tree-shaped sparse pre-state (target path, one neighbour word per path table, garbage in allocatable frames); page-table indices (0,1,511,2)"
+    //@ obligation C09 C09.map_to_4kib.shape_p2_huge.allocator_requests tier=thorough bounded="pool of 7 tables (4 path + 3 allocatable); tree-shaped sparse pre-state (target path, one neighbour word per path table, garbage in allocatable frames); page-table indices (0,1,511,2)"
+    //@ obligation C09 C09.map_to_4kib.shape_p2_huge.new_tables_zeroed_before_use tier=thorough bounded="pool of 7 tables (4 path + 3 allocatable); tree-shaped sparse pre-state (target path, one neighbour word per path table, garbage in allocatable frames); page-table indices (0,1,511,2)"
+    //@ obligation C09 C09.map_to_4kib.shape_p2_huge.no_dangling_table_pointer tier=thorough bounded="pool of 7 tables (4 path + 3 allocatable); tree-shaped sparse pre-state (target path, one neighbour word per path table, garbage in allocatable frames); page-table indices (0,1,511,2)"
+    //@ obligation C09 C09.map_to_4kib.shape_p2_huge.no_access_outside_page_tables tier=thorough bounded="pool of 7 tables (4 path + 3 allocatable); tree-shaped sparse pre-state (target path, one neighbour word per path table, garbage in allocatable frames); page-table indices (0,1,511,2)"
     #[kani::proof]
     #[kani::stub(PageTable::zero, zero_stub)]
     fn c01_map_to_4kib_p2_huge_lo() {
@@ -619,15 +637,16 @@ mod verif_c01_step_map {
         kani::cover!(true, "c01_map_to_4kib_p2_huge_lo: reachable");
     }
 
-    //@ obligation C02 C02.map_to_4kib.shape_p2_huge.error_leaves_every_mapping tier=thorough bounded="pool of 7 tables (4 path + 3 allocatable); tree-shaped sparse pre-state (target path, one neighbour word per path table, garbage in allocatable frames); page-table indices (511,511,511,511)"
-    //@ obligation C02 C02.map_to_4kib.shape_p2_huge.error_adds_at_most_parent_flags tier=thorough bounded="pool of 7 tables (4 path + 3 allocatable); tree-shaped sparse pre-state (target path, one neighbour word per path table, garbage in allocatable frames); page-table indices (511,511,511,511)"
-    //@ obligation C02 C02.map_to_4kib.shape_p2_huge.huge_leaf_unchanged_on_error tier=thorough bounded="pool of 7 tables (4 path + 3 allocatable); tree-shaped sparse pre-state (target path, one neighbour word per path table, garbage in allocatable frames); page-table indices (511,511,511,511)"
-    //@ obligation C02 C02.map_to_4kib.shape_p2_huge.documented_outcome tier=thorough bounded="pool of 7 tables (4 path + 3 allocatable); tree-shaped sparse pre-state (target path, one neighbour word per path table, garbage in allocatable frames); page-table indices (511,511,511,511)"
-    //@ obligation C01 C01.map_to_4kib.shape_p2_huge.translate_agrees_after tier=thorough bounded="pool of 7 tables (4 path + 3 allocatable); tree-shaped sparse pre-state (target path, one neighbour word per path table, garbage in allocatable frames); page-table indices (511,511,511,511)"
-    //@ obligation C09 C09.map_to_4kib.shape_p2_huge.only_dictated_slots_change tier=thorough bounded="pool of 7 tables (4 path + 3 allocatable); tree-shaped sparse pre-state (target path, one neighbour word per path table, garbage in allocatable frames); page-table indices (511,511,511,511)"
-    //@ obligation C09 C09.map_to_4kib.shape_p2_huge.allocator_requests tier=thorough bounded="pool of 7 tables (4 path + 3 allocatable); tree-shaped sparse pre-state (target path, one neighbour word per path table, garbage in allocatable frames); page-table indices (511,511,511,511)"
-    //@ obligation C09 C09.map_to_4kib.shape_p2_huge.new_tables_zeroed_before_use tier=thorough bounded="pool of 7 tables (4 path + 3 allocatable); tree-shaped sparse pre-state (target path, one neighbour word per path table, garbage in allocatable frames); page-table indices (511,511,511,511)"
-    //@ obligation C09 C09.map_to_4kib.shape_p2_huge.no_dangling_table_pointer tier=thorough bounded="pool of 7 tables (4 path + 3 allocatable); tree-shaped sparse pre-state (target path, one neighbour word per path table, garbage in allocatable frames); page-table indices (511,511,511,511)"
+    //@ obligation C02 C02.map_to_4kib.shape_p2_huge.error_leaves_every_mapping tier=thorough bounded="pool of 7 tables (4 path + 3 allocatable); tree-shaped sparse pre-state (target path, one neighbour word per path table, garbage in allocatable frames); page-table indices (511,510,1,0)"
+    //@ obligation C02 C02.map_to_4kib.shape_p2_huge.error_adds_at_most_parent_flags tier=thorough bounded="pool of 7 tables (4 path + 3 allocatable); tree-shaped sparse pre-state (target path, one neighbour word per path table, garbage in allocatable frames); page-table indices (511,510,1,0)"
+    //@ obligation C02 C02.map_to_4kib.shape_p2_huge.huge_leaf_unchanged_on_error tier=thorough bounded="pool of 7 tables (4 path + 3 allocatable); tree-shaped sparse pre-state (target path, one neighbour word per path table, garbage in allocatable frames); page-table indices (511,510,1,0)"
+    //@ obligation C02 C02.map_to_4kib.shape_p2_huge.documented_outcome tier=thorough bounded="pool of 7 tables (4 path + 3 allocatable); tree-shaped sparse pre-state (target path, one neighbour word per path table, garbage in allocatable frames); page-table indices (511,510,1,0)"
+    //@ obligation C01 C01.map_to_4kib.shape_p2_huge.translate_agrees_after tier=thorough bounded="pool of 7 tables (4 path + 3 allocatable); tree-shaped sparse pre-state (target path, one neighbour word per path table, garbage in allocatable frames); page-table indices (511,510,1,0)"
+    //@ obligation C09 C09.map_to_4kib.shape_p2_huge.only_dictated_slots_change tier=thorough bounded="pool of 7 tables (4 path + 3 allocatable); tree-shaped sparse pre-state (target path, one neighbour word per path table, garbage in allocatable frames); page-table indices (511,510,1,0)"
+    //@ obligation C09 C09.map_to_4kib.shape_p2_huge.allocator_requests tier=thorough bounded="pool of 7 tables (4 path + 3 allocatable); tree-shaped sparse pre-state (target path, one neighbour word per path table, garbage in allocatable frames); page-table indices (511,510,1,0)"
+    //@ obligation C09 C09.map_to_4kib.shape_p2_huge.new_tables_zeroed_before_use tier=thorough bounded="pool of 7 tables (4 path + 3 allocatable); tree-shaped sparse pre-state (target path, one neighbour word per path table, garbage in allocatable frames); page-table indices (511,510,1,0)"
+    //@ obligation C09 C09.map_to_4kib.shape_p2_huge.no_dangling_table_pointer tier=thorough bounded="pool of 7 tables (4 path + 3 allocatable); tree-shaped sparse pre-state (target path, one neighbour word per path table, garbage in allocatable frames); page-table indices (511,510,1,0)"
+    //@ obligation C09 C09.map_to_4kib.shape_p2_huge.no_access_outside_page_tables tier=thorough bounded="pool of 7 tables (4 path + 3 allocatable); tree-shaped sparse pre-state (target path, one neighbour word per path table, garbage in allocatable frames); page-table indices (511,510,1,0)"
     #[kani::proof]
     #[kani::stub(PageTable::zero, zero_stub)]
     fn c01_map_to_4kib_p2_huge_hi() {
@@ -635,15 +654,16 @@ mod verif_c01_step_map {
         kani::cover!(true, "c01_map_to_4kib_p2_huge_hi: reachable");
     }
 
-    //@ obligation C02 C02.map_to_4kib.shape_p2_huge.error_leaves_every_mapping tier=thorough bounded="pool of 7 tables (4 path + 3 allocatable); tree-shaped sparse pre-state (target path, one neighbour word per path table, garbage in allocatable frames); page-table indices (255,511,0,1)"
-    //@ obligation C02 C02.map_to_4kib.shape_p2_huge.error_adds_at_most_parent_flags tier=thorough bounded="pool of 7 tables (4 path + 3 allocatable); tree-shaped sparse pre-state (target path, one neighbour word per path table, garbage in allocatable frames); page-table indices (255,511,0,1)"
-    //@ obligation C02 C02.map_to_4kib.shape_p2_huge.huge_leaf_unchanged_on_error tier=thorough bounded="pool of 7 tables (4 path + 3 allocatable); tree-shaped sparse pre-state (target path, one neighbour word per path table, garbage in allocatable frames); page-table indices (255,511,0,1)"
-    //@ obligation C02 C02.map_to_4kib.shape_p2_huge.documented_outcome tier=thorough bounded="pool of 7 tables (4 path + 3 allocatable); tree-shaped sparse pre-state (target path, one neighbour word per path table, garbage in allocatable frames); page-table indices (255,511,0,1)"
-    //@ obligation C01 C01.map_to_4kib.shape_p2_huge.translate_agrees_after tier=thorough bounded="pool of 7 tables (4 path + 3 allocatable); tree-shaped sparse pre-state (target path, one neighbour word per path table, garbage in allocatable frames); page-table indices (255,511,0,1)"
-    //@ obligation C09 C09.map_to_4kib.shape_p2_huge.only_dictated_slots_change tier=thorough bounded="pool of 7 tables (4 path + 3 allocatable); tree-shaped sparse pre-state (target path, one neighbour word per path table, garbage in allocatable frames); page-table indices (255,511,0,1)"
-    //@ obligation C09 C09.map_to_4kib.shape_p2_huge.allocator_requests tier=thorough bounded="pool of 7 tables (4 path + 3 allocatable); tree-shaped sparse pre-state (target path, one neighbour word per path table, garbage in allocatable frames); page-table indices (255,511,0,1)"
-    //@ obligation C09 C09.map_to_4kib.shape_p2_huge.new_tables_zeroed_before_use tier=thorough bounded="pool of 7 tables (4 path + 3 allocatable); tree-shaped sparse pre-state (target path, one neighbour word per path table, garbage in allocatable frames); page-table indices (255,511,0,1)"
-    //@ obligation C09 C09.map_to_4kib.shape_p2_huge.no_dangling_table_pointer tier=thorough bounded="pool of 7 tables (4 path + 3 allocatable); tree-shaped sparse pre-state (target path, one neighbour word per path table, garbage in allocatable frames); page-table indices (255,511,0,1)"
+    //@ obligation C02 C02.map_to_4kib.shape_p2_huge.error_leaves_every_mapping tier=thorough bounded="pool of 7 tables (4 path + 3 allocatable); tree-shaped sparse pre-state (target path, one neighbour word per path table, garbage in allocatable frames); page-table indices (255,511,0,256)"
+    //@ obligation C02 C02.map_to_4kib.shape_p2_huge.error_adds_at_most_parent_flags tier=thorough bounded="pool of 7 tables (4 path + 3 allocatable); tree-shaped sparse pre-state (target path, one neighbour word per path table, garbage in allocatable frames); page-table indices (255,511,0,256)"
+    //@ obligation C02 C02.map_to_4kib.shape_p2_huge.huge_leaf_unchanged_on_error tier=thorough bounded="pool of 7 tables (4 path + 3 allocatable); tree-shaped sparse pre-state (target path, one neighbour word per path table, garbage in allocatable frames); page-table indices (255,511,0,256)"
+    //@ obligation C02 C02.map_to_4kib.shape_p2_huge.documented_outcome tier=thorough bounded="pool of 7 tables (4 path + 3 allocatable); tree-shaped sparse pre-state (target path, one neighbour word per path table, garbage in allocatable frames); page-table indices (255,511,0,256)"
+    //@ obligation C01 C01.map_to_4kib.shape_p2_huge.translate_agrees_after tier=thorough bounded="pool of 7 tables (4 path + 3 allocatable); tree-shaped sparse pre-state (target path, one neighbour word per path table, garbage in allocatable frames); page-table indices (255,511,0,256)"
+    //@ obligation C09 C09.map_to_4kib.shape_p2_huge.only_dictated_slots_change tier=thorough bounded="pool of 7 tables (4 path + 3 allocatable); tree-shaped sparse pre-state (target path, one neighbour word per path table, garbage in allocatable frames); page-table indices (255,511,0,256)"
+    //@ obligation C09 C09.map_to_4kib.shape_p2_huge.allocator_requests tier=thorough bounded="pool of 7 tables (4 path + 3 allocatable); tree-shaped sparse pre-state (target path, one neighbour word per path table, garbage in allocatable frames); page-table indices (255,511,0,256)"
+    //@ obligation C09 C09.map_to_4kib.shape_p2_huge.new_tables_zeroed_before_use tier=thorough bounded="pool of 7 tables (4 path + 3 allocatable); tree-shaped sparse pre-state (target path, one neighbour word per path table, garbage in allocatable frames); page-table indices (255,511,0,256)"
+    //@ obligation C09 C09.map_to_4kib.shape_p2_huge.no_dangling_table_pointer tier=thorough bounded="pool of 7 tables (4 path + 3 allocatable); tree-shaped sparse pre-state (target path, one neighbour word per path table, garbage in allocatable frames); page-table indices (255,511,0,256)"
+    //@ obligation C09 C09.map_to_4kib.shape_p2_huge.no_access_outside_page_tables tier=thorough bounded="pool of 7 tables (4 path + 3 allocatable); tree-shaped sparse pre-state (target path, one neighbour word per path table, garbage in allocatable frames); page-table indices (255,511,0,256)"
     #[kani::proof]
     #[kani::stub(PageTable::zero, zero_stub)]
     fn c01_map_to_4kib_p2_huge_mid() {
@@ -651,15 +671,16 @@ mod verif_c01_step_map {
         kani::cover!(true, "c01_map_to_4kib_p2_huge_mid: reachable");
     }
 
-    //@ obligation C02 C02.map_to_4kib.shape_p2_huge.error_leaves_every_mapping bounded="pool of 7 tables (4 path + 3 allocatable); tree-shaped sparse pre-state (target path, one neighbour word per path table, garbage in allocatable frames); page-table indices (256,1,510,255)"
-    //@ obligation C02 C02.map_to_4kib.shape_p2_huge.error_adds_at_most_parent_flags bounded="pool of 7 tables (4 path + 3 allocatable); tree-shaped sparse pre-state (target path, one neighbour word per path table, garbage in allocatable frames); page-table indices (256,1,510,255)"
-    //@ obligation C02 C02.map_to_4kib.shape_p2_huge.huge_leaf_unchanged_on_error bounded="pool of 7 tables (4 path + 3 allocatable); tree-shaped sparse pre-state (target path, one neighbour word per path table, garbage in allocatable frames); page-table indices (256,1,510,255)"
-    //@ obligation C02 C02.map_to_4kib.shape_p2_huge.documented_outcome bounded="pool of 7 tables (4 path + 3 allocatable); tree-shaped sparse pre-state (target path, one neighbour word per path table, garbage in allocatable frames); page-table indices (256,1,510,255)"
-    //@ obligation C01 C01.map_to_4kib.shape_p2_huge.translate_agrees_after bounded="pool of 7 tables (4 path + 3 allocatable); tree-shaped sparse pre-state (target path, one neighbour word per path table, garbage in allocatable frames); page-table indices (256,1,510,255)"
-    //@ obligation C09 C09.map_to_4kib.shape_p2_huge.only_dictated_slots_change bounded="pool of 7 tables (4 path + 3 allocatable); tree-shaped sparse pre-state (target path, one neighbour word per path table, garbage in allocatable frames); page-table indices (256,1,510,255)"
-    //@ obligation C09 C09.map_to_4kib.shape_p2_huge.allocator_requests bounded="pool of 7 tables (4 path + 3 allocatable); tree-shaped sparse pre-state (target path, one neighbour word per path table, garbage in allocatable frames); page-table indices (256,1,510,255)"
-    //@ obligation C09 C09.map_to_4kib.shape_p2_huge.new_tables_zeroed_before_use bounded="pool of 7 tables (4 path + 3 allocatable); tree-shaped sparse pre-state (target path, one neighbour word per path table, garbage in allocatable frames); page-table indices (256,1,510,255)"
-    //@ obligation C09 C09.map_to_4kib.shape_p2_huge.no_dangling_table_pointer bounded="pool of 7 tables (4 path + 3 allocatable); tree-shaped sparse pre-state (target path, one neighbour word per path table, garbage in allocatable frames); page-table indices (256,1,510,255)"
+    //@ obligation C02 C02.map_to_4kib.shape_p2_huge.error_leaves_every_mapping bounded="pool of 7 tables (4 path + 3 allocatable); tree-shaped sparse pre-state (target path, one neighbour word per path table, garbage in allocatable frames); page-table indices (256,0,510,511)"
+    //@ obligation C02 C02.map_to_4kib.shape_p2_huge.error_adds_at_most_parent_flags bounded="pool of 7 tables (4 path + 3 allocatable); tree-shaped sparse pre-state (target path, one neighbour word per path table, garbage in allocatable frames); page-table indices (256,0,510,511)"
+    //@ obligation C02 C02.map_to_4kib.shape_p2_huge.huge_leaf_unchanged_on_error bounded="pool of 7 tables (4 path + 3 allocatable); tree-shaped sparse pre-state (target path, one neighbour word per path table, garbage in allocatable frames); page-table indices (256,0,510,511)"
+    //@ obligation C02 C02.map_to_4kib.shape_p2_huge.documented_outcome bounded="pool of 7 tables (4 path + 3 allocatable); tree-shaped sparse pre-state (target path, one neighbour word per path table, garbage in allocatable frames); page-table indices (256,0,510,511)"
+    //@ obligation C01 C01.map_to_4kib.shape_p2_huge.translate_agrees_after bounded="pool of 7 tables (4 path + 3 allocatable); tree-shaped sparse pre-state (target path, one neighbour word per path table, garbage in allocatable frames); page-table indices (256,0,510,511)"
+    //@ obligation C09 C09.map_to_4kib.shape_p2_huge.only_dictated_slots_change bounded="pool of 7 tables (4 path + 3 allocatable); tree-shaped sparse pre-state (target path, one neighbour word per path table, garbage in allocatable frames); page-table indices (256,0,510,511)"
+    //@ obligation C09 C09.map_to_4kib.shape_p2_huge.allocator_requests bounded="pool of 7 tables (4 path + 3 allocatable); tree-shaped sparse pre-state (target path, one neighbour word per path table, garbage in allocatable frames); page-table indices (256,0,510,511)"
+    //@ obligation C09 C09.map_to_4kib.shape_p2_huge.new_tables_zeroed_before_use bounded="pool of 7 tables (4 path + 3 allocatable); tree-shaped sparse pre-state (target path, one neighbour word per path table, garbage in allocatable frames); page-table indices (256,0,510,511)"
+    //@ obligation C09 C09.map_to_4kib.shape_p2_huge.no_dangling_table_pointer bounded="pool of 7 tables (4 path + 3 allocatable); tree-shaped sparse pre-state (target path, one neighbour word per path table, garbage in allocatable frames); page-table indices (256,0,510,511)"
+    //@ obligation C09 C09.map_to_4kib.shape_p2_huge.no_access_outside_page_tables bounded="pool of 7 tables (4 path + 3 allocatable); tree-shaped sparse pre-state (target path, one neighbour word per path table, garbage in allocatable frames); page-table indices (256,0,510,511)"
     #[kani::proof]
     #[kani::stub(PageTable::zero, zero_stub)]
     fn c01_map_to_4kib_p2_huge_up() {
@@ -667,15 +688,16 @@ mod verif_c01_step_map {
         kani::cover!(true, "c01_map_to_4kib_p2_huge_up: reachable");
     }
 
-    //@ obligation C02 C02.map_to_4kib.shape_p1_leaf.error_leaves_every_mapping tier=thorough bounded="pool of 7 tables (4 path + 3 allocatable); tree-shaped sparse pre-state (target path, one neighbour word per path table, garbage in allocatable frames); page-table indices (0,0,0,0)"
-    //@ obligation C02 C02.map_to_4kib.shape_p1_leaf.error_adds_at_most_parent_flags tier=thorough bounded="pool of 7 tables (4 path + 3 allocatable); tree-shaped sparse pre-state (target path, one neighbour word per path table, garbage in allocatable frames); page-table indices (0,0,0,0)"
-    //@ obligation C01 C01.map_to_4kib.shape_p1_leaf.result_reports_frame tier=thorough bounded="pool of 7 tables (4 path + 3 allocatable); tree-shaped sparse pre-state (target path, one neighbour word per path table, garbage in allocatable frames); page-table indices (0,0,0,0)"
-    //@ obligation C02 C02.map_to_4kib.shape_p1_leaf.documented_outcome tier=thorough bounded="pool of 7 tables (4 path + 3 allocatable); tree-shaped sparse pre-state (target path, one neighbour word per path table, garbage in allocatable frames); page-table indices (0,0,0,0)"
-    //@ obligation C01 C01.map_to_4kib.shape_p1_leaf.translate_agrees_after tier=thorough bounded="pool of 7 tables (4 path + 3 allocatable); tree-shaped sparse pre-state (target path, one neighbour word per path table, garbage in allocatable frames); page-table indices (0,0,0,0)"
-    //@ obligation C09 C09.map_to_4kib.shape_p1_leaf.only_dictated_slots_change tier=thorough bounded="pool of 7 tables (4 path + 3 allocatable); tree-shaped sparse pre-state (target path, one neighbour word per path table, garbage in allocatable frames); page-table indices (0,0,0,0)"
-    //@ obligation C09 C09.map_to_4kib.shape_p1_leaf.allocator_requests tier=thorough bounded="pool of 7 tables (4 path + 3 allocatable); tree-shaped sparse pre-state (target path, one neighbour word per path table, garbage in allocatable frames); page-table indices (0,0,0,0)"
-    //@ obligation C09 C09.map_to_4kib.shape_p1_leaf.new_tables_zeroed_before_use tier=thorough bounded="pool of 7 tables (4 path + 3 allocatable); tree-shaped sparse pre-state (target path, one neighbour word per path table, garbage in allocatable frames); page-table indices (0,0,0,0)"
-    //@ obligation C09 C09.map_to_4kib.shape_p1_leaf.no_dangling_table_pointer tier=thorough bounded="pool of 7 tables (4 path + 3 allocatable); tree-shaped sparse pre-state (target path, one neighbour word per path table, garbage in allocatable frames); page-table indices (0,0,0,0)"
+    //@ obligation C02 C02.map_to_4kib.shape_p1_leaf.error_leaves_every_mapping tier=thorough bounded="pool of 7 tables (4 path + 3 allocatable); tree-shaped sparse pre-state (target path, one neighbour word per path table, garbage in allocatable frames); page-table indices (0,1,511,2)"
+    //@ obligation C02 C02.map_to_4kib.shape_p1_leaf.error_adds_at_most_parent_flags tier=thorough bounded="pool of 7 tables (4 path + 3 allocatable); tree-shaped sparse pre-state (target path, one neighbour word per path table, garbage in allocatable frames); page-table indices (0,1,511,2)"
+    //@ obligation C01 C01.map_to_4kib.shape_p1_leaf.result_reports_frame tier=thorough bounded="pool of 7 tables (4 path + 3 allocatable); tree-shaped sparse pre-state (target path, one neighbour word per path table, garbage in allocatable frames); page-table indices (0,1,511,2)"
+    //@ obligation C02 C02.map_to_4kib.shape_p1_leaf.documented_outcome tier=thorough bounded="pool of 7 tables (4 path + 3 allocatable); tree-shaped sparse pre-state (target path, one neighbour word per path table, garbage in allocatable frames); page-table indices (0,1,511,2)"
+    //@ obligation C01 C01.map_to_4kib.shape_p1_leaf.translate_agrees_after tier=thorough bounded="pool of 7 tables (4 path + 3 allocatable); tree-shaped sparse pre-state (target path, one neighbour word per path table, garbage in allocatable frames); page-table indices (0,1,511,2)"
+    //@ obligation C09 C09.map_to_4kib.shape_p1_leaf.only_dictated_slots_change tier=thorough bounded="pool of 7 tables (4 path + 3 allocatable); tree-shaped sparse pre-state (target path, one neighbour word per path table, garbage in allocatable frames); page-table indices (0,1,511,2)"
+    //@ obligation C09 C09.map_to_4kib.shape_p1_leaf.allocator_requests tier=thorough bounded="pool of 7 tables (4 path + 3 allocatable); tree-shaped sparse pre-state (target path, one neighbour word per path table, garbage in allocatable frames); page-table indices (0,1,511,2)"
+    //@ obligation C09 C09.map_to_4kib.shape_p1_leaf.new_tables_zeroed_before_use tier=thorough bounded="pool of 7 tables (4 path + 3 allocatable); tree-shaped sparse pre-state (target path, one neighbour word per path table, garbage in allocatable frames); page-table indices (0,1,511,2)"
+    //@ obligation C09 C09.map_to_4kib.shape_p1_leaf.no_dangling_table_pointer tier=thorough bounded="pool of 7 tables (4 path + 3 allocatable); tree-shaped sparse pre-state (target path, one neighbour word per path table, garbage in allocatable frames); page-table indices (0,1,511,2)"
+    //@ obligation C09 C09.map_to_4kib.shape_p1_leaf.no_access_outside_page_tables tier=thorough bounded="pool of 7 tables (4 path + 3 allocatable); tree-shaped sparse pre-state (target path, one neighbour word per path table, garbage in allocatable frames); page-table indices (0,1,511,2)"
     #[kani::proof]
     #[kani::stub(PageTable::zero, zero_stub)]
     fn c01_map_to_4kib_p1_leaf_lo() {
@@ -683,15 +705,16 @@ mod verif_c01_step_map {
         kani::cover!(true, "c01_map_to_4kib_p1_leaf_lo: reachable");
     }
 
-    //@ obligation C02 C02.map_to_4kib.shape_p1_leaf.error_leaves_every_mapping tier=thorough bounded="pool of 7 tables (4 path + 3 allocatable); tree-shaped sparse pre-state (target path, one neighbour word per path table, garbage in allocatable frames); page-table indices (511,511,511,511)"
-    //@ obligation C02 C02.map_to_4kib.shape_p1_leaf.error_adds_at_most_parent_flags tier=thorough bounded="pool of 7 tables (4 path + 3 allocatable); tree-shaped sparse pre-state (target path, one neighbour word per path table, garbage in allocatable frames); page-table indices (511,511,511,511)"
-    //@ obligation C01 C01.map_to_4kib.shape_p1_leaf.result_reports_frame tier=thorough bounded="pool of 7 tables (4 path + 3 allocatable); tree-shaped sparse pre-state (target path, one neighbour word per path table, garbage in allocatable frames); page-table indices (511,511,511,511)"
-    //@ obligation C02 C02.map_to_4kib.shape_p1_leaf.documented_outcome tier=thorough bounded="pool of 7 tables (4 path + 3 allocatable); tree-shaped sparse pre-state (target path, one neighbour word per path table, garbage in allocatable frames); page-table indices (511,511,511,511)"
-    //@ obligation C01 C01.map_to_4kib.shape_p1_leaf.translate_agrees_after tier=thorough bounded="pool of 7 tables (4 path + 3 allocatable); tree-shaped sparse pre-state (target path, one neighbour word per path table, garbage in allocatable frames); page-table indices (511,511,511,511)"
-    //@ obligation C09 C09.map_to_4kib.shape_p1_leaf.only_dictated_slots_change tier=thorough bounded="pool of 7 tables (4 path + 3 allocatable); tree-shaped sparse pre-state (target path, one neighbour word per path table, garbage in allocatable frames); page-table indices (511,511,511,511)"
-    //@ obligation C09 C09.map_to_4kib.shape_p1_leaf.allocator_requests tier=thorough bounded="pool of 7 tables (4 path + 3 allocatable); tree-shaped sparse pre-state (target path, one neighbour word per path table, garbage in allocatable frames); page-table indices (511,511,511,511)"
-    //@ obligation C09 C09.map_to_4kib.shape_p1_leaf.new_tables_zeroed_before_use tier=thorough bounded="pool of 7 tables (4 path + 3 allocatable); tree-shaped sparse pre-state (target path, one neighbour word per path table, garbage in allocatable frames); page-table indices (511,511,511,511)"
-    //@ obligation C09 C09.map_to_4kib.shape_p1_leaf.no_dangling_table_pointer tier=thorough bounded="pool of 7 tables (4 path + 3 allocatable); tree-shaped sparse pre-state (target path, one neighbour word per path table, garbage in allocatable frames); page-table indices (511,511,511,511)"
+    //@ obligation C02 C02.map_to_4kib.shape_p1_leaf.error_leaves_every_mapping tier=thorough bounded="pool of 7 tables (4 path + 3 allocatable); tree-shaped sparse pre-state (target path, one neighbour word per path table, garbage in allocatable frames); page-table indices (511,510,1,0)"
+    //@ obligation C02 C02.map_to_4kib.shape_p1_leaf.error_adds_at_most_parent_flags tier=thorough bounded="pool of 7 tables (4 path + 3 allocatable); tree-shaped sparse pre-state (target path, one neighbour word per path table, garbage in allocatable frames); page-table indices (511,510,1,0)"
+    //@ obligation C01 C01.map_to_4kib.shape_p1_leaf.result_reports_frame tier=thorough bounded="pool of 7 tables (4 path + 3 allocatable); tree-shaped sparse pre-state (target path, one neighbour word per path table, garbage in allocatable frames); page-table indices (511,510,1,0)"
+    //@ obligation C02 C02.map_to_4kib.shape_p1_leaf.documented_outcome tier=thorough bounded="pool of 7 tables (4 path + 3 allocatable); tree-shaped sparse pre-state (target path, one neighbour word per path table, garbage in allocatable frames); page-table indices (511,510,1,0)"
+    //@ obligation C01 C01.map_to_4kib.shape_p1_leaf.translate_agrees_after tier=thorough bounded="pool of 7 tables (4 path + 3 allocatable); tree-shaped sparse pre-state (target path, one neighbour word per path table, garbage in allocatable frames); page-table indices (511,510,1,0)"
+    //@ obligation C09 C09.map_to_4kib.shape_p1_leaf.only_dictated_slots_change tier=thorough bounded="pool of 7 tables (4 path + 3 allocatable); tree-shaped sparse pre-state (target path, one neighbour word per path table, garbage in allocatable frames); page-table indices (511,510,1,0)"
+    //@ obligation C09 C09.map_to_4kib.shape_p1_leaf.allocator_requests tier=thorough bounded="pool of 7 tables (4 path + 3 allocatable); tree-shaped sparse pre-state (target path, one neighbour word per path table, garbage in allocatable frames); page-table indices (511,510,1,0)"
+    //@ obligation C09 C09.map_to_4kib.shape_p1_leaf.new_tables_zeroed_before_use tier=thorough bounded="pool of 7 tables (4 path + 3 allocatable); tree-shaped sparse pre-state (target path, one neighbour word per path table, garbage in allocatable frames); page-table indices (511,510,1,0)"
+    //@ obligation C09 C09.map_to_4kib.shape_p1_leaf.no_dangling_table_pointer tier=thorough bounded="pool of 7 tables (4 path + 3 allocatable); tree-shaped sparse pre-state (target path, one neighbour word per path table, garbage in allocatable frames); page-table indices (511,510,1,0)"
+    //@ obligation C09 C09.map_to_4kib.shape_p1_leaf.no_access_outside_page_tables tier=thorough bounded="pool of 7 tables (4 path + 3 allocatable); tree-shaped sparse pre-state (target path, one neighbour word per path table, garbage in allocatable frames); page-table indices (511,510,1,0)"
     #[kani::proof]
     #[kani::stub(PageTable::zero, zero_stub)]
     fn c01_map_to_4kib_p1_leaf_hi() {
@@ -699,15 +722,16 @@ mod verif_c01_step_map {
         kani::cover!(true, "c01_map_to_4kib_p1_leaf_hi: reachable");
     }
 
-    //@ obligation C02 C02.map_to_4kib.shape_p1_leaf.error_leaves_every_mapping bounded="pool of 7 tables (4 path + 3 allocatable); tree-shaped sparse pre-state (target path, one neighbour word per path table, garbage in allocatable frames); page-table indices (255,511,0,1)"
-    //@ obligation C02 C02.map_to_4kib.shape_p1_leaf.error_adds_at_most_parent_flags bounded="pool of 7 tables (4 path + 3 allocatable); tree-shaped sparse pre-state (target path, one neighbour word per path table, garbage in allocatable frames); page-table indices (255,511,0,1)"
-    //@ obligation C01 C01.map_to_4kib.shape_p1_leaf.result_reports_frame bounded="pool of 7 tables (4 path + 3 allocatable); tree-shaped sparse pre-state (target path, one neighbour word per path table, garbage in allocatable frames); page-table indices (255,511,0,1)"
-    //@ obligation C02 C02.map_to_4kib.shape_p1_leaf.documented_outcome bounded="pool of 7 tables (4 path + 3 allocatable); tree-shaped sparse pre-state (target path, one neighbour word per path table, garbage in allocatable frames); page-table indices (255,511,0,1)"
-    //@ obligation C01 C01.map_to_4kib.shape_p1_leaf.translate_agrees_after bounded="pool of 7 tables (4 path + 3 allocatable); tree-shaped sparse pre-state (target path, one neighbour word per path table, garbage in allocatable frames); page-table indices (255,511,0,1)"
-    //@ obligation C09 C09.map_to_4kib.shape_p1_leaf.only_dictated_slots_change bounded="pool of 7 tables (4 path + 3 allocatable); tree-shaped sparse pre-state (target path, one neighbour word per path table, garbage in allocatable frames); page-table indices (255,511,0,1)"
-    //@ obligation C09 C09.map_to_4kib.shape_p1_leaf.allocator_requests bounded="pool of 7 tables (4 path + 3 allocatable); tree-shaped sparse pre-state (target path, one neighbour word per path table, garbage in allocatable frames); page-table indices (255,511,0,1)"
-    //@ obligation C09 C09.map_to_4kib.shape_p1_leaf.new_tables_zeroed_before_use bounded="pool of 7 tables (4 path + 3 allocatable); tree-shaped sparse pre-state (target path, one neighbour word per path table, garbage in allocatable frames); page-table indices (255,511,0,1)"
-    //@ obligation C09 C09.map_to_4kib.shape_p1_leaf.no_dangling_table_pointer bounded="pool of 7 tables (4 path + 3 allocatable); tree-shaped sparse pre-state (target path, one neighbour word per path table, garbage in allocatable frames); page-table indices (255,511,0,1)"
+    //@ obligation C02 C02.map_to_4kib.shape_p1_leaf.error_leaves_every_mapping bounded="pool of 7 tables (4 path + 3 allocatable); tree-shaped sparse pre-state (target path, one neighbour word per path table, garbage in allocatable frames); page-table indices (255,511,0,256)"
+    //@ obligation C02 C02.map_to_4kib.shape_p1_leaf.error_adds_at_most_parent_flags bounded="pool of 7 tables (4 path + 3 allocatable); tree-shaped sparse pre-state (target path, one neighbour word per path table, garbage in allocatable frames); page-table indices (255,511,0,256)"
+    //@ obligation C01 C01.map_to_4kib.shape_p1_leaf.result_reports_frame bounded="pool of 7 tables (4 path + 3 allocatable); tree-shaped sparse pre-state (target path, one neighbour word per path table, garbage in allocatable frames); page-table indices (255,511,0,256)"
+    //@ obligation C02 C02.map_to_4kib.shape_p1_leaf.documented_outcome bounded="pool of 7 tables (4 path + 3 allocatable); tree-shaped sparse pre-state (target path, one neighbour word per path table, garbage in allocatable frames); page-table indices (255,511,0,256)"
+    //@ obligation C01 C01.map_to_4kib.shape_p1_leaf.translate_agrees_after bounded="pool of 7 tables (4 path + 3 allocatable); tree-shaped sparse pre-state (target path, one neighbour word per path table, garbage in allocatable frames); page-table indices (255,511,0,256)"
+    //@ obligation C09 C09.map_to_4kib.shape_p1_leaf.only_dictated_slots_change bounded="pool of 7 tables (4 path + 3 allocatable); tree-shaped sparse pre-state (target path, one neighbour word per path table, garbage in allocatable frames); page-table indices (255,511,0,256)"
+    //@ obligation C09 C09.map_to_4kib.shape_p1_leaf.allocator_requests bounded="pool of 7 tables (4 path + 3 allocatable); tree-shaped sparse pre-state (target path, one neighbour word per path table, garbage in allocatable frames); page-table indices (255,511,0,256)"
+    //@ obligation C09 C09.map_to_4kib.shape_p1_leaf.new_tables_zeroed_before_use bounded="pool of 7 tables (4 path + 3 allocatable); tree-shaped sparse pre-state (target path, one neighbour word per path table, garbage in allocatable frames); page-table indices (255,511,0,256)"
+    //@ obligation C09 C09.map_to_4kib.shape_p1_leaf.no_dangling_table_pointer bounded="pool of 7 tables (4 path + 3 allocatable); tree-shaped sparse pre-state (target path, one neighbour word per path table, garbage in allocatable frames); page-table indices (255,511,0,256)"
+    //@ obligation C09 C09.map_to_4kib.shape_p1_leaf.no_access_outside_page_tables bounded="pool of 7 tables (4 path + 3 allocatable); tree-shaped sparse pre-state (target path, one neighbour word per path table, garbage in allocatable frames); page-table indices (255,511,0,256)"
     #[kani::proof]
     #[kani::stub(PageTable::zero, zero_stub)]
     fn c01_map_to_4kib_p1_leaf_mid() {
@@ -715,15 +739,16 @@ mod verif_c01_step_map {
         kani::cover!(true, "c01_map_to_4kib_p1_leaf_mid: reachable");
     }
 
-    //@ obligation C02 C02.map_to_4kib.shape_p1_leaf.error_leaves_every_mapping tier=thorough bounded="pool of 7 tables (4 path + 3 allocatable); tree-shaped sparse pre-state (target path, one neighbour word per path table, garbage in allocatable frames); page-table indices (256,1,510,255)"
-    //@ obligation C02 C02.map_to_4kib.shape_p1_leaf.error_adds_at_most_parent_flags tier=thorough bounded="pool of 7 tables (4 path + 3 allocatable); tree-shaped sparse pre-state (target path, one neighbour word per path table, garbage in allocatable frames); page-table indices (256,1,510,255)"
-    //@ obligation C01 C01.map_to_4kib.shape_p1_leaf.result_reports_frame tier=thorough bounded="pool of 7 tables (4 path + 3 allocatable); tree-shaped sparse pre-state (target path, one neighbour word per path table, garbage in allocatable frames); page-table indices (256,1,510,255)"
-    //@ obligation C02 C02.map_to_4kib.shape_p1_leaf.documented_outcome tier=thorough bounded="pool of 7 tables (4 path + 3 allocatable); tree-shaped sparse pre-state (target path, one neighbour word per path table, garbage in allocatable frames); page-table indices (256,1,510,255)"
-    //@ obligation C01 C01.map_to_4kib.shape_p1_leaf.translate_agrees_after tier=thorough bounded="pool of 7 tables (4 path + 3 allocatable); tree-shaped sparse pre-state (target path, one neighbour word per path table, garbage in allocatable frames); page-table indices (256,1,510,255)"
-    //@ obligation C09 C09.map_to_4kib.shape_p1_leaf.only_dictated_slots_change tier=thorough bounded="pool of 7 tables (4 path + 3 allocatable); tree-shaped sparse pre-state (target path, one neighbour word per path table, garbage in allocatable frames); page-table indices (256,1,510,255)"
-    //@ obligation C09 C09.map_to_4kib.shape_p1_leaf.allocator_requests tier=thorough bounded="pool of 7 tables (4 path + 3 allocatable); tree-shaped sparse pre-state (target path, one neighbour word per path table, garbage in allocatable frames); page-table indices (256,1,510,255)"
-    //@ obligation C09 C09.map_to_4kib.shape_p1_leaf.new_tables_zeroed_before_use tier=thorough bounded="pool of 7 tables (4 path + 3 allocatable); tree-shaped sparse pre-state (target path, one neighbour word per path table, garbage in allocatable frames); page-table indices (256,1,510,255)"
-    //@ obligation C09 C09.map_to_4kib.shape_p1_leaf.no_dangling_table_pointer tier=thorough bounded="pool of 7 tables (4 path + 3 allocatable); tree-shaped sparse pre-state (target path, one neighbour word per path table, garbage in allocatable frames); page-table indices (256,1,510,255)"
+    //@ obligation C02 C02.map_to_4kib.shape_p1_leaf.error_leaves_every_mapping tier=thorough bounded="pool of 7 tables (4 path + 3 allocatable); tree-shaped sparse pre-state (target path, one neighbour word per path table, garbage in allocatable frames); page-table indices (256,0,510,511)"
+    //@ obligation C02 C02.map_to_4kib.shape_p1_leaf.error_adds_at_most_parent_flags tier=thorough bounded="pool of 7 tables (4 path + 3 allocatable); tree-shaped sparse pre-state (target path, one neighbour word per path table, garbage in allocatable frames); page-table indices (256,0,510,511)"
+    //@ obligation C01 C01.map_to_4kib.shape_p1_leaf.result_reports_frame tier=thorough bounded="pool of 7 tables (4 path + 3 allocatable); tree-shaped sparse pre-state (target path, one neighbour word per path table, garbage in allocatable frames); page-table indices (256,0,510,511)"
+    //@ obligation C02 C02.map_to_4kib.shape_p1_leaf.documented_outcome tier=thorough bounded="pool of 7 tables (4 path + 3 allocatable); tree-shaped sparse pre-state (target path, one neighbour word per path table, garbage in allocatable frames); page-table indices (256,0,510,511)"
+    //@ obligation C01 C01.map_to_4kib.shape_p1_leaf.translate_agrees_after tier=thorough bounded="pool of 7 tables (4 path + 3 allocatable); tree-shaped sparse pre-state (target path, one neighbour word per path table, garbage in allocatable frames); page-table indices (256,0,510,511)"
+    //@ obligation C09 C09.map_to_4kib.shape_p1_leaf.only_dictated_slots_change tier=thorough bounded="pool of 7 tables (4 path + 3 allocatable); tree-shaped sparse pre-state (target path, one neighbour word per path table, garbage in allocatable frames); page-table indices (256,0,510,511)"
+    //@ obligation C09 C09.map_to_4kib.shape_p1_leaf.allocator_requests tier=thorough bounded="pool of 7 tables (4 path + 3 allocatable); tree-shaped sparse pre-state (target path, one neighbour word per path table, garbage in allocatable frames); page-table indices (256,0,510,511)"
+    //@ obligation C09 C09.map_to_4kib.shape_p1_leaf.new_tables_zeroed_before_use tier=thorough bounded="pool of 7 tables (4 path + 3 allocatable); tree-shaped sparse pre-state (target path, one neighbour word per path table, garbage in allocatable frames); page-table indices (256,0,510,511)"
+    //@ obligation C09 C09.map_to_4kib.shape_p1_leaf.no_dangling_table_pointer tier=thorough bounded="pool of 7 tables (4 path + 3 allocatable); tree-shaped sparse pre-state (target path, one neighbour word per path table, garbage in allocatable frames); page-table indices (256,0,510,511)"
+    //@ obligation C09 C09.map_to_4kib.shape_p1_leaf.no_access_outside_page_tables tier=thorough bounded="pool of 7 tables (4 path + 3 allocatable); tree-shaped sparse pre-state (target path, one neighbour word per path table, garbage in allocatable frames); page-table indices (256,0,510,511)"
     #[kani::proof]
     #[kani::stub(PageTable::zero, zero_stub)]
     fn c01_map_to_4kib_p1_leaf_up() {
@@ -731,19 +756,21 @@ mod verif_c01_step_map {
         kani::cover!(true, "c01_map_to_4kib_p1_leaf_up: reachable");
     }
 
-    //@ obligation C01 C01.map_to_2mib.shape_p4_absent.target_translates_to_frame tier=thorough bounded="pool of 7 tables (4 path + 3 allocatable); tree-shaped sparse pre-state (target path, one neighbour word per path table, garbage in allocatable frames); page-table indices (0,0,0,0)"
-    //@ obligation C01 C01.map_to_2mib.shape_p4_absent.target_leaf_flags tier=thorough bounded="pool of 7 tables (4 path + 3 allocatable); tree-shaped sparse pre-state (target path, one neighbour word per path table, garbage in allocatable frames); page-table indices (0,0,0,0)"
-    //@ obligation C01 C01.map_to_2mib.shape_p4_absent.parent_rights_include_requested tier=thorough bounded="pool of 7 tables (4 path + 3 allocatable); tree-shaped sparse pre-state (target path, one neighbour word per path table, garbage in allocatable frames); page-table indices (0,0,0,0)"
-    //@ obligation C01 C01.map_to_2mib.shape_p4_absent.other_addresses_unchanged tier=thorough bounded="pool of 7 tables (4 path + 3 allocatable); tree-shaped sparse pre-state (target path, one neighbour word per path table, garbage in allocatable frames); page-table indices (0,0,0,0)"
-    //@ obligation C11 C11.map_to_2mib.shape_p4_absent.token_names_page tier=thorough bounded="pool of 7 tables (4 path + 3 allocatable); tree-shaped sparse pre-state (target path, one neighbour word per path table, garbage in allocatable frames); page-table indices (0,0,0,0)"
-    //@ obligation C02 C02.map_to_2mib.shape_p4_absent.error_leaves_every_mapping tier=thorough bounded="pool of 7 tables (4 path + 3 allocatable); tree-shaped sparse pre-state (target path, one neighbour word per path table, garbage in allocatable frames); page-table indices (0,0,0,0)"
-    //@ obligation C02 C02.map_to_2mib.shape_p4_absent.error_adds_at_most_parent_flags tier=thorough bounded="pool of 7 tables (4 path + 3 allocatable); tree-shaped sparse pre-state (target path, one neighbour word per path table, garbage in allocatable frames); page-table indices (0,0,0,0)"
-    //@ obligation C02 C02.map_to_2mib.shape_p4_absent.documented_outcome tier=thorough bounded="pool of 7 tables (4 path + 3 allocatable); tree-shaped sparse pre-state (target path, one neighbour word per path table, garbage in allocatable frames); page-table indices (0,0,0,0)"
-    //@ obligation C01 C01.map_to_2mib.shape_p4_absent.translate_agrees_after tier=thorough bounded="pool of 7 tables (4 path + 3 allocatable); tree-shaped sparse pre-state (target path, one neighbour word per path table, garbage in allocatable frames); page-table indices (0,0,0,0)"
-    //@ obligation C09 C09.map_to_2mib.shape_p4_absent.only_dictated_slots_change tier=thorough bounded="pool of 7 tables (4 path + 3 allocatable); tree-shaped sparse pre-state (target path, one neighbour word per path table, garbage in allocatable frames); page-table indices (0,0,0,0)"
-    //@ obligation C09 C09.map_to_2mib.shape_p4_absent.allocator_requests tier=thorough bounded="pool of 7 tables (4 path + 3 allocatable); tree-shaped sparse pre-state (target path, one neighbour word per path table, garbage in allocatable frames); page-table indices (0,0,0,0)"
-    //@ obligation C09 C09.map_to_2mib.shape_p4_absent.new_tables_zeroed_before_use tier=thorough bounded="pool of 7 tables (4 path + 3 allocatable); tree-shaped sparse pre-state (target path, one neighbour word per path table, garbage in allocatable frames); page-table indices (0,0,0,0)"
-    //@ obligation C09 C09.map_to_2mib.shape_p4_absent.no_dangling_table_pointer tier=thorough bounded="pool of 7 tables (4 path + 3 allocatable); tree-shaped sparse pre-state (target path, one neighbour word per path table, garbage in allocatable frames); page-table indices (0,0,0,0)"
+    //@ obligation C01 C01.map_to_2mib.shape_p4_absent.target_translates_to_frame tier=thorough bounded="pool of 7 tables (4 path + 3 allocatable); tree-shaped sparse pre-state (target path, one neighbour word per path table, garbage in allocatable frames); page-table indices (0,1,511,2)"
+    //@ obligation C01 C01.map_to_2mib.shape_p4_absent.target_leaf_flags tier=thorough bounded="pool of 7 tables (4 path + 3 allocatable); tree-shaped sparse pre-state (target path, one neighbour word per path table, garbage in allocatable frames); page-table indices (0,1,511,2)"
+    //@ obligation C01 C01.map_to_2mib.shape_p4_absent.parent_rights_include_requested tier=thorough bounded="pool of 7 tables (4 path + 3 allocatable); tree-shaped sparse pre-state (target path, one neighbour word per path table, garbage in allocatable frames); page-table indices (0,1,511,2)"
+    //@ obligation C01 C01.map_to_2mib.shape_p4_absent.other_addresses_unchanged tier=thorough bounded="pool of 7 tables (4 path + 3 allocatable); tree-shaped sparse pre-state (target path, one neighbour word per path table, garbage in allocatable frames); page-table indices (0,1,511,2)"
+    //@ obligation C01 C01.map_to_2mib.shape_p4_absent.result_reports_page tier=thorough bounded="pool of 7 tables (4 path + 3 allocatable); tree-shaped sparse pre-state (target path, one neighbour word per path table, garbage in allocatable frames); page-table indices (0,1,511,2)"
+    //@ obligation C11 C11.map_to_2mib.shape_p4_absent.token_names_page tier=thorough bounded="pool of 7 tables (4 path + 3 allocatable); tree-shaped sparse pre-state (target path, one neighbour word per path table, garbage in allocatable frames); page-table indices (0,1,511,2)"
+    //@ obligation C02 C02.map_to_2mib.shape_p4_absent.error_leaves_every_mapping tier=thorough bounded="pool of 7 tables (4 path + 3 allocatable); tree-shaped sparse pre-state (target path, one neighbour word per path table, garbage in allocatable frames); page-table indices (0,1,511,2)"
+    //@ obligation C02 C02.map_to_2mib.shape_p4_absent.error_adds_at_most_parent_flags tier=thorough bounded="pool of 7 tables (4 path + 3 allocatable); tree-shaped sparse pre-state (target path, one neighbour word per path table, garbage in allocatable frames); page-table indices (0,1,511,2)"
+    //@ obligation C02 C02.map_to_2mib.shape_p4_absent.documented_outcome tier=thorough bounded="pool of 7 tables (4 path + 3 allocatable); tree-shaped sparse pre-state (target path, one neighbour word per path table, garbage in allocatable frames); page-table indices (0,1,511,2)"
+    //@ obligation C01 C01.map_to_2mib.shape_p4_absent.translate_agrees_after tier=thorough bounded="pool of 7 tables (4 path + 3 allocatable); tree-shaped sparse pre-state (target path, one neighbour word per path table, garbage in allocatable frames); page-table indices (0,1,511,2)"
+    //@ obligation C09 C09.map_to_2mib.shape_p4_absent.only_dictated_slots_change tier=thorough bounded="pool of 7 tables (4 path + 3 allocatable); tree-shaped sparse pre-state (target path, one neighbour word per path table, garbage in allocatable frames); page-table indices (0,1,511,2)"
+    //@ obligation C09 C09.map_to_2mib.shape_p4_absent.allocator_requests tier=thorough bounded="pool of 7 tables (4 path + 3 allocatable); tree-shaped sparse pre-state (target path, one neighbour word per path table, garbage in allocatable frames); page-table indices (0,1,511,2)"
+    //@ obligation C09 C09.map_to_2mib.shape_p4_absent.new_tables_zeroed_before_use tier=thorough bounded="pool of 7 tables (4 path + 3 allocatable); tree-shaped sparse pre-state (target path, one neighbour word per path table, garbage in allocatable frames); page-table indices (0,1,511,2)"
+    //@ obligation C09 C09.map_to_2mib.shape_p4_absent.no_dangling_table_pointer tier=thorough bounded="pool of 7 tables (4 path + 3 allocatable); tree-shaped sparse pre-state (target path, one neighbour word per path table, garbage in allocatable frames); page-table indices (0,1,511,2)"
+    //@ obligation C09 C09.map_to_2mib.shape_p4_absent.no_access_outside_page_tables tier=thorough bounded="pool of 7 tables (4 path + 3 allocatable); tree-shaped sparse pre-state (target path, one neighbour word per path table, garbage in allocatable frames); page-table indices (0,1,511,2)"
     #[kani::proof]
     #[kani::stub(PageTable::zero, zero_stub)]
     fn c01_map_to_2mib_p4_absent_lo() {
@@ -751,19 +778,21 @@ mod verif_c01_step_map {
         kani::cover!(true, "c01_map_to_2mib_p4_absent_lo: reachable");
     }
 
-    //@ obligation C01 C01.map_to_2mib.shape_p4_absent.target_translates_to_frame tier=thorough bounded="pool of 7 tables (4 path + 3 allocatable); tree-shaped sparse pre-state (target path, one neighbour word per path table, garbage in allocatable frames); page-table indices (511,511,511,511)"
-    //@ obligation C01 C01.map_to_2mib.shape_p4_absent.target_leaf_flags tier=thorough bounded="pool of 7 tables (4 path + 3 allocatable); tree-shaped sparse pre-state (target path, one neighbour word per path table, garbage in allocatable frames); page-table indices (511,511,511,511)"
-    //@ obligation C01 C01.map_to_2mib.shape_p4_absent.parent_rights_include_requested tier=thorough bounded="pool of 7 tables (4 path + 3 allocatable); tree-shaped sparse pre-state (target path, one neighbour word per path table, garbage in allocatable frames); page-table indices (511,511,511,511)"
-    //@ obligation C01 C01.map_to_2mib.shape_p4_absent.other_addresses_unchanged tier=thorough bounded="pool of 7 tables (4 path + 3 allocatable); tree-shaped sparse pre-state (target path, one neighbour word per path table, garbage in allocatable frames); page-table indices (511,511,511,511)"
-    //@ obligation C11 C11.map_to_2mib.shape_p4_absent.token_names_page tier=thorough bounded="pool of 7 tables (4 path + 3 allocatable); tree-shaped sparse pre-state (target path, one neighbour word per path table, garbage in allocatable frames); page-table indices (511,511,511,511)"
-    //@ obligation C02 C02.map_to_2mib.shape_p4_absent.error_leaves_every_mapping tier=thorough bounded="pool of 7 tables (4 path + 3 allocatable); tree-shaped sparse pre-state (target path, one neighbour word per path table, garbage in allocatable frames); page-table indices (511,511,511,511)"
-    //@ obligation C02 C02.map_to_2mib.shape_p4_absent.error_adds_at_most_parent_flags tier=thorough bounded="pool of 7 tables (4 path + 3 allocatable); tree-shaped sparse pre-state (target path, one neighbour word per path table, garbage in allocatable frames); page-table indices (511,511,511,511)"
-    //@ obligation C02 C02.map_to_2mib.shape_p4_absent.documented_outcome tier=thorough bounded="pool of 7 tables (4 path + 3 allocatable); tree-shaped sparse pre-state (target path, one neighbour word per path table, garbage in allocatable frames); page-table indices (511,511,511,511)"
-    //@ obligation C01 C01.map_to_2mib.shape_p4_absent.translate_agrees_after tier=thorough bounded="pool of 7 tables (4 path + 3 allocatable); tree-shaped sparse pre-state (target path, one neighbour word per path table, garbage in allocatable frames); page-table indices (511,511,511,511)"
-    //@ obligation C09 C09.map_to_2mib.shape_p4_absent.only_dictated_slots_change tier=thorough bounded="pool of 7 tables (4 path + 3 allocatable); tree-shaped sparse pre-state (target path, one neighbour word per path table, garbage in allocatable frames); page-table indices (511,511,511,511)"
-    //@ obligation C09 C09.map_to_2mib.shape_p4_absent.allocator_requests tier=thorough bounded="pool of 7 tables (4 path + 3 allocatable); tree-shaped sparse pre-state (target path, one neighbour word per path table, garbage in allocatable frames); page-table indices (511,511,511,511)"
-    //@ obligation C09 C09.map_to_2mib.shape_p4_absent.new_tables_zeroed_before_use tier=thorough bounded="pool of 7 tables (4 path + 3 allocatable); tree-shaped sparse pre-state (target path, one neighbour word per path table, garbage in allocatable frames); page-table indices (511,511,511,511)"
-    //@ obligation C09 C09.map_to_2mib.shape_p4_absent.no_dangling_table_pointer tier=thorough bounded="pool of 7 tables (4 path + 3 allocatable); tree-shaped sparse pre-state (target path, one neighbour word per path table, garbage in allocatable frames); page-table indices (511,511,511,511)"
+    //@ obligation C01 C01.map_to_2mib.shape_p4_absent.target_translates_to_frame tier=thorough bounded="pool of 7 tables (4 path + 3 allocatable); tree-shaped sparse pre-state (target path, one neighbour word per path table, garbage in allocatable frames); page-table indices (511,510,1,0)"
+    //@ obligation C01 C01.map_to_2mib.shape_p4_absent.target_leaf_flags tier=thorough bounded="pool of 7 tables (4 path + 3 allocatable); tree-shaped sparse pre-state (target path, one neighbour word per path table, garbage in allocatable frames); page-table indices (511,510,1,0)"
+    //@ obligation C01 C01.map_to_2mib.shape_p4_absent.parent_rights_include_requested tier=thorough bounded="pool of 7 tables (4 path + 3 allocatable); tree-shaped sparse pre-state (target path, one neighbour word per path table, garbage in allocatable frames); page-table indices (511,510,1,0)"
+    //@ obligation C01 C01.map_to_2mib.shape_p4_absent.other_addresses_unchanged tier=thorough bounded="pool of 7 tables (4 path + 3 allocatable); tree-shaped sparse pre-state (target path, one neighbour word per path table, garbage in allocatable frames); page-table indices (511,510,1,0)"
+    //@ obligation C01 C01.map_to_2mib.shape_p4_absent.result_reports_page tier=thorough bounded="pool of 7 tables (4 path + 3 allocatable); tree-shaped sparse pre-state (target path, one neighbour word per path table, garbage in allocatable frames); page-table indices (511,510,1,0)"
+    //@ obligation C11 C11.map_to_2mib.shape_p4_absent.token_names_page tier=thorough bounded="pool of 7 tables (4 path + 3 allocatable); tree-shaped sparse pre-state (target path, one neighbour word per path table, garbage in allocatable frames); page-table indices (511,510,1,0)"
+    //@ obligation C02 C02.map_to_2mib.shape_p4_absent.error_leaves_every_mapping tier=thorough bounded="pool of 7 tables (4 path + 3 allocatable); tree-shaped sparse pre-state (target path, one neighbour word per path table, garbage in allocatable frames); page-table indices (511,510,1,0)"
+    //@ obligation C02 C02.map_to_2mib.shape_p4_absent.error_adds_at_most_parent_flags tier=thorough bounded="pool of 7 tables (4 path + 3 allocatable); tree-shaped sparse pre-state (target path, one neighbour word per path table, garbage in allocatable frames); page-table indices (511,510,1,0)"
+    //@ obligation C02 C02.map_to_2mib.shape_p4_absent.documented_outcome tier=thorough bounded="pool of 7 tables (4 path + 3 allocatable); tree-shaped sparse pre-state (target path, one neighbour word per path table, garbage in allocatable frames); page-table indices (511,510,1,0)"
+    //@ obligation C01 C01.map_to_2mib.shape_p4_absent.translate_agrees_after tier=thorough bounded="pool of 7 tables (4 path + 3 allocatable); tree-shaped sparse pre-state (target path, one neighbour word per path table, garbage in allocatable frames); page-table indices (511,510,1,0)"
+    //@ obligation C09 C09.map_to_2mib.shape_p4_absent.only_dictated_slots_change tier=thorough bounded="pool of 7 tables (4 path + 3 allocatable); tree-shaped sparse pre-state (target path, one neighbour word per path table, garbage in allocatable frames); page-table indices (511,510,1,0)"
+    //@ obligation C09 C09.map_to_2mib.shape_p4_absent.allocator_requests tier=thorough bounded="pool of 7 tables (4 path + 3 allocatable); tree-shaped sparse pre-state (target path, one neighbour word per path table, garbage in allocatable frames); page-table indices (511,510,1,0)"
+    //@ obligation C09 C09.map_to_2mib.shape_p4_absent.new_tables_zeroed_before_use tier=thorough bounded="pool of 7 tables (4 path + 3 allocatable); tree-shaped sparse pre-state (target path, one neighbour word per path table, garbage in allocatable frames); page-table indices (511,510,1,0)"
+    //@ obligation C09 C09.map_to_2mib.shape_p4_absent.no_dangling_table_pointer tier=thorough bounded="pool of 7 tables (4 path + 3 allocatable); tree-shaped sparse pre-state (target path, one neighbour word per path table, garbage in allocatable frames); page-table indices (511,510,1,0)"
+    //@ obligation C09 C09.map_to_2mib.shape_p4_absent.no_access_outside_page_tables tier=thorough bounded="pool of 7 tables (4 path + 3 allocatable); tree-shaped sparse pre-state (target path, one neighbour word per path table, garbage in allocatable frames); page-table indices (511,510,1,0)"
     #[kani::proof]
     #[kani::stub(PageTable::zero, zero_stub)]
     fn c01_map_to_2mib_p4_absent_hi() {
@@ -771,19 +800,21 @@ mod verif_c01_step_map {
         kani::cover!(true, "c01_map_to_2mib_p4_absent_hi: reachable");
     }
 
-    //@ obligation C01 C01.map_to_2mib.shape_p4_absent.target_translates_to_frame tier=thorough bounded="pool of 7 tables (4 path + 3 allocatable); tree-shaped sparse pre-state (target path, one neighbour word per path table, garbage in allocatable frames); page-table indices (255,511,0,1)"
-    //@ obligation C01 C01.map_to_2mib.shape_p4_absent.target_leaf_flags tier=thorough bounded="pool of 7 tables (4 path + 3 allocatable); tree-shaped sparse pre-state (target path, one neighbour word per path table, garbage in allocatable frames); page-table indices (255,511,0,1)"
-    //@ obligation C01 C01.map_to_2mib.shape_p4_absent.parent_rights_include_requested tier=thorough bounded="pool of 7 tables (4 path + 3 allocatable); tree-shaped sparse pre-state (target path, one neighbour word per path table, garbage in allocatable frames); page-table indices (255,511,0,1)"
-    //@ obligation C01 C01.map_to_2mib.shape_p4_absent.other_addresses_unchanged tier=thorough bounded="pool of 7 tables (4 path + 3 allocatable); tree-shaped sparse pre-state (target path, one neighbour word per path table, garbage in allocatable frames); page-table indices (255,511,0,1)"
-    //@ obligation C11 C11.map_to_2mib.shape_p4_absent.token_names_page tier=thorough bounded="pool of 7 tables (4 path + 3 allocatable); tree-shaped sparse pre-state (target path, one neighbour word per path table, garbage in allocatable frames); page-table indices (255,511,0,1)"
-    //@ obligation C02 C02.map_to_2mib.shape_p4_absent.error_leaves_every_mapping tier=thorough bounded="pool of 7 tables (4 path + 3 allocatable); tree-shaped sparse pre-state (target path, one neighbour word per path table, garbage in allocatable frames); page-table indices (255,511,0,1)"
-    //@ obligation C02 C02.map_to_2mib.shape_p4_absent.error_adds_at_most_parent_flags tier=thorough bounded="pool of 7 tables (4 path + 3 allocatable); tree-shaped sparse pre-state (target path, one neighbour word per path table, garbage in allocatable frames); page-table indices (255,511,0,1)"
-    //@ obligation C02 C02.map_to_2mib.shape_p4_absent.documented_outcome tier=thorough bounded="pool of 7 tables (4 path + 3 allocatable); tree-shaped sparse pre-state (target path, one neighbour word per path table, garbage in allocatable frames); page-table indices (255,511,0,1)"
-    //@ obligation C01 C01.map_to_2mib.shape_p4_absent.translate_agrees_after tier=thorough bounded="pool of 7 tables (4 path + 3 allocatable); tree-shaped sparse pre-state (target path, one neighbour word per path table, garbage in allocatable frames); page-table indices (255,511,0,1)"
-    //@ obligation C09 C09.map_to_2mib.shape_p4_absent.only_dictated_slots_change tier=thorough bounded="pool of 7 tables (4 path + 3 allocatable); tree-shaped sparse pre-state (target path, one neighbour word per path table, garbage in allocatable frames); page-table indices (255,511,0,1)"
-    //@ obligation C09 C09.map_to_2mib.shape_p4_absent.allocator_requests tier=thorough bounded="pool of 7 tables (4 path + 3 allocatable); tree-shaped sparse pre-state (target path, one neighbour word per path table, garbage in allocatable frames); page-table indices (255,511,0,1)"
-    //@ obligation C09 C09.map_to_2mib.shape_p4_absent.new_tables_zeroed_before_use tier=thorough bounded="pool of 7 tables (4 path + 3 allocatable); tree-shaped sparse pre-state (target path, one neighbour word per path table, garbage in allocatable frames); page-table indices (255,511,0,1)"
-    //@ obligation C09 C09.map_to_2mib.shape_p4_absent.no_dangling_table_pointer tier=thorough bounded="pool of 7 tables (4 path + 3 allocatable); tree-shaped sparse pre-state (target path, one neighbour word per path table, garbage in allocatable frames); page-table indices (255,511,0,1)"
+    //@ obligation C01 C01.map_to_2mib.shape_p4_absent.target_translates_to_frame tier=thorough bounded="pool of 7 tables (4 path + 3 allocatable); tree-shaped sparse pre-state (target path, one neighbour word per path table, garbage in allocatable frames); page-table indices (255,511,0,256)"
+    //@ obligation C01 C01.map_to_2mib.shape_p4_absent.target_leaf_flags tier=thorough bounded="pool of 7 tables (4 path + 3 allocatable); tree-shaped sparse pre-state (target path, one neighbour word per path table, garbage in allocatable frames); page-table indices (255,511,0,256)"
+    //@ obligation C01 C01.map_to_2mib.shape_p4_absent.parent_rights_include_requested tier=thorough bounded="pool of 7 tables (4 path + 3 allocatable); tree-shaped sparse pre-state (target path, one neighbour word per path table, garbage in allocatable frames); page-table indices (255,511,0,256)"
+    //@ obligation C01 C01.map_to_2mib.shape_p4_absent.other_addresses_unchanged tier=thorough bounded="pool of 7 tables (4 path + 3 allocatable); tree-shaped sparse pre-state (target path, one neighbour word per path table, garbage in allocatable frames); page-table indices (255,511,0,256)"
+    //@ obligation C01 C01.map_to_2mib.shape_p4_absent.result_reports_page tier=thorough bounded="pool of 7 tables (4 path + 3 allocatable); tree-shaped sparse pre-state (target path, one neighbour word per path table, garbage in allocatable frames); page-table indices (255,511,0,256)"
+    //@ obligation C11 C11.map_to_2mib.shape_p4_absent.token_names_page tier=thorough bounded="pool of 7 tables (4 path + 3 allocatable); tree-shaped sparse pre-state (target path, one neighbour word per path table, garbage in allocatable frames); page-table indices (255,511,0,256)"
+    //@ obligation C02 C02.map_to_2mib.shape_p4_absent.error_leaves_every_mapping tier=thorough bounded="pool of 7 tables (4 path + 3 allocatable); tree-shaped sparse pre-state (target path, one neighbour word per path table, garbage in allocatable frames); page-table indices (255,511,0,256)"
+    //@ obligation C02 C02.map_to_2mib.shape_p4_absent.error_adds_at_most_parent_flags tier=thorough bounded="pool of 7 tables (4 path + 3 allocatable); tree-shaped sparse pre-state (target path, one neighbour word per path table, garbage in allocatable frames); page-table indices (255,511,0,256)"
+    //@ obligation C02 C02.map_to_2mib.shape_p4_absent.documented_outcome tier=thorough bounded="pool of 7 tables (4 path + 3 allocatable); tree-shaped sparse pre-state (target path, one neighbour word per path table, garbage in allocatable frames); page-table indices (255,511,0,256)"
+    //@ obligation C01 C01.map_to_2mib.shape_p4_absent.translate_agrees_after tier=thorough bounded="pool of 7 tables (4 path + 3 allocatable); tree-shaped sparse pre-state (target path, one neighbour word per path table, garbage in allocatable frames); page-table indices (255,511,0,256)"
+    //@ obligation C09 C09.map_to_2mib.shape_p4_absent.only_dictated_slots_change tier=thorough bounded="pool of 7 tables (4 path + 3 allocatable); tree-shaped sparse pre-state (target path, one neighbour word per path table, garbage in allocatable frames); page-table indices (255,511,0,256)"
+    //@ obligation C09 C09.map_to_2mib.shape_p4_absent.allocator_requests tier=thorough bounded="pool of 7 tables (4 path + 3 allocatable); tree-shaped sparse pre-state (target path, one neighbour word per path table, garbage in allocatable frames); page-table indices (255,511,0,256)"
+    //@ obligation C09 C09.map_to_2mib.shape_p4_absent.new_tables_zeroed_before_use tier=thorough bounded="pool of 7 tables (4 path + 3 allocatable); tree-shaped sparse pre-state (target path, one neighbour word per path table, garbage in allocatable frames); page-table indices (255,511,0,256)"
+    //@ obligation C09 C09.map_to_2mib.shape_p4_absent.no_dangling_table_pointer tier=thorough bounded="pool of 7 tables (4 path + 3 allocatable); tree-shaped sparse pre-state (target path, one neighbour word per path table, garbage in allocatable frames); page-table indices (255,511,0,256)"
+    //@ obligation C09 C09.map_to_2mib.shape_p4_absent.no_access_outside_page_tables tier=thorough bounded="pool of 7 tables (4 path + 3 allocatable); tree-shaped sparse pre-state (target path, one neighbour word per path table, garbage in allocatable frames); page-table indices (255,511,0,256)"
     #[kani::proof]
     #[kani::stub(PageTable::zero, zero_stub)]
     fn c01_map_to_2mib_p4_absent_mid() {
@@ -791,19 +822,21 @@ mod verif_c01_step_map {
         kani::cover!(true, "c01_map_to_2mib_p4_absent_mid: reachable");
     }
 
-    //@ obligation C01 C01.map_to_2mib.shape_p4_absent.target_translates_to_frame tier=thorough bounded="pool of 7 tables (4 path + 3 allocatable); tree-shaped sparse pre-state (target path, one neighbour word per path table, garbage in allocatable frames); page-table indices (256,1,510,255)"
-    //@ obligation C01 C01.map_to_2mib.shape_p4_absent.target_leaf_flags tier=thorough bounded="pool of 7 tables (4 path + 3 allocatable); tree-shaped sparse pre-state (target path, one neighbour word per path table, garbage in allocatable frames); page-table indices (256,1,510,255)"
-    //@ obligation C01 C01.map_to_2mib.shape_p4_absent.parent_rights_include_requested tier=thorough bounded="pool of 7 tables (4 path + 3 allocatable); tree-shaped sparse pre-state (target path, one neighbour word per path table, garbage in allocatable frames); page-table indices (256,1,510,255)"
-    //@ obligation C01 C01.map_to_2mib.shape_p4_absent.other_addresses_unchanged tier=thorough bounded="pool of 7 tables (4 path + 3 allocatable); tree-shaped sparse pre-state (target path, one neighbour word per path table, garbage in allocatable frames); page-table indices (256,1,510,255)"
-    //@ obligation C11 C11.map_to_2mib.shape_p4_absent.token_names_page tier=thorough bounded="pool of 7 tables (4 path + 3 allocatable); tree-shaped sparse pre-state (target path, one neighbour word per path table, garbage in allocatable frames); page-table indices (256,1,510,255)"
-    //@ obligation C02 C02.map_to_2mib.shape_p4_absent.error_leaves_every_mapping tier=thorough bounded="pool of 7 tables (4 path + 3 allocatable); tree-shaped sparse pre-state (target path, one neighbour word per path table, garbage in allocatable frames); page-table indices (256,1,510,255)"
-    //@ obligation C02 C02.map_to_2mib.shape_p4_absent.error_adds_at_most_parent_flags tier=thorough bounded="pool of 7 tables (4 path + 3 allocatable); tree-shaped sparse pre-state (target path, one neighbour word per path table, garbage in allocatable frames); page-table indices (256,1,510,255)"
-    //@ obligation C02 C02.map_to_2mib.shape_p4_absent.documented_outcome tier=thorough bounded="pool of 7 tables (4 path + 3 allocatable); tree-shaped sparse pre-state (target path, one neighbour word per path table, garbage in allocatable frames); page-table indices (256,1,510,255)"
-    //@ obligation C01 C01.map_to_2mib.shape_p4_absent.translate_agrees_after tier=thorough bounded="pool of 7 tables (4 path + 3 allocatable); tree-shaped sparse pre-state (target path, one neighbour word per path table, garbage in allocatable frames); page-table indices (256,1,510,255)"
-    //@ obligation C09 C09.map_to_2mib.shape_p4_absent.only_dictated_slots_change tier=thorough bounded="pool of 7 tables (4 path + 3 allocatable); tree-shaped sparse pre-state (target path, one neighbour word per path table, garbage in allocatable frames); page-table indices (256,1,510,255)"
-    //@ obligation C09 C09.map_to_2mib.shape_p4_absent.allocator_requests tier=thorough bounded="pool of 7 tables (4 path + 3 allocatable); tree-shaped sparse pre-state (target path, one neighbour word per path table, garbage in allocatable frames); page-table indices (256,1,510,255)"
-    //@ obligation C09 C09.map_to_2mib.shape_p4_absent.new_tables_zeroed_before_use tier=thorough bounded="pool of 7 tables (4 path + 3 allocatable); tree-shaped sparse pre-state (target path, one neighbour word per path table, garbage in allocatable frames); page-table indices (256,1,510,255)"
-    //@ obligation C09 C09.map_to_2mib.shape_p4_absent.no_dangling_table_pointer tier=thorough bounded="pool of 7 tables (4 path + 3 allocatable); tree-shaped sparse pre-state (target path, one neighbour word per path table, garbage in allocatable frames); page-table indices (256,1,510,255)"
+    //@ obligation C01 C01.map_to_2mib.shape_p4_absent.target_translates_to_frame tier=thorough bounded="pool of 7 tables (4 path + 3 allocatable); tree-shaped sparse pre-state (target path, one neighbour word per path table, garbage in allocatable frames); page-table indices (256,0,510,511)"
+    //@ obligation C01 C01.map_to_2mib.shape_p4_absent.target_leaf_flags tier=thorough bounded="pool of 7 tables (4 path + 3 allocatable); tree-shaped sparse pre-state (target path, one neighbour word per path table, garbage in allocatable frames); page-table indices (256,0,510,511)"
+    //@ obligation C01 C01.map_to_2mib.shape_p4_absent.parent_rights_include_requested tier=thorough bounded="pool of 7 tables (4 path + 3 allocatable); tree-shaped sparse pre-state (target path, one neighbour word per path table, garbage in allocatable frames); page-table indices (256,0,510,511)"
+    //@ obligation C01 C01.map_to_2mib.shape_p4_absent.other_addresses_unchanged tier=thorough bounded="pool of 7 tables (4 path + 3 allocatable); tree-shaped sparse pre-state (target path, one neighbour word per path table, garbage in allocatable frames); page-table indices (256,0,510,511)"
+    //@ obligation C01 C01.map_to_2mib.shape_p4_absent.result_reports_page tier=thorough bounded="pool of 7 tables (4 path + 3 allocatable); tree-shaped sparse pre-state (target path, one neighbour word per path table, garbage in allocatable frames); page-table indices (256,0,510,511)"
+    //@ obligation C11 C11.map_to_2mib.shape_p4_absent.token_names_page tier=thorough bounded="pool of 7 tables (4 path + 3 allocatable); tree-shaped sparse pre-state (target path, one neighbour word per path table, garbage in allocatable frames); page-table indices (256,0,510,511)"
+    //@ obligation C02 C02.map_to_2mib.shape_p4_absent.error_leaves_every_mapping tier=thorough bounded="pool of 7 tables (4 path + 3 allocatable); tree-shaped sparse pre-state (target path, one neighbour word per path table, garbage in allocatable frames); page-table indices (256,0,510,511)"
+    //@ obligation C02 C02.map_to_2mib.shape_p4_absent.error_adds_at_most_parent_flags tier=thorough bounded="pool of 7 tables (4 path + 3 allocatable); tree-shaped sparse pre-state (target path, one neighbour word per path table, garbage in allocatable frames); page-table indices (256,0,510,511)"
+    //@ obligation C02 C02.map_to_2mib.shape_p4_absent.documented_outcome tier=thorough bounded="pool of 7 tables (4 path + 3 allocatable); tree-shaped sparse pre-state (target path, one neighbour word per path table, garbage in allocatable frames); page-table indices (256,0,510,511)"
+    //@ obligation C01 C01.map_to_2mib.shape_p4_absent.translate_agrees_after tier=thorough bounded="pool of 7 tables (4 path + 3 allocatable); tree-shaped sparse pre-state (target path, one neighbour word per path table, garbage in allocatable frames); page-table indices (256,0,510,511)"
+    //@ obligation C09 C09.map_to_2mib.shape_p4_absent.only_dictated_slots_change tier=thorough bounded="pool of 7 tables (4 path + 3 allocatable); tree-shaped sparse pre-state (target path, one neighbour word per path table, garbage in allocatable frames); page-table indices (256,0,510,511)"
+    //@ obligation C09 C09.map_to_2mib.shape_p4_absent.allocator_requests tier=thorough bounded="pool of 7 tables (4 path + 3 allocatable); tree-shaped sparse pre-state (target path, one neighbour word per path table, garbage in allocatable frames); page-table indices (256,0,510,511)"
+    //@ obligation C09 C09.map_to_2mib.shape_p4_absent.new_tables_zeroed_before_use tier=thorough bounded="pool of 7 tables (4 path + 3 allocatable); tree-shaped sparse pre-state (target path, one neighbour word per path table, garbage in allocatable frames); page-table indices (256,0,510,511)"
+    //@ obligation C09 C09.map_to_2mib.shape_p4_absent.no_dangling_table_pointer tier=thorough bounded="pool of 7 tables (4 path + 3 allocatable); tree-shaped sparse pre-state (target path, one neighbour word per path table, garbage in allocatable frames); page-table indices (256,0,510,511)"
+    //@ obligation C09 C09.map_to_2mib.shape_p4_absent.no_access_outside_page_tables tier=thorough bounded="pool of 7 tables (4 path + 3 allocatable); tree-shaped sparse pre-state (target path, one neighbour word per path table, garbage in allocatable frames); page-table indices (256,0,510,511)"
     #[kani::proof]
     #[kani::stub(PageTable::zero, zero_stub)]
     fn c01_map_to_2mib_p4_absent_up() {
@@ -811,19 +844,21 @@ mod verif_c01_step_map {
         kani::cover!(true, "c01_map_to_2mib_p4_absent_up: reachable");
     }
 
-    //@ obligation C01 C01.map_to_2mib.shape_p3_absent.target_translates_to_frame tier=thorough bounded="pool of 7 tables (4 path + 3 allocatable); tree-shaped sparse pre-state (target path, one neighbour word per path table, garbage in allocatable frames); page-table indices (0,0,0,0)"
-    //@ obligation C01 C01.map_to_2mib.shape_p3_absent.target_leaf_flags tier=thorough bounded="pool of 7 tables (4 path + 3 allocatable); tree-shaped sparse pre-state (target path, one neighbour word per path table, garbage in allocatable frames); page-table indices (0,0,0,0)"
-    //@ obligation C01 C01.map_to_2mib.shape_p3_absent.parent_rights_include_requested tier=thorough bounded="pool of 7 tables (4 path + 3 allocatable); tree-shaped sparse pre-state (target path, one neighbour word per path table, garbage in allocatable frames); page-table indices (0,0,0,0)"
-    //@ obligation C01 C01.map_to_2mib.shape_p3_absent.other_addresses_unchanged tier=thorough bounded="pool of 7 tables (4 path + 3 allocatable); tree-shaped sparse pre-state (target path, one neighbour word per path table, garbage in allocatable frames); page-table indices (0,0,0,0)"
-    //@ obligation C11 C11.map_to_2mib.shape_p3_absent.token_names_page tier=thorough bounded="pool of 7 tables (4 path + 3 allocatable); tree-shaped sparse pre-state (target path, one neighbour word per path table, garbage in allocatable frames); page-table indices (0,0,0,0)"
-    //@ obligation C02 C02.map_to_2mib.shape_p3_absent.error_leaves_every_mapping tier=thorough bounded="pool of 7 tables (4 path + 3 allocatable); tree-shaped sparse pre-state (target path, one neighbour word per path table, garbage in allocatable frames); page-table indices (0,0,0,0)"
-    //@ obligation C02 C02.map_to_2mib.shape_p3_absent.error_adds_at_most_parent_flags tier=thorough bounded="pool of 7 tables (4 path + 3 allocatable); tree-shaped sparse pre-state (target path, one neighbour word per path table, garbage in allocatable frames); page-table indices (0,0,0,0)"
-    //@ obligation C02 C02.map_to_2mib.shape_p3_absent.documented_outcome tier=thorough bounded="pool of 7 tables (4 path + 3 allocatable); tree-shaped sparse pre-state (target path, one neighbour word per path table, garbage in allocatable frames); page-table indices (0,0,0,0)"
-    //@ obligation C01 C01.map_to_2mib.shape_p3_absent.translate_agrees_after tier=thorough bounded="pool of 7 tables (4 path + 3 allocatable); tree-shaped sparse pre-state (target path, one neighbour word per path table, garbage in allocatable frames); page-table indices (0,0,0,0)"
-    //@ obligation C09 C09.map_to_2mib.shape_p3_absent.only_dictated_slots_change tier=thorough bounded="pool of 7 tables (4 path + 3 allocatable); tree-shaped sparse pre-state (target path, one neighbour word per path table, garbage in allocatable frames); page-table indices (0,0,0,0)"
-    //@ obligation C09 C09.map_to_2mib.shape_p3_absent.allocator_requests tier=thorough bounded="pool of 7 tables (4 path + 3 allocatable); tree-shaped sparse pre-state (target path, one neighbour word per path table, garbage in allocatable frames); page-table indices (0,0,0,0)"
-    //@ obligation C09 C09.map_to_2mib.shape_p3_absent.new_tables_zeroed_before_use tier=thorough bounded="pool of 7 tables (4 path + 3 allocatable); tree-shaped sparse pre-state (target path, one neighbour word per path table, garbage in allocatable frames); page-table indices (0,0,0,0)"
-    //@ obligation C09 C09.map_to_2mib.shape_p3_absent.no_dangling_table_pointer tier=thorough bounded="pool of 7 tables (4 path + 3 allocatable); tree-shaped sparse pre-state (target path, one neighbour word per path table, garbage in allocatable frames); page-table indices (0,0,0,0)"
+    //@ obligation C01 C01.map_to_2mib.shape_p3_absent.target_translates_to_frame tier=thorough bounded="pool of 7 tables (4 path + 3 allocatable); tree-shaped sparse pre-state (target path, one neighbour word per path table, garbage in allocatable frames); page-table indices (0,1,511,2)"
+    //@ obligation C01 C01.map_to_2mib.shape_p3_absent.target_leaf_flags tier=thorough bounded="pool of 7 tables (4 path + 3 allocatable); tree-shaped sparse pre-state (target path, one neighbour word per path table, garbage in allocatable frames); page-table indices (0,1,511,2)"
+    //@ obligation C01 C01.map_to_2mib.shape_p3_absent.parent_rights_include_requested tier=thorough bounded="pool of 7 tables (4 path + 3 allocatable); tree-shaped sparse pre-state (target path, one neighbour word per path table, garbage in allocatable frames); page-table indices (0,1,511,2)"
+    //@ obligation C01 C01.map_to_2mib.shape_p3_absent.other_addresses_unchanged tier=thorough bounded="pool of 7 tables (4 path + 3 allocatable); tree-shaped sparse pre-state (target path, one neighbour word per path table, garbage in allocatable frames); page-table indices (0,1,511,2)"
+    //@ obligation C01 C01.map_to_2mib.shape_p3_absent.result_reports_page tier=thorough bounded="pool of 7 tables (4 path + 3 allocatable); tree-shaped sparse pre-state (target path, one neighbour word per path table, garbage in allocatable frames); page-table indices (0,1,511,2)"
+    //@ obligation C11 C11.map_to_2mib.shape_p3_absent.token_names_page tier=thorough bounded="pool of 7 tables (4 path + 3 allocatable); tree-shaped sparse pre-state (target path, one neighbour word per path table, garbage in allocatable frames); page-table indices (0,1,511,2)"
+    //@ obligation C02 C02.map_to_2mib.shape_p3_absent.error_leaves_every_mapping tier=thorough bounded="pool of 7 tables (4 path + 3 allocatable); tree-shaped sparse pre-state (target path, one neighbour word per path table, garbage in allocatable frames); page-table indices (0,1,511,2)"
+    //@ obligation C02 C02.map_to_2mib.shape_p3_absent.error_adds_at_most_parent_flags tier=thorough bounded="pool of 7 tables (4 path + 3 allocatable); tree-shaped sparse pre-state (target path, one neighbour word per path table, garbage in allocatable frames); page-table indices (0,1,511,2)"
+    //@ obligation C02 C02.map_to_2mib.shape_p3_absent.documented_outcome tier=thorough bounded="pool of 7 tables (4 path + 3 allocatable); tree-shaped sparse pre-state (target path, one neighbour word per path table, garbage in allocatable frames); page-table indices (0,1,511,2)"
+    //@ obligation C01 C01.map_to_2mib.shape_p3_absent.translate_agrees_after tier=thorough bounded="pool of 7 tables (4 path + 3 allocatable); tree-shaped sparse pre-state (target path, one neighbour word per path table, garbage in allocatable frames); page-table indices (0,1,511,2)"
+    //@ obligation C09 C09.map_to_2mib.shape_p3_absent.only_dictated_slots_change tier=thorough bounded="pool of 7 tables (4 path + 3 allocatable); tree-shaped sparse pre-state (target path, one neighbour word per path table, garbage in allocatable frames); page-table indices (0,1,511,2)"
+    //@ obligation C09 C09.map_to_2mib.shape_p3_absent.allocator_requests tier=thorough bounded="pool of 7 tables (4 path + 3 allocatable); tree-shaped sparse pre-state (target path, one neighbour word per path table, garbage in allocatable frames); page-table indices (0,1,511,2)"
+    //@ obligation C09 C09.map_to_2mib.shape_p3_absent.new_tables_zeroed_before_use tier=thorough bounded="pool of 7 tables (4 path + 3 allocatable); tree-shaped sparse pre-state (target path, one neighbour word per path table, garbage in allocatable frames); page-table indices (0,1,511,2)"
+    //@ obligation C09 C09.map_to_2mib.shape_p3_absent.no_dangling_table_pointer tier=thorough bounded="pool of 7 tables (4 path + 3 allocatable); tree-shaped sparse pre-state (target path, one neighbour word per path table, garbage in allocatable frames); page-table indices (0,1,511,2)"
+    //@ obligation C09 C09.map_to_2mib.shape_p3_absent.no_access_outside_page_tables tier=thorough bounded="pool of 7 tables (4 path + 3 allocatable); tree-shaped sparse pre-state (target path, one neighbour word per path table, garbage in allocatable frames); page-table indices (0,1,511,2)"
     #[kani::proof]
     #[kani::stub(PageTable::zero, zero_stub)]
     fn c01_map_to_2mib_p3_absent_lo() {
@@ -831,19 +866,21 @@ mod verif_c01_step_map {
         kani::cover!(true, "c01_map_to_2mib_p3_absent_lo: reachable");
     }
 
-    //@ obligation C01 C01.map_to_2mib.shape_p3_absent.target_translates_to_frame tier=thorough bounded="pool of 7 tables (4 path + 3 allocatable); tree-shaped sparse pre-state (target path, one neighbour word per path table, garbage in allocatable frames); page-table indices (511,511,511,511)"
-    //@ obligation C01 C01.map_to_2mib.shape_p3_absent.target_leaf_flags tier=thorough bounded="pool of 7 tables (4 path + 3 allocatable); tree-shaped sparse pre-state (target path, one neighbour word per path table, garbage in allocatable frames); page-table indices (511,511,511,511)"
-    //@ obligation C01 C01.map_to_2mib.shape_p3_absent.parent_rights_include_requested tier=thorough bounded="pool of 7 tables (4 path + 3 allocatable); tree-shaped sparse pre-state (target path, one neighbour word per path table, garbage in allocatable frames); page-table indices (511,511,511,511)"
-    //@ obligation C01 C01.map_to_2mib.shape_p3_absent.other_addresses_unchanged tier=thorough bounded="pool of 7 tables (4 path + 3 allocatable); tree-shaped sparse pre-state (target path, one neighbour word per path table, garbage in allocatable frames); page-table indices (511,511,511,511)"
-    //@ obligation C11 C11.map_to_2mib.shape_p3_absent.token_names_page tier=thorough bounded="pool of 7 tables (4 path + 3 allocatable); tree-shaped sparse pre-state (target path, one neighbour word per path table, garbage in allocatable frames); page-table indices (511,511,511,511)"
-    //@ obligation C02 C02.map_to_2mib.shape_p3_absent.error_leaves_every_mapping tier=thorough bounded="pool of 7 tables (4 path + 3 allocatable); tree-shaped sparse pre-state (target path, one neighbour word per path table, garbage in allocatable frames); page-table indices (511,511,511,511)"
-    //@ obligation C02 C02.map_to_2mib.shape_p3_absent.error_adds_at_most_parent_flags tier=thorough bounded="pool of 7 tables (4 path + 3 allocatable); tree-shaped sparse pre-state (target path, one neighbour word per path table, garbage in allocatable frames); page-table indices (511,511,511,511)"
-    //@ obligation C02 C02.map_to_2mib.shape_p3_absent.documented_outcome tier=thorough bounded="pool of 7 tables (4 path + 3 allocatable); tree-shaped sparse pre-state (target path, one neighbour word per path table, garbage in allocatable frames); page-table indices (511,511,511,511)"
-    //@ obligation C01 C01.map_to_2mib.shape_p3_absent.translate_agrees_after tier=thorough bounded="pool of 7 tables (4 path + 3 allocatable); tree-shaped sparse pre-state (target path, one neighbour word per path table, garbage in allocatable frames); page-table indices (511,511,511,511)"
-    //@ obligation C09 C09.map_to_2mib.shape_p3_absent.only_dictated_slots_change tier=thorough bounded="pool of 7 tables (4 path + 3 allocatable); tree-shaped sparse pre-state (target path, one neighbour word per path table, garbage in allocatable frames); page-table indices (511,511,511,511)"
-    //@ obligation C09 C09.map_to_2mib.shape_p3_absent.allocator_requests tier=thorough bounded="pool of 7 tables (4 path + 3 allocatable); tree-shaped sparse pre-state (target path, one neighbour word per path table, garbage in allocatable frames); page-table indices (511,511,511,511)"
-    //@ obligation C09 C09.map_to_2mib.shape_p3_absent.new_tables_zeroed_before_use tier=thorough bounded="pool of 7 tables (4 path + 3 allocatable); tree-shaped sparse pre-state (target path, one neighbour word per path table, garbage in allocatable frames); page-table indices (511,511,511,511)"
-    //@ obligation C09 C09.map_to_2mib.shape_p3_absent.no_dangling_table_pointer tier=thorough bounded="pool of 7 tables (4 path + 3 allocatable); tree-shaped sparse pre-state (target path, one neighbour word per path table, garbage in allocatable frames); page-table indices (511,511,511,511)"
+    //@ obligation C01 C01.map_to_2mib.shape_p3_absent.target_translates_to_frame tier=thorough bounded="pool of 7 tables (4 path + 3 allocatable); tree-shaped sparse pre-state (target path, one neighbour word per path table, garbage in allocatable frames); page-table indices (511,510,1,0)"
+    //@ obligation C01 C01.map_to_2mib.shape_p3_absent.target_leaf_flags tier=thorough bounded="pool of 7 tables (4 path + 3 allocatable); tree-shaped sparse pre-state (target path, one neighbour word per path table, garbage in allocatable frames); page-table indices (511,510,1,0)"
+    //@ obligation C01 C01.map_to_2mib.shape_p3_absent.parent_rights_include_requested tier=thorough bounded="pool of 7 tables (4 path + 3 allocatable); tree-shaped sparse pre-state (target path, one neighbour word per path table, garbage in allocatable frames); page-table indices (511,510,1,0)"
+    //@ obligation C01 C01.map_to_2mib.shape_p3_absent.other_addresses_unchanged tier=thorough bounded="pool of 7 tables (4 path + 3 allocatable); tree-shaped sparse pre-state (target path, one neighbour word per path table, garbage in allocatable frames); page-table indices (511,510,1,0)"
+    //@ obligation C01 C01.map_to_2mib.shape_p3_absent.result_reports_page tier=thorough bounded="pool of 7 tables (4 path + 3 allocatable); tree-shaped sparse pre-state (target path, one neighbour word per path table, garbage in allocatable frames); page-table indices (511,510,1,0)"
+    //@ obligation C11 C11.map_to_2mib.shape_p3_absent.token_names_page tier=thorough bounded="pool of 7 tables (4 path + 3 allocatable); tree-shaped sparse pre-state (target path, one neighbour word per path table, garbage in allocatable frames); page-table indices (511,510,1,0)"
+    //@ obligation C02 C02.map_to_2mib.shape_p3_absent.error_leaves_every_mapping tier=thorough bounded="pool of 7 tables (4 path + 3 allocatable); tree-shaped sparse pre-state (target path, one neighbour word per path table, garbage in allocatable frames); page-table indices (511,510,1,0)"
+    //@ obligation C02 C02.map_to_2mib.shape_p3_absent.error_adds_at_most_parent_flags tier=thorough bounded="pool of 7 tables (4 path + 3 allocatable); tree-shaped sparse pre-state (target path, one neighbour word per path table, garbage in allocatable frames); page-table indices (511,510,1,0)"
+    //@ obligation C02 C02.map_to_2mib.shape_p3_absent.documented_outcome tier=thorough bounded="pool of 7 tables (4 path + 3 allocatable); tree-shaped sparse pre-state (target path, one neighbour word per path table, garbage in allocatable frames); page-table indices (511,510,1,0)"
+    //@ obligation C01 C01.map_to_2mib.shape_p3_absent.translate_agrees_after tier=thorough bounded="pool of 7 tables (4 path + 3 allocatable); tree-shaped sparse pre-state (target path, one neighbour word per path table, garbage in allocatable frames); page-table indices (511,510,1,0)"
+    //@ obligation C09 C09.map_to_2mib.shape_p3_absent.only_dictated_slots_change tier=thorough bounded="pool of 7 tables (4 path + 3 allocatable); tree-shaped sparse pre-state (target path, one neighbour word per path table, garbage in allocatable frames); page-table indices (511,510,1,0)"
+    //@ obligation C09 C09.map_to_2mib.shape_p3_absent.allocator_requests tier=thorough bounded="pool of 7 tables (4 path + 3 allocatable); tree-shaped sparse pre-state (target path, one neighbour word per path table, garbage in allocatable frames); page-table indices (511,510,1,0)"
+    //@ obligation C09 C09.map_to_2mib.shape_p3_absent.new_tables_zeroed_before_use tier=thorough bounded="pool of 7 tables (4 path + 3 allocatable); tree-shaped sparse pre-state (target path, one neighbour word per path table, garbage in allocatable frames); page-table indices (511,510,1,0)"
+    //@ obligation C09 C09.map_to_2mib.shape_p3_absent.no_dangling_table_pointer tier=thorough bounded="pool of 7 tables (4 path + 3 allocatable); tree-shaped sparse pre-state (target path, one neighbour word per path table, garbage in allocatable frames); page-table indices (511,510,1,0)"
+    //@ obligation C09 C09.map_to_2mib.shape_p3_absent.no_access_outside_page_tables tier=thorough bounded="pool of 7 tables (4 path + 3 allocatable); tree-shaped sparse pre-state (target path, one neighbour word per path table, garbage in allocatable frames); page-table indices (511,510,1,0)"
     #[kani::proof]
     #[kani::stub(PageTable::zero, zero_stub)]
     fn c01_map_to_2mib_p3_absent_hi() {
@@ -851,19 +888,21 @@ mod verif_c01_step_map {
         kani::cover!(true, "c01_map_to_2mib_p3_absent_hi: reachable");
     }
 
-    //@ obligation C01 C01.map_to_2mib.shape_p3_absent.target_translates_to_frame tier=thorough bounded="pool of 7 tables (4 path + 3 allocatable); tree-shaped sparse pre-state (target path, one neighbour word per path table, garbage in allocatable frames); page-table indices (255,511,0,1)"
-    //@ obligation C01 C01.map_to_2mib.shape_p3_absent.target_leaf_flags tier=thorough bounded="pool of 7 tables (4 path + 3 allocatable); tree-shaped sparse pre-state (target path, one neighbour word per path table, garbage in allocatable frames); page-table indices (255,511,0,1)"
-    //@ obligation C01 C01.map_to_2mib.shape_p3_absent.parent_rights_include_requested tier=thorough bounded="pool of 7 tables (4 path + 3 allocatable); tree-shaped sparse pre-state (target path, one neighbour word per path table, garbage in allocatable frames); page-table indices (255,511,0,1)"
-    //@ obligation C01 C01.map_to_2mib.shape_p3_absent.other_addresses_unchanged tier=thorough bounded="pool of 7 tables (4 path + 3 allocatable); tree-shaped sparse pre-state (target path, one neighbour word per path table, garbage in allocatable frames); page-table indices (255,511,0,1)"
-    //@ obligation C11 C11.map_to_2mib.shape_p3_absent.token_names_page tier=thorough bounded="pool of 7 tables (4 path + 3 allocatable); tree-shaped sparse pre-state (target path, one neighbour word per path table, garbage in allocatable frames); page-table indices (255,511,0,1)"
-    //@ obligation C02 C02.map_to_2mib.shape_p3_absent.error_leaves_every_mapping tier=thorough bounded="pool of 7 tables (4 path + 3 allocatable); tree-shaped sparse pre-state (target path, one neighbour word per path table, garbage in allocatable frames); page-table indices (255,511,0,1)"
-    //@ obligation C02 C02.map_to_2mib.shape_p3_absent.error_adds_at_most_parent_flags tier=thorough bounded="pool of 7 tables (4 path + 3 allocatable); tree-shaped sparse pre-state (target path, one neighbour word per path table, garbage in allocatable frames); page-table indices (255,511,0,1)"
-    //@ obligation C02 C02.map_to_2mib.shape_p3_absent.documented_outcome tier=thorough bounded="pool of 7 tables (4 path + 3 allocatable); tree-shaped sparse pre-state (target path, one neighbour word per path table, garbage in allocatable frames); page-table indices (255,511,0,1)"
-    //@ obligation C01 C01.map_to_2mib.shape_p3_absent.translate_agrees_after tier=thorough bounded="pool of 7 tables (4 path + 3 allocatable); tree-shaped sparse pre-state (target path, one neighbour word per path table, garbage in allocatable frames); page-table indices (255,511,0,1)"
-    //@ obligation C09 C09.map_to_2mib.shape_p3_absent.only_dictated_slots_change tier=thorough bounded="pool of 7 tables (4 path + 3 allocatable); tree-shaped sparse pre-state (target path, one neighbour word per path table, garbage in allocatable frames); page-table indices (255,511,0,1)"
-    //@ obligation C09 C09.map_to_2mib.shape_p3_absent.allocator_requests tier=thorough bounded="pool of 7 tables (4 path + 3 allocatable); tree-shaped sparse pre-state (target path, one neighbour word per path table, garbage in allocatable frames); page-table indices (255,511,0,1)"
-    //@ obligation C09 C09.map_to_2mib.shape_p3_absent.new_tables_zeroed_before_use tier=thorough bounded="pool of 7 tables (4 path + 3 allocatable); tree-shaped sparse pre-state (target path, one neighbour word per path table, garbage in allocatable frames); page-table indices (255,511,0,1)"
-    //@ obligation C09 C09.map_to_2mib.shape_p3_absent.no_dangling_table_pointer tier=thorough bounded="pool of 7 tables (4 path + 3 allocatable); tree-shaped sparse pre-state (target path, one neighbour word per path table, garbage in allocatable frames); page-table indices (255,511,0,1)"
+    //@ obligation C01 C01.map_to_2mib.shape_p3_absent.target_translates_to_frame tier=thorough bounded="pool of 7 tables (4 path + 3 allocatable); tree-shaped sparse pre-state (target path, one neighbour word per path table, garbage in allocatable frames); page-table indices (255,511,0,256)"
+    //@ obligation C01 C01.map_to_2mib.shape_p3_absent.target_leaf_flags tier=thorough bounded="pool of 7 tables (4 path + 3 allocatable); tree-shaped sparse pre-state (target path, one neighbour word per path table, garbage in allocatable frames); page-table indices (255,511,0,256)"
+    //@ obligation C01 C01.map_to_2mib.shape_p3_absent.parent_rights_include_requested tier=thorough bounded="pool of 7 tables (4 path + 3 allocatable); tree-shaped sparse pre-state (target path, one neighbour word per path table, garbage in allocatable frames); page-table indices (255,511,0,256)"
+    //@ obligation C01 C01.map_to_2mib.shape_p3_absent.other_addresses_unchanged tier=thorough bounded="pool of 7 tables (4 path + 3 allocatable); tree-shaped sparse pre-state (target path, one neighbour word per path table, garbage in allocatable frames); page-table indices (255,511,0,256)"
+    //@ obligation C01 C01.map_to_2mib.shape_p3_absent.result_reports_page tier=thorough bounded="pool of 7 tables (4 path + 3 allocatable); tree-shaped sparse pre-state (target path, one neighbour word per path table, garbage in allocatable frames); page-table indices (255,511,0,256)"
+    //@ obligation C11 C11.map_to_2mib.shape_p3_absent.token_names_page tier=thorough bounded="pool of 7 tables (4 path + 3 allocatable); tree-shaped sparse pre-state (target path, one neighbour word per path table, garbage in allocatable frames); page-table indices (255,511,0,256)"
+    //@ obligation C02 C02.map_to_2mib.shape_p3_absent.error_leaves_every_mapping tier=thorough bounded="pool of 7 tables (4 path + 3 allocatable); tree-shaped sparse pre-state (target path, one neighbour word per path table, garbage in allocatable frames); page-table indices (255,511,0,256)"
+    //@ obligation C02 C02.map_to_2mib.shape_p3_absent.error_adds_at_most_parent_flags tier=thorough bounded="pool of 7 tables (4 path + 3 allocatable); tree-shaped sparse pre-state (target path, one neighbour word per path table, garbage in allocatable frames); page-table indices (255,511,0,256)"
+    //@ obligation C02 C02.map_to_2mib.shape_p3_absent.documented_outcome tier=thorough bounded="pool of 7 tables (4 path + 3 allocatable); tree-shaped sparse pre-state (target path, one neighbour word per path table, garbage in allocatable frames); page-table indices (255,511,0,256)"
+    //@ obligation C01 C01.map_to_2mib.shape_p3_absent.translate_agrees_after tier=thorough bounded="pool of 7 tables (4 path + 3 allocatable); tree-shaped sparse pre-state (target path, one neighbour word per path table, garbage in allocatable frames); page-table indices (255,511,0,256)"
+    //@ obligation C09 C09.map_to_2mib.shape_p3_absent.only_dictated_slots_change tier=thorough bounded="pool of 7 tables (4 path + 3 allocatable); tree-shaped sparse pre-state (target path, one neighbour word per path table, garbage in allocatable frames); page-table indices (255,511,0,256)"
+    //@ obligation C09 C09.map_to_2mib.shape_p3_absent.allocator_requests tier=thorough bounded="pool of 7 tables (4 path + 3 allocatable); tree-shaped sparse pre-state (target path, one neighbour word per path table, garbage in allocatable frames); page-table indices (255,511,0,256)"
+    //@ obligation C09 C09.map_to_2mib.shape_p3_absent.new_tables_zeroed_before_use tier=thorough bounded="pool of 7 tables (4 path + 3 allocatable); tree-shaped sparse pre-state (target path, one neighbour word per path table, garbage in allocatable frames); page-table indices (255,511,0,256)"
+    //@ obligation C09 C09.map_to_2mib.shape_p3_absent.no_dangling_table_pointer tier=thorough bounded="pool of 7 tables (4 path + 3 allocatable); tree-shaped sparse pre-state (target path, one neighbour word per path table, garbage in allocatable frames); page-table indices (255,511,0,256)"
+    //@ obligation C09 C09.map_to_2mib.shape_p3_absent.no_access_outside_page_tables tier=thorough bounded="pool of 7 tables (4 path + 3 allocatable); tree-shaped sparse pre-state (target path, one neighbour word per path table, garbage in allocatable frames); page-table indices (255,511,0,256)"
     #[kani::proof]
     #[kani::stub(PageTable::zero, zero_stub)]
     fn c01_map_to_2mib_p3_absent_mid() {
@@ -871,19 +910,21 @@ mod verif_c01_step_map {
         kani::cover!(true, "c01_map_to_2mib_p3_absent_mid: reachable");
     }
 
-    //@ obligation C01 C01.map_to_2mib.shape_p3_absent.target_translates_to_frame bounded="pool of 7 tables (4 path + 3 allocatable); tree-shaped sparse pre-state (target path, one neighbour word per path table, garbage in allocatable frames); page-table indices (256,1,510,255)"
-    //@ obligation C01 C01.map_to_2mib.shape_p3_absent.target_leaf_flags bounded="pool of 7 tables (4 path + 3 allocatable); tree-shaped sparse pre-state (target path, one neighbour word per path table, garbage in allocatable frames); page-table indices (256,1,510,255)"
-    //@ obligation C01 C01.map_to_2mib.shape_p3_absent.parent_rights_include_requested bounded="pool of 7 tables (4 path + 3 allocatable); tree-shaped sparse pre-state (target path, one neighbour word per path table, garbage in allocatable frames); page-table indices (256,1,510,255)"
-    //@ obligation C01 C01.map_to_2mib.shape_p3_absent.other_addresses_unchanged bounded="pool of 7 tables (4 path + 3 allocatable); tree-shaped sparse pre-state (target path, one neighbour word per path table, garbage in allocatable frames); page-table indices (256,1,510,255)"
-    //@ obligation C11 C11.map_to_2mib.shape_p3_absent.token_names_page bounded="pool of 7 tables (4 path + 3 allocatable); tree-shaped sparse pre-state (target path, one neighbour word per path table, garbage in allocatable frames); page-table indices (256,1,510,255)"
-    //@ obligation C02 C02.map_to_2mib.shape_p3_absent.error_leaves_every_mapping bounded="pool of 7 tables (4 path + 3 allocatable); tree-shaped sparse pre-state (target path, one neighbour word per path table, garbage in allocatable frames); page-table indices (256,1,510,255)"
-    //@ obligation C02 C02.map_to_2mib.shape_p3_absent.error_adds_at_most_parent_flags bounded="pool of 7 tables (4 path + 3 allocatable); tree-shaped sparse pre-state (target path, one neighbour word per path table, garbage in allocatable frames); page-table indices (256,1,510,255)"
-    //@ obligation C02 C02.map_to_2mib.shape_p3_absent.documented_outcome bounded="pool of 7 tables (4 path + 3 allocatable); tree-shaped sparse pre-state (target path, one neighbour word per path table, garbage in allocatable frames); page-table indices (256,1,510,255)"
-    //@ obligation C01 C01.map_to_2mib.shape_p3_absent.translate_agrees_after bounded="pool of 7 tables (4 path + 3 allocatable); tree-shaped sparse pre-state (target path, one neighbour word per path table, garbage in allocatable frames); page-table indices (256,1,510,255)"
-    //@ obligation C09 C09.map_to_2mib.shape_p3_absent.only_dictated_slots_change bounded="pool of 7 tables (4 path + 3 allocatable); tree-shaped sparse pre-state (target path, one neighbour word per path table, garbage in allocatable frames); page-table indices (256,1,510,255)"
-    //@ obligation C09 C09.map_to_2mib.shape_p3_absent.allocator_requests bounded="pool of 7 tables (4 path + 3 allocatable); tree-shaped sparse pre-state (target path, one neighbour word per path table, garbage in allocatable frames); page-table indices (256,1,510,255)"
-    //@ obligation C09 C09.map_to_2mib.shape_p3_absent.new_tables_zeroed_before_use bounded="pool of 7 tables (4 path + 3 allocatable); tree-shaped sparse pre-state (target path, one neighbour word per path table, garbage in allocatable frames); page-table indices (256,1,510,255)"
-    //@ obligation C09 C09.map_to_2mib.shape_p3_absent.no_dangling_table_pointer bounded="pool of 7 tables (4 path + 3 allocatable); tree-shaped sparse pre-state (target path, one neighbour word per path table, garbage in allocatable frames); page-table indices (256,1,510,255)"
+    //@ obligation C01 C01.map_to_2mib.shape_p3_absent.target_translates_to_frame bounded="pool of 7 tables (4 path + 3 allocatable); tree-shaped sparse pre-state (target path, one neighbour word per path table, garbage in allocatable frames); page-table indices (256,0,510,511)"
+    //@ obligation C01 C01.map_to_2mib.shape_p3_absent.target_leaf_flags bounded="pool of 7 tables (4 path + 3 allocatable); tree-shaped sparse pre-state (target path, one neighbour word per path table, garbage in allocatable frames); page-table indices (256,0,510,511)"
+    //@ obligation C01 C01.map_to_2mib.shape_p3_absent.parent_rights_include_requested bounded="pool of 7 tables (4 path + 3 allocatable); tree-shaped sparse pre-state (target path, one neighbour word per path table, garbage in allocatable frames); page-table indices (256,0,510,511)"
+    //@ obligation C01 C01.map_to_2mib.shape_p3_absent.other_addresses_unchanged bounded="pool of 7 tables (4 path + 3 allocatable); tree-shaped sparse pre-state (target path, one neighbour word per path table, garbage in allocatable frames); page-table indices (256,0,510,511)"
+    //@ obligation C01 C01.map_to_2mib.shape_p3_absent.result_reports_page bounded="pool of 7 tables (4 path + 3 allocatable); tree-shaped sparse pre-state (target path, one neighbour word per path table, garbage in allocatable frames); page-table indices (256,0,510,511)"
+    //@ obligation C11 C11.map_to_2mib.shape_p3_absent.token_names_page bounded="pool of 7 tables (4 path + 3 allocatable); tree-shaped sparse pre-state (target path, one neighbour word per path table, garbage in allocatable frames); page-table indices (256,0,510,511)"
+    //@ obligation C02 C02.map_to_2mib.shape_p3_absent.error_leaves_every_mapping bounded="pool of 7 tables (4 path + 3 allocatable); tree-shaped sparse pre-state (target path, one neighbour word per path table, garbage in allocatable frames); page-table indices (256,0,510,511)"
+    //@ obligation C02 C02.map_to_2mib.shape_p3_absent.error_adds_at_most_parent_flags bounded="pool of 7 tables (4 path + 3 allocatable); tree-shaped sparse pre-state (target path, one neighbour word per path table, garbage in allocatable frames); page-table indices (256,0,510,511)"
+    //@ obligation C02 C02.map_to_2mib.shape_p3_absent.documented_outcome bounded="pool of 7 tables (4 path + 3 allocatable); tree-shaped sparse pre-state (target path, one neighbour word per path table, garbage in allocatable frames); page-table indices (256,0,510,511)"
+    //@ obligation C01 C01.map_to_2mib.shape_p3_absent.translate_agrees_after bounded="pool of 7 tables (4 path + 3 allocatable); tree-shaped sparse pre-state (target path, one neighbour word per path table, garbage in allocatable frames); page-table indices (256,0,510,511)"
+    //@ obligation C09 C09.map_to_2mib.shape_p3_absent.only_dictated_slots_change bounded="pool of 7 tables (4 path + 3 allocatable); tree-shaped sparse pre-state (target path, one neighbour word per path table, garbage in allocatable frames); page-table indices (256,0,510,511)"
+    //@ obligation C09 C09.map_to_2mib.shape_p3_absent.allocator_requests bounded="pool of 7 tables (4 path + 3 allocatable); tree-shaped sparse pre-state (target path, one neighbour word per path table, garbage in allocatable frames); page-table indices (256,0,510,511)"
+    //@ obligation C09 C09.map_to_2mib.shape_p3_absent.new_tables_zeroed_before_use bounded="pool of 7 tables (4 path + 3 allocatable); tree-shaped sparse pre-state (target path, one neighbour word per path table, garbage in allocatable frames); page-table indices (256,0,510,511)"
+    //@ obligation C09 C09.map_to_2mib.shape_p3_absent.no_dangling_table_pointer bounded="pool of 7 tables (4 path + 3 allocatable); tree-shaped sparse pre-state (target path, one neighbour word per path table, garbage in allocatable frames); page-table indices (256,0,510,511)"
+    //@ obligation C09 C09.map_to_2mib.shape_p3_absent.no_access_outside_page_tables bounded="pool of 7 tables (4 path + 3 allocatable); tree-shaped sparse pre-state (target path, one neighbour word per path table, garbage in allocatable frames); page-table indices (256,0,510,511)"
     #[kani::proof]
     #[kani::stub(PageTable::zero, zero_stub)]
     fn c01_map_to_2mib_p3_absent_up() {
@@ -891,17 +932,19 @@ mod verif_c01_step_map {
         kani::cover!(true, "c01_map_to_2mib_p3_absent_up: reachable");
     }
 
-    //@ obligation C01 C01.map_to_2mib.shape_p2_absent.target_translates_to_frame tier=thorough bounded="pool of 7 tables (4 path + 3 allocatable); tree-shaped sparse pre-state (target path, one neighbour word per path table, garbage in allocatable frames); page-table indices (0,0,0,0)"
-    //@ obligation C01 C01.map_to_2mib.shape_p2_absent.target_leaf_flags tier=thorough bounded="pool of 7 tables (4 path + 3 allocatable); tree-shaped sparse pre-state (target path, one neighbour word per path table, garbage in allocatable frames); page-table indices (0,0,0,0)"
-    //@ obligation C01 C01.map_to_2mib.shape_p2_absent.parent_rights_include_requested tier=thorough bounded="pool of 7 tables (4 path + 3 allocatable); tree-shaped sparse pre-state (target path, one neighbour word per path table, garbage in allocatable frames); page-table indices (0,0,0,0)"
-    //@ obligation C01 C01.map_to_2mib.shape_p2_absent.other_addresses_unchanged tier=thorough bounded="pool of 7 tables (4 path + 3 allocatable); tree-shaped sparse pre-state (target path, one neighbour word per path table, garbage in allocatable frames); page-table indices (0,0,0,0)"
-    //@ obligation C11 C11.map_to_2mib.shape_p2_absent.token_names_page tier=thorough bounded="pool of 7 tables (4 path + 3 allocatable); tree-shaped sparse pre-state (target path, one neighbour word per path table, garbage in allocatable frames); page-table indices (0,0,0,0)"
-    //@ obligation C02 C02.map_to_2mib.shape_p2_absent.documented_outcome tier=thorough bounded="pool of 7 tables (4 path + 3 allocatable); tree-shaped sparse pre-state (target path, one neighbour word per path table, garbage in allocatable frames); page-table indices (0,0,0,0)"
-    //@ obligation C01 C01.map_to_2mib.shape_p2_absent.translate_agrees_after tier=thorough bounded="pool of 7 tables (4 path + 3 allocatable); tree-shaped sparse pre-state (target path, one neighbour word per path table, garbage in allocatable frames); page-table indices (0,0,0,0)"
-    //@ obligation C09 C09.map_to_2mib.shape_p2_absent.only_dictated_slots_change tier=thorough bounded="pool of 7 tables (4 path + 3 allocatable); tree-shaped sparse pre-state (target path, one neighbour word per path table, garbage in allocatable frames); page-table indices (0,0,0,0)"
-    //@ obligation C09 C09.map_to_2mib.shape_p2_absent.allocator_requests tier=thorough bounded="pool of 7 tables (4 path + 3 allocatable); tree-shaped sparse pre-state (target path, one neighbour word per path table, garbage in allocatable frames); page-table indices (0,0,0,0)"
-    //@ obligation C09 C09.map_to_2mib.shape_p2_absent.new_tables_zeroed_before_use tier=thorough bounded="pool of 7 tables (4 path + 3 allocatable); tree-shaped sparse pre-state (target path, one neighbour word per path table, garbage in allocatable frames); page-table indices (0,0,0,0)"
-    //@ obligation C09 C09.map_to_2mib.shape_p2_absent.no_dangling_table_pointer tier=thorough bounded="pool of 7 tables (4 path + 3 allocatable); tree-shaped sparse pre-state (target path, one neighbour word per path table, garbage in allocatable frames); page-table indices (0,0,0,0)"
+    //@ obligation C01 C01.map_to_2mib.shape_p2_absent.target_translates_to_frame tier=thorough bounded="pool of 7 tables (4 path + 3 allocatable); tree-shaped sparse pre-state (target path, one neighbour word per path table, garbage in allocatable frames); page-table indices (0,1,511,2)"
+    //@ obligation C01 C01.map_to_2mib.shape_p2_absent.target_leaf_flags tier=thorough bounded="pool of 7 tables (4 path + 3 allocatable); tree-shaped sparse pre-state (target path, one neighbour word per path table, garbage in allocatable frames); page-table indices (0,1,511,2)"
+    //@ obligation C01 C01.map_to_2mib.shape_p2_absent.parent_rights_include_requested tier=thorough bounded="pool of 7 tables (4 path + 3 allocatable); tree-shaped sparse pre-state (target path, one neighbour word per path table, garbage in allocatable frames); page-table indices (0,1,511,2)"
+    //@ obligation C01 C01.map_to_2mib.shape_p2_absent.other_addresses_unchanged tier=thorough bounded="pool of 7 tables (4 path + 3 allocatable); tree-shaped sparse pre-state (target path, one neighbour word per path table, garbage in allocatable frames); page-table indices (0,1,511,2)"
+    //@ obligation C01 C01.map_to_2mib.shape_p2_absent.result_reports_page tier=thorough bounded="pool of 7 tables (4 path + 3 allocatable); tree-shaped sparse pre-state (target path, one neighbour word per path table, garbage in allocatable frames); page-table indices (0,1,511,2)"
+    //@ obligation C11 C11.map_to_2mib.shape_p2_absent.token_names_page tier=thorough bounded="pool of 7 tables (4 path + 3 allocatable); tree-shaped sparse pre-state (target path, one neighbour word per path table, garbage in allocatable frames); page-table indices (0,1,511,2)"
+    //@ obligation C02 C02.map_to_2mib.shape_p2_absent.documented_outcome tier=thorough bounded="pool of 7 tables (4 path + 3 allocatable); tree-shaped sparse pre-state (target path, one neighbour word per path table, garbage in allocatable frames); page-table indices (0,1,511,2)"
+    //@ obligation C01 C01.map_to_2mib.shape_p2_absent.translate_agrees_after tier=thorough bounded="pool of 7 tables (4 path + 3 allocatable); tree-shaped sparse pre-state (target path, one neighbour word per path table, garbage in allocatable frames); page-table indices (0,1,511,2)"
+    //@ obligation C09 C09.map_to_2mib.shape_p2_absent.only_dictated_slots_change tier=thorough bounded="pool of 7 tables (4 path + 3 allocatable); tree-shaped sparse pre-state (target path, one neighbour word per path table, garbage in allocatable frames); page-table indices (0,1,511,2)"
+    //@ obligation C09 C09.map_to_2mib.shape_p2_absent.allocator_requests tier=thorough bounded="pool of 7 tables (4 path + 3 allocatable); tree-shaped sparse pre-state (target path, one neighbour word per path table, garbage in allocatable frames); page-table indices (0,1,511,2)"
+    //@ obligation C09 C09.map_to_2mib.shape_p2_absent.new_tables_zeroed_before_use tier=thorough bounded="pool of 7 tables (4 path + 3 allocatable); tree-shaped sparse pre-state (target path, one neighbour word per path table, garbage in allocatable frames); page-table indices (0,1,511,2)"
+    //@ obligation C09 C09.map_to_2mib.shape_p2_absent.no_dangling_table_pointer tier=thorough bounded="pool of 7 tables (4 path + 3 allocatable); tree-shaped sparse pre-state (target path, one neighbour word per path table, garbage in allocatable frames); page-table indices (0,1,511,2)"
+    //@ obligation C09 C09.map_to_2mib.shape_p2_absent.no_access_outside_page_tables tier=thorough bounded="pool of 7 tables (4 path + 3 allocatable); tree-shaped sparse pre-state (target path, one neighbour word per path table, garbage in allocatable frames); page-table indices (0,1,511,2)"
     #[kani::proof]
     #[kani::stub(PageTable::zero, zero_stub)]
     fn c01_map_to_2mib_p2_absent_lo() {
@@ -909,17 +952,19 @@ mod verif_c01_step_map {
         kani::cover!(true, "c01_map_to_2mib_p2_absent_lo: reachable");
     }
 
-    //@ obligation C01 C01.map_to_2mib.shape_p2_absent.target_translates_to_frame tier=thorough bounded="pool of 7 tables (4 path + 3 allocatable); tree-shaped sparse pre-state (target path, one neighbour word per path table, garbage in allocatable frames); page-table indices (511,511,511,511)"
-    //@ obligation C01 C01.map_to_2mib.shape_p2_absent.target_leaf_flags tier=thorough bounded="pool of 7 tables (4 path + 3 allocatable); tree-shaped sparse pre-state (target path, one neighbour word per path table, garbage in allocatable frames); page-table indices (511,511,511,511)"
-    //@ obligation C01 C01.map_to_2mib.shape_p2_absent.parent_rights_include_requested tier=thorough bounded="pool of 7 tables (4 path + 3 allocatable); tree-shaped sparse pre-state (target path, one neighbour word per path table, garbage in allocatable frames); page-table indices (511,511,511,511)"
-    //@ obligation C01 C01.map_to_2mib.shape_p2_absent.other_addresses_unchanged tier=thorough bounded="pool of 7 tables (4 path + 3 allocatable); tree-shaped sparse pre-state (target path, one neighbour word per path table, garbage in allocatable frames); page-table indices (511,511,511,511)"
-    //@ obligation C11 C11.map_to_2mib.shape_p2_absent.token_names_page tier=thorough bounded="pool of 7 tables (4 path + 3 allocatable); tree-shaped sparse pre-state (target path, one neighbour word per path table, garbage in allocatable frames); page-table indices (511,511,511,511)"
-    //@ obligation C02 C02.map_to_2mib.shape_p2_absent.documented_outcome tier=thorough bounded="pool of 7 tables (4 path + 3 allocatable); tree-shaped sparse pre-state (target path, one neighbour word per path table, garbage in allocatable frames); page-table indices (511,511,511,511)"
-    //@ obligation C01 C01.map_to_2mib.shape_p2_absent.translate_agrees_after tier=thorough bounded="pool of 7 tables (4 path + 3 allocatable); tree-shaped sparse pre-state (target path, one neighbour word per path table, garbage in allocatable frames); page-table indices (511,511,511,511)"
-    //@ obligation C09 C09.map_to_2mib.shape_p2_absent.only_dictated_slots_change tier=thorough bounded="pool of 7 tables (4 path + 3 allocatable); tree-shaped sparse pre-state (target path, one neighbour word per path table, garbage in allocatable frames); page-table indices (511,511,511,511)"
-    //@ obligation C09 C09.map_to_2mib.shape_p2_absent.allocator_requests tier=thorough bounded="pool of 7 tables (4 path + 3 allocatable); tree-shaped sparse pre-state (target path, one neighbour word per path table, garbage in allocatable frames); page-table indices (511,511,511,511)"
-    //@ obligation C09 C09.map_to_2mib.shape_p2_absent.new_tables_zeroed_before_use tier=thorough bounded="pool of 7 tables (4 path + 3 allocatable); tree-shaped sparse pre-state (target path, one neighbour word per path table, garbage in allocatable frames); page-table indices (511,511,511,511)"
-    //@ obligation C09 C09.map_to_2mib.shape_p2_absent.no_dangling_table_pointer tier=thorough bounded="pool of 7 tables (4 path + 3 allocatable); tree-shaped sparse pre-state (target path, one neighbour word per path table, garbage in allocatable frames); page-table indices (511,511,511,511)"
+    //@ obligation C01 C01.map_to_2mib.shape_p2_absent.target_translates_to_frame tier=thorough bounded="pool of 7 tables (4 path + 3 allocatable); tree-shaped sparse pre-state (target path, one neighbour word per path table, garbage in allocatable frames); page-table indices (511,510,1,0)"
+    //@ obligation C01 C01.map_to_2mib.shape_p2_absent.target_leaf_flags tier=thorough bounded="pool of 7 tables (4 path + 3 allocatable); tree-shaped sparse pre-state (target path, one neighbour word per path table, garbage in allocatable frames); page-table indices (511,510,1,0)"
+    //@ obligation C01 C01.map_to_2mib.shape_p2_absent.parent_rights_include_requested tier=thorough bounded="pool of 7 tables (4 path + 3 allocatable); tree-shaped sparse pre-state (target path, one neighbour word per path table, garbage in allocatable frames); page-table indices (511,510,1,0)"
+    //@ obligation C01 C01.map_to_2mib.shape_p2_absent.other_addresses_unchanged tier=thorough bounded="pool of 7 tables (4 path + 3 allocatable); tree-shaped sparse pre-state (target path, one neighbour word per path table, garbage in allocatable frames); page-table indices (511,510,1,0)"
+    //@ obligation C01 C01.map_to_2mib.shape_p2_absent.result_reports_page tier=thorough bounded="pool of 7 tables (4 path + 3 allocatable); tree-shaped sparse pre-state (target path, one neighbour word per path table, garbage in allocatable frames); page-table indices (511,510,1,0)"
+    //@ obligation C11 C11.map_to_2mib.shape_p2_absent.token_names_page tier=thorough bounded="pool of 7 tables (4 path + 3 allocatable); tree-shaped sparse pre-state (target path, one neighbour word per path table, garbage in allocatable frames); page-table indices (511,510,1,0)"
+    //@ obligation C02 C02.map_to_2mib.shape_p2_absent.documented_outcome tier=thorough bounded="pool of 7 tables (4 path + 3 allocatable); tree-shaped sparse pre-state (target path, one neighbour word per path table, garbage in allocatable frames); page-table indices (511,510,1,0)"
+    //@ obligation C01 C01.map_to_2mib.shape_p2_absent.translate_agrees_after tier=thorough bounded="pool of 7 tables (4 path + 3 allocatable); tree-shaped sparse pre-state (target path, one neighbour word per path table, garbage in allocatable frames); page-table indices (511,510,1,0)"
+    //@ obligation C09 C09.map_to_2mib.shape_p2_absent.only_dictated_slots_change tier=thorough bounded="pool of 7 tables (4 path + 3 allocatable); tree-shaped sparse pre-state (target path, one neighbour word per path table, garbage in allocatable frames); page-table indices (511,510,1,0)"
+    //@ obligation C09 C09.map_to_2mib.shape_p2_absent.allocator_requests tier=thorough bounded="pool of 7 tables (4 path + 3 allocatable); tree-shaped sparse pre-state (target path, one neighbour word per path table, garbage in allocatable frames); page-table indices (511,510,1,0)"
+    //@ obligation C09 C09.map_to_2mib.shape_p2_absent.new_tables_zeroed_before_use tier=thorough bounded="pool of 7 tables (4 path + 3 allocatable); tree-shaped sparse pre-state (target path, one neighbour word per path table, garbage in allocatable frames); page-table indices (511,510,1,0)"
+    //@ obligation C09 C09.map_to_2mib.shape_p2_absent.no_dangling_table_pointer tier=thorough bounded="pool of 7 tables (4 path + 3 allocatable); tree-shaped sparse pre-state (target path, one neighbour word per path table, garbage in allocatable frames); page-table indices (511,510,1,0)"
+    //@ obligation C09 C09.map_to_2mib.shape_p2_absent.no_access_outside_page_tables tier=thorough bounded="pool of 7 tables (4 path + 3 allocatable); tree-shaped sparse pre-state (target path, one neighbour word per path table, garbage in allocatable frames); page-table indices (511,510,1,0)"
     #[kani::proof]
     #[kani::stub(PageTable::zero, zero_stub)]
     fn c01_map_to_2mib_p2_absent_hi() {
@@ -927,17 +972,19 @@ mod verif_c01_step_map {
         kani::cover!(true, "c01_map_to_2mib_p2_absent_hi: reachable");
     }
 
-    //@ obligation C01 C01.map_to_2mib.shape_p2_absent.target_translates_to_frame tier=thorough bounded="pool of 7 tables (4 path + 3 allocatable); tree-shaped sparse pre-state (target path, one neighbour word per path table, garbage in allocatable frames); page-table indices (255,511,0,1)"
-    //@ obligation C01 C01.map_to_2mib.shape_p2_absent.target_leaf_flags tier=thorough bounded="pool of 7 tables (4 path + 3 allocatable); tree-shaped sparse pre-state (target path, one neighbour word per path table, garbage in allocatable frames); page-table indices (255,511,0,1)"
-    //@ obligation C01 C01.map_to_2mib.shape_p2_absent.parent_rights_include_requested tier=thorough bounded="pool of 7 tables (4 path + 3 allocatable); tree-shaped sparse pre-state (target path, one neighbour word per path table, garbage in allocatable frames); page-table indices (255,511,0,1)"
-    //@ obligation C01 C01.map_to_2mib.shape_p2_absent.other_addresses_unchanged tier=thorough bounded="pool of 7 tables (4 path + 3 allocatable); tree-shaped sparse pre-state (target path, one neighbour word per path table, garbage in allocatable frames); page-table indices (255,511,0,1)"
-    //@ obligation C11 C11.map_to_2mib.shape_p2_absent.token_names_page tier=thorough bounded="pool of 7 tables (4 path + 3 allocatable); tree-shaped sparse pre-state (target path, one neighbour word per path table, garbage in allocatable frames); page-table indices (255,511,0,1)"
-    //@ obligation C02 C02.map_to_2mib.shape_p2_absent.documented_outcome tier=thorough bounded="pool of 7 tables (4 path + 3 allocatable); tree-shaped sparse pre-state (target path, one neighbour word per path table, garbage in allocatable frames); page-table indices (255,511,0,1)"
-    //@ obligation C01 C01.map_to_2mib.shape_p2_absent.translate_agrees_after tier=thorough bounded="pool of 7 tables (4 path + 3 allocatable); tree-shaped sparse pre-state (target path, one neighbour word per path table, garbage in allocatable frames); page-table indices (255,511,0,1)"
-    //@ obligation C09 C09.map_to_2mib.shape_p2_absent.only_dictated_slots_change tier=thorough bounded="pool of 7 tables (4 path + 3 allocatable); tree-shaped sparse pre-state (target path, one neighbour word per path table, garbage in allocatable frames); page-table indices (255,511,0,1)"
-    //@ obligation C09 C09.map_to_2mib.shape_p2_absent.allocator_requests tier=thorough bounded="pool of 7 tables (4 path + 3 allocatable); tree-shaped sparse pre-state (target path, one neighbour word per path table, garbage in allocatable frames); page-table indices (255,511,0,1)"
-    //@ obligation C09 C09.map_to_2mib.shape_p2_absent.new_tables_zeroed_before_use tier=thorough bounded="pool of 7 tables (4 path + 3 allocatable); tree-shaped sparse pre-state (target path, one neighbour word per path table, garbage in allocatable frames); page-table indices (255,511,0,1)"
-    //@ obligation C09 C09.map_to_2mib.shape_p2_absent.no_dangling_table_pointer tier=thorough bounded="pool of 7 tables (4 path + 3 allocatable); tree-shaped sparse pre-state (target path, one neighbour word per path table, garbage in allocatable frames); page-table indices (255,511,0,1)"
+    //@ obligation C01 C01.map_to_2mib.shape_p2_absent.target_translates_to_frame tier=thorough bounded="pool of 7 tables (4 path + 3 allocatable); tree-shaped sparse pre-state (target path, one neighbour word per path table, garbage in allocatable frames); page-table indices (255,511,0,256)"
+    //@ obligation C01 C01.map_to_2mib.shape_p2_absent.target_leaf_flags tier=thorough bounded="pool of 7 tables (4 path + 3 allocatable); tree-shaped sparse pre-state (target path, one neighbour word per path table, garbage in allocatable frames); page-table indices (255,511,0,256)"
+    //@ obligation C01 C01.map_to_2mib.shape_p2_absent.parent_rights_include_requested tier=thorough bounded="pool of 7 tables (4 path + 3 allocatable); tree-shaped sparse pre-state (target path, one neighbour word per path table, garbage in allocatable frames); page-table indices (255,511,0,256)"
+    //@ obligation C01 C01.map_to_2mib.shape_p2_absent.other_addresses_unchanged tier=thorough bounded="pool of 7 tables (4 path + 3 allocatable); tree-shaped sparse pre-state (target path, one neighbour word per path table, garbage in allocatable frames); page-table indices (255,511,0,256)"
+    //@ obligation C01 C01.map_to_2mib.shape_p2_absent.result_reports_page tier=thorough bounded="pool of 7 tables (4 path + 3 allocatable); tree-shaped sparse pre-state (target path, one neighbour word per path table, garbage in allocatable frames); page-table indices (255,511,0,256)"
+    //@ obligation C11 C11.map_to_2mib.shape_p2_absent.token_names_page tier=thorough bounded="pool of 7 tables (4 path + 3 allocatable); tree-shaped sparse pre-state (target path, one neighbour word per path table, garbage in allocatable frames); page-table indices (255,511,0,256)"
+    //@ obligation C02 C02.map_to_2mib.shape_p2_absent.documented_outcome tier=thorough bounded="pool of 7 tables (4 path + 3 allocatable); tree-shaped sparse pre-state (target path, one neighbour word per path table, garbage in allocatable frames); page-table indices (255,511,0,256)"
+    //@ obligation C01 C01.map_to_2mib.shape_p2_absent.translate_agrees_after tier=thorough bounded="pool of 7 tables (4 path + 3 allocatable); tree-shaped sparse pre-state (target path, one neighbour word per path table, garbage in allocatable frames); page-table indices (255,511,0,256)"
+    //@ obligation C09 C09.map_to_2mib.shape_p2_absent.only_dictated_slots_change tier=thorough bounded="pool of 7 tables (4 path + 3 allocatable); tree-shaped sparse pre-state (target path, one neighbour word per path table, garbage in allocatable frames); page-table indices (255,511,0,256)"
+    //@ obligation C09 C09.map_to_2mib.shape_p2_absent.allocator_requests tier=thorough bounded="pool of 7 tables (4 path + 3 allocatable); tree-shaped sparse pre-state (target path, one neighbour word per path table, garbage in allocatable frames); page-table indices (255,511,0,256)"
+    //@ obligation C09 C09.map_to_2mib.shape_p2_absent.new_tables_zeroed_before_use tier=thorough bounded="pool of 7 tables (4 path + 3 allocatable); tree-shaped sparse pre-state (target path, one neighbour word per path table, garbage in allocatable frames); page-table indices (255,511,0,256)"
+    //@ obligation C09 C09.map_to_2mib.shape_p2_absent.no_dangling_table_pointer tier=thorough bounded="pool of 7 tables (4 path + 3 allocatable); tree-shaped sparse pre-state (target path, one neighbour word per path table, garbage in allocatable frames); page-table indices (255,511,0,256)"
+    //@ obligation C09 C09.map_to_2mib.shape_p2_absent.no_access_outside_page_tables tier=thorough bounded="pool of 7 tables (4 path + 3 allocatable); tree-shaped sparse pre-state (target path, one neighbour word per path table, garbage in allocatable frames); page-table indices (255,511,0,256)"
     #[kani::proof]
     #[kani::stub(PageTable::zero, zero_stub)]
     fn c01_map_to_2mib_p2_absent_mid() {
@@ -945,17 +992,19 @@ mod verif_c01_step_map {
         kani::cover!(true, "c01_map_to_2mib_p2_absent_mid: reachable");
     }
 
-    //@ obligation C01 C01.map_to_2mib.shape_p2_absent.target_translates_to_frame tier=thorough bounded="pool of 7 tables (4 path + 3 allocatable); tree-shaped sparse pre-state (target path, one neighbour word per path table, garbage in allocatable frames); page-table indices (256,1,510,255)"
-    //@ obligation C01 C01.map_to_2mib.shape_p2_absent.target_leaf_flags tier=thorough bounded="pool of 7 tables (4 path + 3 allocatable); tree-shaped sparse pre-state (target path, one neighbour word per path table, garbage in allocatable frames); page-table indices (256,1,510,255)"
-    //@ obligation C01 C01.map_to_2mib.shape_p2_absent.parent_rights_include_requested tier=thorough bounded="pool of 7 tables (4 path + 3 allocatable); tree-shaped sparse pre-state (target path, one neighbour word per path table, garbage in allocatable frames); page-table indices (256,1,510,255)"
-    //@ obligation C01 C01.map_to_2mib.shape_p2_absent.other_addresses_unchanged tier=thorough bounded="pool of 7 tables (4 path + 3 allocatable); tree-shaped sparse pre-state (target path, one neighbour word per path table, garbage in allocatable frames); page-table indices (256,1,510,255)"
-    //@ obligation C11 C11.map_to_2mib.shape_p2_absent.token_names_page tier=thorough bounded="pool of 7 tables (4 path + 3 allocatable); tree-shaped sparse pre-state (target path, one neighbour word per path table, garbage in allocatable frames); page-table indices (256,1,510,255)"
-    //@ obligation C02 C02.map_to_2mib.shape_p2_absent.documented_outcome tier=thorough bounded="pool of 7 tables (4 path + 3 allocatable); tree-shaped sparse pre-state (target path, one neighbour word per path table, garbage in allocatable frames); page-table indices (256,1,510,255)"
-    //@ obligation C01 C01.map_to_2mib.shape_p2_absent.translate_agrees_after tier=thorough bounded="pool of 7 tables (4 path + 3 allocatable); tree-shaped sparse pre-state (target path, one neighbour word per path table, garbage in allocatable frames); page-table indices (256,1,510,255)"
-    //@ obligation C09 C09.map_to_2mib.shape_p2_absent.only_dictated_slots_change tier=thorough bounded="pool of 7 tables (4 path + 3 allocatable); tree-shaped sparse pre-state (target path, one neighbour word per path table, garbage in allocatable frames); page-table indices (256,1,510,255)"
-    //@ obligation C09 C09.map_to_2mib.shape_p2_absent.allocator_requests tier=thorough bounded="pool of 7 tables (4 path + 3 allocatable); tree-shaped sparse pre-state (target path, one neighbour word per path table, garbage in allocatable frames); page-table indices (256,1,510,255)"
-    //@ obligation C09 C09.map_to_2mib.shape_p2_absent.new_tables_zeroed_before_use tier=thorough bounded="pool of 7 tables (4 path + 3 allocatable); tree-shaped sparse pre-state (target path, one neighbour word per path table, garbage in allocatable frames); page-table indices (256,1,510,255)"
-    //@ obligation C09 C09.map_to_2mib.shape_p2_absent.no_dangling_table_pointer tier=thorough bounded="pool of 7 tables (4 path + 3 allocatable); tree-shaped sparse pre-state (target path, one neighbour word per path table, garbage in allocatable frames); page-table indices (256,1,510,255)"
+    //@ obligation C01 C01.map_to_2mib.shape_p2_absent.target_translates_to_frame tier=thorough bounded="pool of 7 tables (4 path + 3 allocatable); tree-shaped sparse pre-state (target path, one neighbour word per path table, garbage in allocatable frames); page-table indices (256,0,510,511)"
+    //@ obligation C01 C01.map_to_2mib.shape_p2_absent.target_leaf_flags tier=thorough bounded="pool of 7 tables (4 path + 3 allocatable); tree-shaped sparse pre-state (target path, one neighbour word per path table, garbage in allocatable frames); page-table indices (256,0,510,511)"
+    //@ obligation C01 C01.map_to_2mib.shape_p2_absent.parent_rights_include_requested tier=thorough bounded="pool of 7 tables (4 path + 3 allocatable); tree-shaped sparse pre-state (target path, one neighbour word per path table, garbage in allocatable frames); page-table indices (256,0,510,511)"
+    //@ obligation C01 C01.map_to_2mib.shape_p2_absent.other_addresses_unchanged tier=thorough bounded="pool of 7 tables (4 path + 3 allocatable); tree-shaped sparse pre-state (target path, one neighbour word per path table, garbage in allocatable frames); page-table indices (256,0,510,511)"
+    //@ obligation C01 C01.map_to_2mib.shape_p2_absent.result_reports_page tier=thorough bounded="pool of 7 tables (4 path + 3 allocatable); tree-shaped sparse pre-state (target path, one neighbour word per path table, garbage in allocatable frames); page-table indices (256,0,510,511)"
+    //@ obligation C11 C11.map_to_2mib.shape_p2_absent.token_names_page tier=thorough bounded="pool of 7 tables (4 path + 3 allocatable); tree-shaped sparse pre-state (target path, one neighbour word per path table, garbage in allocatable frames); page-table indices (256,0,510,511)"
+    //@ obligation C02 C02.map_to_2mib.shape_p2_absent.documented_outcome tier=thorough bounded="pool of 7 tables (4 path + 3 allocatable); tree-shaped sparse pre-state (target path, one neighbour word per path table, garbage in allocatable frames); page-table indices (256,0,510,511)"
+    //@ obligation C01 C01.map_to_2mib.shape_p2_absent.translate_agrees_after tier=thorough bounded="pool of 7 tables (4 path + 3 allocatable); tree-shaped sparse pre-state (target path, one neighbour word per path table, garbage in allocatable frames); page-table indices (256,0,510,511)"
+    //@ obligation C09 C09.map_to_2mib.shape_p2_absent.only_dictated_slots_change tier=thorough bounded="pool of 7 tables (4 path + 3 allocatable); tree-shaped sparse pre-state (target path, one neighbour word per path table, garbage in allocatable frames); page-table indices (256,0,510,511)"
+    //@ obligation C09 C09.map_to_2mib.shape_p2_absent.allocator_requests tier=thorough bounded="pool of 7 tables (4 path + 3 allocatable); tree-shaped sparse pre-state (target path, one neighbour word per path table, garbage in allocatable frames); page-table indices (256,0,510,511)"
+    //@ obligation C09 C09.map_to_2mib.shape_p2_absent.new_tables_zeroed_before_use tier=thorough bounded="pool of 7 tables (4 path + 3 allocatable); tree-shaped sparse pre-state (target path, one neighbour word per path table, garbage in allocatable frames); page-table indices (256,0,510,511)"
+    //@ obligation C09 C09.map_to_2mib.shape_p2_absent.no_dangling_table_pointer tier=thorough bounded="pool of 7 tables (4 path + 3 allocatable); tree-shaped sparse pre-state (target path, one neighbour word per path table, garbage in allocatable frames); page-table indices (256,0,510,511)"
+    //@ obligation C09 C09.map_to_2mib.shape_p2_absent.no_access_outside_page_tables tier=thorough bounded="pool of 7 tables (4 path + 3 allocatable); tree-shaped sparse pre-state (target path, one neighbour word per path table, garbage in allocatable frames); page-table indices (256,0,510,511)"
     #[kani::proof]
     #[kani::stub(PageTable::zero, zero_stub)]
     fn c01_map_to_2mib_p2_absent_up() {
@@ -963,15 +1012,16 @@ mod verif_c01_step_map {
         kani::cover!(true, "c01_map_to_2mib_p2_absent_up: reachable");
     }
 
-    //@ obligation C02 C02.map_to_2mib.shape_p3_huge.error_leaves_every_mapping tier=thorough bounded="pool of 7 tables (4 path + 3 allocatable); tree-shaped sparse pre-state (target path, one neighbour word per path table, garbage in allocatable frames); page-table indices (0,0,0,0)"
-    //@ obligation C02 C02.map_to_2mib.shape_p3_huge.error_adds_at_most_parent_flags tier=thorough bounded="pool of 7 tables (4 path + 3 allocatable); tree-shaped sparse pre-state (target path, one neighbour word per path table, garbage in allocatable frames); page-table indices (0,0,0,0)"
-    //@ obligation C02 C02.map_to_2mib.shape_p3_huge.huge_leaf_unchanged_on_error tier=thorough bounded="pool of 7 tables (4 path + 3 allocatable); tree-shaped sparse pre-state (target path, one neighbour word per path table, garbage in allocatable frames); page-table indices (0,0,0,0)"
-    //@ obligation C02 C02.map_to_2mib.shape_p3_huge.documented_outcome tier=thorough bounded="pool of 7 tables (4 path + 3 allocatable); tree-shaped sparse pre-state (target path, one neighbour word per path table, garbage in allocatable frames); page-table indices (0,0,0,0)"
-    //@ obligation C01 C01.map_to_2mib.shape_p3_huge.translate_agrees_after tier=thorough bounded="pool of 7 tables (4 path + 3 allocatable); tree-shaped sparse pre-state (target path, one neighbour word per path table, garbage in allocatable frames); page-table indices (0,0,0,0)"
-    //@ obligation C09 C09.map_to_2mib.shape_p3_huge.only_dictated_slots_change tier=thorough bounded="pool of 7 tables (4 path + 3 allocatable); tree-shaped sparse pre-state (target path, one neighbour word per path table, garbage in allocatable frames); page-table indices (0,0,0,0)"
-    //@ obligation C09 C09.map_to_2mib.shape_p3_huge.allocator_requests tier=thorough bounded="pool of 7 tables (4 path + 3 allocatable); tree-shaped sparse pre-state (target path, one neighbour word per path table, garbage in allocatable frames); page-table indices (0,0,0,0)"
-    //@ obligation C09 C09.map_to_2mib.shape_p3_huge.new_tables_zeroed_before_use tier=thorough bounded="pool of 7 tables (4 path + 3 allocatable); tree-shaped sparse pre-state (target path, one neighbour word per path table, garbage in allocatable frames); page-table indices (0,0,0,0)"
-    //@ obligation C09 C09.map_to_2mib.shape_p3_huge.no_dangling_table_pointer tier=thorough bounded="pool of 7 tables (4 path + 3 allocatable); tree-shaped sparse pre-state (target path, one neighbour word per path table, garbage in allocatable frames); page-table indices (0,0,0,0)"
+    //@ obligation C02 C02.map_to_2mib.shape_p3_huge.error_leaves_every_mapping tier=thorough bounded="pool of 7 tables (4 path + 3 allocatable); tree-shaped sparse pre-state (target path, one neighbour word per path table, garbage in allocatable frames); page-table indices (0,1,511,2)"
+    //@ obligation C02 C02.map_to_2mib.shape_p3_huge.error_adds_at_most_parent_flags tier=thorough bounded="pool of 7 tables (4 path + 3 allocatable); tree-shaped sparse pre-state (target path, one neighbour word per path table, garbage in allocatable frames); page-table indices (0,1,511,2)"
+    //@ obligation C02 C02.map_to_2mib.shape_p3_huge.huge_leaf_unchanged_on_error tier=thorough bounded="pool of 7 tables (4 path + 3 allocatable); tree-shaped sparse pre-state (target path, one neighbour word per path table, garbage in allocatable frames); page-table indices (0,1,511,2)"
+    //@ obligation C02 C02.map_to_2mib.shape_p3_huge.documented_outcome tier=thorough bounded="pool of 7 tables (4 path + 3 allocatable); tree-shaped sparse pre-state (target path, one neighbour word per path table, garbage in allocatable frames); page-table indices (0,1,511,2)"
+    //@ obligation C01 C01.map_to_2mib.shape_p3_huge.translate_agrees_after tier=thorough bounded="pool of 7 tables (4 path + 3 allocatable); tree-shaped sparse pre-state (target path, one neighbour word per path table, garbage in allocatable frames); page-table indices (0,1,511,2)"
+    //@ obligation C09 C09.map_to_2mib.shape_p3_huge.only_dictated_slots_change tier=thorough bounded="pool of 7 tables (4 path + 3 allocatable); tree-shaped sparse pre-state (target path, one neighbour word per path table, garbage in allocatable frames); page-table indices (0,1,511,2)"
+    //@ obligation C09 C09.map_to_2mib.shape_p3_huge.allocator_requests tier=thorough bounded="pool of 7 tables (4 path + 3 allocatable); tree-shaped sparse pre-state (target path, one neighbour word per path table, garbage in allocatable frames); page-table indices (0,1,511,2)"
+    //@ obligation C09 C09.map_to_2mib.shape_p3_huge.new_tables_zeroed_before_use tier=thorough bounded="pool of 7 tables (4 path + 3 allocatable); tree-shaped sparse pre-state (target path, one neighbour word per path table, garbage in allocatable frames); page-table indices (0,1,511,2)"
+    //@ obligation C09 C09.map_to_2mib.shape_p3_huge.no_dangling_table_pointer tier=thorough bounded="pool of 7 tables (4 path + 3 allocatable); tree-shaped sparse pre-state (target path, one neighbour word per path table, garbage in allocatable frames); page-table indices (0,1,511,2)"
+    //@ obligation C09 C09.map_to_2mib.shape_p3_huge.no_access_outside_page_tables tier=thorough bounded="pool of 7 tables (4 path + 3 allocatable); tree-shaped sparse pre-state (target path, one neighbour word per path table, garbage in allocatable frames); page-table indices (0,1,511,2)"
     #[kani::proof]
     #[kani::stub(PageTable::zero, zero_stub)]
     fn c01_map_to_2mib_p3_huge_lo() {
@@ -979,15 +1029,16 @@ mod verif_c01_step_map {
         kani::cover!(true, "c01_map_to_2mib_p3_huge_lo: reachable");
     }
 
-    //@ obligation C02 C02.map_to_2mib.shape_p3_huge.error_leaves_every_mapping tier=thorough bounded="pool of 7 tables (4 path + 3 allocatable); tree-shaped sparse pre-state (target path, one neighbour word per path table, garbage in allocatable frames); page-table indices (511,511,511,511)"
-    //@ obligation C02 C02.map_to_2mib.shape_p3_huge.error_adds_at_most_parent_flags tier=thorough bounded="pool of 7 tables (4 path + 3 allocatable); tree-shaped sparse pre-state (target path, one neighbour word per path table, garbage in allocatable frames); page-table indices (511,511,511,511)"
-    //@ obligation C02 C02.map_to_2mib.shape_p3_huge.huge_leaf_unchanged_on_error tier=thorough bounded="pool of 7 tables (4 path + 3 allocatable); tree-shaped sparse pre-state (target path, one neighbour word per path table, garbage in allocatable frames); page-table indices (511,511,511,511)"
-    //@ obligation C02 C02.map_to_2mib.shape_p3_huge.documented_outcome tier=thorough bounded="pool of 7 tables (4 path + 3 allocatable); tree-shaped sparse pre-state (target path, one neighbour word per path table, garbage in allocatable frames); page-table indices (511,511,511,511)"
-    //@ obligation C01 C01.map_to_2mib.shape_p3_huge.translate_agrees_after tier=thorough bounded="pool of 7 tables (4 path + 3 allocatable); tree-shaped sparse pre-state (target path, one neighbour word per path table, garbage in allocatable frames); page-table indices (511,511,511,511)"
-    //@ obligation C09 C09.map_to_2mib.shape_p3_huge.only_dictated_slots_change tier=thorough bounded="pool of 7 tables (4 path + 3 allocatable); tree-shaped sparse pre-state (target path, one neighbour word per path table, garbage in allocatable frames); page-table indices (511,511,511,511)"
-    //@ obligation C09 C09.map_to_2mib.shape_p3_huge.allocator_requests tier=thorough bounded="pool of 7 tables (4 path + 3 allocatable); tree-shaped sparse pre-state (target path, one neighbour word per path table, garbage in allocatable frames); page-table indices (511,511,511,511)"
-    //@ obligation C09 C09.map_to_2mib.shape_p3_huge.new_tables_zeroed_before_use tier=thorough bounded="pool of 7 tables (4 path + 3 allocatable); tree-shaped sparse pre-state (target path, one neighbour word per path table, garbage in allocatable frames); page-table indices (511,511,511,511)"
-    //@ obligation C09 C09.map_to_2mib.shape_p3_huge.no_dangling_table_pointer tier=thorough bounded="pool of 7 tables (4 path + 3 allocatable); tree-shaped sparse pre-state (target path, one neighbour word per path table, garbage in allocatable frames); page-table indices (511,511,511,511)"
+    //@ obligation C02 C02.map_to_2mib.shape_p3_huge.error_leaves_every_mapping tier=thorough bounded="pool of 7 tables (4 path + 3 allocatable); tree-shaped sparse pre-state (target path, one neighbour word per path table, garbage in allocatable frames); page-table indices (511,510,1,0)"
+    //@ obligation C02 C02.map_to_2mib.shape_p3_huge.error_adds_at_most_parent_flags tier=thorough bounded="pool of 7 tables (4 path + 3 allocatable); tree-shaped sparse pre-state (target path, one neighbour word per path table, garbage in allocatable frames); page-table indices (511,510,1,0)"
+    //@ obligation C02 C02.map_to_2mib.shape_p3_huge.huge_leaf_unchanged_on_error tier=thorough bounded="pool of 7 tables (4 path + 3 allocatable); tree-shaped sparse pre-state (target path, one neighbour word per path table, garbage in allocatable frames); page-table indices (511,510,1,0)"
+    //@ obligation C02 C02.map_to_2mib.shape_p3_huge.documented_outcome tier=thorough bounded="pool of 7 tables (4 path + 3 allocatable); tree-shaped sparse pre-state (target path, one neighbour word per path table, garbage in allocatable frames); page-table indices (511,510,1,0)"
+    //@ obligation C01 C01.map_to_2mib.shape_p3_huge.translate_agrees_after tier=thorough bounded="pool of 7 tables (4 path + 3 allocatable); tree-shaped sparse pre-state (target path, one neighbour word per path table, garbage in allocatable frames); page-table indices (511,510,1,0)"
+    //@ obligation C09 C09.map_to_2mib.shape_p3_huge.only_dictated_slots_change tier=thorough bounded="pool of 7 tables (4 path + 3 allocatable); tree-shaped sparse pre-state (target path, one neighbour word per path table, garbage in allocatable frames); page-table indices (511,510,1,0)"
+    //@ obligation C09 C09.map_to_2mib.shape_p3_huge.allocator_requests tier=thorough bounded="pool of 7 tables (4 path + 3 allocatable); tree-shaped sparse pre-state (target path, one neighbour word per path table, garbage in allocatable frames); page-table indices (511,510,1,0)"
+    //@ obligation C09 C09.map_to_2mib.shape_p3_huge.new_tables_zeroed_before_use tier=thorough bounded="pool of 7 tables (4 path + 3 allocatable); tree-shaped sparse pre-state (target path, one neighbour word per path table, garbage in allocatable frames); page-table indices (511,510,1,0)"
+    //@ obligation C09 C09.map_to_2mib.shape_p3_huge.no_dangling_table_pointer tier=thorough bounded="pool of 7 tables (4 path + 3 allocatable); tree-shaped sparse pre-state (target path, one neighbour word per path table, garbage in allocatable frames); page-table indices (511,510,1,0)"
+    //@ obligation C09 C09.map_to_2mib.shape_p3_huge.no_access_outside_page_tables tier=thorough bounded="pool of 7 tables (4 path + 3 allocatable); tree-shaped sparse pre-state (target path, one neighbour word per path table, garbage in allocatable frames); page-table indices (511,510,1,0)"
     #[kani::proof]
     #[kani::stub(PageTable::zero, zero_stub)]
     fn c01_map_to_2mib_p3_huge_hi() {
@@ -995,15 +1046,16 @@ mod verif_c01_step_map {
         kani::cover!(true, "c01_map_to_2mib_p3_huge_hi: reachable");
     }
 
-    //@ obligation C02 C02.map_to_2mib.shape_p3_huge.error_leaves_every_mapping tier=thorough bounded="pool of 7 tables (4 path + 3 allocatable); tree-shaped sparse pre-state (target path, one neighbour word per path table, garbage in allocatable frames); page-table indices (255,511,0,1)"
-    //@ obligation C02 C02.map_to_2mib.shape_p3_huge.error_adds_at_most_parent_flags tier=thorough bounded="pool of 7 tables (4 path + 3 allocatable); tree-shaped sparse pre-state (target path, one neighbour word per path table, garbage in allocatable frames); page-table indices (255,511,0,1)"
-    //@ obligation C02 C02.map_to_2mib.shape_p3_huge.huge_leaf_unchanged_on_error tier=thorough bounded="pool of 7 tables (4 path + 3 allocatable); tree-shaped sparse pre-state (target path, one neighbour word per path table, garbage in allocatable frames); page-table indices (255,511,0,1)"
-    //@ obligation C02 C02.map_to_2mib.shape_p3_huge.documented_outcome tier=thorough bounded="pool of 7 tables (4 path + 3 allocatable); tree-shaped sparse pre-state (target path, one neighbour word per path table, garbage in allocatable frames); page-table indices (255,511,0,1)"
-    //@ obligation C01 C01.map_to_2mib.shape_p3_huge.translate_agrees_after tier=thorough bounded="pool of 7 tables (4 path + 3 allocatable); tree-shaped sparse pre-state (target path, one neighbour word per path table, garbage in allocatable frames); page-table indices (255,511,0,1)"
-    //@ obligation C09 C09.map_to_2mib.shape_p3_huge.only_dictated_slots_change tier=thorough bounded="pool of 7 tables (4 path + 3 allocatable); tree-shaped sparse pre-state (target path, one neighbour word per path table, garbage in allocatable frames); page-table indices (255,511,0,1)"
-    //@ obligation C09 C09.map_to_2mib.shape_p3_huge.allocator_requests tier=thorough bounded="pool of 7 tables (4 path + 3 allocatable); tree-shaped sparse pre-state (target path, one neighbour word per path table, garbage in allocatable frames); page-table indices (255,511,0,1)"
-    //@ obligation C09 C09.map_to_2mib.shape_p3_huge.new_tables_zeroed_before_use tier=thorough bounded="pool of 7 tables (4 path + 3 allocatable); tree-shaped sparse pre-state (target path, one neighbour word per path table, garbage in allocatable frames); page-table indices (255,511,0,1)"
-    //@ obligation C09 C09.map_to_2mib.shape_p3_huge.no_dangling_table_pointer tier=thorough bounded="pool of 7 tables (4 path + 3 allocatable); tree-shaped sparse pre-state (target path, one neighbour word per path table, garbage in allocatable frames); page-table indices (255,511,0,1)"
+    //@ obligation C02 C02.map_to_2mib.shape_p3_huge.error_leaves_every_mapping tier=thorough bounded="pool of 7 tables (4 path + 3 allocatable); tree-shaped sparse pre-state (target path, one neighbour word per path table, garbage in allocatable frames); page-table indices (255,511,0,256)"
+    //@ obligation C02 C02.map_to_2mib.shape_p3_huge.error_adds_at_most_parent_flags tier=thorough bounded="pool of 7 tables (4 path + 3 allocatable); tree-shaped sparse pre-state (target path, one neighbour word per path table, garbage in allocatable frames); page-table indices (255,511,0,256)"
+    //@ obligation C02 C02.map_to_2mib.shape_p3_huge.huge_leaf_unchanged_on_error tier=thorough bounded="pool of 7 tables (4 path + 3 allocatable); tree-shaped sparse pre-state (target path, one neighbour word per path table, garbage in allocatable frames); page-table indices (255,511,0,256)"
+    //@ obligation C02 C02.map_to_2mib.shape_p3_huge.documented_outcome tier=thorough bounded="pool of 7 tables (4 path + 3 allocatable); tree-shaped sparse pre-state (target path, one neighbour word per path table, garbage in allocatable frames); page-table indices (255,511,0,256)"
+    //@ obligation C01 C01.map_to_2mib.shape_p3_huge.translate_agrees_after tier=thorough bounded="pool of 7 tables (4 path + 3 allocatable); tree-shaped sparse pre-state (target path, one neighbour word per path table, garbage in allocatable frames); page-table indices (255,511,0,256)"
+    //@ obligation C09 C09.map_to_2mib.shape_p3_huge.only_dictated_slots_change tier=thorough bounded="pool of 7 tables (4 path + 3 allocatable); tree-shaped sparse pre-state (target path, one neighbour word per path table, garbage in allocatable frames); page-table indices (255,511,0,256)"
+    //@ obligation C09 C09.map_to_2mib.shape_p3_huge.allocator_requests tier=thorough bounded="pool of 7 tables (4 path + 3 allocatable); tree-shaped sparse pre-state (target path, one neighbour word per path table, garbage in allocatable frames); page-table indices (255,511,0,256)"
+    //@ obligation C09 C09.map_to_2mib.shape_p3_huge.new_tables_zeroed_before_use tier=thorough bounded="pool of 7 tables (4 path + 3 allocatable); tree-shaped sparse pre-state (target path, one neighbour word per path table, garbage in allocatable frames); page-table indices (255,511,0,256)"
+    //@ obligation C09 C09.map_to_2mib.shape_p3_huge.no_dangling_table_pointer tier=thorough bounded="pool of 7 tables (4 path + 3 allocatable); tree-shaped sparse pre-state (target path, one neighbour word per path table, garbage in allocatable frames); page-table indices (255,511,0,256)"
+    //@ obligation C09 C09.map_to_2mib.shape_p3_huge.no_access_outside_page_tables tier=thorough bounded="pool of 7 tables (4 path + 3 allocatable); tree-shaped sparse pre-state (target path, one neighbour word per path table, garbage in allocatable frames); page-table indices (255,511,0,256)"
     #[kani::proof]
     #[kani::stub(PageTable::zero, zero_stub)]
     fn c01_map_to_2mib_p3_huge_mid() {
@@ -1011,15 +1063,16 @@ mod verif_c01_step_map {
         kani::cover!(true, "c01_map_to_2mib_p3_huge_mid: reachable");
     }
 
-    //@ obligation C02 C02.map_to_2mib.shape_p3_huge.error_leaves_every_mapping tier=thorough bounded="pool of 7 tables (4 path + 3 allocatable); tree-shaped sparse pre-state (target path, one neighbour word per path table, garbage in allocatable frames); page-table indices (256,1,510,255)"
-    //@ obligation C02 C02.map_to_2mib.shape_p3_huge.error_adds_at_most_parent_flags tier=thorough bounded="pool of 7 tables (4 path + 3 allocatable); tree-shaped sparse pre-state (target path, one neighbour word per path table, garbage in allocatable frames); page-table indices (256,1,510,255)"
-    //@ obligation C02 C02.map_to_2mib.shape_p3_huge.huge_leaf_unchanged_on_error tier=thorough bounded="pool of 7 tables (4 path + 3 allocatable); tree-shaped sparse pre-state (target path, one neighbour word per path table, garbage in allocatable frames); page-table indices (256,1,510,255)"
-    //@ obligation C02 C02.map_to_2mib.shape_p3_huge.documented_outcome tier=thorough bounded="pool of 7 tables (4 path + 3 allocatable); tree-shaped sparse pre-state (target path, one neighbour word per path table, garbage in allocatable frames); page-table indices (256,1,510,255)"
-    //@ obligation C01 C01.map_to_2mib.shape_p3_huge.translate_agrees_after tier=thorough bounded="pool of 7 tables (4 path + 3 allocatable); tree-shaped sparse pre-state (target path, one neighbour word per path table, garbage in allocatable frames); page-table indices (256,1,510,255)"
-    //@ obligation C09 C09.map_to_2mib.shape_p3_huge.only_dictated_slots_change tier=thorough bounded="pool of 7 tables (4 path + 3 allocatable); tree-shaped sparse pre-state (target path, one neighbour word per path table, garbage in allocatable frames); page-table indices (256,1,510,255)"
-    //@ obligation C09 C09.map_to_2mib.shape_p3_huge.allocator_requests tier=thorough bounded="pool of 7 tables (4 path + 3 allocatable); tree-shaped sparse pre-state (target path, one neighbour word per path table, garbage in allocatable frames); page-table indices (256,1,510,255)"
-    //@ obligation C09 C09.map_to_2mib.shape_p3_huge.new_tables_zeroed_before_use tier=thorough bounded="pool of 7 tables (4 path + 3 allocatable); tree-shaped sparse pre-state (target path, one neighbour word per path table, garbage in allocatable frames); page-table indices (256,1,510,255)"
-    //@ obligation C09 C09.map_to_2mib.shape_p3_huge.no_dangling_table_pointer tier=thorough bounded="pool of 7 tables (4 path + 3 allocatable); tree-shaped sparse pre-state (target path, one neighbour word per path table, garbage in allocatable frames); page-table indices (256,1,510,255)"
+    //@ obligation C02 C02.map_to_2mib.shape_p3_huge.error_leaves_every_mapping tier=thorough bounded="pool of 7 tables (4 path + 3 allocatable); tree-shaped sparse pre-state (target path, one neighbour word per path table, garbage in allocatable frames); page-table indices (256,0,510,511)"
+    //@ obligation C02 C02.map_to_2mib.shape_p3_huge.error_adds_at_most_parent_flags tier=thorough bounded="pool of 7 tables (4 path + 3 allocatable); tree-shaped sparse pre-state (target path, one neighbour word per path table, garbage in allocatable frames); page-table indices (256,0,510,511)"
+    //@ obligation C02 C02.map_to_2mib.shape_p3_huge.huge_leaf_unchanged_on_error tier=thorough bounded="pool of 7 tables (4 path + 3 allocatable); tree-shaped sparse pre-state (target path, one neighbour word per path table, garbage in allocatable frames); page-table indices (256,0,510,511)"
+    //@ obligation C02 C02.map_to_2mib.shape_p3_huge.documented_outcome tier=thorough bounded="pool of 7 tables (4 path + 3 allocatable); tree-shaped sparse pre-state (target path, one neighbour word per path table, garbage in allocatable frames); page-table indices (256,0,510,511)"
+    //@ obligation C01 C01.map_to_2mib.shape_p3_huge.translate_agrees_after tier=thorough bounded="pool of 7 tables (4 path + 3 allocatable); tree-shaped sparse pre-state (target path, one neighbour word per path table, garbage in allocatable frames); page-table indices (256,0,510,511)"
+    //@ obligation C09 C09.map_to_2mib.shape_p3_huge.only_dictated_slots_change tier=thorough bounded="pool of 7 tables (4 path + 3 allocatable); tree-shaped sparse pre-state (target path, one neighbour word per path table, garbage in allocatable frames); page-table indices (256,0,510,511)"
+    //@ obligation C09 C09.map_to_2mib.shape_p3_huge.allocator_requests tier=thorough bounded="pool of 7 tables (4 path + 3 allocatable); tree-shaped sparse pre-state (target path, one neighbour word per path table, garbage in allocatable frames); page-table indices (256,0,510,511)"
+    //@ obligation C09 C09.map_to_2mib.shape_p3_huge.new_tables_zeroed_before_use tier=thorough bounded="pool of 7 tables (4 path + 3 allocatable); tree-shaped sparse pre-state (target path, one neighbour word per path table, garbage in allocatable frames); page-table indices (256,0,510,511)"
+    //@ obligation C09 C09.map_to_2mib.shape_p3_huge.no_dangling_table_pointer tier=thorough bounded="pool of 7 tables (4 path + 3 allocatable); tree-shaped sparse pre-state (target path, one neighbour word per path table, garbage in allocatable frames); page-table indices (256,0,510,511)"
+    //@ obligation C09 C09.map_to_2mib.shape_p3_huge.no_access_outside_page_tables tier=thorough bounded="pool of 7 tables (4 path + 3 allocatable); tree-shaped sparse pre-state (target path, one neighbour word per path table, garbage in allocatable frames); page-table indices (256,0,510,511)"
     #[kani::proof]
     #[kani::stub(PageTable::zero, zero_stub)]
     fn c01_map_to_2mib_p3_huge_up() {
@@ -1027,15 +1080,16 @@ mod verif_c01_step_map {
         kani::cover!(true, "c01_map_to_2mib_p3_huge_up: reachable");
     }
 
-    //@ obligation C02 C02.map_to_2mib.shape_p2_huge.error_leaves_every_mapping tier=thorough bounded="pool of 7 tables (4 path + 3 allocatable); tree-shaped sparse pre-state (target path, one neighbour word per path table, garbage in allocatable frames); page-table indices (0,0,0,0)"
-    //@ obligation C02 C02.map_to_2mib.shape_p2_huge.error_adds_at_most_parent_flags tier=thorough bounded="pool of 7 tables (4 path + 3 allocatable); tree-shaped sparse pre-state (target path, one neighbour word per path table, garbage in allocatable frames); page-table indices (0,0,0,0)"
-    //@ obligation C01 C01.map_to_2mib.shape_p2_huge.result_reports_frame tier=thorough bounded="pool of 7 tables (4 path + 3 allocatable); tree-shaped sparse pre-state (target path, one neighbour word per path table, garbage in allocatable frames); page-table indices (0,0,0,0)"
-    //@ obligation C02 C02.map_to_2mib.shape_p2_huge.documented_outcome tier=thorough bounded="pool of 7 tables (4 path + 3 allocatable); tree-shaped sparse pre-state (target path, one neighbour word per path table, garbage in allocatable frames); page-table indices (0,0,0,0)"
-    //@ obligation C01 C01.map_to_2mib.shape_p2_huge.translate_agrees_after tier=thorough bounded="pool of 7 tables (4 path + 3 allocatable); tree-shaped sparse pre-state (target path, one neighbour word per path table, garbage in allocatable frames); page-table indices (0,0,0,0)"
-    //@ obligation C09 C09.map_to_2mib.shape_p2_huge.only_dictated_slots_change tier=thorough bounded="pool of 7 tables (4 path + 3 allocatable); tree-shaped sparse pre-state (target path, one neighbour word per path table, garbage in allocatable frames); page-table indices (0,0,0,0)"
-    //@ obligation C09 C09.map_to_2mib.shape_p2_huge.allocator_requests tier=thorough bounded="pool of 7 tables (4 path + 3 allocatable); tree-shaped sparse pre-state (target path, one neighbour word per path table, garbage in allocatable frames); page-table indices (0,0,0,0)"
-    //@ obligation C09 C09.map_to_2mib.shape_p2_huge.new_tables_zeroed_before_use tier=thorough bounded="pool of 7 tables (4 path + 3 allocatable); tree-shaped sparse pre-state (target path, one neighbour word per path table, garbage in allocatable frames); page-table indices (0,0,0,0)"
-    //@ obligation C09 C09.map_to_2mib.shape_p2_huge.no_dangling_table_pointer tier=thorough bounded="pool of 7 tables (4 path + 3 allocatable); tree-shaped sparse pre-state (target path, one neighbour word per path table, garbage in allocatable frames); page-table indices (0,0,0,0)"
+    //@ obligation C02 C02.map_to_2mib.shape_p2_huge.error_leaves_every_mapping tier=thorough bounded="pool of 7 tables (4 path + 3 allocatable); tree-shaped sparse pre-state (target path, one neighbour word per path table, garbage in allocatable frames); page-table indices (0,1,511,2)"
+    //@ obligation C02 C02.map_to_2mib.shape_p2_huge.error_adds_at_most_parent_flags tier=thorough bounded="pool of 7 tables (4 path + 3 allocatable); tree-shaped sparse pre-state (target path, one neighbour word per path table, garbage in allocatable frames); page-table indices (0,1,511,2)"
+    //@ obligation C01 C01.map_to_2mib.shape_p2_huge.result_reports_frame tier=thorough bounded="pool of 7 tables (4 path + 3 allocatable); tree-shaped sparse pre-state (target path, one neighbour word per path table, garbage in allocatable frames); page-table indices (0,1,511,2)"
+    //@ obligation C02 C02.map_to_2mib.shape_p2_huge.documented_outcome tier=thorough bounded="pool of 7 tables (4 path + 3 allocatable); tree-shaped sparse pre-state (target path, one neighbour word per path table, garbage in allocatable frames); page-table indices (0,1,511,2)"
+    //@ obligation C01 C01.map_to_2mib.shape_p2_huge.translate_agrees_after tier=thorough bounded="pool of 7 tables (4 path + 3 allocatable); tree-shaped sparse pre-state (target path, one neighbour word per path table, garbage in allocatable frames); page-table indices (0,1,511,2)"
+    //@ obligation C09 C09.map_to_2mib.shape_p2_huge.only_dictated_slots_change tier=thorough bounded="pool of 7 tables (4 path + 3 allocatable); tree-shaped sparse pre-state (target path, one neighbour word per path table, garbage in allocatable frames); page-table indices (0,1,511,2)"
+    //@ obligation C09 C09.map_to_2mib.shape_p2_huge.allocator_requests tier=thorough bounded="pool of 7 tables (4 path + 3 allocatable); tree-shaped sparse pre-state (target path, one neighbour word per path table, garbage in allocatable frames); page-table indices (0,1,511,2)"
+    //@ obligation C09 C09.map_to_2mib.shape_p2_huge.new_tables_zeroed_before_use tier=thorough bounded="pool of 7 tables (4 path + 3 allocatable); tree-shaped sparse pre-state (target path, one neighbour word per path table, garbage in allocatable frames); page-table indices (0,1,511,2)"
+    //@ obligation C09 C09.map_to_2mib.shape_p2_huge.no_dangling_table_pointer tier=thorough bounded="pool of 7 tables (4 path + 3 allocatable); tree-shaped sparse pre-state (target path, one neighbour word per path table, garbage in allocatable frames); page-table indices (0,1,511,2)"
+    //@ obligation C09 C09.map_to_2mib.shape_p2_huge.no_access_outside_page_tables tier=thorough bounded="pool of 7 tables (4 path + 3 allocatable); tree-shaped sparse pre-state (target path, one neighbour word per path table, garbage in allocatable frames); page-table indices (0,1,511,2)"
     #[kani::proof]
     #[kani::stub(PageTable::zero, zero_stub)]
     fn c01_map_to_2mib_p2_huge_lo() {
@@ -1043,15 +1097,16 @@ mod verif_c01_step_map {
         kani::cover!(true, "c01_map_to_2mib_p2_huge_lo: reachable");
     }
 
-    //@ obligation C02 C02.map_to_2mib.shape_p2_huge.error_leaves_every_mapping tier=thorough bounded="pool of 7 tables (4 path + 3 allocatable); tree-shaped sparse pre-state (target path, one neighbour word per path table, garbage in allocatable frames); page-table indices (511,511,511,511)"
-    //@ obligation C02 C02.map_to_2mib.shape_p2_huge.error_adds_at_most_parent_flags tier=thorough bounded="pool of 7 tables (4 path + 3 allocatable); tree-shaped sparse pre-state (target path, one neighbour word per path table, garbage in allocatable frames); page-table indices (511,511,511,511)"
-    //@ obligation C01 C01.map_to_2mib.shape_p2_huge.result_reports_frame tier=thorough bounded="pool of 7 tables (4 path + 3 allocatable); tree-shaped sparse pre-state (target path, one neighbour word per path table, garbage in allocatable frames); page-table indices (511,511,511,511)"
-    //@ obligation C02 C02.map_to_2mib.shape_p2_huge.documented_outcome tier=thorough bounded="pool of 7 tables (4 path + 3 allocatable); tree-shaped sparse pre-state (target path, one neighbour word per path table, garbage in allocatable frames); page-table indices (511,511,511,511)"
-    //@ obligation C01 C01.map_to_2mib.shape_p2_huge.translate_agrees_after tier=thorough bounded="pool of 7 tables (4 path + 3 allocatable); tree-shaped sparse pre-state (target path, one neighbour word per path table, garbage in allocatable frames); page-table indices (511,511,511,511)"
-    //@ obligation C09 C09.map_to_2mib.shape_p2_huge.only_dictated_slots_change tier=thorough bounded="pool of 7 tables (4 path + 3 allocatable); tree-shaped sparse pre-state (target path, one neighbour word per path table, garbage in allocatable frames); page-table indices (511,511,511,511)"
-    //@ obligation C09 C09.map_to_2mib.shape_p2_huge.allocator_requests tier=thorough bounded="pool of 7 tables (4 path + 3 allocatable); tree-shaped sparse pre-state (target path, one neighbour word per path table, garbage in allocatable frames); page-table indices (511,511,511,511)"
-    //@ obligation C09 C09.map_to_2mib.shape_p2_huge.new_tables_zeroed_before_use tier=thorough bounded="pool of 7 tables (4 path + 3 allocatable); tree-shaped sparse pre-state (target path, one neighbour word per path table, garbage in allocatable frames); page-table indices (511,511,511,511)"
-    //@ obligation C09 C09.map_to_2mib.shape_p2_huge.no_dangling_table_pointer tier=thorough bounded="pool of 7 tables (4 path + 3 allocatable); tree-shaped sparse pre-state (target path, one neighbour word per path table, garbage in allocatable frames); page-table indices (511,511,511,511)"
+    //@ obligation C02 C02.map_to_2mib.shape_p2_huge.error_leaves_every_mapping tier=thorough bounded="pool of 7 tables (4 path + 3 allocatable); tree-shaped sparse pre-state (target path, one neighbour word per path table, garbage in allocatable frames); page-table indices (511,510,1,0)"
+    //@ obligation C02 C02.map_to_2mib.shape_p2_huge.error_adds_at_most_parent_flags tier=thorough bounded="pool of 7 tables (4 path + 3 allocatable); tree-shaped sparse pre-state (target path, one neighbour word per path table, garbage in allocatable frames); page-table indices (511,510,1,0)"
+    //@ obligation C01 C01.map_to_2mib.shape_p2_huge.result_reports_frame tier=thorough bounded="pool of 7 tables (4 path + 3 allocatable); tree-shaped sparse pre-state (target path, one neighbour word per path table, garbage in allocatable frames); page-table indices (511,510,1,0)"
+    //@ obligation C02 C02.map_to_2mib.shape_p2_huge.documented_outcome tier=thorough bounded="pool of 7 tables (4 path + 3 allocatable); tree-shaped sparse pre-state (target path, one neighbour word per path table, garbage in allocatable frames); page-table indices (511,510,1,0)"
+    //@ obligation C01 C01.map_to_2mib.shape_p2_huge.translate_agrees_after tier=thorough bounded="pool of 7 tables (4 path + 3 allocatable); tree-shaped sparse pre-state (target path, one neighbour word per path table, garbage in allocatable frames); page-table indices (511,510,1,0)"
+    //@ obligation C09 C09.map_to_2mib.shape_p2_huge.only_dictated_slots_change tier=thorough bounded="pool of 7 tables (4 path + 3 allocatable); tree-shaped sparse pre-state (target path, one neighbour word per path table, garbage in allocatable frames); page-table indices (511,510,1,0)"
+    //@ obligation C09 C09.map_to_2mib.shape_p2_huge.allocator_requests tier=thorough bounded="pool of 7 tables (4 path + 3 allocatable); tree-shaped sparse pre-state (target path, one neighbour word per path table, garbage in allocatable frames); page-table indices (511,510,1,0)"
+    //@ obligation C09 C09.map_to_2mib.shape_p2_huge.new_tables_zeroed_before_use tier=thorough bounded="pool of 7 tables (4 path + 3 allocatable); tree-shaped sparse pre-state (target path, one neighbour word per path table, garbage in allocatable frames); page-table indices (511,510,1,0)"
+    //@ obligation C09 C09.map_to_2mib.shape_p2_huge.no_dangling_table_pointer tier=thorough bounded="pool of 7 tables (4 path + 3 allocatable); tree-shaped sparse pre-state (target path, one neighbour word per path table, garbage in allocatable frames); page-table indices (511,510,1,0)"
+    //@ obligation C09 C09.map_to_2mib.shape_p2_huge.no_access_outside_page_tables tier=thorough bounded="pool of 7 tables (4 path + 3 allocatable); tree-shaped sparse pre-state (target path, one neighbour word per path table, garbage in allocatable frames); page-table indices (511,510,1,0)"
     #[kani::proof]
     #[kani::stub(PageTable::zero, zero_stub)]
     fn c01_map_to_2mib_p2_huge_hi() {
@@ -1059,15 +1114,16 @@ mod verif_c01_step_map {
         kani::cover!(true, "c01_map_to_2mib_p2_huge_hi: reachable");
     }
 
-    //@ obligation C02 C02.map_to_2mib.shape_p2_huge.error_leaves_every_mapping tier=thorough bounded="pool of 7 tables (4 path + 3 allocatable); tree-shaped sparse pre-state (target path, one neighbour word per path table, garbage in allocatable frames); page-table indices (255,511,0,1)"
-    //@ obligation C02 C02.map_to_2mib.shape_p2_huge.error_adds_at_most_parent_flags tier=thorough bounded="pool of 7 tables (4 path + 3 allocatable); tree-shaped sparse pre-state (target path, one neighbour word per path table, garbage in allocatable frames); page-table indices (255,511,0,1)"
-    //@ obligation C01 C01.map_to_2mib.shape_p2_huge.result_reports_frame tier=thorough bounded="pool of 7 tables (4 path + 3 allocatable); tree-shaped sparse pre-state (target path, one neighbour word per path table, garbage in allocatable frames); page-table indices (255,511,0,1)"
-    //@ obligation C02 C02.map_to_2mib.shape_p2_huge.documented_outcome tier=thorough bounded="pool of 7 tables (4 path + 3 allocatable); tree-shaped sparse pre-state (target path, one neighbour word per path table, garbage in allocatable frames); page-table indices (255,511,0,1)"
-    //@ obligation C01 C01.map_to_2mib.shape_p2_huge.translate_agrees_after tier=thorough bounded="pool of 7 tables (4 path + 3 allocatable); tree-shaped sparse pre-state (target path, one neighbour word per path table, garbage in allocatable frames); page-table indices (255,511,0,1)"
-    //@ obligation C09 C09.map_to_2mib.shape_p2_huge.only_dictated_slots_change tier=thorough bounded="pool of 7 tables (4 path + 3 allocatable); tree-shaped sparse pre-state (target path, one neighbour word per path table, garbage in allocatable frames); page-table indices (255,511,0,1)"
-    //@ obligation C09 C09.map_to_2mib.shape_p2_huge.allocator_requests tier=thorough bounded="pool of 7 tables (4 path + 3 allocatable); tree-shaped sparse pre-state (target path, one neighbour word per path table, garbage in allocatable frames); page-table indices (255,511,0,1)"
-    //@ obligation C09 C09.map_to_2mib.shape_p2_huge.new_tables_zeroed_before_use tier=thorough bounded="pool of 7 tables (4 path + 3 allocatable); tree-shaped sparse pre-state (target path, one neighbour word per path table, garbage in allocatable frames); page-table indices (255,511,0,1)"
-    //@ obligation C09 C09.map_to_2mib.shape_p2_huge.no_dangling_table_pointer tier=thorough bounded="pool of 7 tables (4 path + 3 allocatable); tree-shaped sparse pre-state (target path, one neighbour word per path table, garbage in allocatable frames); page-table indices (255,511,0,1)"
+    //@ obligation C02 C02.map_to_2mib.shape_p2_huge.error_leaves_every_mapping tier=thorough bounded="pool of 7 tables (4 path + 3 allocatable); tree-shaped sparse pre-state (target path, one neighbour word per path table, garbage in allocatable frames); page-table indices (255,511,0,256)"
+    //@ obligation C02 C02.map_to_2mib.shape_p2_huge.error_adds_at_most_parent_flags tier=thorough bounded="pool of 7 tables (4 path + 3 allocatable); tree-shaped sparse pre-state (target path, one neighbour word per path table, garbage in allocatable frames); page-table indices (255,511,0,256)"
+    //@ obligation C01 C01.map_to_2mib.shape_p2_huge.result_reports_frame tier=thorough bounded="pool of 7 tables (4 path + 3 allocatable); tree-shaped sparse pre-state (target path, one neighbour word per path table, garbage in allocatable frames); page-table indices (255,511,0,256)"
+    //@ obligation C02 C02.map_to_2mib.shape_p2_huge.documented_outcome tier=thorough bounded="pool of 7 tables (4 path + 3 allocatable); tree-shaped sparse pre-state (target path, one neighbour word per path table, garbage in allocatable frames); page-table indices (255,511,0,256)"
+    //@ obligation C01 C01.map_to_2mib.shape_p2_huge.translate_agrees_after tier=thorough bounded="pool of 7 tables (4 path + 3 allocatable); tree-shaped sparse pre-state (target path, one neighbour word per path table, garbage in allocatable frames); page-table indices (255,511,0,256)"
+    //@ obligation C09 C09.map_to_2mib.shape_p2_huge.only_dictated_slots_change tier=thorough bounded="pool of 7 tables (4 path + 3 allocatable); tree-shaped sparse pre-state (target path, one neighbour word per path table, garbage in allocatable frames); page-table indices (255,511,0,256)"
+    //@ obligation C09 C09.map_to_2mib.shape_p2_huge.allocator_requests tier=thorough bounded="pool of 7 tables (4 path + 3 allocatable); tree-shaped sparse pre-state (target path, one neighbour word per path table, garbage in allocatable frames); page-table indices (255,511,0,256)"
+    //@ obligation C09 C09.map_to_2mib.shape_p2_huge.new_tables_zeroed_before_use tier=thorough bounded="pool of 7 tables (4 path + 3 allocatable); tree-shaped sparse pre-state (target path, one neighbour word per path table, garbage in allocatable frames); page-table indices (255,511,0,256)"
+    //@ obligation C09 C09.map_to_2mib.shape_p2_huge.no_dangling_table_pointer tier=thorough bounded="pool of 7 tables (4 path + 3 allocatable); tree-shaped sparse pre-state (target path, one neighbour word per path table, garbage in allocatable frames); page-table indices (255,511,0,256)"
+    //@ obligation C09 C09.map_to_2mib.shape_p2_huge.no_access_outside_page_tables tier=thorough bounded="pool of 7 tables (4 path + 3 allocatable); tree-shaped sparse pre-state (target path, one neighbour word per path table, garbage in allocatable frames); page-table indices (255,511,0,256)"
     #[kani::proof]
     #[kani::stub(PageTable::zero, zero_stub)]
     fn c01_map_to_2mib_p2_huge_mid() {
@@ -1075,15 +1131,16 @@ mod verif_c01_step_map {
         kani::cover!(true, "c01_map_to_2mib_p2_huge_mid: reachable");
     }
 
-    //@ obligation C02 C02.map_to_2mib.shape_p2_huge.error_leaves_every_mapping tier=thorough bounded="pool of 7 tables (4 path + 3 allocatable); tree-shaped sparse pre-state (target path, one neighbour word per path table, garbage in allocatable frames); page-table indices (256,1,510,255)"
-    //@ obligation C02 C02.map_to_2mib.shape_p2_huge.error_adds_at_most_parent_flags tier=thorough bounded="pool of 7 tables (4 path + 3 allocatable); tree-shaped sparse pre-state (target path, one neighbour word per path table, garbage in allocatable frames); page-table indices (256,1,510,255)"
-    //@ obligation C01 C01.map_to_2mib.shape_p2_huge.result_reports_frame tier=thorough bounded="pool of 7 tables (4 path + 3 allocatable); tree-shaped sparse pre-state (target path, one neighbour word per path table, garbage in allocatable frames); page-table indices (256,1,510,255)"
-    //@ obligation C02 C02.map_to_2mib.shape_p2_huge.documented_outcome tier=thorough bounded="pool of 7 tables (4 path + 3 allocatable); tree-shaped sparse pre-state (target path, one neighbour word per path table, garbage in allocatable frames); page-table indices (256,1,510,255)"
-    //@ obligation C01 C01.map_to_2mib.shape_p2_huge.translate_agrees_after tier=thorough bounded="pool of 7 tables (4 path + 3 allocatable); tree-shaped sparse pre-state (target path, one neighbour word per path table, garbage in allocatable frames); page-table indices (256,1,510,255)"
-    //@ obligation C09 C09.map_to_2mib.shape_p2_huge.only_dictated_slots_change tier=thorough bounded="pool of 7 tables (4 path + 3 allocatable); tree-shaped sparse pre-state (target path, one neighbour word per path table, garbage in allocatable frames); page-table indices (256,1,510,255)"
-    //@ obligation C09 C09.map_to_2mib.shape_p2_huge.allocator_requests tier=thorough bounded="pool of 7 tables (4 path + 3 allocatable); tree-shaped sparse pre-state (target path, one neighbour word per path table, garbage in allocatable frames); page-table indices (256,1,510,255)"
-    //@ obligation C09 C09.map_to_2mib.shape_p2_huge.new_tables_zeroed_before_use tier=thorough bounded="pool of 7 tables (4 path + 3 allocatable); tree-shaped sparse pre-state (target path, one neighbour word per path table, garbage in allocatable frames); page-table indices (256,1,510,255)"
-    //@ obligation C09 C09.map_to_2mib.shape_p2_huge.no_dangling_table_pointer tier=thorough bounded="pool of 7 tables (4 path + 3 allocatable); tree-shaped sparse pre-state (target path, one neighbour word per path table, garbage in allocatable frames); page-table indices (256,1,510,255)"
+    //@ obligation C02 C02.map_to_2mib.shape_p2_huge.error_leaves_every_mapping tier=thorough bounded="pool of 7 tables (4 path + 3 allocatable); tree-shaped sparse pre-state (target path, one neighbour word per path table, garbage in allocatable frames); page-table indices (256,0,510,511)"
+    //@ obligation C02 C02.map_to_2mib.shape_p2_huge.error_adds_at_most_parent_flags tier=thorough bounded="pool of 7 tables (4 path + 3 allocatable); tree-shaped sparse pre-state (target path, one neighbour word per path table, garbage in allocatable frames); page-table indices (256,0,510,511)"
+    //@ obligation C01 C01.map_to_2mib.shape_p2_huge.result_reports_frame tier=thorough bounded="pool of 7 tables (4 path + 3 allocatable); tree-shaped sparse pre-state (target path, one neighbour word per path table, garbage in allocatable frames); page-table indices (256,0,510,511)"
+    //@ obligation C02 C02.map_to_2mib.shape_p2_huge.documented_outcome tier=thorough bounded="pool of 7 tables (4 path + 3 allocatable); tree-shaped sparse pre-state (target path, one neighbour word per path table, garbage in allocatable frames); page-table indices (256,0,510,511)"
+    //@ obligation C01 C01.map_to_2mib.shape_p2_huge.translate_agrees_after tier=thorough bounded="pool of 7 tables (4 path + 3 allocatable); tree-shaped sparse pre-state (target path, one neighbour word per path table, garbage in allocatable frames); page-table indices (256,0,510,511)"
+    //@ obligation C09 C09.map_to_2mib.shape_p2_huge.only_dictated_slots_change tier=thorough bounded="pool of 7 tables (4 path + 3 allocatable); tree-shaped sparse pre-state (target path, one neighbour word per path table, garbage in allocatable frames); page-table indices (256,0,510,511)"
+    //@ obligation C09 C09.map_to_2mib.shape_p2_huge.allocator_requests tier=thorough bounded="pool of 7 tables (4 path + 3 allocatable); tree-shaped sparse pre-state (target path, one neighbour word per path table, garbage in allocatable frames); page-table indices (256,0,510,511)"
+    //@ obligation C09 C09.map_to_2mib.shape_p2_huge.new_tables_zeroed_before_use tier=thorough bounded="pool of 7 tables (4 path + 3 allocatable); tree-shaped sparse pre-state (target path, one neighbour word per path table, garbage in allocatable frames); page-table indices (256,0,510,511)"
+    //@ obligation C09 C09.map_to_2mib.shape_p2_huge.no_dangling_table_pointer tier=thorough bounded="pool of 7 tables (4 path + 3 allocatable); tree-shaped sparse pre-state (target path, one neighbour word per path table, garbage in allocatable frames); page-table indices (256,0,510,511)"
+    //@ obligation C09 C09.map_to_2mib.shape_p2_huge.no_access_outside_page_tables tier=thorough bounded="pool of 7 tables (4 path + 3 allocatable); tree-shaped sparse pre-state (target path, one neighbour word per path table, garbage in allocatable frames); page-table indices (256,0,510,511)"
     #[kani::proof]
     #[kani::stub(PageTable::zero, zero_stub)]
     fn c01_map_to_2mib_p2_huge_up() {
@@ -1091,15 +1148,16 @@ mod verif_c01_step_map {
         kani::cover!(true, "c01_map_to_2mib_p2_huge_up: reachable");
     }
 
-    //@ obligation C02 C02.map_to_2mib.shape_p2_table.error_leaves_every_mapping tier=thorough bounded="pool of 7 tables (4 path + 3 allocatable); tree-shaped sparse pre-state (target path, one neighbour word per path table, garbage in allocatable frames); page-table indices (0,0,0,0)"
-    //@ obligation C02 C02.map_to_2mib.shape_p2_table.error_adds_at_most_parent_flags tier=thorough bounded="pool of 7 tables (4 path + 3 allocatable); tree-shaped sparse pre-state (target path, one neighbour word per path table, garbage in allocatable frames); page-table indices (0,0,0,0)"
-    //@ obligation C01 C01.map_to_2mib.shape_p2_table.result_reports_frame tier=thorough bounded="pool of 7 tables (4 path + 3 allocatable); tree-shaped sparse pre-state (target path, one neighbour word per path table, garbage in allocatable frames); page-table indices (0,0,0,0)"
-    //@ obligation C02 C02.map_to_2mib.shape_p2_table.documented_outcome tier=thorough bounded="pool of 7 tables (4 path + 3 allocatable); tree-shaped sparse pre-state (target path, one neighbour word per path table, garbage in allocatable frames); page-table indices (0,0,0,0)"
-    //@ obligation C01 C01.map_to_2mib.shape_p2_table.translate_agrees_after tier=thorough bounded="pool of 7 tables (4 path + 3 allocatable); tree-shaped sparse pre-state (target path, one neighbour word per path table, garbage in allocatable frames); page-table indices (0,0,0,0)"
-    //@ obligation C09 C09.map_to_2mib.shape_p2_table.only_dictated_slots_change tier=thorough bounded="pool of 7 tables (4 path + 3 allocatable); tree-shaped sparse pre-state (target path, one neighbour word per path table, garbage in allocatable frames); page-table indices (0,0,0,0)"
-    //@ obligation C09 C09.map_to_2mib.shape_p2_table.allocator_requests tier=thorough bounded="pool of 7 tables (4 path + 3 allocatable); tree-shaped sparse pre-state (target path, one neighbour word per path table, garbage in allocatable frames); page-table indices (0,0,0,0)"
-    //@ obligation C09 C09.map_to_2mib.shape_p2_table.new_tables_zeroed_before_use tier=thorough bounded="pool of 7 tables (4 path + 3 allocatable); tree-shaped sparse pre-state (target path, one neighbour word per path table, garbage in allocatable frames); page-table indices (0,0,0,0)"
-    //@ obligation C09 C09.map_to_2mib.shape_p2_table.no_dangling_table_pointer tier=thorough bounded="pool of 7 tables (4 path + 3 allocatable); tree-shaped sparse pre-state (target path, one neighbour word per path table, garbage in allocatable frames); page-table indices (0,0,0,0)"
+    //@ obligation C02 C02.map_to_2mib.shape_p2_table.error_leaves_every_mapping tier=thorough bounded="pool of 7 tables (4 path + 3 allocatable); tree-shaped sparse pre-state (target path, one neighbour word per path table, garbage in allocatable frames); page-table indices (0,1,511,2)"
+    //@ obligation C02 C02.map_to_2mib.shape_p2_table.error_adds_at_most_parent_flags tier=thorough bounded="pool of 7 tables (4 path + 3 allocatable); tree-shaped sparse pre-state (target path, one neighbour word per path table, garbage in allocatable frames); page-table indices (0,1,511,2)"
+    //@ obligation C01 C01.map_to_2mib.shape_p2_table.result_reports_frame tier=thorough bounded="pool of 7 tables (4 path + 3 allocatable); tree-shaped sparse pre-state (target path, one neighbour word per path table, garbage in allocatable frames); page-table indices (0,1,511,2)"
+    //@ obligation C02 C02.map_to_2mib.shape_p2_table.documented_outcome tier=thorough bounded="pool of 7 tables (4 path + 3 allocatable); tree-shaped sparse pre-state (target path, one neighbour word per path table, garbage in allocatable frames); page-table indices (0,1,511,2)"
+    //@ obligation C01 C01.map_to_2mib.shape_p2_table.translate_agrees_after tier=thorough bounded="pool of 7 tables (4 path + 3 allocatable); tree-shaped sparse pre-state (target path, one neighbour word per path table, garbage in allocatable frames); page-table indices (0,1,511,2)"
+    //@ obligation C09 C09.map_to_2mib.shape_p2_table.only_dictated_slots_change tier=thorough bounded="pool of 7 tables (4 path + 3 allocatable); tree-shaped sparse pre-state (target path, one neighbour word per path table, garbage in allocatable frames); page-table indices (0,1,511,2)"
+    //@ obligation C09 C09.map_to_2mib.shape_p2_table.allocator_requests tier=thorough bounded="pool of 7 tables (4 path + 3 allocatable); tree-shaped sparse pre-state (target path, one neighbour word per path table, garbage in allocatable frames); page-table indices (0,1,511,2)"
+    //@ obligation C09 C09.map_to_2mib.shape_p2_table.new_tables_zeroed_before_use tier=thorough bounded="pool of 7 tables (4 path + 3 allocatable); tree-shaped sparse pre-state (target path, one neighbour word per path table, garbage in allocatable frames); page-table indices (0,1,511,2)"
+    //@ obligation C09 C09.map_to_2mib.shape_p2_table.no_dangling_table_pointer tier=thorough bounded="pool of 7 tables (4 path + 3 allocatable); tree-shaped sparse pre-state (target path, one neighbour word per path table, garbage in allocatable frames); page-table indices (0,1,511,2)"
+    //@ obligation C09 C09.map_to_2mib.shape_p2_table.no_access_outside_page_tables tier=thorough bounded="pool of 7 tables (4 path + 3 allocatable); tree-shaped sparse pre-state (target path, one neighbour word per path table, garbage in allocatable frames); page-table indices (0,1,511,2)"
     #[kani::proof]
     #[kani::stub(PageTable::zero, zero_stub)]
     fn c01_map_to_2mib_p2_table_lo() {
@@ -1107,15 +1165,16 @@ mod verif_c01_step_map {
         kani::cover!(true, "c01_map_to_2mib_p2_table_lo: reachable");
     }
 
-    //@ obligation C02 C02.map_to_2mib.shape_p2_table.error_leaves_every_mapping tier=thorough bounded="pool of 7 tables (4 path + 3 allocatable); tree-shaped sparse pre-state (target path, one neighbour word per path table, garbage in allocatable frames); page-table indices (511,511,511,511)"
-    //@ obligation C02 C02.map_to_2mib.shape_p2_table.error_adds_at_most_parent_flags tier=thorough bounded="pool of 7 tables (4 path + 3 allocatable); tree-shaped sparse pre-state (target path, one neighbour word per path table, garbage in allocatable frames); page-table indices (511,511,511,511)"
-    //@ obligation C01 C01.map_to_2mib.shape_p2_table.result_reports_frame tier=thorough bounded="pool of 7 tables (4 path + 3 allocatable); tree-shaped sparse pre-state (target path, one neighbour word per path table, garbage in allocatable frames); page-table indices (511,511,511,511)"
-    //@ obligation C02 C02.map_to_2mib.shape_p2_table.documented_outcome tier=thorough bounded="pool of 7 tables (4 path + 3 allocatable); tree-shaped sparse pre-state (target path, one neighbour word per path table, garbage in allocatable frames); page-table indices (511,511,511,511)"
-    //@ obligation C01 C01.map_to_2mib.shape_p2_table.translate_agrees_after tier=thorough bounded="pool of 7 tables (4 path + 3 allocatable); tree-shaped sparse pre-state (target path, one neighbour word per path table, garbage in allocatable frames); page-table indices (511,511,511,511)"
-    //@ obligation C09 C09.map_to_2mib.shape_p2_table.only_dictated_slots_change tier=thorough bounded="pool of 7 tables (4 path + 3 allocatable); tree-shaped sparse pre-state (target path, one neighbour word per path table, garbage in allocatable frames); page-table indices (511,511,511,511)"
-    //@ obligation C09 C09.map_to_2mib.shape_p2_table.allocator_requests tier=thorough bounded="pool of 7 tables (4 path + 3 allocatable); tree-shaped sparse pre-state (target path, one neighbour word per path table, garbage in allocatable frames); page-table indices (511,511,511,511)"
-    //@ obligation C09 C09.map_to_2mib.shape_p2_table.new_tables_zeroed_before_use tier=thorough bounded="pool of 7 tables (4 path + 3 allocatable); tree-shaped sparse pre-state (target path, one neighbour word per path table, garbage in allocatable frames); page-table indices (511,511,511,511)"
-    //@ obligation C09 C09.map_to_2mib.shape_p2_table.no_dangling_table_pointer tier=thorough bounded="pool of 7 tables (4 path + 3 allocatable); tree-shaped sparse pre-state (target path, one neighbour word per path table, garbage in allocatable frames); page-table indices (511,511,511,511)"
+    //@ obligation C02 C02.map_to_2mib.shape_p2_table.error_leaves_every_mapping tier=thorough bounded="pool of 7 tables (4 path + 3 allocatable); tree-shaped sparse pre-state (target path, one neighbour word per path table, garbage in allocatable frames); page-table indices (511,510,1,0)"
+    //@ obligation C02 C02.map_to_2mib.shape_p2_table.error_adds_at_most_parent_flags tier=thorough bounded="pool of 7 tables (4 path + 3 allocatable); tree-shaped sparse pre-state (target path, one neighbour word per path table, garbage in allocatable frames); page-table indices (511,510,1,0)"
+    //@ obligation C01 C01.map_to_2mib.shape_p2_table.result_reports_frame tier=thorough bounded="pool of 7 tables (4 path + 3 allocatable); tree-shaped sparse pre-state (target path, one neighbour word per path table, garbage in allocatable frames); page-table indices (511,510,1,0)"
+    //@ obligation C02 C02.map_to_2mib.shape_p2_table.documented_outcome tier=thorough bounded="pool of 7 tables (4 path + 3 allocatable); tree-shaped sparse pre-state (target path, one neighbour word per path table, garbage in allocatable frames); page-table indices (511,510,1,0)"
+    //@ obligation C01 C01.map_to_2mib.shape_p2_table.translate_agrees_after tier=thorough bounded="pool of 7 tables (4 path + 3 allocatable); tree-shaped sparse pre-state (target path, one neighbour word per path table, garbage in allocatable frames); page-table indices (511,510,1,0)"
+    //@ obligation C09 C09.map_to_2mib.shape_p2_table.only_dictated_slots_change tier=thorough bounded="pool of 7 tables (4 path + 3 allocatable); tree-shaped sparse pre-state (target path, one neighbour word per path table, garbage in allocatable frames); page-table indices (511,510,1,0)"
+    //@ obligation C09 C09.map_to_2mib.shape_p2_table.allocator_requests tier=thorough bounded="pool of 7 tables (4 path + 3 allocatable); tree-shaped sparse pre-state (target path, one neighbour word per path table, garbage in allocatable frames); page-table indices (511,510,1,0)"
+    //@ obligation C09 C09.map_to_2mib.shape_p2_table.new_tables_zeroed_before_use tier=thorough bounded="pool of 7 tables (4 path + 3 allocatable); tree-shaped sparse pre-state (target path, one neighbour word per path table, garbage in allocatable frames); page-table indices (511,510,1,0)"
+    //@ obligation C09 C09.map_to_2mib.shape_p2_table.no_dangling_table_pointer tier=thorough bounded="pool of 7 tables (4 path + 3 allocatable); tree-shaped sparse pre-state (target path, one neighbour word per path table, garbage in allocatable frames); page-table indices (511,510,1,0)"
+    //@ obligation C09 C09.map_to_2mib.shape_p2_table.no_access_outside_page_tables tier=thorough bounded="pool of 7 tables (4 path + 3 allocatable); tree-shaped sparse pre-state (target path, one neighbour word per path table, garbage in allocatable frames); page-table indices (511,510,1,0)"
     #[kani::proof]
     #[kani::stub(PageTable::zero, zero_stub)]
     fn c01_map_to_2mib_p2_table_hi() {
@@ -1123,15 +1182,16 @@ mod verif_c01_step_map {
         kani::cover!(true, "c01_map_to_2mib_p2_table_hi: reachable");
     }
 
-    //@ obligation C02 C02.map_to_2mib.shape_p2_table.error_leaves_every_mapping bounded="pool of 7 tables (4 path + 3 allocatable); tree-shaped sparse pre-state (target path, one neighbour word per path table, garbage in allocatable frames); page-table indices (255,511,0,1)"
-    //@ obligation C02 C02.map_to_2mib.shape_p2_table.error_adds_at_most_parent_flags bounded="pool of 7 tables (4 path + 3 allocatable); tree-shaped sparse pre-state (target path, one neighbour word per path table, garbage in allocatable frames); page-table indices (255,511,0,1)"
-    //@ obligation C01 C01.map_to_2mib.shape_p2_table.result_reports_frame bounded="pool of 7 tables (4 path + 3 allocatable); tree-shaped sparse pre-state (target path, one neighbour word per path table, garbage in allocatable frames); page-table indices (255,511,0,1)"
-    //@ obligation C02 C02.map_to_2mib.shape_p2_table.documented_outcome bounded="pool of 7 tables (4 path + 3 allocatable); tree-shaped sparse pre-state (target path, one neighbour word per path table, garbage in allocatable frames); page-table indices (255,511,0,1)"
-    //@ obligation C01 C01.map_to_2mib.shape_p2_table.translate_agrees_after bounded="pool of 7 tables (4 path + 3 allocatable); tree-shaped sparse pre-state (target path, one neighbour word per path table, garbage in allocatable frames); page-table indices (255,511,0,1)"
-    //@ obligation C09 C09.map_to_2mib.shape_p2_table.only_dictated_slots_change bounded="pool of 7 tables (4 path + 3 allocatable); tree-shaped sparse pre-state (target path, one neighbour word per path table, garbage in allocatable frames); page-table indices (255,511,0,1)"
-    //@ obligation C09 C09.map_to_2mib.shape_p2_table.allocator_requests bounded="pool of 7 tables (4 path + 3 allocatable); tree-shaped sparse pre-state (target path, one neighbour word per path table, garbage in allocatable frames); page-table indices (255,511,0,1)"
-    //@ obligation C09 C09.map_to_2mib.shape_p2_table.new_tables_zeroed_before_use bounded="pool of 7 tables (4 path + 3 allocatable); tree-shaped sparse pre-state (target path, one neighbour word per path table, garbage in allocatable frames); page-table indices (255,511,0,1)"
-    //@ obligation C09 C09.map_to_2mib.shape_p2_table.no_dangling_table_pointer bounded="pool of 7 tables (4 path + 3 allocatable); tree-shaped sparse pre-state (target path, one neighbour word per path table, garbage in allocatable frames); page-table indices (255,511,0,1)"
+    //@ obligation C02 C02.map_to_2mib.shape_p2_table.error_leaves_every_mapping bounded="pool of 7 tables (4 path + 3 allocatable); tree-shaped sparse pre-state (target path, one neighbour word per path table, garbage in allocatable frames); page-table indices (255,511,0,256)"
+    //@ obligation C02 C02.map_to_2mib.shape_p2_table.error_adds_at_most_parent_flags bounded="pool of 7 tables (4 path + 3 allocatable); tree-shaped sparse pre-state (target path, one neighbour word per path table, garbage in allocatable frames); page-table indices (255,511,0,256)"
+    //@ obligation C01 C01.map_to_2mib.shape_p2_table.result_reports_frame bounded="pool of 7 tables (4 path + 3 allocatable); tree-shaped sparse pre-state (target path, one neighbour word per path table, garbage in allocatable frames); page-table indices (255,511,0,256)"
+    //@ obligation C02 C02.map_to_2mib.shape_p2_table.documented_outcome bounded="pool of 7 tables (4 path + 3 allocatable); tree-shaped sparse pre-state (target path, one neighbour word per path table, garbage in allocatable frames); page-table indices (255,511,0,256)"
+    //@ obligation C01 C01.map_to_2mib.shape_p2_table.translate_agrees_after bounded="pool of 7 tables (4 path + 3 allocatable); tree-shaped sparse pre-state (target path, one neighbour word per path table, garbage in allocatable frames); page-table indices (255,511,0,256)"
+    //@ obligation C09 C09.map_to_2mib.shape_p2_table.only_dictated_slots_change bounded="pool of 7 tables (4 path + 3 allocatable); tree-shaped sparse pre-state (target path, one neighbour word per path table, garbage in allocatable frames); page-table indices (255,511,0,256)"
+    //@ obligation C09 C09.map_to_2mib.shape_p2_table.allocator_requests bounded="pool of 7 tables (4 path + 3 allocatable); tree-shaped sparse pre-state (target path, one neighbour word per path table, garbage in allocatable frames); page-table indices (255,511,0,256)"
+    //@ obligation C09 C09.map_to_2mib.shape_p2_table.new_tables_zeroed_before_use bounded="pool of 7 tables (4 path + 3 allocatable); tree-shaped sparse pre-state (target path, one neighbour word per path table, garbage in allocatable frames); page-table indices (255,511,0,256)"
+    //@ obligation C09 C09.map_to_2mib.shape_p2_table.no_dangling_table_pointer bounded="pool of 7 tables (4 path + 3 allocatable); tree-shaped sparse pre-state (target path, one neighbour word per path table, garbage in allocatable frames); page-table indices (255,511,0,256)"
+    //@ obligation C09 C09.map_to_2mib.shape_p2_table.no_access_outside_page_tables bounded="pool of 7 tables (4 path + 3 allocatable); tree-shaped sparse pre-state (target path, one neighbour word per path table, garbage in allocatable frames); page-table indices (255,511,0,256)"
     #[kani::proof]
     #[kani::stub(PageTable::zero, zero_stub)]
     fn c01_map_to_2mib_p2_table_mid() {
@@ -1139,15 +1199,16 @@ mod verif_c01_step_map {
         kani::cover!(true, "c01_map_to_2mib_p2_table_mid: reachable");
     }
 
-    //@ obligation C02 C02.map_to_2mib.shape_p2_table.error_leaves_every_mapping tier=thorough bounded="pool of 7 tables (4 path + 3 allocatable); tree-shaped sparse pre-state (target path, one neighbour word per path table, garbage in allocatable frames); page-table indices (256,1,510,255)"
-    //@ obligation C02 C02.map_to_2mib.shape_p2_table.error_adds_at_most_parent_flags tier=thorough bounded="pool of 7 tables (4 path + 3 allocatable); tree-shaped sparse pre-state (target path, one neighbour word per path table, garbage in allocatable frames); page-table indices (256,1,510,255)"
-    //@ obligation C01 C01.map_to_2mib.shape_p2_table.result_reports_frame tier=thorough bounded="pool of 7 tables (4 path + 3 allocatable); tree-shaped sparse pre-state (target path, one neighbour word per path table, garbage in allocatable frames); page-table indices (256,1,510,255)"
-    //@ obligation C02 C02.map_to_2mib.shape_p2_table.documented_outcome tier=thorough bounded="pool of 7 tables (4 path + 3 allocatable); tree-shaped sparse pre-state (target path, one neighbour word per path table, garbage in allocatable frames); page-table indices (256,1,510,255)"
-    //@ obligation C01 C01.map_to_2mib.shape_p2_table.translate_agrees_after tier=thorough bounded="pool of 7 tables (4 path + 3 allocatable); tree-shaped sparse pre-state (target path, one neighbour word per path table, garbage in allocatable frames); page-table indices (256,1,510,255)"
-    //@ obligation C09 C09.map_to_2mib.shape_p2_table.only_dictated_slots_change tier=thorough bounded="pool of 7 tables (4 path + 3 allocatable); tree-shaped sparse pre-state (target path, one neighbour word per path table, garbage in allocatable frames); page-table indices (256,1,510,255)"
-    //@ obligation C09 C09.map_to_2mib.shape_p2_table.allocator_requests tier=thorough bounded="pool of 7 tables (4 path + 3 allocatable); tree-shaped sparse pre-state (target path, one neighbour word per path table, garbage in allocatable frames); page-table indices (256,1,510,255)"
-    //@ obligation C09 C09.map_to_2mib.shape_p2_table.new_tables_zeroed_before_use tier=thorough bounded="pool of 7 tables (4 path + 3 allocatable); tree-shaped sparse pre-state (target path, one neighbour word per path table, garbage in allocatable frames); page-table indices (256,1,510,255)"
-    //@ obligation C09 C09.map_to_2mib.shape_p2_table.no_dangling_table_pointer tier=thorough bounded="pool of 7 tables (4 path + 3 allocatable); tree-shaped sparse pre-state (target path, one neighbour word per path table, garbage in allocatable frames); page-table indices (256,1,510,255)"
+    //@ obligation C02 C02.map_to_2mib.shape_p2_table.error_leaves_every_mapping tier=thorough bounded="pool of 7 tables (4 path + 3 allocatable); tree-shaped sparse pre-state (target path, one neighbour word per path table, garbage in allocatable frames); page-table indices (256,0,510,511)"
+    //@ obligation C02 C02.map_to_2mib.shape_p2_table.error_adds_at_most_parent_flags tier=thorough bounded="pool of 7 tables (4 path + 3 allocatable); tree-shaped sparse pre-state (target path, one neighbour word per path table, garbage in allocatable frames); page-table indices (256,0,510,511)"
+    //@ obligation C01 C01.map_to_2mib.shape_p2_table.result_reports_frame tier=thorough bounded="pool of 7 tables (4 path + 3 allocatable); tree-shaped sparse pre-state (target path, one neighbour word per path table, garbage in allocatable frames); page-table indices (256,0,510,511)"
+    //@ obligation C02 C02.map_to_2mib.shape_p2_table.documented_outcome tier=thorough bounded="pool of 7 tables (4 path + 3 allocatable); tree-shaped sparse pre-state (target path, one neighbour word per path table, garbage in allocatable frames); page-table indices (256,0,510,511)"
+    //@ obligation C01 C01.map_to_2mib.shape_p2_table.translate_agrees_after tier=thorough bounded="pool of 7 tables (4 path + 3 allocatable); tree-shaped sparse pre-state (target path, one neighbour word per path table, garbage in allocatable frames); page-table indices (256,0,510,511)"
+    //@ obligation C09 C09.map_to_2mib.shape_p2_table.only_dictated_slots_change tier=thorough bounded="pool of 7 tables (4 path + 3 allocatable); tree-shaped sparse pre-state (target path, one neighbour word per path table, garbage in allocatable frames); page-table indices (256,0,510,511)"
+    //@ obligation C09 C09.map_to_2mib.shape_p2_table.allocator_requests tier=thorough bounded="pool of 7 tables (4 path + 3 allocatable); tree-shaped sparse pre-state (target path, one neighbour word per path table, garbage in allocatable frames); page-table indices (256,0,510,511)"
+    //@ obligation C09 C09.map_to_2mib.shape_p2_table.new_tables_zeroed_before_use tier=thorough bounded="pool of 7 tables (4 path + 3 allocatable); tree-shaped sparse pre-state (target path, one neighbour word per path table, garbage in allocatable frames); page-table indices (256,0,510,511)"
+    //@ obligation C09 C09.map_to_2mib.shape_p2_table.no_dangling_table_pointer tier=thorough bounded="pool of 7 tables (4 path + 3 allocatable); tree-shaped sparse pre-state (target path, one neighbour word per path table, garbage in allocatable frames); page-table indices (256,0,510,511)"
+    //@ obligation C09 C09.map_to_2mib.shape_p2_table.no_access_outside_page_tables tier=thorough bounded="pool of 7 tables (4 path + 3 allocatable); tree-shaped sparse pre-state (target path, one neighbour word per path table, garbage in allocatable frames); page-table indices (256,0,510,511)"
     #[kani::proof]
     #[kani::stub(PageTable::zero, zero_stub)]
     fn c01_map_to_2mib_p2_table_up() {
@@ -1155,19 +1216,21 @@ mod verif_c01_step_map {
         kani::cover!(true, "c01_map_to_2mib_p2_table_up: reachable");
     }
 
-    //@ obligation C01 C01.map_to_1gib.shape_p4_absent.target_translates_to_frame tier=thorough bounded="pool of 7 tables (4 path + 3 allocatable); tree-shaped sparse pre-state (target path, one neighbour word per path table, garbage in allocatable frames); page-table indices (0,0,0,0)"
-    //@ obligation C01 C01.map_to_1gib.shape_p4_absent.target_leaf_flags tier=thorough bounded="pool of 7 tables (4 path + 3 allocatable); tree-shaped sparse pre-state (target path, one neighbour word per path table, garbage in allocatable frames); page-table indices (0,0,0,0)"
-    //@ obligation C01 C01.map_to_1gib.shape_p4_absent.parent_rights_include_requested tier=thorough bounded="pool of 7 tables (4 path + 3 allocatable); tree-shaped sparse pre-state (target path, one neighbour word per path table, garbage in allocatable frames); page-table indices (0,0,0,0)"
-    //@ obligation C01 C01.map_to_1gib.shape_p4_absent.other_addresses_unchanged tier=thorough bounded="pool of 7 tables (4 path + 3 allocatable); tree-shaped sparse pre-state (target path, one neighbour word per path table, garbage in allocatable frames); page-table indices (0,0,0,0)"
-    //@ obligation C11 C11.map_to_1gib.shape_p4_absent.token_names_page tier=thorough bounded="pool of 7 tables (4 path + 3 allocatable); tree-shaped sparse pre-state (target path, one neighbour word per path table, garbage in allocatable frames); page-table indices (0,0,0,0)"
-    //@ obligation C02 C02.map_to_1gib.shape_p4_absent.error_leaves_every_mapping tier=thorough bounded="pool of 7 tables (4 path + 3 allocatable); tree-shaped sparse pre-state (target path, one neighbour word per path table, garbage in allocatable frames); page-table indices (0,0,0,0)"
-    //@ obligation C02 C02.map_to_1gib.shape_p4_absent.error_adds_at_most_parent_flags tier=thorough bounded="pool of 7 tables (4 path + 3 allocatable); tree-shaped sparse pre-state (target path, one neighbour word per path table, garbage in allocatable frames); page-table indices (0,0,0,0)"
-    //@ obligation C02 C02.map_to_1gib.shape_p4_absent.documented_outcome tier=thorough bounded="pool of 7 tables (4 path + 3 allocatable); tree-shaped sparse pre-state (target path, one neighbour word per path table, garbage in allocatable frames); page-table indices (0,0,0,0)"
-    //@ obligation C01 C01.map_to_1gib.shape_p4_absent.translate_agrees_after tier=thorough bounded="pool of 7 tables (4 path + 3 allocatable); tree-shaped sparse pre-state (target path, one neighbour word per path table, garbage in allocatable frames); page-table indices (0,0,0,0)"
-    //@ obligation C09 C09.map_to_1gib.shape_p4_absent.only_dictated_slots_change tier=thorough bounded="pool of 7 tables (4 path + 3 allocatable); tree-shaped sparse pre-state (target path, one neighbour word per path table, garbage in allocatable frames); page-table indices (0,0,0,0)"
-    //@ obligation C09 C09.map_to_1gib.shape_p4_absent.allocator_requests tier=thorough bounded="pool of 7 tables (4 path + 3 allocatable); tree-shaped sparse pre-state (target path, one neighbour word per path table, garbage in allocatable frames); page-table indices (0,0,0,0)"
-    //@ obligation C09 C09.map_to_1gib.shape_p4_absent.new_tables_zeroed_before_use tier=thorough bounded="pool of 7 tables (4 path + 3 allocatable); tree-shaped sparse pre-state (target path, one neighbour word per path table, garbage in allocatable frames); page-table indices (0,0,0,0)"
-    //@ obligation C09 C09.map_to_1gib.shape_p4_absent.no_dangling_table_pointer tier=thorough bounded="pool of 7 tables (4 path + 3 allocatable); tree-shaped sparse pre-state (target path, one neighbour word per path table, garbage in allocatable frames); page-table indices (0,0,0,0)"
+    //@ obligation C01 C01.map_to_1gib.shape_p4_absent.target_translates_to_frame tier=thorough bounded="pool of 7 tables (4 path + 3 allocatable); tree-shaped sparse pre-state (target path, one neighbour word per path table, garbage in allocatable frames); page-table indices (0,1,511,2)"
+    //@ obligation C01 C01.map_to_1gib.shape_p4_absent.target_leaf_flags tier=thorough bounded="pool of 7 tables (4 path + 3 allocatable); tree-shaped sparse pre-state (target path, one neighbour word per path table, garbage in allocatable frames); page-table indices (0,1,511,2)"
+    //@ obligation C01 C01.map_to_1gib.shape_p4_absent.parent_rights_include_requested tier=thorough bounded="pool of 7 tables (4 path + 3 allocatable); tree-shaped sparse pre-state (target path, one neighbour word per path table, garbage in allocatable frames); page-table indices (0,1,511,2)"
+    //@ obligation C01 C01.map_to_1gib.shape_p4_absent.other_addresses_unchanged tier=thorough bounded="pool of 7 tables (4 path + 3 allocatable); tree-shaped sparse pre-state (target path, one neighbour word per path table, garbage in allocatable frames); page-table indices (0,1,511,2)"
+    //@ obligation C01 C01.map_to_1gib.shape_p4_absent.result_reports_page tier=thorough bounded="pool of 7 tables (4 path + 3 allocatable); tree-shaped sparse pre-state (target path, one neighbour word per path table, garbage in allocatable frames); page-table indices (0,1,511,2)"
+    //@ obligation C11 C11.map_to_1gib.shape_p4_absent.token_names_page tier=thorough bounded="pool of 7 tables (4 path + 3 allocatable); tree-shaped sparse pre-state (target path, one neighbour word per path table, garbage in allocatable frames); page-table indices (0,1,511,2)"
+    //@ obligation C02 C02.map_to_1gib.shape_p4_absent.error_leaves_every_mapping tier=thorough bounded="pool of 7 tables (4 path + 3 allocatable); tree-shaped sparse pre-state (target path, one neighbour word per path table, garbage in allocatable frames); page-table indices (0,1,511,2)"
+    //@ obligation C02 C02.map_to_1gib.shape_p4_absent.error_adds_at_most_parent_flags tier=thorough bounded="pool of 7 tables (4 path + 3 allocatable); tree-shaped sparse pre-state (target path, one neighbour word per path table, garbage in allocatable frames); page-table indices (0,1,511,2)"
+    //@ obligation C02 C02.map_to_1gib.shape_p4_absent.documented_outcome tier=thorough bounded="pool of 7 tables (4 path + 3 allocatable); tree-shaped sparse pre-state (target path, one neighbour word per path table, garbage in allocatable frames); page-table indices (0,1,511,2)"
+    //@ obligation C01 C01.map_to_1gib.shape_p4_absent.translate_agrees_after tier=thorough bounded="pool of 7 tables (4 path + 3 allocatable); tree-shaped sparse pre-state (target path, one neighbour word per path table, garbage in allocatable frames); page-table indices (0,1,511,2)"
+    //@ obligation C09 C09.map_to_1gib.shape_p4_absent.only_dictated_slots_change tier=thorough bounded="pool of 7 tables (4 path + 3 allocatable); tree-shaped sparse pre-state (target path, one neighbour word per path table, garbage in allocatable frames); page-table indices (0,1,511,2)"
+    //@ obligation C09 C09.map_to_1gib.shape_p4_absent.allocator_requests tier=thorough bounded="pool of 7 tables (4 path + 3 allocatable); tree-shaped sparse pre-state (target path, one neighbour word per path table, garbage in allocatable frames); page-table indices (0,1,511,2)"
+    //@ obligation C09 C09.map_to_1gib.shape_p4_absent.new_tables_zeroed_before_use tier=thorough bounded="pool of 7 tables (4 path + 3 allocatable); tree-shaped sparse pre-state (target path, one neighbour word per path table, garbage in allocatable frames); page-table indices (0,1,511,2)"
+    //@ obligation C09 C09.map_to_1gib.shape_p4_absent.no_dangling_table_pointer tier=thorough bounded="pool of 7 tables (4 path + 3 allocatable); tree-shaped sparse pre-state (target path, one neighbour word per path table, garbage in allocatable frames); page-table indices (0,1,511,2)"
+    //@ obligation C09 C09.map_to_1gib.shape_p4_absent.no_access_outside_page_tables tier=thorough bounded="pool of 7 tables (4 path + 3 allocatable); tree-shaped sparse pre-state (target path, one neighbour word per path table, garbage in allocatable frames); page-table indices (0,1,511,2)"
     #[kani::proof]
     #[kani::stub(PageTable::zero, zero_stub)]
     fn c01_map_to_1gib_p4_absent_lo() {
@@ -1175,19 +1238,21 @@ mod verif_c01_step_map {
         kani::cover!(true, "c01_map_to_1gib_p4_absent_lo: reachable");
     }
 
-    //@ obligation C01 C01.map_to_1gib.shape_p4_absent.target_translates_to_frame tier=thorough bounded="pool of 7 tables (4 path + 3 allocatable); tree-shaped sparse pre-state (target path, one neighbour word per path table, garbage in allocatable frames); page-table indices (511,511,511,511)"
-    //@ obligation C01 C01.map_to_1gib.shape_p4_absent.target_leaf_flags tier=thorough bounded="pool of 7 tables (4 path + 3 allocatable); tree-shaped sparse pre-state (target path, one neighbour word per path table, garbage in allocatable frames); page-table indices (511,511,511,511)"
-    //@ obligation C01 C01.map_to_1gib.shape_p4_absent.parent_rights_include_requested tier=thorough bounded="pool of 7 tables (4 path + 3 allocatable); tree-shaped sparse pre-state (target path, one neighbour word per path table, garbage in allocatable frames); page-table indices (511,511,511,511)"
-    //@ obligation C01 C01.map_to_1gib.shape_p4_absent.other_addresses_unchanged tier=thorough bounded="pool of 7 tables (4 path + 3 allocatable); tree-shaped sparse pre-state (target path, one neighbour word per path table, garbage in allocatable frames); page-table indices (511,511,511,511)"
-    //@ obligation C11 C11.map_to_1gib.shape_p4_absent.token_names_page tier=thorough bounded="pool of 7 tables (4 path + 3 allocatable); tree-shaped sparse pre-state (target path, one neighbour word per path table, garbage in allocatable frames); page-table indices (511,511,511,511)"
-    //@ obligation C02 C02.map_to_1gib.shape_p4_absent.error_leaves_every_mapping tier=thorough bounded="pool of 7 tables (4 path + 3 allocatable); tree-shaped sparse pre-state (target path, one neighbour word per path table, garbage in allocatable frames); page-table indices (511,511,511,511)"
-    //@ obligation C02 C02.map_to_1gib.shape_p4_absent.error_adds_at_most_parent_flags tier=thorough bounded="pool of 7 tables (4 path + 3 allocatable); tree-shaped sparse pre-state (target path, one neighbour word per path table, garbage in allocatable frames); page-table indices (511,511,511,511)"
-    //@ obligation C02 C02.map_to_1gib.shape_p4_absent.documented_outcome tier=thorough bounded="pool of 7 tables (4 path + 3 allocatable); tree-shaped sparse pre-state (target path, one neighbour word per path table, garbage in allocatable frames); page-table indices (511,511,511,511)"
-    //@ obligation C01 C01.map_to_1gib.shape_p4_absent.translate_agrees_after tier=thorough bounded="pool of 7 tables (4 path + 3 allocatable); tree-shaped sparse pre-state (target path, one neighbour word per path table, garbage in allocatable frames); page-table indices (511,511,511,511)"
-    //@ obligation C09 C09.map_to_1gib.shape_p4_absent.only_dictated_slots_change tier=thorough bounded="pool of 7 tables (4 path + 3 allocatable); tree-shaped sparse pre-state (target path, one neighbour word per path table, garbage in allocatable frames); page-table indices (511,511,511,511)"
-    //@ obligation C09 C09.map_to_1gib.shape_p4_absent.allocator_requests tier=thorough bounded="pool of 7 tables (4 path + 3 allocatable); tree-shaped sparse pre-state (target path, one neighbour word per path table, garbage in allocatable frames); page-table indices (511,511,511,511)"
-    //@ obligation C09 C09.map_to_1gib.shape_p4_absent.new_tables_zeroed_before_use tier=thorough bounded="pool of 7 tables (4 path + 3 allocatable); tree-shaped sparse pre-state (target path, one neighbour word per path table, garbage in allocatable frames); page-table indices (511,511,511,511)"
-    //@ obligation C09 C09.map_to_1gib.shape_p4_absent.no_dangling_table_pointer tier=thorough bounded="pool of 7 tables (4 path + 3 allocatable); tree-shaped sparse pre-state (target path, one neighbour word per path table, garbage in allocatable frames); page-table indices (511,511,511,511)"
+    //@ obligation C01 C01.map_to_1gib.shape_p4_absent.target_translates_to_frame tier=thorough bounded="pool of 7 tables (4 path + 3 allocatable); tree-shaped sparse pre-state (target path, one neighbour word per path table, garbage in allocatable frames); page-table indices (511,510,1,0)"
+    //@ obligation C01 C01.map_to_1gib.shape_p4_absent.target_leaf_flags tier=thorough bounded="pool of 7 tables (4 path + 3 allocatable); tree-shaped sparse pre-state (target path, one neighbour word per path table, garbage in allocatable frames); page-table indices (511,510,1,0)"
+    //@ obligation C01 C01.map_to_1gib.shape_p4_absent.parent_rights_include_requested tier=thorough bounded="pool of 7 tables (4 path + 3 allocatable); tree-shaped sparse pre-state (target path, one neighbour word per path table, garbage in allocatable frames); page-table indices (511,510,1,0)"
+    //@ obligation C01 C01.map_to_1gib.shape_p4_absent.other_addresses_unchanged tier=thorough bounded="pool of 7 tables (4 path + 3 allocatable); tree-shaped sparse pre-state (target path, one neighbour word per path table, garbage in allocatable frames); page-table indices (511,510,1,0)"
+    //@ obligation C01 C01.map_to_1gib.shape_p4_absent.result_reports_page tier=thorough bounded="pool of 7 tables (4 path + 3 allocatable); tree-shaped sparse pre-state (target path, one neighbour word per path table, garbage in allocatable frames); page-table indices (511,510,1,0)"
+    //@ obligation C11 C11.map_to_1gib.shape_p4_absent.token_names_page tier=thorough bounded="pool of 7 tables (4 path + 3 allocatable); tree-shaped sparse pre-state (target path, one neighbour word per path table, garbage in allocatable frames); page-table indices (511,510,1,0)"
+    //@ obligation C02 C02.map_to_1gib.shape_p4_absent.error_leaves_every_mapping tier=thorough bounded="pool of 7 tables (4 path + 3 allocatable); tree-shaped sparse pre-state (target path, one neighbour word per path table, garbage in allocatable frames); page-table indices (511,510,1,0)"
+    //@ obligation C02 C02.map_to_1gib.shape_p4_absent.error_adds_at_most_parent_flags tier=thorough bounded="pool of 7 tables (4 path + 3 allocatable); tree-shaped sparse pre-state (target path, one neighbour word per path table, garbage in allocatable frames); page-table indices (511,510,1,0)"
+    //@ obligation C02 C02.map_to_1gib.shape_p4_absent.documented_outcome tier=thorough bounded="pool of 7 tables (4 path + 3 allocatable); tree-shaped sparse pre-state (target path, one neighbour word per path table, garbage in allocatable frames); page-table indices (511,510,1,0)"
+    //@ obligation C01 C01.map_to_1gib.shape_p4_absent.translate_agrees_after tier=thorough bounded="pool of 7 tables (4 path + 3 allocatable); tree-shaped sparse pre-state (target path, one neighbour word per path table, garbage in allocatable frames); page-table indices (511,510,1,0)"
+    //@ obligation C09 C09.map_to_1gib.shape_p4_absent.only_dictated_slots_change tier=thorough bounded="pool of 7 tables (4 path + 3 allocatable); tree-shaped sparse pre-state (target path, one neighbour word per path table, garbage in allocatable frames); page-table indices (511,510,1,0)"
+    //@ obligation C09 C09.map_to_1gib.shape_p4_absent.allocator_requests tier=thorough bounded="pool of 7 tables (4 path + 3 allocatable); tree-shaped sparse pre-state (target path, one neighbour word per path table, garbage in allocatable frames); page-table indices (511,510,1,0)"
+    //@ obligation C09 C09.map_to_1gib.shape_p4_absent.new_tables_zeroed_before_use tier=thorough bounded="pool of 7 tables (4 path + 3 allocatable); tree-shaped sparse pre-state (target path, one neighbour word per path table, garbage in allocatable frames); page-table indices (511,510,1,0)"
+    //@ obligation C09 C09.map_to_1gib.shape_p4_absent.no_dangling_table_pointer tier=thorough bounded="pool of 7 tables (4 path + 3 allocatable); tree-shaped sparse pre-state (target path, one neighbour word per path table, garbage in allocatable frames); page-table indices (511,510,1,0)"
+    //@ obligation C09 C09.map_to_1gib.shape_p4_absent.no_access_outside_page_tables tier=thorough bounded="pool of 7 tables (4 path + 3 allocatable); tree-shaped sparse pre-state (target path, one neighbour word per path table, garbage in allocatable frames); page-table indices (511,510,1,0)"
     #[kani::proof]
     #[kani::stub(PageTable::zero, zero_stub)]
     fn c01_map_to_1gib_p4_absent_hi() {
@@ -1195,19 +1260,21 @@ mod verif_c01_step_map {
         kani::cover!(true, "c01_map_to_1gib_p4_absent_hi: reachable");
     }
 
-    //@ obligation C01 C01.map_to_1gib.shape_p4_absent.target_translates_to_frame tier=thorough bounded="pool of 7 tables (4 path + 3 allocatable); tree-shaped sparse pre-state (target path, one neighbour word per path table, garbage in allocatable frames); page-table indices (255,511,0,1)"
-    //@ obligation C01 C01.map_to_1gib.shape_p4_absent.target_leaf_flags tier=thorough bounded="pool of 7 tables (4 path + 3 allocatable); tree-shaped sparse pre-state (target path, one neighbour word per path table, garbage in allocatable frames); page-table indices (255,511,0,1)"
-    //@ obligation C01 C01.map_to_1gib.shape_p4_absent.parent_rights_include_requested tier=thorough bounded="pool of 7 tables (4 path + 3 allocatable); tree-shaped sparse pre-state (target path, one neighbour word per path table, garbage in allocatable frames); page-table indices (255,511,0,1)"
-    //@ obligation C01 C01.map_to_1gib.shape_p4_absent.other_addresses_unchanged tier=thorough bounded="pool of 7 tables (4 path + 3 allocatable); tree-shaped sparse pre-state (target path, one neighbour word per path table, garbage in allocatable frames); page-table indices (255,511,0,1)"
-    //@ obligation C11 C11.map_to_1gib.shape_p4_absent.token_names_page tier=thorough bounded="pool of 7 tables (4 path + 3 allocatable); tree-shaped sparse pre-state (target path, one neighbour word per path table, garbage in allocatable frames); page-table indices (255,511,0,1)"
-    //@ obligation C02 C02.map_to_1gib.shape_p4_absent.error_leaves_every_mapping tier=thorough bounded="pool of 7 tables (4 path + 3 allocatable); tree-shaped sparse pre-state (target path, one neighbour word per path table, garbage in allocatable frames); page-table indices (255,511,0,1)"
-    //@ obligation C02 C02.map_to_1gib.shape_p4_absent.error_adds_at_most_parent_flags tier=thorough bounded="pool of 7 tables (4 path + 3 allocatable); tree-shaped sparse pre-state (target path, one neighbour word per path table, garbage in allocatable frames); page-table indices (255,511,0,1)"
-    //@ obligation C02 C02.map_to_1gib.shape_p4_absent.documented_outcome tier=thorough bounded="pool of 7 tables (4 path + 3 allocatable); tree-shaped sparse pre-state (target path, one neighbour word per path table, garbage in allocatable frames); page-table indices (255,511,0,1)"
-    //@ obligation C01 C01.map_to_1gib.shape_p4_absent.translate_agrees_after tier=thorough bounded="pool of 7 tables (4 path + 3 allocatable); tree-shaped sparse pre-state (target path, one neighbour word per path table, garbage in allocatable frames); page-table indices (255,511,0,1)"
-    //@ obligation C09 C09.map_to_1gib.shape_p4_absent.only_dictated_slots_change tier=thorough bounded="pool of 7 tables (4 path + 3 allocatable); tree-shaped sparse pre-state (target path, one neighbour word per path table, garbage in allocatable frames); page-table indices (255,511,0,1)"
-    //@ obligation C09 C09.map_to_1gib.shape_p4_absent.allocator_requests tier=thorough bounded="pool of 7 tables (4 path + 3 allocatable); tree-shaped sparse pre-state (target path, one neighbour word per path table, garbage in allocatable frames); page-table indices (255,511,0,1)"
-    //@ obligation C09 C09.map_to_1gib.shape_p4_absent.new_tables_zeroed_before_use tier=thorough bounded="pool of 7 tables (4 path + 3 allocatable); tree-shaped sparse pre-state (target path, one neighbour word per path table, garbage in allocatable frames); page-table indices (255,511,0,1)"
-    //@ obligation C09 C09.map_to_1gib.shape_p4_absent.no_dangling_table_pointer tier=thorough bounded="pool of 7 tables (4 path + 3 allocatable); tree-shaped sparse pre-state (target path, one neighbour word per path table, garbage in allocatable frames); page-table indices (255,511,0,1)"
+    //@ obligation C01 C01.map_to_1gib.shape_p4_absent.target_translates_to_frame tier=thorough bounded="pool of 7 tables (4 path + 3 allocatable); tree-shaped sparse pre-state (target path, one neighbour word per path table, garbage in allocatable frames); page-table indices (255,511,0,256)"
+    //@ obligation C01 C01.map_to_1gib.shape_p4_absent.target_leaf_flags tier=thorough bounded="pool of 7 tables (4 path + 3 allocatable); tree-shaped sparse pre-state (target path, one neighbour word per path table, garbage in allocatable frames); page-table indices (255,511,0,256)"
+    //@ obligation C01 C01.map_to_1gib.shape_p4_absent.parent_rights_include_requested tier=thorough bounded="pool of 7 tables (4 path + 3 allocatable); tree-shaped sparse pre-state (target path, one neighbour word per path table, garbage in allocatable frames); page-table indices (255,511,0,256)"
+    //@ obligation C01 C01.map_to_1gib.shape_p4_absent.other_addresses_unchanged tier=thorough bounded="pool of 7 tables (4 path + 3 allocatable); tree-shaped sparse pre-state (target path, one neighbour word per path table, garbage in allocatable frames); page-table indices (255,511,0,256)"
+    //@ obligation C01 C01.map_to_1gib.shape_p4_absent.result_reports_page tier=thorough bounded="pool of 7 tables (4 path + 3 allocatable); tree-shaped sparse pre-state (target path, one neighbour word per path table, garbage in allocatable frames); page-table indices (255,511,0,256)"
+    //@ obligation C11 C11.map_to_1gib.shape_p4_absent.token_names_page tier=thorough bounded="pool of 7 tables (4 path + 3 allocatable); tree-shaped sparse pre-state (target path, one neighbour word per path table, garbage in allocatable frames); page-table indices (255,511,0,256)"
+    //@ obligation C02 C02.map_to_1gib.shape_p4_absent.error_leaves_every_mapping tier=thorough bounded="pool of 7 tables (4 path + 3 allocatable); tree-shaped sparse pre-state (target path, one neighbour word per path table, garbage in allocatable frames); page-table indices (255,511,0,256)"
+    //@ obligation C02 C02.map_to_1gib.shape_p4_absent.error_adds_at_most_parent_flags tier=thorough bounded="pool of 7 tables (4 path + 3 allocatable); tree-shaped sparse pre-state (target path, one neighbour word per path table, garbage in allocatable frames); page-table indices (255,511,0,256)"
+    //@ obligation C02 C02.map_to_1gib.shape_p4_absent.documented_outcome tier=thorough bounded="pool of 7 tables (4 path + 3 allocatable); tree-shaped sparse pre-state (target path, one neighbour word per path table, garbage in allocatable frames); page-table indices (255,511,0,256)"
+    //@ obligation C01 C01.map_to_1gib.shape_p4_absent.translate_agrees_after tier=thorough bounded="pool of 7 tables (4 path + 3 allocatable); tree-shaped sparse pre-state (target path, one neighbour word per path table, garbage in allocatable frames); page-table indices (255,511,0,256)"
+    //@ obligation C09 C09.map_to_1gib.shape_p4_absent.only_dictated_slots_change tier=thorough bounded="pool of 7 tables (4 path + 3 allocatable); tree-shaped sparse pre-state (target path, one neighbour word per path table, garbage in allocatable frames); page-table indices (255,511,0,256)"
+    //@ obligation C09 C09.map_to_1gib.shape_p4_absent.allocator_requests tier=thorough bounded="pool of 7 tables (4 path + 3 allocatable); tree-shaped sparse pre-state (target path, one neighbour word per path table, garbage in allocatable frames); page-table indices (255,511,0,256)"
+    //@ obligation C09 C09.map_to_1gib.shape_p4_absent.new_tables_zeroed_before_use tier=thorough bounded="pool of 7 tables (4 path + 3 allocatable); tree-shaped sparse pre-state (target path, one neighbour word per path table, garbage in allocatable frames); page-table indices (255,511,0,256)"
+    //@ obligation C09 C09.map_to_1gib.shape_p4_absent.no_dangling_table_pointer tier=thorough bounded="pool of 7 tables (4 path + 3 allocatable); tree-shaped sparse pre-state (target path, one neighbour word per path table, garbage in allocatable frames); page-table indices (255,511,0,256)"
+    //@ obligation C09 C09.map_to_1gib.shape_p4_absent.no_access_outside_page_tables tier=thorough bounded="pool of 7 tables (4 path + 3 allocatable); tree-shaped sparse pre-state (target path, one neighbour word per path table, garbage in allocatable frames); page-table indices (255,511,0,256)"
     #[kani::proof]
     #[kani::stub(PageTable::zero, zero_stub)]
     fn c01_map_to_1gib_p4_absent_mid() {
@@ -1215,19 +1282,21 @@ mod verif_c01_step_map {
         kani::cover!(true, "c01_map_to_1gib_p4_absent_mid: reachable");
     }
 
-    //@ obligation C01 C01.map_to_1gib.shape_p4_absent.target_translates_to_frame tier=thorough bounded="pool of 7 tables (4 path + 3 allocatable); tree-shaped sparse pre-state (target path, one neighbour word per path table, garbage in allocatable frames); page-table indices (256,1,510,255)"
-    //@ obligation C01 C01.map_to_1gib.shape_p4_absent.target_leaf_flags tier=thorough bounded="pool of 7 tables (4 path + 3 allocatable); tree-shaped sparse pre-state (target path, one neighbour word per path table, garbage in allocatable frames); page-table indices (256,1,510,255)"
-    //@ obligation C01 C01.map_to_1gib.shape_p4_absent.parent_rights_include_requested tier=thorough bounded="pool of 7 tables (4 path + 3 allocatable); tree-shaped sparse pre-state (target path, one neighbour word per path table, garbage in allocatable frames); page-table indices (256,1,510,255)"
-    //@ obligation C01 C01.map_to_1gib.shape_p4_absent.other_addresses_unchanged tier=thorough bounded="pool of 7 tables (4 path + 3 allocatable); tree-shaped sparse pre-state (target path, one neighbour word per path table, garbage in allocatable frames); page-table indices (256,1,510,255)"
-    //@ obligation C11 C11.map_to_1gib.shape_p4_absent.token_names_page tier=thorough bounded="pool of 7 tables (4 path + 3 allocatable); tree-shaped sparse pre-state (target path, one neighbour word per path table, garbage in allocatable frames); page-table indices (256,1,510,255)"
-    //@ obligation C02 C02.map_to_1gib.shape_p4_absent.error_leaves_every_mapping tier=thorough bounded="pool of 7 tables (4 path + 3 allocatable); tree-shaped sparse pre-state (target path, one neighbour word per path table, garbage in allocatable frames); page-table indices (256,1,510,255)"
-    //@ obligation C02 C02.map_to_1gib.shape_p4_absent.error_adds_at_most_parent_flags tier=thorough bounded="pool of 7 tables (4 path + 3 allocatable); tree-shaped sparse pre-state (target path, one neighbour word per path table, garbage in allocatable frames); page-table indices (256,1,510,255)"
-    //@ obligation C02 C02.map_to_1gib.shape_p4_absent.documented_outcome tier=thorough bounded="pool of 7 tables (4 path + 3 allocatable); tree-shaped sparse pre-state (target path, one neighbour word per path table, garbage in allocatable frames); page-table indices (256,1,510,255)"
-    //@ obligation C01 C01.map_to_1gib.shape_p4_absent.translate_agrees_after tier=thorough bounded="pool of 7 tables (4 path + 3 allocatable); tree-shaped sparse pre-state (target path, one neighbour word per path table, garbage in allocatable frames); page-table indices (256,1,510,255)"
-    //@ obligation C09 C09.map_to_1gib.shape_p4_absent.only_dictated_slots_change tier=thorough bounded="pool of 7 tables (4 path + 3 allocatable); tree-shaped sparse pre-state (target path, one neighbour word per path table, garbage in allocatable frames); page-table indices (256,1,510,255)"
-    //@ obligation C09 C09.map_to_1gib.shape_p4_absent.allocator_requests tier=thorough bounded="pool of 7 tables (4 path + 3 allocatable); tree-shaped sparse pre-state (target path, one neighbour word per path table, garbage in allocatable frames); page-table indices (256,1,510,255)"
-    //@ obligation C09 C09.map_to_1gib.shape_p4_absent.new_tables_zeroed_before_use tier=thorough bounded="pool of 7 tables (4 path + 3 allocatable); tree-shaped sparse pre-state (target path, one neighbour word per path table, garbage in allocatable frames); page-table indices (256,1,510,255)"
-    //@ obligation C09 C09.map_to_1gib.shape_p4_absent.no_dangling_table_pointer tier=thorough bounded="pool of 7 tables (4 path + 3 allocatable); tree-shaped sparse pre-state (target path, one neighbour word per path table, garbage in allocatable frames); page-table indices (256,1,510,255)"
+    //@ obligation C01 C01.map_to_1gib.shape_p4_absent.target_translates_to_frame tier=thorough bounded="pool of 7 tables (4 path + 3 allocatable); tree-shaped sparse pre-state (target path, one neighbour word per path table, garbage in allocatable frames); page-table indices (256,0,510,511)"
+    //@ obligation C01 C01.map_to_1gib.shape_p4_absent.target_leaf_flags tier=thorough bounded="pool of 7 tables (4 path + 3 allocatable); tree-shaped sparse pre-state (target path, one neighbour word per path table, garbage in allocatable frames); page-table indices (256,0,510,511)"
+    //@ obligation C01 C01.map_to_1gib.shape_p4_absent.parent_rights_include_requested tier=thorough bounded="pool of 7 tables (4 path + 3 allocatable); tree-shaped sparse pre-state (target path, one neighbour word per path table, garbage in allocatable frames); page-table indices (256,0,510,511)"
+    //@ obligation C01 C01.map_to_1gib.shape_p4_absent.other_addresses_unchanged tier=thorough bounded="pool of 7 tables (4 path + 3 allocatable); tree-shaped sparse pre-state (target path, one neighbour word per path table, garbage in allocatable frames); page-table indices (256,0,510,511)"
+    //@ obligation C01 C01.map_to_1gib.shape_p4_absent.result_reports_page tier=thorough bounded="pool of 7 tables (4 path + 3 allocatable); tree-shaped sparse pre-state (target path, one neighbour word per path table, garbage in allocatable frames); page-table indices (256,0,510,511)"
+    //@ obligation C11 C11.map_to_1gib.shape_p4_absent.token_names_page tier=thorough bounded="pool of 7 tables (4 path + 3 allocatable); tree-shaped sparse pre-state (target path, one neighbour word per path table, garbage in allocatable frames); page-table indices (256,0,510,511)"
+    //@ obligation C02 C02.map_to_1gib.shape_p4_absent.error_leaves_every_mapping tier=thorough bounded="pool of 7 tables (4 path + 3 allocatable); tree-shaped sparse pre-state (target path, one neighbour word per path table, garbage in allocatable frames); page-table indices (256,0,510,511)"
+    //@ obligation C02 C02.map_to_1gib.shape_p4_absent.error_adds_at_most_parent_flags tier=thorough bounded="pool of 7 tables (4 path + 3 allocatable); tree-shaped sparse pre-state (target path, one neighbour word per path table, garbage in allocatable frames); page-table indices (256,0,510,511)"
+    //@ obligation C02 C02.map_to_1gib.shape_p4_absent.documented_outcome tier=thorough bounded="pool of 7 tables (4 path + 3 allocatable); tree-shaped sparse pre-state (target path, one neighbour word per path table, garbage in allocatable frames); page-table indices (256,0,510,511)"
+    //@ obligation C01 C01.map_to_1gib.shape_p4_absent.translate_agrees_after tier=thorough bounded="pool of 7 tables (4 path + 3 allocatable); tree-shaped sparse pre-state (target path, one neighbour word per path table, garbage in allocatable frames); page-table indices (256,0,510,511)"
+    //@ obligation C09 C09.map_to_1gib.shape_p4_absent.only_dictated_slots_change tier=thorough bounded="pool of 7 tables (4 path + 3 allocatable); tree-shaped sparse pre-state (target path, one neighbour word per path table, garbage in allocatable frames); page-table indices (256,0,510,511)"
+    //@ obligation C09 C09.map_to_1gib.shape_p4_absent.allocator_requests tier=thorough bounded="pool of 7 tables (4 path + 3 allocatable); tree-shaped sparse pre-state (target path, one neighbour word per path table, garbage in allocatable frames); page-table indices (256,0,510,511)"
+    //@ obligation C09 C09.map_to_1gib.shape_p4_absent.new_tables_zeroed_before_use tier=thorough bounded="pool of 7 tables (4 path + 3 allocatable); tree-shaped sparse pre-state (target path, one neighbour word per path table, garbage in allocatable frames); page-table indices (256,0,510,511)"
+    //@ obligation C09 C09.map_to_1gib.shape_p4_absent.no_dangling_table_pointer tier=thorough bounded="pool of 7 tables (4 path + 3 allocatable); tree-shaped sparse pre-state (target path, one neighbour word per path table, garbage in allocatable frames); page-table indices (256,0,510,511)"
+    //@ obligation C09 C09.map_to_1gib.shape_p4_absent.no_access_outside_page_tables tier=thorough bounded="pool of 7 tables (4 path + 3 allocatable); tree-shaped sparse pre-state (target path, one neighbour word per path table, garbage in allocatable frames); page-table indices (256,0,510,511)"
     #[kani::proof]
     #[kani::stub(PageTable::zero, zero_stub)]
     fn c01_map_to_1gib_p4_absent_up() {
@@ -1235,17 +1304,19 @@ mod verif_c01_step_map {
         kani::cover!(true, "c01_map_to_1gib_p4_absent_up: reachable");
     }
 
-    //@ obligation C01 C01.map_to_1gib.shape_p3_absent.target_translates_to_frame tier=thorough bounded="pool of 7 tables (4 path + 3 allocatable); tree-shaped sparse pre-state (target path, one neighbour word per path table, garbage in allocatable frames); page-table indices (0,0,0,0)"
-    //@ obligation C01 C01.map_to_1gib.shape_p3_absent.target_leaf_flags tier=thorough bounded="pool of 7 tables (4 path + 3 allocatable); tree-shaped sparse pre-state (target path, one neighbour word per path table, garbage in allocatable frames); page-table indices (0,0,0,0)"
-    //@ obligation C01 C01.map_to_1gib.shape_p3_absent.parent_rights_include_requested tier=thorough bounded="pool of 7 tables (4 path + 3 allocatable); tree-shaped sparse pre-state (target path, one neighbour word per path table, garbage in allocatable frames); page-table indices (0,0,0,0)"
-    //@ obligation C01 C01.map_to_1gib.shape_p3_absent.other_addresses_unchanged tier=thorough bounded="pool of 7 tables (4 path + 3 allocatable); tree-shaped sparse pre-state (target path, one neighbour word per path table, garbage in allocatable frames); page-table indices (0,0,0,0)"
-    //@ obligation C11 C11.map_to_1gib.shape_p3_absent.token_names_page tier=thorough bounded="pool of 7 tables (4 path + 3 allocatable); tree-shaped sparse pre-state (target path, one neighbour word per path table, garbage in allocatable frames); page-table indices (0,0,0,0)"
-    //@ obligation C02 C02.map_to_1gib.shape_p3_absent.documented_outcome tier=thorough bounded="pool of 7 tables (4 path + 3 allocatable); tree-shaped sparse pre-state (target path, one neighbour word per path table, garbage in allocatable frames); page-table indices (0,0,0,0)"
-    //@ obligation C01 C01.map_to_1gib.shape_p3_absent.translate_agrees_after tier=thorough bounded="pool of 7 tables (4 path + 3 allocatable); tree-shaped sparse pre-state (target path, one neighbour word per path table, garbage in allocatable frames); page-table indices (0,0,0,0)"
-    //@ obligation C09 C09.map_to_1gib.shape_p3_absent.only_dictated_slots_change tier=thorough bounded="pool of 7 tables (4 path + 3 allocatable); tree-shaped sparse pre-state (target path, one neighbour word per path table, garbage in allocatable frames); page-table indices (0,0,0,0)"
-    //@ obligation C09 C09.map_to_1gib.shape_p3_absent.allocator_requests tier=thorough bounded="pool of 7 tables (4 path + 3 allocatable); tree-shaped sparse pre-state (target path, one neighbour word per path table, garbage in allocatable frames); page-table indices (0,0,0,0)"
-    //@ obligation C09 C09.map_to_1gib.shape_p3_absent.new_tables_zeroed_before_use tier=thorough bounded="pool of 7 tables (4 path + 3 allocatable); tree-shaped sparse pre-state (target path, one neighbour word per path table, garbage in allocatable frames); page-table indices (0,0,0,0)"
-    //@ obligation C09 C09.map_to_1gib.shape_p3_absent.no_dangling_table_pointer tier=thorough bounded="pool of 7 tables (4 path + 3 allocatable); tree-shaped sparse pre-state (target path, one neighbour word per path table, garbage in allocatable frames); page-table indices (0,0,0,0)"
+    //@ obligation C01 C01.map_to_1gib.shape_p3_absent.target_translates_to_frame tier=thorough bounded="pool of 7 tables (4 path + 3 allocatable); tree-shaped sparse pre-state (target path, one neighbour word per path table, garbage in allocatable frames); page-table indices (0,1,511,2)"
+    //@ obligation C01 C01.map_to_1gib.shape_p3_absent.target_leaf_flags tier=thorough bounded="pool of 7 tables (4 path + 3 allocatable); tree-shaped sparse pre-state (target path, one neighbour word per path table, garbage in allocatable frames); page-table indices (0,1,511,2)"
+    //@ obligation C01 C01.map_to_1gib.shape_p3_absent.parent_rights_include_requested tier=thorough bounded="pool of 7 tables (4 path + 3 allocatable); tree-shaped sparse pre-state (target path, one neighbour word per path table, garbage in allocatable frames); page-table indices (0,1,511,2)"
+    //@ obligation C01 C01.map_to_1gib.shape_p3_absent.other_addresses_unchanged tier=thorough bounded="pool of 7 tables (4 path + 3 allocatable); tree-shaped sparse pre-state (target path, one neighbour word per path table, garbage in allocatable frames); page-table indices (0,1,511,2)"
+    //@ obligation C01 C01.map_to_1gib.shape_p3_absent.result_reports_page tier=thorough bounded="pool of 7 tables (4 path + 3 allocatable); tree-shaped sparse pre-state (target path, one neighbour word per path table, garbage in allocatable frames); page-table indices (0,1,511,2)"
+    //@ obligation C11 C11.map_to_1gib.shape_p3_absent.token_names_page tier=thorough bounded="pool of 7 tables (4 path + 3 allocatable); tree-shaped sparse pre-state (target path, one neighbour word per path table, garbage in allocatable frames); page-table indices (0,1,511,2)"
+    //@ obligation C02 C02.map_to_1gib.shape_p3_absent.documented_outcome tier=thorough bounded="pool of 7 tables (4 path + 3 allocatable); tree-shaped sparse pre-state (target path, one neighbour word per path table, garbage in allocatable frames); page-table indices (0,1,511,2)"
+    //@ obligation C01 C01.map_to_1gib.shape_p3_absent.translate_agrees_after tier=thorough bounded="pool of 7 tables (4 path + 3 allocatable); tree-shaped sparse pre-state (target path, one neighbour word per path table, garbage in allocatable frames); page-table indices (0,1,511,2)"
+    //@ obligation C09 C09.map_to_1gib.shape_p3_absent.only_dictated_slots_change tier=thorough bounded="pool of 7 tables (4 path + 3 allocatable); tree-shaped sparse pre-state (target path, one neighbour word per path table, garbage in allocatable frames); page-table indices (0,1,511,2)"
+    //@ obligation C09 C09.map_to_1gib.shape_p3_absent.allocator_requests tier=thorough bounded="pool of 7 tables (4 path + 3 allocatable); tree-shaped sparse pre-state (target path, one neighbour word per path table, garbage in allocatable frames); page-table indices (0,1,511,2)"
+    //@ obligation C09 C09.map_to_1gib.shape_p3_absent.new_tables_zeroed_before_use tier=thorough bounded="pool of 7 tables (4 path + 3 allocatable); tree-shaped sparse pre-state (target path, one neighbour word per path table, garbage in allocatable frames); page-table indices (0,1,511,2)"
+    //@ obligation C09 C09.map_to_1gib.shape_p3_absent.no_dangling_table_pointer tier=thorough bounded="pool of 7 tables (4 path + 3 allocatable); tree-shaped sparse pre-state (target path, one neighbour word per path table, garbage in allocatable frames); page-table indices (0,1,511,2)"
+    //@ obligation C09 C09.map_to_1gib.shape_p3_absent.no_access_outside_page_tables tier=thorough bounded="pool of 7 tables (4 path + 3 allocatable); tree-shaped sparse pre-state (target path, one neighbour word per path table, garbage in allocatable frames); page-table indices (0,1,511,2)"
     #[kani::proof]
     #[kani::stub(PageTable::zero, zero_stub)]
     fn c01_map_to_1gib_p3_absent_lo() {
@@ -1253,17 +1324,19 @@ mod verif_c01_step_map {
         kani::cover!(true, "c01_map_to_1gib_p3_absent_lo: reachable");
     }
 
-    //@ obligation C01 C01.map_to_1gib.shape_p3_absent.target_translates_to_frame tier=thorough bounded="pool of 7 tables (4 path + 3 allocatable); tree-shaped sparse pre-state (target path, one neighbour word per path table, garbage in allocatable frames); page-table indices (511,511,511,511)"
-    //@ obligation C01 C01.map_to_1gib.shape_p3_absent.target_leaf_flags tier=thorough bounded="pool of 7 tables (4 path + 3 allocatable); tree-shaped sparse pre-state (target path, one neighbour word per path table, garbage in allocatable frames); page-table indices (511,511,511,511)"
-    //@ obligation C01 C01.map_to_1gib.shape_p3_absent.parent_rights_include_requested tier=thorough bounded="pool of 7 tables (4 path + 3 allocatable); tree-shaped sparse pre-state (target path, one neighbour word per path table, garbage in allocatable frames); page-table indices (511,511,511,511)"
-    //@ obligation C01 C01.map_to_1gib.shape_p3_absent.other_addresses_unchanged tier=thorough bounded="pool of 7 tables (4 path + 3 allocatable); tree-shaped sparse pre-state (target path, one neighbour word per path table, garbage in allocatable frames); page-table indices (511,511,511,511)"
-    //@ obligation C11 C11.map_to_1gib.shape_p3_absent.token_names_page tier=thorough bounded="pool of 7 tables (4 path + 3 allocatable); tree-shaped sparse pre-state (target path, one neighbour word per path table, garbage in allocatable frames); page-table indices (511,511,511,511)"
-    //@ obligation C02 C02.map_to_1gib.shape_p3_absent.documented_outcome tier=thorough bounded="pool of 7 tables (4 path + 3 allocatable); tree-shaped sparse pre-state (target path, one neighbour word per path table, garbage in allocatable frames); page-table indices (511,511,511,511)"
-    //@ obligation C01 C01.map_to_1gib.shape_p3_absent.translate_agrees_after tier=thorough bounded="pool of 7 tables (4 path + 3 allocatable); tree-shaped sparse pre-state (target path, one neighbour word per path table, garbage in allocatable frames); page-table indices (511,511,511,511)"
-    //@ obligation C09 C09.map_to_1gib.shape_p3_absent.only_dictated_slots_change tier=thorough bounded="pool of 7 tables (4 path + 3 allocatable); tree-shaped sparse pre-state (target path, one neighbour word per path table, garbage in allocatable frames); page-table indices (511,511,511,511)"
-    //@ obligation C09 C09.map_to_1gib.shape_p3_absent.allocator_requests tier=thorough bounded="pool of 7 tables (4 path + 3 allocatable); tree-shaped sparse pre-state (target path, one neighbour word per path table, garbage in allocatable frames); page-table indices (511,511,511,511)"
-    //@ obligation C09 C09.map_to_1gib.shape_p3_absent.new_tables_zeroed_before_use tier=thorough bounded="pool of 7 tables (4 path + 3 allocatable); tree-shaped sparse pre-state (target path, one neighbour word per path table, garbage in allocatable frames); page-table indices (511,511,511,511)"
-    //@ obligation C09 C09.map_to_1gib.shape_p3_absent.no_dangling_table_pointer tier=thorough bounded="pool of 7 tables (4 path + 3 allocatable); tree-shaped sparse pre-state (target path, one neighbour word per path table, garbage in allocatable frames); page-table indices (511,511,511,511)"
+    //@ obligation C01 C01.map_to_1gib.shape_p3_absent.target_translates_to_frame tier=thorough bounded="pool of 7 tables (4 path + 3 allocatable); tree-shaped sparse pre-state (target path, one neighbour word per path table, garbage in allocatable frames); page-table indices (511,510,1,0)"
+    //@ obligation C01 C01.map_to_1gib.shape_p3_absent.target_leaf_flags tier=thorough bounded="pool of 7 tables (4 path + 3 allocatable); tree-shaped sparse pre-state (target path, one neighbour word per path table, garbage in allocatable frames); page-table indices (511,510,1,0)"
+    //@ obligation C01 C01.map_to_1gib.shape_p3_absent.parent_rights_include_requested tier=thorough bounded="pool of 7 tables (4 path + 3 allocatable); tree-shaped sparse pre-state (target path, one neighbour word per path table, garbage in allocatable frames); page-table indices (511,510,1,0)"
+    //@ obligation C01 C01.map_to_1gib.shape_p3_absent.other_addresses_unchanged tier=thorough bounded="pool of 7 tables (4 path + 3 allocatable); tree-shaped sparse pre-state (target path, one neighbour word per path table, garbage in allocatable frames); page-table indices (511,510,1,0)"
+    //@ obligation C01 C01.map_to_1gib.shape_p3_absent.result_reports_page tier=thorough bounded="pool of 7 tables (4 path + 3 allocatable); tree-shaped sparse pre-state (target path, one neighbour word per path table, garbage in allocatable frames); page-table indices (511,510,1,0)"
+    //@ obligation C11 C11.map_to_1gib.shape_p3_absent.token_names_page tier=thorough bounded="pool of 7 tables (4 path + 3 allocatable); tree-shaped sparse pre-state (target path, one neighbour word per path table, garbage in allocatable frames); page-table indices (511,510,1,0)"
+    //@ obligation C02 C02.map_to_1gib.shape_p3_absent.documented_outcome tier=thorough bounded="pool of 7 tables (4 path + 3 allocatable); tree-shaped sparse pre-state (target path, one neighbour word per path table, garbage in allocatable frames); page-table indices (511,510,1,0)"
+    //@ obligation C01 C01.map_to_1gib.shape_p3_absent.translate_agrees_after tier=thorough bounded="pool of 7 tables (4 path + 3 allocatable); tree-shaped sparse pre-state (target path, one neighbour word per path table, garbage in allocatable frames); page-table indices (511,510,1,0)"
+    //@ obligation C09 C09.map_to_1gib.shape_p3_absent.only_dictated_slots_change tier=thorough bounded="pool of 7 tables (4 path + 3 allocatable); tree-shaped sparse pre-state (target path, one neighbour word per path table, garbage in allocatable frames); page-table indices (511,510,1,0)"
+    //@ obligation C09 C09.map_to_1gib.shape_p3_absent.allocator_requests tier=thorough bounded="pool of 7 tables (4 path + 3 allocatable); tree-shaped sparse pre-state (target path, one neighbour word per path table, garbage in allocatable frames); page-table indices (511,510,1,0)"
+    //@ obligation C09 C09.map_to_1gib.shape_p3_absent.new_tables_zeroed_before_use tier=thorough bounded="pool of 7 tables (4 path + 3 allocatable); tree-shaped sparse pre-state (target path, one neighbour word per path table, garbage in allocatable frames); page-table indices (511,510,1,0)"
+    //@ obligation C09 C09.map_to_1gib.shape_p3_absent.no_dangling_table_pointer tier=thorough bounded="pool of 7 tables (4 path + 3 allocatable); tree-shaped sparse pre-state (target path, one neighbour word per path table, garbage in allocatable frames); page-table indices (511,510,1,0)"
+    //@ obligation C09 C09.map_to_1gib.shape_p3_absent.no_access_outside_page_tables tier=thorough bounded="pool of 7 tables (4 path + 3 allocatable); tree-shaped sparse pre-state (target path, one neighbour word per path table, garbage in allocatable frames); page-table indices (511,510,1,0)"
     #[kani::proof]
     #[kani::stub(PageTable::zero, zero_stub)]
     fn c01_map_to_1gib_p3_absent_hi() {
@@ -1271,17 +1344,19 @@ mod verif_c01_step_map {
         kani::cover!(true, "c01_map_to_1gib_p3_absent_hi: reachable");
     }
 
-    //@ obligation C01 C01.map_to_1gib.shape_p3_absent.target_translates_to_frame tier=thorough bounded="pool of 7 tables (4 path + 3 allocatable); tree-shaped sparse pre-state (target path, one neighbour word per path table, garbage in allocatable frames); page-table indices (255,511,0,1)"
-    //@ obligation C01 C01.map_to_1gib.shape_p3_absent.target_leaf_flags tier=thorough bounded="pool of 7 tables (4 path + 3 allocatable); tree-shaped sparse pre-state (target path, one neighbour word per path table, garbage in allocatable frames); page-table indices (255,511,0,1)"
-    //@ obligation C01 C01.map_to_1gib.shape_p3_absent.parent_rights_include_requested tier=thorough bounded="pool of 7 tables (4 path + 3 allocatable); tree-shaped sparse pre-state (target path, one neighbour word per path table, garbage in allocatable frames); page-table indices (255,511,0,1)"
-    //@ obligation C01 C01.map_to_1gib.shape_p3_absent.other_addresses_unchanged tier=thorough bounded="pool of 7 tables (4 path + 3 allocatable); tree-shaped sparse pre-state (target path, one neighbour word per path table, garbage in allocatable frames); page-table indices (255,511,0,1)"
-    //@ obligation C11 C11.map_to_1gib.shape_p3_absent.token_names_page tier=thorough bounded="pool of 7 tables (4 path + 3 allocatable); tree-shaped sparse pre-state (target path, one neighbour word per path table, garbage in allocatable frames); page-table indices (255,511,0,1)"
-    //@ obligation C02 C02.map_to_1gib.shape_p3_absent.documented_outcome tier=thorough bounded="pool of 7 tables (4 path + 3 allocatable); tree-shaped sparse pre-state (target path, one neighbour word per path table, garbage in allocatable frames); page-table indices (255,511,0,1)"
-    //@ obligation C01 C01.map_to_1gib.shape_p3_absent.translate_agrees_after tier=thorough bounded="pool of 7 tables (4 path + 3 allocatable); tree-shaped sparse pre-state (target path, one neighbour word per path table, garbage in allocatable frames); page-table indices (255,511,0,1)"
-    //@ obligation C09 C09.map_to_1gib.shape_p3_absent.only_dictated_slots_change tier=thorough bounded="pool of 7 tables (4 path + 3 allocatable); tree-shaped sparse pre-state (target path, one neighbour word per path table, garbage in allocatable frames); page-table indices (255,511,0,1)"
-    //@ obligation C09 C09.map_to_1gib.shape_p3_absent.allocator_requests tier=thorough bounded="pool of 7 tables (4 path + 3 allocatable); tree-shaped sparse pre-state (target path, one neighbour word per path table, garbage in allocatable frames); page-table indices (255,511,0,1)"
-    //@ obligation C09 C09.map_to_1gib.shape_p3_absent.new_tables_zeroed_before_use tier=thorough bounded="pool of 7 tables (4 path + 3 allocatable); tree-shaped sparse pre-state (target path, one neighbour word per path table, garbage in allocatable frames); page-table indices (255,511,0,1)"
-    //@ obligation C09 C09.map_to_1gib.shape_p3_absent.no_dangling_table_pointer tier=thorough bounded="pool of 7 tables (4 path + 3 allocatable); tree-shaped sparse pre-state (target path, one neighbour word per path table, garbage in allocatable frames); page-table indices (255,511,0,1)"
+    //@ obligation C01 C01.map_to_1gib.shape_p3_absent.target_translates_to_frame tier=thorough bounded="pool of 7 tables (4 path + 3 allocatable); tree-shaped sparse pre-state (target path, one neighbour word per path table, garbage in allocatable frames); page-table indices (255,511,0,256)"
+    //@ obligation C01 C01.map_to_1gib.shape_p3_absent.target_leaf_flags tier=thorough bounded="pool of 7 tables (4 path + 3 allocatable); tree-shaped sparse pre-state (target path, one neighbour word per path table, garbage in allocatable frames); page-table indices (255,511,0,256)"
+    //@ obligation C01 C01.map_to_1gib.shape_p3_absent.parent_rights_include_requested tier=thorough bounded="pool of 7 tables (4 path + 3 allocatable); tree-shaped sparse pre-state (target path, one neighbour word per path table, garbage in allocatable frames); page-table indices (255,511,0,256)"
+    //@ obligation C01 C01.map_to_1gib.shape_p3_absent.other_addresses_unchanged tier=thorough bounded="pool of 7 tables (4 path + 3 allocatable); tree-shaped sparse pre-state (target path, one neighbour word per path table, garbage in allocatable frames); page-table indices (255,511,0,256)"
+    //@ obligation C01 C01.map_to_1gib.shape_p3_absent.result_reports_page tier=thorough bounded="pool of 7 tables (4 path + 3 allocatable); tree-shaped sparse pre-state (target path, one neighbour word per path table, garbage in allocatable frames); page-table indices (255,511,0,256)"
+    //@ obligation C11 C11.map_to_1gib.shape_p3_absent.token_names_page tier=thorough bounded="pool of 7 tables (4 path + 3 allocatable); tree-shaped sparse pre-state (target path, one neighbour word per path table, garbage in allocatable frames); page-table indices (255,511,0,256)"
+    //@ obligation C02 C02.map_to_1gib.shape_p3_absent.documented_outcome tier=thorough bounded="pool of 7 tables (4 path + 3 allocatable); tree-shaped sparse pre-state (target path, one neighbour word per path table, garbage in allocatable frames); page-table indices (255,511,0,256)"
+    //@ obligation C01 C01.map_to_1gib.shape_p3_absent.translate_agrees_after tier=thorough bounded="pool of 7 tables (4 path + 3 allocatable); tree-shaped sparse pre-state (target path, one neighbour word per path table, garbage in allocatable frames); page-table indices (255,511,0,256)"
+    //@ obligation C09 C09.map_to_1gib.shape_p3_absent.only_dictated_slots_change tier=thorough bounded="pool of 7 tables (4 path + 3 allocatable); tree-shaped sparse pre-state (target path, one neighbour word per path table, garbage in allocatable frames); page-table indices (255,511,0,256)"
+    //@ obligation C09 C09.map_to_1gib.shape_p3_absent.allocator_requests tier=thorough bounded="pool of 7 tables (4 path + 3 allocatable); tree-shaped sparse pre-state (target path, one neighbour word per path table, garbage in allocatable frames); page-table indices (255,511,0,256)"
+    //@ obligation C09 C09.map_to_1gib.shape_p3_absent.new_tables_zeroed_before_use tier=thorough bounded="pool of 7 tables (4 path + 3 allocatable); tree-shaped sparse pre-state (target path, one neighbour word per path table, garbage in allocatable frames); page-table indices (255,511,0,256)"
+    //@ obligation C09 C09.map_to_1gib.shape_p3_absent.no_dangling_table_pointer tier=thorough bounded="pool of 7 tables (4 path + 3 allocatable); tree-shaped sparse pre-state (target path, one neighbour word per path table, garbage in allocatable frames); page-table indices (255,511,0,256)"
+    //@ obligation C09 C09.map_to_1gib.shape_p3_absent.no_access_outside_page_tables tier=thorough bounded="pool of 7 tables (4 path + 3 allocatable); tree-shaped sparse pre-state (target path, one neighbour word per path table, garbage in allocatable frames); page-table indices (255,511,0,256)"
     #[kani::proof]
     #[kani::stub(PageTable::zero, zero_stub)]
     fn c01_map_to_1gib_p3_absent_mid() {
@@ -1289,17 +1364,19 @@ mod verif_c01_step_map {
         kani::cover!(true, "c01_map_to_1gib_p3_absent_mid: reachable");
     }
 
-    //@ obligation C01 C01.map_to_1gib.shape_p3_absent.target_translates_to_frame bounded="pool of 7 tables (4 path + 3 allocatable); tree-shaped sparse pre-state (target path, one neighbour word per path table, garbage in allocatable frames); page-table indices (256,1,510,255)"
-    //@ obligation C01 C01.map_to_1gib.shape_p3_absent.target_leaf_flags bounded="pool of 7 tables (4 path + 3 allocatable); tree-shaped sparse pre-state (target path, one neighbour word per path table, garbage in allocatable frames); page-table indices (256,1,510,255)"
-    //@ obligation C01 C01.map_to_1gib.shape_p3_absent.parent_rights_include_requested bounded="pool of 7 tables (4 path + 3 allocatable); tree-shaped sparse pre-state (target path, one neighbour word per path table, garbage in allocatable frames); page-table indices (256,1,510,255)"
-    //@ obligation C01 C01.map_to_1gib.shape_p3_absent.other_addresses_unchanged bounded="pool of 7 tables (4 path + 3 allocatable); tree-shaped sparse pre-state (target path, one neighbour word per path table, garbage in allocatable frames); page-table indices (256,1,510,255)"
-    //@ obligation C11 C11.map_to_1gib.shape_p3_absent.token_names_page bounded="pool of 7 tables (4 path + 3 allocatable); tree-shaped sparse pre-state (target path, one neighbour word per path table, garbage in allocatable frames); page-table indices (256,1,510,255)"
-    //@ obligation C02 C02.map_to_1gib.shape_p3_absent.documented_outcome bounded="pool of 7 tables (4 path + 3 allocatable); tree-shaped sparse pre-state (target path, one neighbour word per path table, garbage in allocatable frames); page-table indices (256,1,510,255)"
-    //@ obligation C01 C01.map_to_1gib.shape_p3_absent.translate_agrees_after bounded="pool of 7 tables (4 path + 3 allocatable); tree-shaped sparse pre-state (target path, one neighbour word per path table, garbage in allocatable frames); page-table indices (256,1,510,255)"
-    //@ obligation C09 C09.map_to_1gib.shape_p3_absent.only_dictated_slots_change bounded="pool of 7 tables (4 path + 3 allocatable); tree-shaped sparse pre-state (target path, one neighbour word per path table, garbage in allocatable frames); page-table indices (256,1,510,255)"
-    //@ obligation C09 C09.map_to_1gib.shape_p3_absent.allocator_requests bounded="pool of 7 tables (4 path + 3 allocatable); tree-shaped sparse pre-state (target path, one neighbour word per path table, garbage in allocatable frames); page-table indices (256,1,510,255)"
-    //@ obligation C09 C09.map_to_1gib.shape_p3_absent.new_tables_zeroed_before_use bounded="pool of 7 tables (4 path + 3 allocatable); tree-shaped sparse pre-state (target path, one neighbour word per path table, garbage in allocatable frames); page-table indices (256,1,510,255)"
-    //@ obligation C09 C09.map_to_1gib.shape_p3_absent.no_dangling_table_pointer bounded="pool of 7 tables (4 path + 3 allocatable); tree-shaped sparse pre-state (target path, one neighbour word per path table, garbage in allocatable frames); page-table indices (256,1,510,255)"
+    //@ obligation C01 C01.map_to_1gib.shape_p3_absent.target_translates_to_frame bounded="pool of 7 tables (4 path + 3 allocatable); tree-shaped sparse pre-state (target path, one neighbour word per path table, garbage in allocatable frames); page-table indices (256,0,510,511)"
+    //@ obligation C01 C01.map_to_1gib.shape_p3_absent.target_leaf_flags bounded="pool of 7 tables (4 path + 3 allocatable); tree-shaped sparse pre-state (target path, one neighbour word per path table, garbage in allocatable frames); page-table indices (256,0,510,511)"
+    //@ obligation C01 C01.map_to_1gib.shape_p3_absent.parent_rights_include_requested bounded="pool of 7 tables (4 path + 3 allocatable); tree-shaped sparse pre-state (target path, one neighbour word per path table, garbage in allocatable frames); page-table indices (256,0,510,511)"
+    //@ obligation C01 C01.map_to_1gib.shape_p3_absent.other_addresses_unchanged bounded="pool of 7 tables (4 path + 3 allocatable); tree-shaped sparse pre-state (target path, one neighbour word per path table, garbage in allocatable frames); page-table indices (256,0,510,511)"
+    //@ obligation C01 C01.map_to_1gib.shape_p3_absent.result_reports_page bounded="pool of 7 tables (4 path + 3 allocatable); tree-shaped sparse pre-state (target path, one neighbour word per path table, garbage in allocatable frames); page-table indices (256,0,510,511)"
+    //@ obligation C11 C11.map_to_1gib.shape_p3_absent.token_names_page bounded="pool of 7 tables (4 path + 3 allocatable); tree-shaped sparse pre-state (target path, one neighbour word per path table, garbage in allocatable frames); page-table indices (256,0,510,511)"
+    //@ obligation C02 C02.map_to_1gib.shape_p3_absent.documented_outcome bounded="pool of 7 tables (4 path + 3 allocatable); tree-shaped sparse pre-state (target path, one neighbour word per path table, garbage in allocatable frames); page-table indices (256,0,510,511)"
+    //@ obligation C01 C01.map_to_1gib.shape_p3_absent.translate_agrees_after bounded="pool of 7 tables (4 path + 3 allocatable); tree-shaped sparse pre-state (target path, one neighbour word per path table, garbage in allocatable frames); page-table indices (256,0,510,511)"
+    //@ obligation C09 C09.map_to_1gib.shape_p3_absent.only_dictated_slots_change bounded="pool of 7 tables (4 path + 3 allocatable); tree-shaped sparse pre-state (target path, one neighbour word per path table, garbage in allocatable frames); page-table indices (256,0,510,511)"
+    //@ obligation C09 C09.map_to_1gib.shape_p3_absent.allocator_requests bounded="pool of 7 tables (4 path + 3 allocatable); tree-shaped sparse pre-state (target path, one neighbour word per path table, garbage in allocatable frames); page-table indices (256,0,510,511)"
+    //@ obligation C09 C09.map_to_1gib.shape_p3_absent.new_tables_zeroed_before_use bounded="pool of 7 tables (4 path + 3 allocatable); tree-shaped sparse pre-state (target path, one neighbour word per path table, garbage in allocatable frames); page-table indices (256,0,510,511)"
+    //@ obligation C09 C09.map_to_1gib.shape_p3_absent.no_dangling_table_pointer bounded="pool of 7 tables (4 path + 3 allocatable); tree-shaped sparse pre-state (target path, one neighbour word per path table, garbage in allocatable frames); page-table indices (256,0,510,511)"
+    //@ obligation C09 C09.map_to_1gib.shape_p3_absent.no_access_outside_page_tables bounded="pool of 7 tables (4 path + 3 allocatable); tree-shaped sparse pre-state (target path, one neighbour word per path table, garbage in allocatable frames); page-table indices (256,0,510,511)"
     #[kani::proof]
     #[kani::stub(PageTable::zero, zero_stub)]
     fn c01_map_to_1gib_p3_absent_up() {
@@ -1307,15 +1384,16 @@ mod verif_c01_step_map {
         kani::cover!(true, "c01_map_to_1gib_p3_absent_up: reachable");
     }
 
-    //@ obligation C02 C02.map_to_1gib.shape_p3_huge.error_leaves_every_mapping tier=thorough bounded="pool of 7 tables (4 path + 3 allocatable); tree-shaped sparse pre-state (target path, one neighbour word per path table, garbage in allocatable frames); page-table indices (0,0,0,0)"
-    //@ obligation C02 C02.map_to_1gib.shape_p3_huge.error_adds_at_most_parent_flags tier=thorough bounded="pool of 7 tables (4 path + 3 allocatable); tree-shaped sparse pre-state (target path, one neighbour word per path table, garbage in allocatable frames); page-table indices (0,0,0,0)"
-    //@ obligation C01 C01.map_to_1gib.shape_p3_huge.result_reports_frame tier=thorough bounded="pool of 7 tables (4 path + 3 allocatable); tree-shaped sparse pre-state (target path, one neighbour word per path table, garbage in allocatable frames); page-table indices (0,0,0,0)"
-    //@ obligation C02 C02.map_to_1gib.shape_p3_huge.documented_outcome tier=thorough bounded="pool of 7 tables (4 path + 3 allocatable); tree-shaped sparse pre-state (target path, one neighbour word per path table, garbage in allocatable frames); page-table indices (0,0,0,0)"
-    //@ obligation C01 C01.map_to_1gib.shape_p3_huge.translate_agrees_after tier=thorough bounded="pool of 7 tables (4 path + 3 allocatable); tree-shaped sparse pre-state (target path, one neighbour word per path table, garbage in allocatable frames); page-table indices (0,0,0,0)"
-    //@ obligation C09 C09.map_to_1gib.shape_p3_huge.only_dictated_slots_change tier=thorough bounded="pool of 7 tables (4 path + 3 allocatable); tree-shaped sparse pre-state (target path, one neighbour word per path table, garbage in allocatable frames); page-table indices (0,0,0,0)"
-    //@ obligation C09 C09.map_to_1gib.shape_p3_huge.allocator_requests tier=thorough bounded="pool of 7 tables (4 path + 3 allocatable); tree-shaped sparse pre-state (target path, one neighbour word per path table, garbage in allocatable frames); page-table indices (0,0,0,0)"
-    //@ obligation C09 C09.map_to_1gib.shape_p3_huge.new_tables_zeroed_before_use tier=thorough bounded="pool of 7 tables (4 path + 3 allocatable); tree-shaped sparse pre-state (target path, one neighbour word per path table, garbage in allocatable frames); page-table indices (0,0,0,0)"
-    //@ obligation C09 C09.map_to_1gib.shape_p3_huge.no_dangling_table_pointer tier=thorough bounded="pool of 7 tables (4 path + 3 allocatable); tree-shaped sparse pre-state (target path, one neighbour word per path table, garbage in allocatable frames); page-table indices (0,0,0,0)"
+    //@ obligation C02 C02.map_to_1gib.shape_p3_huge.error_leaves_every_mapping tier=thorough bounded="pool of 7 tables (4 path + 3 allocatable); tree-shaped sparse pre-state (target path, one neighbour word per path table, garbage in allocatable frames); page-table indices (0,1,511,2)"
+    //@ obligation C02 C02.map_to_1gib.shape_p3_huge.error_adds_at_most_parent_flags tier=thorough bounded="pool of 7 tables (4 path + 3 allocatable); tree-shaped sparse pre-state (target path, one neighbour word per path table, garbage in allocatable frames); page-table indices (0,1,511,2)"
+    //@ obligation C01 C01.map_to_1gib.shape_p3_huge.result_reports_frame tier=thorough bounded="pool of 7 tables (4 path + 3 allocatable); tree-shaped sparse pre-state (target path, one neighbour word per path table, garbage in allocatable frames); page-table indices (0,1,511,2)"
+    //@ obligation C02 C02.map_to_1gib.shape_p3_huge.documented_outcome tier=thorough bounded="pool of 7 tables (4 path + 3 allocatable); tree-shaped sparse pre-state (target path, one neighbour word per path table, garbage in allocatable frames); page-table indices (0,1,511,2)"
+    //@ obligation C01 C01.map_to_1gib.shape_p3_huge.translate_agrees_after tier=thorough bounded="pool of 7 tables (4 path + 3 allocatable); tree-shaped sparse pre-state (target path, one neighbour word per path table, garbage in allocatable frames); page-table indices (0,1,511,2)"
+    //@ obligation C09 C09.map_to_1gib.shape_p3_huge.only_dictated_slots_change tier=thorough bounded="pool of 7 tables (4 path + 3 allocatable); tree-shaped sparse pre-state (target path, one neighbour word per path table, garbage in allocatable frames); page-table indices (0,1,511,2)"
+    //@ obligation C09 C09.map_to_1gib.shape_p3_huge.allocator_requests tier=thorough bounded="pool of 7 tables (4 path + 3 allocatable); tree-shaped sparse pre-state (target path, one neighbour word per path table, garbage in allocatable frames); page-table indices (0,1,511,2)"
+    //@ obligation C09 C09.map_to_1gib.shape_p3_huge.new_tables_zeroed_before_use tier=thorough bounded="pool of 7 tables (4 path + 3 allocatable); tree-shaped sparse pre-state (target path, one neighbour word per path table, garbage in allocatable frames); page-table indices (0,1,511,2)"
+    //@ obligation C09 C09.map_to_1gib.shape_p3_huge.no_dangling_table_pointer tier=thorough bounded="pool of 7 tables (4 path + 3 allocatable); tree-shaped sparse pre-state (target path, one neighbour word per path table, garbage in allocatable frames); page-table indices (0,1,511,2)"
+    //@ obligation C09 C09.map_to_1gib.shape_p3_huge.no_access_outside_page_tables tier=thorough bounded="pool of 7 tables (4 path + 3 allocatable); tree-shaped sparse pre-state (target path, one neighbour word per path table, garbage in allocatable frames); page-table indices (0,1,511,2)"
     #[kani::proof]
     #[kani::stub(PageTable::zero, zero_stub)]
     fn c01_map_to_1gib_p3_huge_lo() {
@@ -1323,15 +1401,16 @@ mod verif_c01_step_map {
         kani::cover!(true, "c01_map_to_1gib_p3_huge_lo: reachable");
     }
 
-    //@ obligation C02 C02.map_to_1gib.shape_p3_huge.error_leaves_every_mapping tier=thorough bounded="pool of 7 tables (4 path + 3 allocatable); tree-shaped sparse pre-state (target path, one neighbour word per path table, garbage in allocatable frames); page-table indices (511,511,511,511)"
-    //@ obligation C02 C02.map_to_1gib.shape_p3_huge.error_adds_at_most_parent_flags tier=thorough bounded="pool of 7 tables (4 path + 3 allocatable); tree-shaped sparse pre-state (target path, one neighbour word per path table, garbage in allocatable frames); page-table indices (511,511,511,511)"
-    //@ obligation C01 C01.map_to_1gib.shape_p3_huge.result_reports_frame tier=thorough bounded="pool of 7 tables (4 path + 3 allocatable); tree-shaped sparse pre-state (target path, one neighbour word per path table, garbage in allocatable frames); page-table indices (511,511,511,511)"
-    //@ obligation C02 C02.map_to_1gib.shape_p3_huge.documented_outcome tier=thorough bounded="pool of 7 tables (4 path + 3 allocatable); tree-shaped sparse pre-state (target path, one neighbour word per path table, garbage in allocatable frames); page-table indices (511,511,511,511)"
-    //@ obligation C01 C01.map_to_1gib.shape_p3_huge.translate_agrees_after tier=thorough bounded="pool of 7 tables (4 path + 3 allocatable); tree-shaped sparse pre-state (target path, one neighbour word per path table, garbage in allocatable frames); page-table indices (511,511,511,511)"
-    //@ obligation C09 C09.map_to_1gib.shape_p3_huge.only_dictated_slots_change tier=thorough bounded="pool of 7 tables (4 path + 3 allocatable); tree-shaped sparse pre-state (target path, one neighbour word per path table, garbage in allocatable frames); page-table indices (511,511,511,511)"
-    //@ obligation C09 C09.map_to_1gib.shape_p3_huge.allocator_requests tier=thorough bounded="pool of 7 tables (4 path + 3 allocatable); tree-shaped sparse pre-state (target path, one neighbour word per path table, garbage in allocatable frames); page-table indices (511,511,511,511)"
-    //@ obligation C09 C09.map_to_1gib.shape_p3_huge.new_tables_zeroed_before_use tier=thorough bounded="pool of 7 tables (4 path + 3 allocatable); tree-shaped sparse pre-state (target path, one neighbour word per path table, garbage in allocatable frames); page-table indices (511,511,511,511)"
-    //@ obligation C09 C09.map_to_1gib.shape_p3_huge.no_dangling_table_pointer tier=thorough bounded="pool of 7 tables (4 path + 3 allocatable); tree-shaped sparse pre-state (target path, one neighbour word per path table, garbage in allocatable frames); page-table indices (511,511,511,511)"
+    //@ obligation C02 C02.map_to_1gib.shape_p3_huge.error_leaves_every_mapping tier=thorough bounded="pool of 7 tables (4 path + 3 allocatable); tree-shaped sparse pre-state (target path, one neighbour word per path table, garbage in allocatable frames); page-table indices (511,510,1,0)"
+    //@ obligation C02 C02.map_to_1gib.shape_p3_huge.error_adds_at_most_parent_flags tier=thorough bounded="pool of 7 tables (4 path + 3 allocatable); tree-shaped sparse pre-state (target path, one neighbour word per path table, garbage in allocatable frames); page-table indices (511,510,1,0)"
+    //@ obligation C01 C01.map_to_1gib.shape_p3_huge.result_reports_frame tier=thorough bounded="pool of 7 tables (4 path + 3 allocatable); tree-shaped sparse pre-state (target path, one neighbour word per path table, garbage in allocatable frames); page-table indices (511,510,1,0)"
+    //@ obligation C02 C02.map_to_1gib.shape_p3_huge.documented_outcome tier=thorough bounded="pool of 7 tables (4 path + 3 allocatable); tree-shaped sparse pre-state (target path, one neighbour word per path table, garbage in allocatable frames); page-table indices (511,510,1,0)"
+    //@ obligation C01 C01.map_to_1gib.shape_p3_huge.translate_agrees_after tier=thorough bounded="pool of 7 tables (4 path + 3 allocatable); tree-shaped sparse pre-state (target path, one neighbour word per path table, garbage in allocatable frames); page-table indices (511,510,1,0)"
+    //@ obligation C09 C09.map_to_1gib.shape_p3_huge.only_dictated_slots_change tier=thorough bounded="pool of 7 tables (4 path + 3 allocatable); tree-shaped sparse pre-state (target path, one neighbour word per path table, garbage in allocatable frames); page-table indices (511,510,1,0)"
+    //@ obligation C09 C09.map_to_1gib.shape_p3_huge.allocator_requests tier=thorough bounded="pool of 7 tables (4 path + 3 allocatable); tree-shaped sparse pre-state (target path, one neighbour word per path table, garbage in allocatable frames); page-table indices (511,510,1,0)"
+    //@ obligation C09 C09.map_to_1gib.shape_p3_huge.new_tables_zeroed_before_use tier=thorough bounded="pool of 7 tables (4 path + 3 allocatable); tree-shaped sparse pre-state (target path, one neighbour word per path table, garbage in allocatable frames); page-table indices (511,510,1,0)"
+    //@ obligation C09 C09.map_to_1gib.shape_p3_huge.no_dangling_table_pointer tier=thorough bounded="pool of 7 tables (4 path + 3 allocatable); tree-shaped sparse pre-state (target path, one neighbour word per path table, garbage in allocatable frames); page-table indices (511,510,1,0)"
+    //@ obligation C09 C09.map_to_1gib.shape_p3_huge.no_access_outside_page_tables tier=thorough bounded="pool of 7 tables (4 path + 3 allocatable); tree-shaped sparse pre-state (target path, one neighbour word per path table, garbage in allocatable frames); page-table indices (511,510,1,0)"
     #[kani::proof]
     #[kani::stub(PageTable::zero, zero_stub)]
     fn c01_map_to_1gib_p3_huge_hi() {
@@ -1339,15 +1418,16 @@ mod verif_c01_step_map {
         kani::cover!(true, "c01_map_to_1gib_p3_huge_hi: reachable");
     }
 
-    //@ obligation C02 C02.map_to_1gib.shape_p3_huge.error_leaves_every_mapping tier=thorough bounded="pool of 7 tables (4 path + 3 allocatable); tree-shaped sparse pre-state (target path, one neighbour word per path table, garbage in allocatable frames); page-table indices (255,511,0,1)"
-    //@ obligation C02 C02.map_to_1gib.shape_p3_huge.error_adds_at_most_parent_flags tier=thorough bounded="pool of 7 tables (4 path + 3 allocatable); tree-shaped sparse pre-state (target path, one neighbour word per path table, garbage in allocatable frames); page-table indices (255,511,0,1)"
-    //@ obligation C01 C01.map_to_1gib.shape_p3_huge.result_reports_frame tier=thorough bounded="pool of 7 tables (4 path + 3 allocatable); tree-shaped sparse pre-state (target path, one neighbour word per path table, garbage in allocatable frames); page-table indices (255,511,0,1)"
-    //@ obligation C02 C02.map_to_1gib.shape_p3_huge.documented_outcome tier=thorough bounded="pool of 7 tables (4 path + 3 allocatable); tree-shaped sparse pre-state (target path, one neighbour word per path table, garbage in allocatable frames); page-table indices (255,511,0,1)"
-    //@ obligation C01 C01.map_to_1gib.shape_p3_huge.translate_agrees_after tier=thorough bounded="pool of 7 tables (4 path + 3 allocatable); tree-shaped sparse pre-state (target path, one neighbour word per path table, garbage in allocatable frames); page-table indices (255,511,0,1)"
-    //@ obligation C09 C09.map_to_1gib.shape_p3_huge.only_dictated_slots_change tier=thorough bounded="pool of 7 tables (4 path + 3 allocatable); tree-shaped sparse pre-state (target path, one neighbour word per path table, garbage in allocatable frames); page-table indices (255,511,0,1)"
-    //@ obligation C09 C09.map_to_1gib.shape_p3_huge.allocator_requests tier=thorough bounded="pool of 7 tables (4 path + 3 allocatable); tree-shaped sparse pre-state (target path, one neighbour word per path table, garbage in allocatable frames); page-table indices (255,511,0,1)"
-    //@ obligation C09 C09.map_to_1gib.shape_p3_huge.new_tables_zeroed_before_use tier=thorough bounded="pool of 7 tables (4 path + 3 allocatable); tree-shaped sparse pre-state (target path, one neighbour word per path table, garbage in allocatable frames); page-table indices (255,511,0,1)"
-    //@ obligation C09 C09.map_to_1gib.shape_p3_huge.no_dangling_table_pointer tier=thorough bounded="pool of 7 tables (4 path + 3 allocatable); tree-shaped sparse pre-state (target path, one neighbour word per path table, garbage in allocatable frames); page-table indices (255,511,0,1)"
+    //@ obligation C02 C02.map_to_1gib.shape_p3_huge.error_leaves_every_mapping tier=thorough bounded="pool of 7 tables (4 path + 3 allocatable); tree-shaped sparse pre-state (target path, one neighbour word per path table, garbage in allocatable frames); page-table indices (255,511,0,256)"
+    //@ obligation C02 C02.map_to_1gib.shape_p3_huge.error_adds_at_most_parent_flags tier=thorough bounded="pool of 7 tables (4 path + 3 allocatable); tree-shaped sparse pre-state (target path, one neighbour word per path table, garbage in allocatable frames); page-table indices (255,511,0,256)"
+    //@ obligation C01 C01.map_to_1gib.shape_p3_huge.result_reports_frame tier=thorough bounded="pool of 7 tables (4 path + 3 allocatable); tree-shaped sparse pre-state (target path, one neighbour word per path table, garbage in allocatable frames); page-table indices (255,511,0,256)"
+    //@ obligation C02 C02.map_to_1gib.shape_p3_huge.documented_outcome tier=thorough bounded="pool of 7 tables (4 path + 3 allocatable); tree-shaped sparse pre-state (target path, one neighbour word per path table, garbage in allocatable frames); page-table indices (255,511,0,256)"
+    //@ obligation C01 C01.map_to_1gib.shape_p3_huge.translate_agrees_after tier=thorough bounded="pool of 7 tables (4 path + 3 allocatable); tree-shaped sparse pre-state (target path, one neighbour word per path table, garbage in allocatable frames); page-table indices (255,511,0,256)"
+    //@ obligation C09 C09.map_to_1gib.shape_p3_huge.only_dictated_slots_change tier=thorough bounded="pool of 7 tables (4 path + 3 allocatable); tree-shaped sparse pre-state (target path, one neighbour word per path table, garbage in allocatable frames); page-table indices (255,511,0,256)"
+    //@ obligation C09 C09.map_to_1gib.shape_p3_huge.allocator_requests tier=thorough bounded="pool of 7 tables (4 path + 3 allocatable); tree-shaped sparse pre-state (target path, one neighbour word per path table, garbage in allocatable frames); page-table indices (255,511,0,256)"
+    //@ obligation C09 C09.map_to_1gib.shape_p3_huge.new_tables_zeroed_before_use tier=thorough bounded="pool of 7 tables (4 path + 3 allocatable); tree-shaped sparse pre-state (target path, one neighbour word per path table, garbage in allocatable frames); page-table indices (255,511,0,256)"
+    //@ obligation C09 C09.map_to_1gib.shape_p3_huge.no_dangling_table_pointer tier=thorough bounded="pool of 7 tables (4 path + 3 allocatable); tree-shaped sparse pre-state (target path, one neighbour word per path table, garbage in allocatable frames); page-table indices (255,511,0,256)"
+    //@ obligation C09 C09.map_to_1gib.shape_p3_huge.no_access_outside_page_tables tier=thorough bounded="pool of 7 tables (4 path + 3 allocatable); tree-shaped sparse pre-state (target path, one neighbour word per path table, garbage in allocatable frames); page-table indices (255,511,0,256)"
     #[kani::proof]
     #[kani::stub(PageTable::zero, zero_stub)]
     fn c01_map_to_1gib_p3_huge_mid() {
@@ -1355,15 +1435,16 @@ mod verif_c01_step_map {
         kani::cover!(true, "c01_map_to_1gib_p3_huge_mid: reachable");
     }
 
-    //@ obligation C02 C02.map_to_1gib.shape_p3_huge.error_leaves_every_mapping tier=thorough bounded="pool of 7 tables (4 path + 3 allocatable); tree-shaped sparse pre-state (target path, one neighbour word per path table, garbage in allocatable frames); page-table indices (256,1,510,255)"
-    //@ obligation C02 C02.map_to_1gib.shape_p3_huge.error_adds_at_most_parent_flags tier=thorough bounded="pool of 7 tables (4 path + 3 allocatable); tree-shaped sparse pre-state (target path, one neighbour word per path table, garbage in allocatable frames); page-table indices (256,1,510,255)"
-    //@ obligation C01 C01.map_to_1gib.shape_p3_huge.result_reports_frame tier=thorough bounded="pool of 7 tables (4 path + 3 allocatable); tree-shaped sparse pre-state (target path, one neighbour word per path table, garbage in allocatable frames); page-table indices (256,1,510,255)"
-    //@ obligation C02 C02.map_to_1gib.shape_p3_huge.documented_outcome tier=thorough bounded="pool of 7 tables (4 path + 3 allocatable); tree-shaped sparse pre-state (target path, one neighbour word per path table, garbage in allocatable frames); page-table indices (256,1,510,255)"
-    //@ obligation C01 C01.map_to_1gib.shape_p3_huge.translate_agrees_after tier=thorough bounded="pool of 7 tables (4 path + 3 allocatable); tree-shaped sparse pre-state (target path, one neighbour word per path table, garbage in allocatable frames); page-table indices (256,1,510,255)"
-    //@ obligation C09 C09.map_to_1gib.shape_p3_huge.only_dictated_slots_change tier=thorough bounded="pool of 7 tables (4 path + 3 allocatable); tree-shaped sparse pre-state (target path, one neighbour word per path table, garbage in allocatable frames); page-table indices (256,1,510,255)"
-    //@ obligation C09 C09.map_to_1gib.shape_p3_huge.allocator_requests tier=thorough bounded="pool of 7 tables (4 path + 3 allocatable); tree-shaped sparse pre-state (target path, one neighbour word per path table, garbage in allocatable frames); page-table indices (256,1,510,255)"
-    //@ obligation C09 C09.map_to_1gib.shape_p3_huge.new_tables_zeroed_before_use tier=thorough bounded="pool of 7 tables (4 path + 3 allocatable); tree-shaped sparse pre-state (target path, one neighbour word per path table, garbage in allocatable frames); page-table indices (256,1,510,255)"
-    //@ obligation C09 C09.map_to_1gib.shape_p3_huge.no_dangling_table_pointer tier=thorough bounded="pool of 7 tables (4 path + 3 allocatable); tree-shaped sparse pre-state (target path, one neighbour word per path table, garbage in allocatable frames); page-table indices (256,1,510,255)"
+    //@ obligation C02 C02.map_to_1gib.shape_p3_huge.error_leaves_every_mapping tier=thorough bounded="pool of 7 tables (4 path + 3 allocatable); tree-shaped sparse pre-state (target path, one neighbour word per path table, garbage in allocatable frames); page-table indices (256,0,510,511)"
+    //@ obligation C02 C02.map_to_1gib.shape_p3_huge.error_adds_at_most_parent_flags tier=thorough bounded="pool of 7 tables (4 path + 3 allocatable); tree-shaped sparse pre-state (target path, one neighbour word per path table, garbage in allocatable frames); page-table indices (256,0,510,511)"
+    //@ obligation C01 C01.map_to_1gib.shape_p3_huge.result_reports_frame tier=thorough bounded="pool of 7 tables (4 path + 3 allocatable); tree-shaped sparse pre-state (target path, one neighbour word per path table, garbage in allocatable frames); page-table indices (256,0,510,511)"
+    //@ obligation C02 C02.map_to_1gib.shape_p3_huge.documented_outcome tier=thorough bounded="pool of 7 tables (4 path + 3 allocatable); tree-shaped sparse pre-state (target path, one neighbour word per path table, garbage in allocatable frames); page-table indices (256,0,510,511)"
+    //@ obligation C01 C01.map_to_1gib.shape_p3_huge.translate_agrees_after tier=thorough bounded="pool of 7 tables (4 path + 3 allocatable); tree-shaped sparse pre-state (target path, one neighbour word per path table, garbage in allocatable frames); page-table indices (256,0,510,511)"
+    //@ obligation C09 C09.map_to_1gib.shape_p3_huge.only_dictated_slots_change tier=thorough bounded="pool of 7 tables (4 path + 3 allocatable); tree-shaped sparse pre-state (target path, one neighbour word per path table, garbage in allocatable frames); page-table indices (256,0,510,511)"
+    //@ obligation C09 C09.map_to_1gib.shape_p3_huge.allocator_requests tier=thorough bounded="pool of 7 tables (4 path + 3 allocatable); tree-shaped sparse pre-state (target path, one neighbour word per path table, garbage in allocatable frames); page-table indices (256,0,510,511)"
+    //@ obligation C09 C09.map_to_1gib.shape_p3_huge.new_tables_zeroed_before_use tier=thorough bounded="pool of 7 tables (4 path + 3 allocatable); tree-shaped sparse pre-state (target path, one neighbour word per path table, garbage in allocatable frames); page-table indices (256,0,510,511)"
+    //@ obligation C09 C09.map_to_1gib.shape_p3_huge.no_dangling_table_pointer tier=thorough bounded="pool of 7 tables (4 path + 3 allocatable); tree-shaped sparse pre-state (target path, one neighbour word per path table, garbage in allocatable frames); page-table indices (256,0,510,511)"
+    //@ obligation C09 C09.map_to_1gib.shape_p3_huge.no_access_outside_page_tables tier=thorough bounded="pool of 7 tables (4 path + 3 allocatable); tree-shaped sparse pre-state (target path, one neighbour word per path table, garbage in allocatable frames); page-table indices (256,0,510,511)"
     #[kani::proof]
     #[kani::stub(PageTable::zero, zero_stub)]
     fn c01_map_to_1gib_p3_huge_up() {
@@ -1371,15 +1452,16 @@ mod verif_c01_step_map {
         kani::cover!(true, "c01_map_to_1gib_p3_huge_up: reachable");
     }
 
-    //@ obligation C02 C02.map_to_1gib.shape_p3_table.error_leaves_every_mapping tier=thorough bounded="pool of 7 tables (4 path + 3 allocatable); tree-shaped sparse pre-state (target path, one neighbour word per path table, garbage in allocatable frames); page-table indices (0,0,0,0)"
-    //@ obligation C02 C02.map_to_1gib.shape_p3_table.error_adds_at_most_parent_flags tier=thorough bounded="pool of 7 tables (4 path + 3 allocatable); tree-shaped sparse pre-state (target path, one neighbour word per path table, garbage in allocatable frames); page-table indices (0,0,0,0)"
-    //@ obligation C01 C01.map_to_1gib.shape_p3_table.result_reports_frame tier=thorough bounded="pool of 7 tables (4 path + 3 allocatable); tree-shaped sparse pre-state (target path, one neighbour word per path table, garbage in allocatable frames); page-table indices (0,0,0,0)"
-    //@ obligation C02 C02.map_to_1gib.shape_p3_table.documented_outcome tier=thorough bounded="pool of 7 tables (4 path + 3 allocatable); tree-shaped sparse pre-state (target path, one neighbour word per path table, garbage in allocatable frames); page-table indices (0,0,0,0)"
-    //@ obligation C01 C01.map_to_1gib.shape_p3_table.translate_agrees_after tier=thorough bounded="pool of 7 tables (4 path + 3 allocatable); tree-shaped sparse pre-state (target path, one neighbour word per path table, garbage in allocatable frames); page-table indices (0,0,0,0)"
-    //@ obligation C09 C09.map_to_1gib.shape_p3_table.only_dictated_slots_change tier=thorough bounded="pool of 7 tables (4 path + 3 allocatable); tree-shaped sparse pre-state (target path, one neighbour word per path table, garbage in allocatable frames); page-table indices (0,0,0,0)"
-    //@ obligation C09 C09.map_to_1gib.shape_p3_table.allocator_requests tier=thorough bounded="pool of 7 tables (4 path + 3 allocatable); tree-shaped sparse pre-state (target path, one neighbour word per path table, garbage in allocatable frames); page-table indices (0,0,0,0)"
-    //@ obligation C09 C09.map_to_1gib.shape_p3_table.new_tables_zeroed_before_use tier=thorough bounded="pool of 7 tables (4 path + 3 allocatable); tree-shaped sparse pre-state (target path, one neighbour word per path table, garbage in allocatable frames); page-table indices (0,0,0,0)"
-    //@ obligation C09 C09.map_to_1gib.shape_p3_table.no_dangling_table_pointer tier=thorough bounded="pool of 7 tables (4 path + 3 allocatable); tree-shaped sparse pre-state (target path, one neighbour word per path table, garbage in allocatable frames); page-table indices (0,0,0,0)"
+    //@ obligation C02 C02.map_to_1gib.shape_p3_table.error_leaves_every_mapping tier=thorough bounded="pool of 7 tables (4 path + 3 allocatable); tree-shaped sparse pre-state (target path, one neighbour word per path table, garbage in allocatable frames); page-table indices (0,1,511,2)"
+    //@ obligation C02 C02.map_to_1gib.shape_p3_table.error_adds_at_most_parent_flags tier=thorough bounded="pool of 7 tables (4 path + 3 allocatable); tree-shaped sparse pre-state (target path, one neighbour word per path table, garbage in allocatable frames); page-table indices (0,1,511,2)"
+    //@ obligation C01 C01.map_to_1gib.shape_p3_table.result_reports_frame tier=thorough bounded="pool of 7 tables (4 path + 3 allocatable); tree-shaped sparse pre-state (target path, one neighbour word per path table, garbage in allocatable frames); page-table indices (0,1,511,2)"
+    //@ obligation C02 C02.map_to_1gib.shape_p3_table.documented_outcome tier=thorough bounded="pool of 7 tables (4 path + 3 allocatable); tree-shaped sparse pre-state (target path, one neighbour word per path table, garbage in allocatable frames); page-table indices (0,1,511,2)"
+    //@ obligation C01 C01.map_to_1gib.shape_p3_table.translate_agrees_after tier=thorough bounded="pool of 7 tables (4 path + 3 allocatable); tree-shaped sparse pre-state (target path, one neighbour word per path table, garbage in allocatable frames); page-table indices (0,1,511,2)"
+    //@ obligation C09 C09.map_to_1gib.shape_p3_table.only_dictated_slots_change tier=thorough bounded="pool of 7 tables (4 path + 3 allocatable); tree-shaped sparse pre-state (target path, one neighbour word per path table, garbage in allocatable frames); page-table indices (0,1,511,2)"
+    //@ obligation C09 C09.map_to_1gib.shape_p3_table.allocator_requests tier=thorough bounded="pool of 7 tables (4 path + 3 allocatable); tree-shaped sparse pre-state (target path, one neighbour word per path table, garbage in allocatable frames); page-table indices (0,1,511,2)"
+    //@ obligation C09 C09.map_to_1gib.shape_p3_table.new_tables_zeroed_before_use tier=thorough bounded="pool of 7 tables (4 path + 3 allocatable); tree-shaped sparse pre-state (target path, one neighbour word per path table, garbage in allocatable frames); page-table indices (0,1,511,2)"
+    //@ obligation C09 C09.map_to_1gib.shape_p3_table.no_dangling_table_pointer tier=thorough bounded="pool of 7 tables (4 path + 3 allocatable); tree-shaped sparse pre-state (target path, one neighbour word per path table, garbage in allocatable frames); page-table indices (0,1,511,2)"
+    //@ obligation C09 C09.map_to_1gib.shape_p3_table.no_access_outside_page_tables tier=thorough bounded="pool of 7 tables (4 path + 3 allocatable); tree-shaped sparse pre-state (target path, one neighbour word per path table, garbage in allocatable frames); page-table indices (0,1,511,2)"
     #[kani::proof]
     #[kani::stub(PageTable::zero, zero_stub)]
     fn c01_map_to_1gib_p3_table_lo() {
@@ -1387,15 +1469,16 @@ mod verif_c01_step_map {
         kani::cover!(true, "c01_map_to_1gib_p3_table_lo: reachable");
     }
 
-    //@ obligation C02 C02.map_to_1gib.shape_p3_table.error_leaves_every_mapping tier=thorough bounded="pool of 7 tables (4 path + 3 allocatable); tree-shaped sparse pre-state (target path, one neighbour word per path table, garbage in allocatable frames); page-table indices (511,511,511,511)"
-    //@ obligation C02 C02.map_to_1gib.shape_p3_table.error_adds_at_most_parent_flags tier=thorough bounded="pool of 7 tables (4 path + 3 allocatable); tree-shaped sparse pre-state (target path, one neighbour word per path table, garbage in allocatable frames); page-table indices (511,511,511,511)"
-    //@ obligation C01 C01.map_to_1gib.shape_p3_table.result_reports_frame tier=thorough bounded="pool of 7 tables (4 path + 3 allocatable); tree-shaped sparse pre-state (target path, one neighbour word per path table, garbage in allocatable frames); page-table indices (511,511,511,511)"
-    //@ obligation C02 C02.map_to_1gib.shape_p3_table.documented_outcome tier=thorough bounded="pool of 7 tables (4 path + 3 allocatable); tree-shaped sparse pre-state (target path, one neighbour word per path table, garbage in allocatable frames); page-table indices (511,511,511,511)"
-    //@ obligation C01 C01.map_to_1gib.shape_p3_table.translate_agrees_after tier=thorough bounded="pool of 7 tables (4 path + 3 allocatable); tree-shaped sparse pre-state (target path, one neighbour word per path table, garbage in allocatable frames); page-table indices (511,511,511,511)"
-    //@ obligation C09 C09.map_to_1gib.shape_p3_table.only_dictated_slots_change tier=thorough bounded="pool of 7 tables (4 path + 3 allocatable); tree-shaped sparse pre-state (target path, one neighbour word per path table, garbage in allocatable frames); page-table indices (511,511,511,511)"
-    //@ obligation C09 C09.map_to_1gib.shape_p3_table.allocator_requests tier=thorough bounded="pool of 7 tables (4 path + 3 allocatable); tree-shaped sparse pre-state (target path, one neighbour word per path table, garbage in allocatable frames); page-table indices (511,511,511,511)"
-    //@ obligation C09 C09.map_to_1gib.shape_p3_table.new_tables_zeroed_before_use tier=thorough bounded="pool of 7 tables (4 path + 3 allocatable); tree-shaped sparse pre-state (target path, one neighbour word per path table, garbage in allocatable frames); page-table indices (511,511,511,511)"
-    //@ obligation C09 C09.map_to_1gib.shape_p3_table.no_dangling_table_pointer tier=thorough bounded="pool of 7 tables (4 path + 3 allocatable); tree-shaped sparse pre-state (target path, one neighbour word per path table, garbage in allocatable frames); page-table indices (511,511,511,511)"
+    //@ obligation C02 C02.map_to_1gib.shape_p3_table.error_leaves_every_mapping tier=thorough bounded="pool of 7 tables (4 path + 3 allocatable); tree-shaped sparse pre-state (target path, one neighbour word per path table, garbage in allocatable frames); page-table indices (511,510,1,0)"
+    //@ obligation C02 C02.map_to_1gib.shape_p3_table.error_adds_at_most_parent_flags tier=thorough bounded="pool of 7 tables (4 path + 3 allocatable); tree-shaped sparse pre-state (target path, one neighbour word per path table, garbage in allocatable frames); page-table indices (511,510,1,0)"
+    //@ obligation C01 C01.map_to_1gib.shape_p3_table.result_reports_frame tier=thorough bounded="pool of 7 tables (4 path + 3 allocatable); tree-shaped sparse pre-state (target path, one neighbour word per path table, garbage in allocatable frames); page-table indices (511,510,1,0)"
+    //@ obligation C02 C02.map_to_1gib.shape_p3_table.documented_outcome tier=thorough bounded="pool of 7 tables (4 path + 3 allocatable); tree-shaped sparse pre-state (target path, one neighbour word per path table, garbage in allocatable frames); page-table indices (511,510,1,0)"
+    //@ obligation C01 C01.map_to_1gib.shape_p3_table.translate_agrees_after tier=thorough bounded="pool of 7 tables (4 path + 3 allocatable); tree-shaped sparse pre-state (target path, one neighbour word per path table, garbage in allocatable frames); page-table indices (511,510,1,0)"
+    //@ obligation C09 C09.map_to_1gib.shape_p3_table.only_dictated_slots_change tier=thorough bounded="pool of 7 tables (4 path + 3 allocatable); tree-shaped sparse pre-state (target path, one neighbour word per path table, garbage in allocatable frames); page-table indices (511,510,1,0)"
+    //@ obligation C09 C09.map_to_1gib.shape_p3_table.allocator_requests tier=thorough bounded="pool of 7 tables (4 path + 3 allocatable); tree-shaped sparse pre-state (target path, one neighbour word per path table, garbage in allocatable frames); page-table indices (511,510,1,0)"
+    //@ obligation C09 C09.map_to_1gib.shape_p3_table.new_tables_zeroed_before_use tier=thorough bounded="pool of 7 tables (4 path + 3 allocatable); tree-shaped sparse pre-state (target path, one neighbour word per path table, garbage in allocatable frames); page-table indices (511,510,1,0)"
+    //@ obligation C09 C09.map_to_1gib.shape_p3_table.no_dangling_table_pointer tier=thorough bounded="pool of 7 tables (4 path + 3 allocatable); tree-shaped sparse pre-state (target path, one neighbour word per path table, garbage in allocatable frames); page-table indices (511,510,1,0)"
+    //@ obligation C09 C09.map_to_1gib.shape_p3_table.no_access_outside_page_tables tier=thorough bounded="pool of 7 tables (4 path + 3 allocatable); tree-shaped sparse pre-state (target path, one neighbour word per path table, garbage in allocatable frames); page-table indices (511,510,1,0)"
     #[kani::proof]
     #[kani::stub(PageTable::zero, zero_stub)]
     fn c01_map_to_1gib_p3_table_hi() {
@@ -1403,15 +1486,16 @@ mod verif_c01_step_map {
         kani::cover!(true, "c01_map_to_1gib_p3_table_hi: reachable");
     }
 
-    //@ obligation C02 C02.map_to_1gib.shape_p3_table.error_leaves_every_mapping tier=thorough bounded="pool of 7 tables (4 path + 3 allocatable); tree-shaped sparse pre-state (target path, one neighbour word per path table, garbage in allocatable frames); page-table indices (255,511,0,1)"
-    //@ obligation C02 C02.map_to_1gib.shape_p3_table.error_adds_at_most_parent_flags tier=thorough bounded="pool of 7 tables (4 path + 3 allocatable); tree-shaped sparse pre-state (target path, one neighbour word per path table, garbage in allocatable frames); page-table indices (255,511,0,1)"
-    //@ obligation C01 C01.map_to_1gib.shape_p3_table.result_reports_frame tier=thorough bounded="pool of 7 tables (4 path + 3 allocatable); tree-shaped sparse pre-state (target path, one neighbour word per path table, garbage in allocatable frames); page-table indices (255,511,0,1)"
-    //@ obligation C02 C02.map_to_1gib.shape_p3_table.documented_outcome tier=thorough bounded="pool of 7 tables (4 path + 3 allocatable); tree-shaped sparse pre-state (target path, one neighbour word per path table, garbage in allocatable frames); page-table indices (255,511,0,1)"
-    //@ obligation C01 C01.map_to_1gib.shape_p3_table.translate_agrees_after tier=thorough bounded="pool of 7 tables (4 path + 3 allocatable); tree-shaped sparse pre-state (target path, one neighbour word per path table, garbage in allocatable frames); page-table indices (255,511,0,1)"
-    //@ obligation C09 C09.map_to_1gib.shape_p3_table.only_dictated_slots_change tier=thorough bounded="pool of 7 tables (4 path + 3 allocatable); tree-shaped sparse pre-state (target path, one neighbour word per path table, garbage in allocatable frames); page-table indices (255,511,0,1)"
-    //@ obligation C09 C09.map_to_1gib.shape_p3_table.allocator_requests tier=thorough bounded="pool of 7 tables (4 path + 3 allocatable); tree-shaped sparse pre-state (target path, one neighbour word per path table, garbage in allocatable frames); page-table indices (255,511,0,1)"
-    //@ obligation C09 C09.map_to_1gib.shape_p3_table.new_tables_zeroed_before_use tier=thorough bounded="pool of 7 tables (4 path + 3 allocatable); tree-shaped sparse pre-state (target path, one neighbour word per path table, garbage in allocatable frames); page-table indices (255,511,0,1)"
-    //@ obligation C09 C09.map_to_1gib.shape_p3_table.no_dangling_table_pointer tier=thorough bounded="pool of 7 tables (4 path + 3 allocatable); tree-shaped sparse pre-state (target path, one neighbour word per path table, garbage in allocatable frames); page-table indices (255,511,0,1)"
+    //@ obligation C02 C02.map_to_1gib.shape_p3_table.error_leaves_every_mapping tier=thorough bounded="pool of 7 tables (4 path + 3 allocatable); tree-shaped sparse pre-state (target path, one neighbour word per path table, garbage in allocatable frames); page-table indices (255,511,0,256)"
+    //@ obligation C02 C02.map_to_1gib.shape_p3_table.error_adds_at_most_parent_flags tier=thorough bounded="pool of 7 tables (4 path + 3 allocatable); tree-shaped sparse pre-state (target path, one neighbour word per path table, garbage in allocatable frames); page-table indices (255,511,0,256)"
+    //@ obligation C01 C01.map_to_1gib.shape_p3_table.result_reports_frame tier=thorough bounded="pool of 7 tables (4 path + 3 allocatable); tree-shaped sparse pre-state (target path, one neighbour word per path table, garbage in allocatable frames); page-table indices (255,511,0,256)"
+    //@ obligation C02 C02.map_to_1gib.shape_p3_table.documented_outcome tier=thorough bounded="pool of 7 tables (4 path + 3 allocatable); tree-shaped sparse pre-state (target path, one neighbour word per path table, garbage in allocatable frames); page-table indices (255,511,0,256)"
+    //@ obligation C01 C01.map_to_1gib.shape_p3_table.translate_agrees_after tier=thorough bounded="pool of 7 tables (4 path + 3 allocatable); tree-shaped sparse pre-state (target path, one neighbour word per path table, garbage in allocatable frames); page-table indices (255,511,0,256)"
+    //@ obligation C09 C09.map_to_1gib.shape_p3_table.only_dictated_slots_change tier=thorough bounded="pool of 7 tables (4 path + 3 allocatable); tree-shaped sparse pre-state (target path, one neighbour word per path table, garbage in allocatable frames); page-table indices (255,511,0,256)"
+    //@ obligation C09 C09.map_to_1gib.shape_p3_table.allocator_requests tier=thorough bounded="pool of 7 tables (4 path + 3 allocatable); tree-shaped sparse pre-state (target path, one neighbour word per path table, garbage in allocatable frames); page-table indices (255,511,0,256)"
+    //@ obligation C09 C09.map_to_1gib.shape_p3_table.new_tables_zeroed_before_use tier=thorough bounded="pool of 7 tables (4 path + 3 allocatable); tree-shaped sparse pre-state (target path, one neighbour word per path table, garbage in allocatable frames); page-table indices (255,511,0,256)"
+    //@ obligation C09 C09.map_to_1gib.shape_p3_table.no_dangling_table_pointer tier=thorough bounded="pool of 7 tables (4 path + 3 allocatable); tree-shaped sparse pre-state (target path, one neighbour word per path table, garbage in allocatable frames); page-table indices (255,511,0,256)"
+    //@ obligation C09 C09.map_to_1gib.shape_p3_table.no_access_outside_page_tables tier=thorough bounded="pool of 7 tables (4 path + 3 allocatable); tree-shaped sparse pre-state (target path, one neighbour word per path table, garbage in allocatable frames); page-table indices (255,511,0,256)"
     #[kani::proof]
     #[kani::stub(PageTable::zero, zero_stub)]
     fn c01_map_to_1gib_p3_table_mid() {
@@ -1419,15 +1503,16 @@ mod verif_c01_step_map {
         kani::cover!(true, "c01_map_to_1gib_p3_table_mid: reachable");
     }
 
-    //@ obligation C02 C02.map_to_1gib.shape_p3_table.error_leaves_every_mapping tier=thorough bounded="pool of 7 tables (4 path + 3 allocatable); tree-shaped sparse pre-state (target path, one neighbour word per path table, garbage in allocatable frames); page-table indices (256,1,510,255)"
-    //@ obligation C02 C02.map_to_1gib.shape_p3_table.error_adds_at_most_parent_flags tier=thorough bounded="pool of 7 tables (4 path + 3 allocatable); tree-shaped sparse pre-state (target path, one neighbour word per path table, garbage in allocatable frames); page-table indices (256,1,510,255)"
-    //@ obligation C01 C01.map_to_1gib.shape_p3_table.result_reports_frame tier=thorough bounded="pool of 7 tables (4 path + 3 allocatable); tree-shaped sparse pre-state (target path, one neighbour word per path table, garbage in allocatable frames); page-table indices (256,1,510,255)"
-    //@ obligation C02 C02.map_to_1gib.shape_p3_table.documented_outcome tier=thorough bounded="pool of 7 tables (4 path + 3 allocatable); tree-shaped sparse pre-state (target path, one neighbour word per path table, garbage in allocatable frames); page-table indices (256,1,510,255)"
-    //@ obligation C01 C01.map_to_1gib.shape_p3_table.translate_agrees_after tier=thorough bounded="pool of 7 tables (4 path + 3 allocatable); tree-shaped sparse pre-state (target path, one neighbour word per path table, garbage in allocatable frames); page-table indices (256,1,510,255)"
-    //@ obligation C09 C09.map_to_1gib.shape_p3_table.only_dictated_slots_change tier=thorough bounded="pool of 7 tables (4 path + 3 allocatable); tree-shaped sparse pre-state (target path, one neighbour word per path table, garbage in allocatable frames); page-table indices (256,1,510,255)"
-    //@ obligation C09 C09.map_to_1gib.shape_p3_table.allocator_requests tier=thorough bounded="pool of 7 tables (4 path + 3 allocatable); tree-shaped sparse pre-state (target path, one neighbour word per path table, garbage in allocatable frames); page-table indices (256,1,510,255)"
-    //@ obligation C09 C09.map_to_1gib.shape_p3_table.new_tables_zeroed_before_use tier=thorough bounded="pool of 7 tables (4 path + 3 allocatable); tree-shaped sparse pre-state (target path, one neighbour word per path table, garbage in allocatable frames); page-table indices (256,1,510,255)"
-    //@ obligation C09 C09.map_to_1gib.shape_p3_table.no_dangling_table_pointer tier=thorough bounded="pool of 7 tables (4 path + 3 allocatable); tree-shaped sparse pre-state (target path, one neighbour word per path table, garbage in allocatable frames); page-table indices (256,1,510,255)"
+    //@ obligation C02 C02.map_to_1gib.shape_p3_table.error_leaves_every_mapping tier=thorough bounded="pool of 7 tables (4 path + 3 allocatable); tree-shaped sparse pre-state (target path, one neighbour word per path table, garbage in allocatable frames); page-table indices (256,0,510,511)"
+    //@ obligation C02 C02.map_to_1gib.shape_p3_table.error_adds_at_most_parent_flags tier=thorough bounded="pool of 7 tables (4 path + 3 allocatable); tree-shaped sparse pre-state (target path, one neighbour word per path table, garbage in allocatable frames); page-table indices (256,0,510,511)"
+    //@ obligation C01 C01.map_to_1gib.shape_p3_table.result_reports_frame tier=thorough bounded="pool of 7 tables (4 path + 3 allocatable); tree-shaped sparse pre-state (target path, one neighbour word per path table, garbage in allocatable frames); page-table indices (256,0,510,511)"
+    //@ obligation C02 C02.map_to_1gib.shape_p3_table.documented_outcome tier=thorough bounded="pool of 7 tables (4 path + 3 allocatable); tree-shaped sparse pre-state (target path, one neighbour word per path table, garbage in allocatable frames); page-table indices (256,0,510,511)"
+    //@ obligation C01 C01.map_to_1gib.shape_p3_table.translate_agrees_after tier=thorough bounded="pool of 7 tables (4 path + 3 allocatable); tree-shaped sparse pre-state (target path, one neighbour word per path table, garbage in allocatable frames); page-table indices (256,0,510,511)"
+    //@ obligation C09 C09.map_to_1gib.shape_p3_table.only_dictated_slots_change tier=thorough bounded="pool of 7 tables (4 path + 3 allocatable); tree-shaped sparse pre-state (target path, one neighbour word per path table, garbage in allocatable frames); page-table indices (256,0,510,511)"
+    //@ obligation C09 C09.map_to_1gib.shape_p3_table.allocator_requests tier=thorough bounded="pool of 7 tables (4 path + 3 allocatable); tree-shaped sparse pre-state (target path, one neighbour word per path table, garbage in allocatable frames); page-table indices (256,0,510,511)"
+    //@ obligation C09 C09.map_to_1gib.shape_p3_table.new_tables_zeroed_before_use tier=thorough bounded="pool of 7 tables (4 path + 3 allocatable); tree-shaped sparse pre-state (target path, one neighbour word per path table, garbage in allocatable frames); page-table indices (256,0,510,511)"
+    //@ obligation C09 C09.map_to_1gib.shape_p3_table.no_dangling_table_pointer tier=thorough bounded="pool of 7 tables (4 path + 3 allocatable); tree-shaped sparse pre-state (target path, one neighbour word per path table, garbage in allocatable frames); page-table indices (256,0,510,511)"
+    //@ obligation C09 C09.map_to_1gib.shape_p3_table.no_access_outside_page_tables tier=thorough bounded="pool of 7 tables (4 path + 3 allocatable); tree-shaped sparse pre-state (target path, one neighbour word per path table, garbage in allocatable frames); page-table indices (256,0,510,511)"
     #[kani::proof]
     #[kani::stub(PageTable::zero, zero_stub)]
     fn c01_map_to_1gib_p3_table_up() {
